@@ -1,5 +1,21 @@
 (* CacheSearch.v — C09, search level: the SEQUENTIAL solver with the threshold cache ON returns the optimum.
-   (see the summary comment at the end of the file for the list of results and what is assumed where) *)
+
+   Part I   (sections 1-5)   the solver: invariant of the search (value-based: Wit / ComplC / CacheInv), the solver theorem
+                             from the per-compilation contracts KC0..KCW (seq_cache_solver_correct), an executable audit of
+                             the invariant and of the contracts' conclusions, the packaged contracts KC_struct / KC_cache,
+                             C09_from_contracts.
+   Part II  (sections 6-12)  the contracts for Mdd.compile started from ANY cache with a layer per depth:
+                             progress (KC_struct_holds), the loop invariant with nodes dropped by the cache (TIc / FSc),
+                             the static argument on the finished diagram (GA / GB with runs lost to old entries, CaptD, SafeAt,
+                             CacheOKg, theta_fold_soundC, run_cases, ub_cases), its instantiation (the PC_ lemmas), the bridge to
+                             compile (bridgeC, C_root_run, C_ub_run, C_cache_run, C_exact_best), and the twin
+                             "a restricted compilation that never restricts is the relaxed one" (restricted_exact_twin).
+   Part III (sections 13-16) KC_cache_holds, C09_sequential_cache_optimal, C09_cache_does_not_change_the_answer,
+                             the table family (C09_table_instances) and an instance on which the cache prunes (the c9_ examples).
+
+   Hypotheses of C09_sequential_cache_optimal = those of Assembly.C01_sequential_optimal with sc_use_cache cfg = true and the
+   arithmetic guard strengthened from 2*B <= IMAX to 3*B <= IMAX (a threshold below IMIN + 2B says nothing; the state of a
+   cache entry is reached by a feasible run of value >= -B, which bounds a critical threshold from below by -B). *)
 Require Import DDO.Base DDO.Fringe DDO.DP DDO.Cache DDO.Dom DDO.Mdd DDO.MddStruct DDO.MddExact DDO.Solver DDO.SolverProofs.
 Require Import DDO.MddProgress DDO.MddSim DDO.Assembly DDO.Table DDO.Run DDO.TableWf DDO.Thresholds.
 From Coq Require Import Lia List Arith ZArith Bool Permutation.
@@ -1079,3 +1095,5173 @@ End FromContracts.
 
 Check @C09_from_contracts.
 Print Assumptions C09_from_contracts.
+
+Local Open Scope Z_scope.
+
+(* ================================================================== 5. structural facts about a compilation started from ANY cache *)
+Local Open Scope nat_scope.
+
+Local Ltac msimpl :=
+  cbn [m_nodes m_edges m_layers m_layer_end m_next m_curr_depth m_path m_lel m_cutset m_best
+       m_best_exact m_is_exact m_has_ebp m_cache m_dom m_log m_polls m_crash
+       with_nodes upd_node add_log set_crash with_next with_cache with_dom with_lel_exact
+       push_layer with_depth with_polls with_best with_cutset append_edge].
+Local Ltac msimpl_in H :=
+  cbn [m_nodes m_edges m_layers m_layer_end m_next m_curr_depth m_path m_lel m_cutset m_best
+       m_best_exact m_is_exact m_has_ebp m_cache m_dom m_log m_polls m_crash
+       with_nodes upd_node add_log set_crash with_next with_cache with_dom with_lel_exact
+       push_layer with_depth with_polls with_best with_cutset append_edge] in H.
+Local Ltac nsimpl :=
+  cbn [n_state n_vtop n_vbot n_best n_inb n_rub n_theta n_flags n_depth
+       set_flags set_theta set_vbot set_rub set_depth
+       f_exact f_relaxed f_marked f_cutset f_deleted f_cache f_above
+       fl_set_exact fl_set_relaxed fl_set_marked fl_set_cutset fl_set_deleted fl_set_cache fl_set_above
+       fl_new_exact fl_new_relaxed e_from e_to e_dec e_cost].
+Local Ltac nsimpl_in H :=
+  cbn [n_state n_vtop n_vbot n_best n_inb n_rub n_theta n_flags n_depth
+       set_flags set_theta set_vbot set_rub set_depth
+       f_exact f_relaxed f_marked f_cutset f_deleted f_cache f_above
+       fl_set_exact fl_set_relaxed fl_set_marked fl_set_cutset fl_set_deleted fl_set_cache fl_set_above
+       fl_new_exact fl_new_relaxed e_from e_to e_dec e_cost] in H.
+
+Section ProgressC.
+  Context {St : Type}.
+  Variable st_eqb : St -> St -> bool.
+  Hypothesis st_eqb_spec : forall a b, st_eqb a b = true <-> a = b.
+  Variable inp : @cinput St.
+
+  Notation mdd := (@mdd St).
+  Notation node := (@node St).
+  Notation gn := (get_node inp).
+  Notation pb := (ci_problem inp).
+  Notation root := (ci_root inp).
+  Notation N := (nb_vars (ci_problem inp)).
+  Notation d0 := (sp_depth (ci_root inp)).
+  Notation W := (ci_width inp).
+  Notation Pinv := (MddProgress.Pinv inp).
+  Notation keep := (MddProgress.keep inp).
+  Notation PLinv := (MddProgress.Linv inp).
+  Notation PMinv := (MddProgress.Minv inp).
+  Notation PPost := (MddProgress.Post inp).
+  Notation Finv := (MddProgress.Finv inp).
+
+  Hypothesis Hclean : ci_flavour inp = CleanLEL \/ ci_flavour inp = CleanFC.
+  Hypothesis Hnodom : ci_domrule inp = None.
+  Hypothesis Hnocut : ci_cutoff inp = 0.
+  Hypothesis Hwidth : 1 <= ci_width inp.
+  Hypothesis nv_some : forall k l, k < N -> exists x, next_variable pb k l = Some x.
+  Hypothesis nv_none : forall k l, N <= k -> next_variable pb k l = None.
+  Hypothesis Hroot_depth : d0 <= N.
+
+  (* ---------------------------------------------------------------- the cache filter: frame, crash flag, what it does to the nodes *)
+  Lemma cache_get_facts (m : mdd) s d :
+    m_nodes (fst (cache_get st_eqb inp m s d)) = m_nodes m /\
+    m_cache (fst (cache_get st_eqb inp m s d)) = m_cache m /\
+    (d < length (m_cache m) -> m_crash (fst (cache_get st_eqb inp m s d)) = m_crash m) /\
+    (forall th, snd (cache_get st_eqb inp m s d) = Some th ->
+       ci_use_cache inp = true /\ cget st_eqb (m_cache m) s d = Some th).
+  Proof.
+    unfold cache_get. destruct (ci_use_cache inp); [|cbn [fst snd]; repeat split; auto; intros; discriminate].
+    cbn [m_cache add_log]. unfold get_threshold, cget.
+    destruct (nth_error (m_cache m) d) as [l|] eqn:E; cbn [fst snd].
+    - repeat split; auto.
+    - split; [reflexivity|]. split; [reflexivity|]. split; [|intros; discriminate].
+      intros Hlt. apply nth_error_None in E. lia.
+  Qed.
+
+  Lemma gn_depth_upd_theta_flags (m : mdd) id (f : node -> node) x :
+    (forall n, n_depth (f n) = n_depth n) -> n_depth (gn (upd_node m id f) x) = n_depth (gn m x).
+  Proof. intros Hf. apply (get_node_upd_node_proj inp (fun n => n_depth n)). exact Hf. Qed.
+
+  Lemma fwc_crash l : forall (m : mdd),
+    (forall id, n_depth (gn m id) < length (m_cache m)) ->
+    m_crash (fst (filter_with_cache st_eqb inp m l)) = m_crash m.
+  Proof.
+    induction l as [|id l IH]; intros m Hd; cbn [filter_with_cache]; [reflexivity|]. cbv zeta.
+    destruct (cache_get_facts m (n_state (gn m id)) (n_depth (gn m id))) as (G1 & G2 & G3 & _).
+    specialize (G3 (Hd id)).
+    destruct (cache_get st_eqb inp m (n_state (gn m id)) (n_depth (gn m id))) as [m1 th]. cbn [fst] in G1, G2, G3.
+    assert (Hg1 : forall k, gn m1 k = gn m k) by (intros k; apply gn_nodes_eq; exact G1).
+    assert (Hd1 : forall k, n_depth (gn m1 k) < length (m_cache m1)) by (intros k; rewrite Hg1, G2; apply Hd).
+    destruct th as [t|].
+    - destruct (n_vtop (gn m id) >? th_value t)%Z.
+      + specialize (IH m1 Hd1). destruct (filter_with_cache st_eqb inp m1 l) as [m2 r]. cbn [fst] in *. congruence.
+      + match goal with |- context [filter_with_cache st_eqb inp ?mm l] => specialize (IH mm) end.
+        rewrite IH; [exact G3|]. intros k. rewrite gn_depth_upd_theta_flags by (intros n; reflexivity). apply Hd1.
+    - specialize (IH m1 Hd1). destruct (filter_with_cache st_eqb inp m1 l) as [m2 r]. cbn [fst] in *. congruence.
+  Qed.
+
+  Lemma Pinv_depth_all dn (m : mdd) : Pinv dn m -> forall id, n_depth (gn m id) <= dn.
+  Proof.
+    intros HP id. destruct (Nat.lt_ge_cases id (length (m_nodes m))) as [Hlt|Hge].
+    - apply (MddProgress.P_depth _ _ _ HP id Hlt).
+    - rewrite (gn_out_of_range inp m id Hge). simpl. lia.
+  Qed.
+
+  Lemma prefilter_stepC dn (m : mdd) l m' l' :
+    prefilter st_eqb inp m l = (m', l') -> dn < length (m_cache m) ->
+    Pinv dn m -> Pinv dn m' /\ keep m m' /\ ceq inp m m' /\ incl l' l.
+  Proof.
+    unfold prefilter. intros H Hc HP.
+    destruct (Nat.ltb 0 (length (m_layers m))).
+    - pose proof (filter_with_cache_ceq st_eqb inp Hclean l m) as [C1 C2].
+      assert (C3 : m_crash (fst (filter_with_cache st_eqb inp m l)) = m_crash m).
+      { apply fwc_crash. intros id. pose proof (Pinv_depth_all dn m HP id). lia. }
+      rewrite H in C1, C2, C3. simpl in *.
+      split; [eapply (MddProgress.Pinv_ceq inp Hnocut Hwidth Hroot_depth); eauto|].
+      split; [apply (MddProgress.keep_ceq inp Hnocut Hwidth Hroot_depth); auto|]. split; auto.
+    - inversion H; subst. split; [exact HP|]. split; [apply MddProgress.keep_refl|]. split; [apply ceq_refl|apply incl_refl].
+  Qed.
+
+  Lemma move_some_stepC (m m' : mdd) l :
+    move_to_next_layer_clean st_eqb inp m = (m', Some l) -> m_curr_depth m < length (m_cache m) -> PLinv m -> PMinv m m' l.
+  Proof.
+    rewrite move_clean_unfold. intros H Hcl [L1 L2 L3 L4 L5 L6 L7].
+    set (d := m_curr_depth m) in *.
+    destruct (m_next m) as [|x nx] eqn:Hn; [discriminate|]. rewrite <- Hn in H.
+    set (ma := with_next m []) in *.
+    assert (HPa : Pinv d ma) by (apply MddProgress.Pinv_with_next; [exact L1|intros id []]).
+    assert (Hka : keep m ma) by apply (MddProgress.keep_with_next inp Hnocut Hwidth Hroot_depth).
+    assert (Hoa : MddProgress.in_open ma (m_next m)) by (intros id Hid; apply (MddProgress.P_next _ _ _ L1); exact Hid).
+    destruct (prefilter st_eqb inp ma (m_next m)) as [m1 l1] eqn:H1.
+    destruct (filter_with_dominance inp m1 l1) as [m2 l2] eqn:H2.
+    destruct (squash_if_needed st_eqb inp m2 l2) as [m3 l3] eqn:H3.
+    inversion H; subst m' l; clear H.
+    destruct (prefilter_stepC d ma _ m1 l1 H1 Hcl HPa) as (A1 & A2 & A3 & A4).
+    destruct (MddProgress.filter_with_dominance_step inp Hnodom Hnocut Hwidth Hroot_depth d m1 l1 m2 l2 H2 A1) as (B1 & B2 & B3 & B4).
+    assert (Hk2 : keep m m2).
+    { eapply (MddProgress.keep_trans inp Hnocut Hwidth Hroot_depth); [exact Hka|]; eapply (MddProgress.keep_trans inp Hnocut Hwidth Hroot_depth); eauto. }
+    assert (Ho2 : MddProgress.in_open m2 l2).
+    { apply (MddProgress.in_open_keep inp Hnocut Hwidth Hroot_depth ma m2 (m_next m) l2);
+        [eapply (MddProgress.keep_trans inp Hnocut Hwidth Hroot_depth); [exact A2|exact B2]|eapply incl_tran; [exact B4|exact A4]|exact Hoa]. }
+    destruct (MddProgress.squash_step st_eqb inp Hclean Hnocut Hwidth Hroot_depth d m2 l2 m3 l3 H3 B1) as (C1 & C2 & C3 & C4 & C5); auto.
+    { rewrite (MddProgress.k_layers _ _ _ Hk2). exact L3. }
+    assert (Hk3 : keep m m3) by (eapply (MddProgress.keep_trans inp Hnocut Hwidth Hroot_depth); eauto).
+    assert (Hn3 : m_next m3 = []).
+    { rewrite (squash_next st_eqb inp _ _ _ _ H3).
+      destruct B3 as (_ & b & _). destruct A3 as (_ & a & _). rewrite b, a. reflexivity. }
+    assert (Hlen2 : length (m_nodes m2) = length (m_nodes m)).
+    { destruct B3 as ((_ & _ & b & _) & _). destruct A3 as ((_ & _ & a & _) & _). rewrite b, a. reflexivity. }
+    assert (Hlel2 : m_lel m2 = m_lel m).
+    { destruct B3 as (_ & _ & _ & _ & b & _). destruct A3 as (_ & _ & _ & _ & a & _). rewrite b, a. reflexivity. }
+    set (from := m_layer_end m3). set (to := length (m_nodes m3)).
+    set (m4 := push_layer m3 (seq from (to - from)) to).
+    assert (Hgn4 : forall k, gn m4 k = gn m3 k) by reflexivity.
+    split.
+    - apply (MddProgress.Pinv_push_layer inp Hnocut Hwidth Hroot_depth); auto.
+    - change (m_crash m4) with (m_crash m3). rewrite (MddProgress.k_crash _ _ _ Hk3). exact L2.
+    - change (m_curr_depth m4) with (m_curr_depth m3). apply (MddProgress.k_cd _ _ _ Hk3).
+    - exact L3.
+    - eexists. unfold m4. msimpl. rewrite (MddProgress.k_layers _ _ _ Hk3). reflexivity.
+    - apply (MddProgress.layers_ok_push inp Hnocut Hwidth Hroot_depth).
+      + eapply (MddProgress.layers_ok_keep inp Hnocut Hwidth Hroot_depth); eauto.
+      + intros id Hid. apply in_seq in Hid. split; [unfold to in Hid; lia|].
+        rewrite (MddProgress.P_open _ _ _ C1 id) by (unfold from, to in Hid; lia).
+        rewrite (MddProgress.k_layers _ _ _ Hk3). exact L3.
+    - unfold m4. msimpl. apply Forall_app. split; [rewrite (MddProgress.k_layers _ _ _ Hk3); exact L6|].
+      constructor; [apply seq_NoDup|constructor].
+    - intros k Hk Hr. change (m_lel m4) with (m_lel m3) in Hk.
+      destruct (C5 k Hk) as [Hold|Hnew]; [|auto]. rewrite Hlel2 in Hold. apply L7; auto.
+    - exact Hn3.
+    - intros id Hid. destruct (C4 id Hid) as [c1 c2]. rewrite Hgn4. split; [exact c2|].
+      apply (MddProgress.P_open _ _ _ C1); auto.
+    - change (length (m_nodes m4)) with (length (m_nodes m3)). lia.
+  Qed.
+
+  Lemma mc_expand_layer var l : forall (m : mdd), m_cache (fold_left (expand_node st_eqb inp var) l m) = m_cache m.
+  Proof. induction l as [|id l IH]; intros m; simpl; [reflexivity|]. rewrite IH. apply mc_expand_node. Qed.
+
+  Lemma layer_loop_postC : forall fuel (m : mdd),
+    PLinv m -> N < length (m_cache m) -> N - m_curr_depth m < fuel ->
+    exists m', layer_loop st_eqb inp fuel m = (m', LoopDone) /\ PPost m'.
+  Proof.
+    induction fuel as [|fuel IH]; intros m HL Hcl Hf; [lia|].
+    cbn [layer_loop]. cbv zeta.
+    set (states := map (fun id => n_state (gn m id)) (m_next m)).
+    destruct (Nat.lt_ge_cases (m_curr_depth m) N) as [Hlt|Hge].
+    - destruct (nv_some (m_curr_depth m) states Hlt) as [var Hv]. rewrite Hv.
+      set (m1 := add_log m (EvNextVar (m_curr_depth m) states (Some var))).
+      set (m2 := with_polls m1 (S (m_polls m1))).
+      rewrite Hnocut. change (Nat.ltb 0 0) with false. cbn [andb].
+      rewrite (MddProgress.not_pooled' inp Hclean).
+      assert (HL2 : PLinv m2) by (apply (MddProgress.Linv_frame inp Hnocut Hwidth Hroot_depth m); auto; reflexivity).
+      pose proof (mc_move st_eqb inp m2) as Hmc.
+      destruct (move_to_next_layer_clean st_eqb inp m2) as [m3 [l|]] eqn:Hmv.
+      + assert (Hcl2 : m_curr_depth m2 < length (m_cache m2)) by (change (m_curr_depth m < length (m_cache m)); lia).
+        pose proof (move_some_stepC m2 m3 l Hmv Hcl2 HL2) as HM.
+        destruct (MddProgress.expand_finish st_eqb inp Hclean Hnocut Hwidth Hroot_depth var m2 m3 l HM Hlt) as [HL4 Hcd4].
+        apply IH; [exact HL4| |].
+        * cbn [fst] in Hmc. msimpl. rewrite mc_expand_layer, Hmc. exact Hcl.
+        * msimpl. rewrite Hcd4. change (m_curr_depth m2) with (m_curr_depth m). lia.
+      + exists m3. split; [reflexivity|]. right. exists m2.
+        destruct (MddProgress.move_none_inv st_eqb inp m2 m3 Hmv) as [E1 E2]. auto.
+    - rewrite (nv_none _ states Hge).
+      eexists. split; [reflexivity|]. left. split; [|exact Hge].
+      apply (MddProgress.Linv_frame inp Hnocut Hwidth Hroot_depth m); auto; reflexivity.
+  Qed.
+
+  (* ---------------------------------------------------------------- _compute_thresholds: crash flag and cache length *)
+  Lemma cache_update_facts (m : mdd) s d v e :
+    m_nodes (cache_update st_eqb inp m s d v e) = m_nodes m /\
+    (d < length (m_cache m) ->
+     m_crash (cache_update st_eqb inp m s d v e) = m_crash m /\
+     length (m_cache (cache_update st_eqb inp m s d v e)) = length (m_cache m)).
+  Proof.
+    unfold cache_update. destruct (ci_use_cache inp); [|split; [reflexivity|intros _; split; reflexivity]].
+    cbn [m_cache add_log]. unfold update_threshold.
+    destruct (nth_error (m_cache m) d) as [l|] eqn:E.
+    - split; [reflexivity|]. intros _. split; [reflexivity|]. cbn [m_cache with_cache]. apply upd_nth_length.
+    - split; [reflexivity|]. intros Hlt. apply nth_error_None in E. lia.
+  Qed.
+
+  Definition CQ (m a : mdd) : Prop :=
+    m_crash a = m_crash m /\ length (m_cache a) = length (m_cache m) /\ forall x, n_depth (gn a x) = n_depth (gn m x).
+
+  Lemma CQ_refl m : CQ m m. Proof. repeat split. Qed.
+  Lemma CQ_upd_theta (m a : mdd) k (t : node -> option Z) : CQ m a -> CQ m (upd_node a k (fun n => set_theta n (t n))).
+  Proof.
+    intros (Q1 & Q2 & Q3). split; [exact Q1|]. split; [exact Q2|]. intros x.
+    rewrite gn_depth_upd_theta_flags by (intros n; reflexivity). apply Q3.
+  Qed.
+
+  Lemma CQ_th_step (m : mdd) bk (a : mdd) id :
+    (forall x, n_depth (gn m x) < length (m_cache m)) -> CQ m a -> CQ m (th_step st_eqb inp bk a id).
+  Proof.
+    intros Hd HQ. unfold th_step. destruct (f_deleted _); [exact HQ|].
+    assert (H1 : CQ m (th_own st_eqb inp bk a id)).
+    { unfold th_own. cbv zeta. destruct (negb _); [|exact HQ].
+      match goal with |- CQ m (maybe_update_cache st_eqb inp ?mm id) => set (m1 := mm); assert (HQ1 : CQ m m1) end.
+      { unfold m1. repeat match goal with |- context [if ?c then _ else _] => destruct c end;
+          try exact HQ; apply (CQ_upd_theta m a id); exact HQ. }
+      unfold maybe_update_cache. destruct (n_theta (gn m1 id)) as [t|]; [|exact HQ1].
+      destruct (f_above _); [|exact HQ1].
+      destruct HQ1 as (Q1 & Q2 & Q3).
+      destruct (cache_update_facts m1 (n_state (gn m1 id)) (n_depth (gn m1 id)) t (negb (f_cutset (n_flags (gn m1 id))))) as (U1 & U2).
+      destruct U2 as (U2 & U3); [rewrite Q3, Q2; apply Hd|].
+      split; [congruence|]. split; [congruence|]. intros x.
+      rewrite (gn_nodes_eq inp m1 _ x U1). apply Q3. }
+    unfold th_prop. destruct (n_theta _); [|exact H1].
+    apply (MddExact.fold_left_inv (CQ m)); [exact H1|]. intros b eid _ Hb. unfold prop_step. cbv zeta.
+    apply (CQ_upd_theta m b _ (fun p => Some (Z.min (opt_default IMAX (n_theta p)) (sat_sub z (e_cost (get_edge b eid)))))). exact Hb.
+  Qed.
+
+  Lemma ct_facts (m : mdd) :
+    (forall x, n_depth (gn m x) < length (m_cache m)) ->
+    m_crash (compute_thresholds st_eqb inp m) = m_crash m /\
+    length (m_cache (compute_thresholds st_eqb inp m)) = length (m_cache m).
+  Proof.
+    intros Hd. assert (HQ : CQ m (compute_thresholds st_eqb inp m)).
+    { rewrite compute_thresholds_unfold. destruct (_ || _); [|apply CQ_refl].
+      destruct (m_best_exact m) as [be|].
+      - cbv zeta. set (bk := Z.max (ci_best_lb inp) (n_vtop (gn m be))).
+        assert (HP : CQ m (th_preset inp bk m)).
+        { unfold th_preset. apply (MddExact.fold_left_inv (CQ m)); [apply CQ_refl|]. intros a id _ Ha.
+          match goal with |- context [if ?c then _ else _] => destruct c end; [|exact Ha].
+          apply (CQ_upd_theta m a id (fun _ => Some bk)). exact Ha. }
+        apply (MddExact.fold_left_inv (CQ m)); [exact HP|]. intros a id _ Ha. apply CQ_th_step; assumption.
+      - apply (MddExact.fold_left_inv (CQ m)); [apply CQ_refl|]. intros a id _ Ha. apply CQ_th_step; assumption. }
+    destruct HQ as (Q1 & Q2 & _). auto.
+  Qed.
+
+  Lemma insens_cache : MddProgress.insens (fun a : mdd => m_cache a).
+  Proof. repeat split. Qed.
+
+  (* ---------------------------------------------------------------- the finished diagram *)
+  Lemma finalize_factsC tb tb2 (ml : mdd) :
+    PPost ml -> Sinv inp ml -> Xs inp ml -> N < length (m_cache ml) ->
+    let m := finalize st_eqb inp tb tb2 ml in
+    m_crash m = false /\
+    length (m_nodes m) = length (m_nodes ml) /\
+    (forall id, id < length (m_nodes m) -> d0 <= n_depth (gn m id) <= N) /\
+    MddProgress.layers_ok inp m /\
+    length (m_layers m) <= S N /\
+    (forall id, In id (m_next m) -> n_depth (gn m id) = N) /\
+    (forall b, m_best m = Some b -> In b (m_next m)) /\
+    (forall b, m_best_exact m = Some b -> In b (m_next m)) /\
+    NoDup (m_cutset m) /\
+    (ci_type inp = Relaxed -> forall id, In id (m_cutset m) -> id < length (m_nodes m) /\ d0 < n_depth (gn m id)) /\
+    length (m_cache m) = length (m_cache ml).
+  Proof.
+    intros HPost HS HX Hcl.
+    destruct (finalize_spec st_eqb inp Hclean tb tb2 ml HS HX) as (Pl6 & Nl6 & _).
+    pose proof (finalize_layers_eq st_eqb inp tb tb2 ml) as Hlayers.
+    pose proof (MddProgress.finalize_layers_Finv inp Hclean Hnocut Hwidth Hroot_depth ml HPost) as HF1.
+    destruct (MddProgress.finalize_layers_same inp Hclean ml) as (S1 & S2 & S3 & S4 & S5).
+    unfold finalize in *.
+    set (m1 := finalize_layers inp ml) in *.
+    set (m2 := find_best_node inp tb tb2 m1) in *.
+    set (m3 := finalize_exact inp m2) in *.
+    set (m4 := finalize_cutset inp m3) in *.
+    pose proof (compute_local_bounds_keq inp Hclean m4) as K5.
+    set (m5 := compute_local_bounds inp m4) in *.
+    pose proof (compute_thresholds_keq st_eqb inp m5) as K6.
+    set (m6 := compute_thresholds st_eqb inp m5) in *.
+    cbv zeta.
+    assert (P1l : peq inp ml m1) by (apply peq_same_nodes; auto).
+    assert (P16 : peq inp m1 m6) by (eapply peq_trans; [apply peq_sym; exact P1l|exact Pl6]).
+    pose proof P16 as (_ & _ & Len16 & C16).
+    assert (Hd : forall k, n_depth (gn m6 k) = n_depth (gn m1 k)).
+    { intros k. destruct (C16 k) as (_ & _ & _ & _ & _ & _ & c7). congruence. }
+    assert (HF3 : Finv m3) by (apply (MddProgress.Finv_same inp m1); auto; reflexivity).
+    assert (Hc3 : m_cutset m3 = []).
+    { change (m_cutset m3) with (m_cutset m1). rewrite S5. apply (X_cutset _ _ _ HX). }
+    destruct (MddProgress.finalize_cutset_facts inp Hclean Hnocut Hwidth Hroot_depth m3 HF3 Hc3) as [Cnd Cdep].
+    destruct K5 as (_ & N5 & B5 & BE5 & Cs5). destruct K6 as (_ & N6 & B6 & BE6 & Cs6).
+    assert (Hc5 : m_cache m5 = m_cache ml).
+    { unfold m5. rewrite (MddProgress.ins_compute_local_bounds inp _ insens_cache). unfold m4.
+      rewrite (MddProgress.ins_finalize_cutset inp Hclean _ insens_cache) by reflexivity.
+      unfold m3, m2, m1, finalize_exact, find_best_node, finalize_layers. cbv zeta. rewrite (MddProgress.not_pooled' inp Hclean).
+      destruct (m_next ml); reflexivity. }
+    assert (Hcr5 : m_crash m5 = false).
+    { unfold m5. rewrite (MddProgress.ins_compute_local_bounds inp _ (MddProgress.insens_crash)). unfold m4.
+      rewrite (MddProgress.ins_finalize_cutset inp Hclean _ (MddProgress.insens_crash)) by reflexivity.
+      apply (MddProgress.F_crash _ _ HF1). }
+    assert (Hd5 : forall x, n_depth (gn m5 x) < length (m_cache m5)).
+    { intros x. rewrite Hc5. destruct (Nat.lt_ge_cases x (length (m_nodes m5))) as [Hlt|Hge].
+      - 
+        assert (Hdx : n_depth (gn m5 x) = n_depth (gn m1 x)).
+        { pose proof (compute_thresholds_keq st_eqb inp m5) as ((_ & _ & _ & C56) & _).
+          destruct (C56 x) as (_ & _ & _ & _ & _ & _ & c7). fold m6 in c7. rewrite c7. apply Hd. }
+        rewrite Hdx.
+        assert (Hx1 : x < length (m_nodes m1)).
+        { pose proof (compute_thresholds_keq st_eqb inp m5) as ((_ & _ & L56 & _) & _). fold m6 in L56. lia. }
+        pose proof (MddProgress.F_depth _ _ HF1 x Hx1). lia.
+      - rewrite (gn_out_of_range inp m5 x Hge). simpl. lia. }
+    destruct (ct_facts m5 Hd5) as (Hcr6 & Hlc6). fold m6 in Hcr6, Hlc6.
+    assert (Hcr : m_crash m6 = false) by (rewrite Hcr6; exact Hcr5).
+    assert (Hb4 : m_best m4 = m_best m3) by (apply (MddProgress.ins_finalize_cutset inp Hclean _ MddProgress.insens_best); reflexivity).
+    assert (Hbe4 : m_best_exact m4 = m_best_exact m3) by (apply (MddProgress.ins_finalize_cutset inp Hclean _ MddProgress.insens_best_exact); reflexivity).
+    assert (Hn6 : m_next m6 = m_next m1) by (rewrite Nl6, S4; reflexivity).
+    assert (Hbest2 : forall b, m_best m2 = Some b -> In b (m_next m1)).
+    { intros b Hb. unfold m2, find_best_node in Hb. msimpl_in Hb.
+      apply MddExact.pick_In in Hb. apply (argmax_candidates_In inp Hclean) in Hb. exact Hb. }
+    split; [exact Hcr|]. split; [rewrite Len16, S1; reflexivity|].
+    split; [|split; [|split; [|split; [|split; [|split; [|split; [|split]]]]]]].
+    - intros id Hid. rewrite Hd. apply (MddProgress.F_depth _ _ HF1). lia.
+    - intros i ids id H1 H2. rewrite Hlayers in H1. destruct (MddProgress.F_layers _ _ HF1 i ids id H1 H2) as [a b].
+      rewrite Hd. split; [lia|exact b].
+    - rewrite Hlayers. apply (MddProgress.F_nlayers _ _ HF1).
+    - intros id Hid. rewrite Hn6 in Hid. rewrite Hd. apply (MddProgress.F_next _ _ HF1); exact Hid.
+    - intros b Hb. rewrite Hn6. rewrite B6, B5, Hb4 in Hb. apply Hbest2. exact Hb.
+    - intros b Hb. rewrite Hn6. rewrite BE6, BE5, Hbe4 in Hb.
+      unfold m3, finalize_exact in Hb. cbv zeta in Hb. msimpl_in Hb.
+      destruct (is_relaxed_ct (ci_type inp) && has_exact_best_path inp (S (length (m_nodes m2))) m2 (m_best m2)).
+      + apply Hbest2; exact Hb.
+      + unfold m2, find_best_node in Hb. msimpl_in Hb.
+        apply MddExact.pick_In in Hb. apply (argmax_candidates_In inp Hclean) in Hb. apply filter_In in Hb. tauto.
+    - rewrite Cs6, Cs5. exact Cnd.
+    - intros Hr id Hid. rewrite Cs6, Cs5 in Hid. destruct (Cdep Hr id Hid) as [a b].
+      change (m_nodes m3) with (m_nodes m1) in a. change (gn m3 id) with (gn m1 id) in b.
+      rewrite Hd. split; [lia|exact b].
+    - rewrite Hlc6, Hc5. reflexivity.
+  Qed.
+
+
+  (* ---------------------------------------------------------------- the theorems about [compile] *)
+  Lemma compile_unfoldC tb tb2 c ds polls : N < length c ->
+    exists ml, layer_loop st_eqb inp (S (S N)) (initialize inp c ds polls) = (ml, LoopDone) /\
+               PPost ml /\ Sinv inp ml /\ Xs inp ml /\ m_cache ml = c /\
+               compile st_eqb inp tb tb2 c ds polls = (finalize st_eqb inp tb tb2 ml, Compiled).
+  Proof.
+    intros Hc.
+    destruct (layer_loop_postC (S (S N)) (initialize inp c ds polls)
+                (MddProgress.Linv_initialize inp Hclean Hnocut Hwidth Hroot_depth c ds polls)) as (ml & Hl & HP).
+    { exact Hc. }
+    { simpl. lia. }
+    destruct (layer_loop_Sinv st_eqb st_eqb_spec inp Hclean (S (S N)) c ds polls) as [HS HX].
+    pose proof (mc_layer_loop st_eqb inp Hclean (S (S N)) (initialize inp c ds polls)) as Hmc.
+    rewrite Hl in HS, HX, Hmc. cbn [fst] in HS, HX, Hmc.
+    exists ml. split; [exact Hl|]. split; [exact HP|]. split; [exact HS|]. split; [exact HX|]. split; [exact Hmc|].
+    unfold compile. cbv zeta. rewrite Hl. reflexivity.
+  Qed.
+
+  Theorem compile_completesC tb tb2 c ds polls (m : mdd) out : N < length c ->
+    compile st_eqb inp tb tb2 c ds polls = (m, out) ->
+    out = Compiled /\ m_crash m = false /\ length (m_cache m) = length c.
+  Proof.
+    intros Hcl H. destruct (compile_unfoldC tb tb2 c ds polls Hcl) as (ml & _ & HP & HS & HX & Hmc & Hc).
+    rewrite Hc in H. inversion H; subst. split; [reflexivity|].
+    destruct (finalize_factsC tb tb2 ml HP HS HX Hcl) as (F1 & _ & _ & _ & _ & _ & _ & _ & _ & _ & F11). auto.
+  Qed.
+
+  Theorem compile_node_depthC tb tb2 c ds polls (m : mdd) out id : N < length c ->
+    compile st_eqb inp tb tb2 c ds polls = (m, out) ->
+    id < length (m_nodes m) -> d0 <= n_depth (gn m id) <= N.
+  Proof.
+    intros Hcl H. destruct (compile_unfoldC tb tb2 c ds polls Hcl) as (ml & _ & HP & HS & HX & Hmc & Hc).
+    rewrite Hc in H. inversion H; subst.
+    destruct (finalize_factsC tb tb2 ml HP HS HX Hcl) as (_ & _ & F & _). apply F.
+  Qed.
+
+  Theorem compile_layer_depthC tb tb2 c ds polls (m : mdd) out i ids id : N < length c ->
+    compile st_eqb inp tb tb2 c ds polls = (m, out) ->
+    nth_error (m_layers m) i = Some ids -> In id ids ->
+    id < length (m_nodes m) /\ n_depth (gn m id) = d0 + i.
+  Proof.
+    intros Hcl H. destruct (compile_unfoldC tb tb2 c ds polls Hcl) as (ml & _ & HP & HS & HX & Hmc & Hc).
+    rewrite Hc in H. inversion H; subst.
+    destruct (finalize_factsC tb tb2 ml HP HS HX Hcl) as (_ & _ & _ & F & _). apply F.
+  Qed.
+
+  Theorem compile_best_depthC tb tb2 c ds polls (m : mdd) out b : N < length c ->
+    compile st_eqb inp tb tb2 c ds polls = (m, out) ->
+    m_best m = Some b \/ m_best_exact m = Some b -> n_depth (gn m b) = N.
+  Proof.
+    intros Hcl H Hb. destruct (compile_unfoldC tb tb2 c ds polls Hcl) as (ml & _ & HP & HS & HX & Hmc & Hc).
+    rewrite Hc in H. inversion H; subst.
+    destruct (finalize_factsC tb tb2 ml HP HS HX Hcl) as (_ & _ & _ & _ & _ & F & G1 & G2 & _).
+    apply F. destruct Hb as [Hb|Hb]; [apply G1|apply G2]; exact Hb.
+  Qed.
+
+  Theorem cutset_depthC tb tb2 c ds polls (m : mdd) out sp : N < length c ->
+    ci_type inp = Relaxed ->
+    compile st_eqb inp tb tb2 c ds polls = (m, out) ->
+    In sp (drain_cutset inp m) -> d0 < sp_depth sp <= N.
+  Proof.
+    intros Hcl Hr H Hin. destruct (compile_unfoldC tb tb2 c ds polls Hcl) as (ml & _ & HP & HS & HX & Hmc & Hc).
+    rewrite Hc in H. inversion H; subst.
+    destruct (finalize_factsC tb tb2 ml HP HS HX Hcl) as (_ & _ & Fd & _ & _ & _ & _ & _ & _ & Fc & _).
+    destruct (MddProgress.drain_cutset_In inp _ sp Hin) as (id & Hid & ->).
+    destruct (Fc Hr id Hid) as [a b]. specialize (Fd id a). lia.
+  Qed.
+
+  (* ---------------------------------------------------------------- the size of the diagram *)
+  Variable D : nat.
+  Hypothesis dom_bound : forall x s, length (domain pb x s) <= D.
+  Notation Mbound := (MddProgress.Mbound inp D).
+  Notation cnt_ok := (MddProgress.cnt_ok inp D).
+
+  Lemma layer_loop_countC : forall fuel (m m' : mdd) e,
+    ci_type inp = Relaxed -> PLinv m -> N < length (m_cache m) -> cnt_ok m ->
+    layer_loop st_eqb inp fuel m = (m', e) -> length (m_nodes m') <= Mbound.
+  Proof.
+    induction fuel as [|fuel IH]; intros m m' e Ht HL Hcl HC H.
+    - simpl in H. inversion H; subst. apply (MddProgress.cnt_ok_bound inp Hnocut Hwidth Hroot_depth D); [exact HC|].
+      pose proof (MddProgress.L_cd _ _ HL). pose proof (MddProgress.L_cdN _ _ HL). lia.
+    - assert (Hhere : length (m_nodes m) <= Mbound).
+      { apply (MddProgress.cnt_ok_bound inp Hnocut Hwidth Hroot_depth D); [exact HC|].
+        pose proof (MddProgress.L_cd _ _ HL). pose proof (MddProgress.L_cdN _ _ HL). lia. }
+      revert H. cbn [layer_loop]. cbv zeta.
+      set (states := map (fun id => n_state (gn m id)) (m_next m)).
+      destruct (next_variable (ci_problem inp) (m_curr_depth m) states) as [var|] eqn:Hv.
+      2:{ intros H; inversion H; subst. exact Hhere. }
+      assert (Hlt : m_curr_depth m < N).
+      { destruct (Nat.lt_ge_cases (m_curr_depth m) N) as [G|G]; [exact G|].
+        rewrite (nv_none _ states G) in Hv. discriminate. }
+      set (m1 := add_log m (EvNextVar (m_curr_depth m) states (Some var))).
+      set (m2 := with_polls m1 (S (m_polls m1))).
+      rewrite Hnocut. change (Nat.ltb 0 0) with false. cbn [andb].
+      rewrite (MddProgress.not_pooled' inp Hclean).
+      assert (HL2 : PLinv m2) by (apply (MddProgress.Linv_frame inp Hnocut Hwidth Hroot_depth m); auto; reflexivity).
+      pose proof (mc_move st_eqb inp m2) as Hmc.
+      destruct (move_to_next_layer_clean st_eqb inp m2) as [m3 [l|]] eqn:Hmv.
+      2:{ intros H; inversion H; subst. destruct (MddProgress.move_none_inv st_eqb inp m2 m' Hmv) as [_ ->]. exact Hhere. }
+      assert (Hcl2 : m_curr_depth m2 < length (m_cache m2)) by (change (m_curr_depth m < length (m_cache m)); lia).
+      pose proof (move_some_stepC m2 m3 l Hmv Hcl2 HL2) as HM.
+      destruct (MddProgress.expand_finish st_eqb inp Hclean Hnocut Hwidth Hroot_depth var m2 m3 l HM Hlt) as [HL4 Hcd4].
+      destruct (MddProgress.expand_layer_counts st_eqb inp Hnocut Hwidth Hroot_depth D dom_bound var l m3) as [X1 X2].
+      set (m4 := fold_left (expand_node st_eqb inp var) l m3) in *.
+      intros H. apply (IH _ _ _ Ht HL4) in H; [exact H| |].
+      { cbn [fst] in Hmc. msimpl. unfold m4. rewrite mc_expand_layer, Hmc. exact Hcl. }
+      (* the counters after one more layer *)
+      pose proof (MddProgress.M_len _ _ _ _ HM) as Hlen3. change (m_nodes m2) with (m_nodes m) in Hlen3.
+      rewrite (MddProgress.M_next _ _ _ _ HM) in X2. simpl in X2.
+      destruct (MddProgress.M_layers _ _ _ _ HM) as [ids Hly]. change (m_layers m2) with (m_layers m) in Hly.
+      pose proof (MddProgress.expand_layer_step st_eqb inp Hclean Hnocut Hwidth Hroot_depth var (m_curr_depth m2) l m3
+                    (MddProgress.M_P _ _ _ _ HM) (MddProgress.M_l _ _ _ _ HM)) as [_ Hk4].
+      assert (Hk5 : length (m_layers (with_depth m4 (S (m_curr_depth m4)))) = S (length (m_layers m))).
+      { msimpl. fold m4 in Hk4. rewrite (MddProgress.k_layers _ _ _ Hk4), Hly, app_length. simpl. lia. }
+      destruct HC as (C0 & C1 & C2).
+      unfold MddProgress.cnt_ok. rewrite Hk5. msimpl.
+      destruct (length (m_layers m)) as [|[|k]] eqn:Ek.
+      + destruct C0 as [c1 c2]; auto.
+        assert (Hl : length l <= 1).
+        { pose proof (MddProgress.move_first_layers_len st_eqb inp m2 m3 l Hmv Ht) as G. change (m_layers m2) with (m_layers m) in G.
+          change (m_next m2) with (m_next m) in G. rewrite Ek in G. specialize (G ltac:(lia)). lia. }
+        assert (Hm : length l * D <= 1 * D) by (apply Nat.mul_le_mono_r; exact Hl).
+        split; [discriminate|]. split; [intros _; lia|intros G; lia].
+      + destruct C1 as [c1 c2]; auto.
+        assert (Hl : length l <= D).
+        { pose proof (MddProgress.move_first_layers_len st_eqb inp m2 m3 l Hmv Ht) as G. change (m_layers m2) with (m_layers m) in G.
+          change (m_next m2) with (m_next m) in G. rewrite Ek in G. specialize (G ltac:(lia)). lia. }
+        assert (Hm : length l * D <= D * D) by (apply Nat.mul_le_mono_r; exact Hl).
+        split; [discriminate|]. split; [discriminate|]. intros _. simpl. lia.
+      + assert (H2 : 2 <= S (S k)) by lia. specialize (C2 H2).
+        assert (Hl : length l <= W).
+        { apply (move_clean_width_relaxed st_eqb inp m2 m3 l Hmv Ht); [|exact Hwidth].
+          change (m_layers m2) with (m_layers m). rewrite Ek. lia. }
+        assert (Hm : length l * D <= W * D) by (apply Nat.mul_le_mono_r; exact Hl).
+        split; [discriminate|]. split; [discriminate|]. intros _.
+        replace (S (S (S k)) - 2) with (S (S (S k) - 2)) by lia.
+        rewrite Nat.mul_succ_l. lia.
+  Qed.
+
+  Theorem cutset_size_boundC tb tb2 c ds polls (m : mdd) out : N < length c ->
+    ci_type inp = Relaxed ->
+    compile st_eqb inp tb tb2 c ds polls = (m, out) -> length (drain_cutset inp m) <= Mbound.
+  Proof.
+    intros Hcl Ht H.
+    destruct (compile_unfoldC tb tb2 c ds polls Hcl) as (ml & Hl & HP & HS & HX & Hmc & Hc).
+    rewrite Hc in H. inversion H; subst. clear H.
+    destruct (finalize_factsC tb tb2 ml HP HS HX Hcl) as (_ & Hlen & _ & _ & _ & _ & _ & _ & Fnd & Fc & _).
+    assert (Hn : length (m_nodes ml) <= Mbound).
+    { eapply layer_loop_countC; [exact Ht|apply (MddProgress.Linv_initialize inp Hclean Hnocut Hwidth Hroot_depth)| | |exact Hl].
+      - cbn [m_cache initialize]. exact Hcl.
+      - split; [|split]; simpl; intros; try discriminate; lia. }
+    set (m := finalize st_eqb inp tb tb2 ml) in *.
+    assert (H1 : length (drain_cutset inp m) <= length (m_cutset m)).
+    { unfold drain_cutset. destruct (dd_best_value inp m); [|simpl; lia].
+      apply MddProgress.flat_map_length_le. intros id. destruct (f_marked _); simpl; lia. }
+    assert (H2 : length (m_cutset m) <= length (m_nodes m)).
+    { apply MddProgress.NoDup_bounded_length; [exact Fnd|]. intros id Hid. apply (Fc Ht id Hid). }
+    lia.
+  Qed.
+End ProgressC.
+
+Local Open Scope Z_scope.
+
+Section StructHolds.
+  Context {St : Type}.
+  Variable st_eqb : St -> St -> bool.
+  Hypothesis st_eqb_spec : forall a b, st_eqb a b = true <-> a = b.
+  Variable cfg : @sconfig St.
+  Local Notation pb := (sc_problem cfg).
+  Local Notation N := (nb_vars (sc_problem cfg)).
+  Hypothesis cfg_clean : sc_flavour cfg = CleanLEL \/ sc_flavour cfg = CleanFC.
+  Hypothesis cfg_nodom : sc_domrule cfg = None.
+  Hypothesis cfg_nocut : sc_cutoff cfg = 0%nat.
+  Hypothesis cfg_width : (1 <= sc_width cfg)%nat.
+  Hypothesis nv_static : forall k l1 l2, next_variable pb k l1 = next_variable pb k l2.
+  Hypothesis nv_some : forall k l, (k < N)%nat -> exists x, next_variable pb k l = Some x.
+  Hypothesis nv_none : forall k l, (N <= k)%nat -> next_variable pb k l = None.
+  Variable D : nat.
+  Hypothesis dom_bound : forall x s, (length (domain pb x s) <= D)%nat.
+  Variable B : Z.
+  Hypothesis HB : 2 * B <= IMAX.
+  Hypothesis guard0 : forall ds s' v', frun pb 0 (init_state pb) (init_value pb) ds = Some (s', v') -> - B <= v' <= B.
+
+  Local Notation good := (sgood (sc_problem cfg)).
+  Local Notation feas := (sfeasible (sc_problem cfg)).
+
+  Lemma gguardC n : good n -> forall ds s' v',
+    frun pb (sp_depth n) (sp_state n) (sp_value n) ds = Some (s', v') -> - B <= v' <= B.
+  Proof. apply sgood_guard. exact guard0. Qed.
+
+  Lemma len_lt (c : @cache St) : length c = S N -> (N < length c)%nat.
+  Proof. intros H. rewrite H. lia. Qed.
+
+  Theorem KC_struct_holds : KC_struct st_eqb cfg (Kbound cfg D).
+  Proof.
+    split; [|split; [|split]].
+    - intros ct n lb c ds polls m out _ _ Hd Hl Hc.
+      destruct (compile_completesC st_eqb st_eqb_spec (mk_input cfg ct n lb) cfg_clean cfg_nodom cfg_nocut cfg_width
+                  nv_some nv_none Hd 0%nat 0%nat c ds polls m out (len_lt c Hl) Hc) as (A1 & A2 & A3).
+      split; [exact A1|]. split; [exact A2|]. rewrite A3. exact Hl.
+    - intros ct n lb c ds polls m out _ Hg Hd Hl Hc v Hv.
+      destruct (compile_completesC st_eqb st_eqb_spec (mk_input cfg ct n lb) cfg_clean cfg_nodom cfg_nocut cfg_width
+                  nv_some nv_none Hd 0%nat 0%nat c ds polls m out (len_lt c Hl) Hc) as (-> & _ & _).
+      unfold dd_best_exact_value in Hv. unfold dd_best_exact_solution.
+      destruct (m_best_exact m) as [b|] eqn:Eb; [|discriminate]. simpl in Hv. inversion Hv; subst v. simpl.
+      destruct (best_exact_solution_genuine st_eqb st_eqb_spec (mk_input cfg ct n lb) cfg_clean 0%nat 0%nat c ds polls m b Hc Eb)
+        as (Hlt & Hcc & _ & Hpath & Hlen).
+      pose proof (Assembly.clean_chain_frun st_eqb st_eqb_spec (mk_input cfg ct n lb) cfg_clean nv_static B HB (gguardC n Hg)
+                    0%nat 0%nat c ds polls m b Hc Hcc Hlt) as Hrun.
+      pose proof (compile_best_depthC st_eqb st_eqb_spec (mk_input cfg ct n lb) cfg_clean cfg_nodom cfg_nocut cfg_width
+                    nv_some nv_none Hd 0%nat 0%nat c ds polls m Compiled b (len_lt c Hl) Hc (or_intror Eb)) as HdN.
+      destruct Hg as (_ & ds0 & G1 & G2 & G3).
+      eexists. split; [reflexivity|].
+      exists (ds0 ++ rev (chain (mk_input cfg ct n lb) m b)), (n_state (get_node (mk_input cfg ct n lb) m b)).
+      split; [|split].
+      + rewrite app_length, rev_length, G1, Hlen, HdN. cbn [mk_input ci_root ci_problem]. lia.
+      + rewrite Hpath. apply Permutation_app; [exact G2|]. apply Permutation_sym, Permutation_rev.
+      + rewrite frun_app, G3, G1. exact Hrun.
+    - intros n lb c ds polls m out Hg Hd Hl Hc _ x Hx.
+      destruct (compile_completesC st_eqb st_eqb_spec (mk_input cfg Relaxed n lb) cfg_clean cfg_nodom cfg_nocut cfg_width
+                  nv_some nv_none Hd 0%nat 0%nat c ds polls m out (len_lt c Hl) Hc) as (-> & _ & _).
+      pose proof (cutset_depthC st_eqb st_eqb_spec (mk_input cfg Relaxed n lb) cfg_clean cfg_nodom cfg_nocut cfg_width
+                    nv_some nv_none Hd 0%nat 0%nat c ds polls m Compiled x (len_lt c Hl) eq_refl Hc Hx) as Hdx.
+      cbn [mk_input ci_root ci_problem] in Hdx. split; [|exact Hdx].
+      destruct (cutset_nodes_exact st_eqb st_eqb_spec (mk_input cfg Relaxed n lb) cfg_clean 0%nat 0%nat c ds polls m x Hc Hx)
+        as (id & _ & Hlt & _ & Hcc & Hpath & Hst & Hval & _ & _ & Hlen).
+      pose proof (Assembly.clean_chain_frun st_eqb st_eqb_spec (mk_input cfg Relaxed n lb) cfg_clean nv_static B HB (gguardC n Hg)
+                    0%nat 0%nat c ds polls m id Hc Hcc Hlt) as Hrun.
+      destruct Hg as (_ & ds0 & G1 & G2 & G3).
+      split; [apply Hdx|].
+      exists (ds0 ++ rev (chain (mk_input cfg Relaxed n lb) m id)). split; [|split].
+      + rewrite app_length, rev_length, G1, Hlen. reflexivity.
+      + rewrite Hpath. apply Permutation_app; [exact G2|]. apply Permutation_sym, Permutation_rev.
+      + rewrite frun_app, G3, G1, Hst, Hval. exact Hrun.
+    - intros n lb c ds polls m out Hg Hd Hl Hc _.
+      exact (cutset_size_boundC st_eqb st_eqb_spec (mk_input cfg Relaxed n lb) cfg_clean cfg_nodom cfg_nocut cfg_width
+               nv_some nv_none Hd D dom_bound 0%nat 0%nat c ds polls m out (len_lt c Hl) eq_refl Hc).
+  Qed.
+End StructHolds.
+
+Local Open Scope nat_scope.
+
+
+(* ================================================================== 6. the layer loop of a RELAXED compilation started from ANY cache *)
+Section LoopC.
+  Context {St : Type}.
+  Variable st_eqb : St -> St -> bool.
+  Hypothesis st_eqb_spec : forall a b, st_eqb a b = true <-> a = b.
+  Variable inp : @cinput St.
+  Let pb := ci_problem inp.
+  Let rlx := ci_relax inp.
+  Let root := ci_root inp.
+  Let lb := ci_best_lb inp.
+  Let N := nb_vars pb.
+  Let rd := sp_depth root.
+  Let rs := sp_state root.
+  Let rv := sp_value root.
+  Hypothesis Hclean : ci_flavour inp = CleanLEL \/ ci_flavour inp = CleanFC.
+  Hypothesis Hnodom : ci_domrule inp = None.
+  Hypothesis Hnocut : ci_cutoff inp = 0.
+  Hypothesis Hwidth : 1 <= ci_width inp.
+  Hypothesis Hrel : ci_type inp = Relaxed.
+  Hypothesis Hrd : rd <= N.
+  Hypothesis nv_static : forall k l1 l2, next_variable pb k l1 = next_variable pb k l2.
+  Hypothesis nv_some : forall k l, k < N -> exists x, next_variable pb k l = Some x.
+  Hypothesis nv_none : forall k l, N <= k -> next_variable pb k l = None.
+  Variable cov : St -> St -> Prop.
+  Hypothesis cov_refl : forall s, cov s s.
+  Hypothesis cov_sim : forall s s' x v, cov s s' -> In v (domain pb x s') ->
+    let d := {| d_var := x; d_val := v |} in
+    In v (domain pb x s) /\ cov (transition pb s d) (transition pb s' d) /\
+    (transition_cost pb s' (transition pb s' d) d <= transition_cost pb s (transition pb s d) d)%Z.
+  Hypothesis merge_cov : forall L s s', In s L -> cov s s' -> cov (merge rlx L) s'.
+  Hypothesis relax_ge : forall src dst mg d c, (c <= relax rlx src dst mg d c)%Z.
+
+  Notation mdd := (@mdd St).
+  Notation node := (@node St).
+  Notation gn := (get_node inp).
+  Notation dpath := (MddSim.dpath inp cov).
+  Notation del := (Thresholds.del inp).
+  Notation same_below := (Thresholds.same_below inp).
+
+  (* ---------------------------------------------------------------- nodes outside a set are not touched *)
+  Definition outside (S : nat -> Prop) (m m' : mdd) : Prop := forall x, ~ S x -> gn m' x = gn m x.
+
+  Lemma outside_refl (S : nat -> Prop) m : outside S m m. Proof. intros x _. reflexivity. Qed.
+  Lemma outside_trans (S : nat -> Prop) a b c : outside S a b -> outside S b c -> outside S a c.
+  Proof. intros H1 H2 x Hx. rewrite H2, H1; auto. Qed.
+  Lemma outside_nodes (S : nat -> Prop) (m m' : mdd) : m_nodes m' = m_nodes m -> outside S m m'.
+  Proof. intros H x _. apply gn_nodes_eq. exact H. Qed.
+  Lemma outside_upd (S : nat -> Prop) (m : mdd) id f : S id -> outside S m (upd_node m id f).
+  Proof. intros H x Hx. apply gn_upd_other. intros ->. contradiction. Qed.
+  Lemma outside_append (S : nat -> Prop) (m : mdd) e : S (e_to e) -> outside S m (append_edge inp m e).
+  Proof. intros H x Hx. apply gn_append_other. intros ->. contradiction. Qed.
+  Lemma outside_snoc (S : nat -> Prop) (m : mdd) n : S (length (m_nodes m)) -> outside S m (with_nodes m (m_nodes m ++ [n])).
+  Proof.
+    intros H x Hx. destruct (Nat.lt_ge_cases x (length (m_nodes m))) as [Hlt|Hge].
+    - apply gn_snoc_old. exact Hlt.
+    - assert (x <> length (m_nodes m)) by (intros ->; contradiction).
+      rewrite (gn_out_of_range inp m x) by lia.
+      apply gn_out_of_range. msimpl. rewrite app_length. simpl. lia.
+  Qed.
+  Lemma outside_fold {X} (S : nat -> Prop) (f : mdd -> X -> mdd) l : forall m,
+    (forall a x, In x l -> outside S a (f a x)) -> outside S m (fold_left f l m).
+  Proof.
+    induction l as [|x l IH]; intros m Hf; simpl; [apply outside_refl|].
+    eapply outside_trans; [apply Hf; left; reflexivity|]. apply IH. intros a y Hy. apply Hf. right; exact Hy.
+  Qed.
+
+  Lemma outside_drop_step (S : nat -> Prop) merged mid (a : mdd) did : S mid -> S did -> outside S a (drop_step inp merged mid a did).
+  Proof.
+    intros H1 H2. unfold drop_step. rewrite redirect_edges_fold.
+    eapply outside_trans; [apply outside_upd; exact H2|].
+    apply outside_fold. intros c eid _. unfold redirect_step. cbv zeta.
+    match goal with |- outside S c (append_edge inp ?mm ?ee) =>
+      apply (outside_trans S c mm); [apply outside_nodes; reflexivity|apply outside_append; nsimpl; exact H1] end.
+  Qed.
+
+  Lemma squash_outside (m : mdd) l :
+    outside (fun x => In x l \/ x = length (m_nodes m)) m (fst (squash_if_needed st_eqb inp m l)).
+  Proof.
+    unfold squash_if_needed. rewrite Hrel.
+    destruct (Nat.ltb (ci_width inp) (length l) && Nat.ltb 1 (length (m_layers m))) eqn:Eg; [|apply outside_refl]. cbn [fst].
+    apply andb_true_iff in Eg. destruct Eg as [Eg _]. apply Nat.ltb_lt in Eg.
+    assert (Hex : exists w1, ci_width inp = S w1) by (exists (ci_width inp - 1); lia).
+    destruct Hex as [w1 Ew]. rewrite Ew in Eg. rewrite (relax_layer_unfold st_eqb inp m l w1 Ew). cbv zeta.
+    destruct (note_squash_fields inp Hclean m) as (F1 & _).
+    set (m0 := note_squash inp m) in *.
+    set (S := fun x => In x l \/ x = length (m_nodes m)).
+    set (sorted := sort_by (rank_order inp m0) l).
+    assert (Hslen : length sorted = length l) by apply sort_by_length.
+    assert (Hsorted : forall x, In x sorted -> In x l) by (intros x Hx; apply sort_by_In in Hx; exact Hx).
+    assert (Hkeep : forall x, In x (firstn w1 sorted) -> S x).
+    { intros x Hx. left. apply Hsorted. rewrite <- (firstn_skipn w1 sorted). apply in_or_app; left; exact Hx. }
+    assert (Hmrg : forall x, In x (skipn w1 sorted) -> S x).
+    { intros x Hx. left. apply Hsorted. rewrite <- (firstn_skipn w1 sorted). apply in_or_app; right; exact Hx. }
+    match goal with |- context [add_log m0 ?ev] => set (m1 := add_log m0 ev) end.
+    assert (O1 : outside S m m1) by (apply outside_nodes; exact F1).
+    match goal with |- context [find ?f ?k] => destruct (find f k) as [rid|] eqn:Hrec end; cbn [fst].
+    - apply find_some in Hrec. destruct Hrec as [Hrin _].
+      match goal with |- outside S m (upd_node ?m3 ?sv _) =>
+        apply (outside_trans S m m3); [|apply outside_upd; left; apply Hsorted; apply nth_In; lia] end.
+      match goal with |- outside S m (fold_left ?f ?L ?m2) =>
+        apply (outside_trans S m m2);
+          [|apply outside_fold; intros a y Hy; apply outside_drop_step; [apply Hkeep; exact Hrin|apply Hmrg; exact Hy]] end.
+      apply (outside_trans S m m1); [exact O1|]. apply outside_upd. apply Hkeep. exact Hrin.
+    - assert (Hmid : S (length (m_nodes m1))) by (right; unfold m1; msimpl; rewrite F1; reflexivity).
+      match goal with |- outside S m (fold_left ?f ?L ?m2) =>
+        apply (outside_trans S m m2);
+          [|apply outside_fold; intros a y Hy; apply outside_drop_step; [exact Hmid|apply Hmrg; exact Hy]] end.
+      match goal with |- outside S m (upd_node ?m1' _ _) =>
+        apply (outside_trans S m m1'); [|apply outside_upd; exact Hmid] end.
+      apply (outside_trans S m m1); [exact O1|]. apply outside_snoc. exact Hmid.
+  Qed.
+
+  (* ---------------------------------------------------------------- what the cache filter does to the nodes *)
+  Definition dropnode (n : node) (t : Z) : node := set_theta (set_flags n (fl_set_cache (n_flags n) true)) (Some t).
+
+  Lemma fwc_nodes l : forall (m : mdd), NoDup l -> (forall x, In x l -> x < length (m_nodes m)) ->
+    (forall x, ~ In x l -> gn (fst (filter_with_cache st_eqb inp m l)) x = gn m x) /\
+    (forall x, In x (snd (filter_with_cache st_eqb inp m l)) ->
+       In x l /\ gn (fst (filter_with_cache st_eqb inp m l)) x = gn m x) /\
+    (forall x, In x l -> ~ In x (snd (filter_with_cache st_eqb inp m l)) ->
+       exists th, ci_use_cache inp = true /\
+         cget st_eqb (m_cache m) (n_state (gn m x)) (n_depth (gn m x)) = Some th /\
+         (n_vtop (gn m x) <= th_value th)%Z /\
+         gn (fst (filter_with_cache st_eqb inp m l)) x = dropnode (gn m x) (th_value th)) /\
+    NoDup (snd (filter_with_cache st_eqb inp m l)).
+  Proof.
+    induction l as [|id l IH]; intros m Hnd Hr; cbn [filter_with_cache].
+    - cbn [fst snd]. split; [reflexivity|]. split; [intros x []|]. split; [intros x []|constructor].
+    - cbv zeta. inversion Hnd as [|? ? Hnin Hnd']; subst.
+      destruct (cache_get_facts st_eqb inp Hnocut Hwidth Hrd m (n_state (gn m id)) (n_depth (gn m id))) as (G1 & G2 & _ & G4).
+      destruct (cache_get st_eqb inp m (n_state (gn m id)) (n_depth (gn m id))) as [m1 th]. cbn [fst snd] in G1, G2, G4.
+      assert (Hg1 : forall k, gn m1 k = gn m k) by (intros k; apply gn_nodes_eq; exact G1).
+      assert (Hr1 : forall x, In x l -> x < length (m_nodes m1)) by (intros x Hx; rewrite G1; apply Hr; right; exact Hx).
+      assert (Hkeepcase : forall (HH : True),
+                let r := (let '(m2, r0) := filter_with_cache st_eqb inp m1 l in (m2, id :: r0)) in
+                (forall x, ~ In x (id :: l) -> gn (fst r) x = gn m x) /\
+                (forall x, In x (snd r) -> In x (id :: l) /\ gn (fst r) x = gn m x) /\
+                (forall x, In x (id :: l) -> ~ In x (snd r) ->
+                   exists th0, ci_use_cache inp = true /\
+                     cget st_eqb (m_cache m) (n_state (gn m x)) (n_depth (gn m x)) = Some th0 /\
+                     (n_vtop (gn m x) <= th_value th0)%Z /\ gn (fst r) x = dropnode (gn m x) (th_value th0)) /\
+                NoDup (snd r)).
+      { intros _. cbv zeta. destruct (IH m1 Hnd' Hr1) as (I1 & I2 & I3 & I4).
+        destruct (filter_with_cache st_eqb inp m1 l) as [m2 r0]. cbn [fst snd] in *.
+        split; [|split; [|split]].
+        - intros x Hx. rewrite I1 by (intros H; apply Hx; right; exact H). apply Hg1.
+        - intros x [<-|Hx].
+          + split; [left; reflexivity|]. rewrite I1 by exact Hnin. apply Hg1.
+          + destruct (I2 x Hx) as [a b]. split; [right; exact a|]. rewrite b. apply Hg1.
+        - intros x [<-|Hx] Hn; [exfalso; apply Hn; left; reflexivity|].
+          destruct (I3 x Hx) as (th0 & T1 & T2 & T3 & T4); [intros H; apply Hn; right; exact H|].
+          exists th0. rewrite !Hg1, G2 in T2. rewrite Hg1 in T3, T4. auto.
+        - constructor; [|exact I4]. intros H. apply Hnin. apply (I2 id H). }
+      destruct th as [t|].
+      + destruct (n_vtop (gn m id) >? th_value t)%Z eqn:Ev; [apply (Hkeepcase I)|].
+        clear Hkeepcase. destruct (G4 t eq_refl) as [Huse Hcg].
+        rewrite Z.gtb_ltb in Ev. apply Z.ltb_ge in Ev.
+        set (f := fun n : node => set_theta (set_flags n (fl_set_cache (n_flags n) true)) (Some (th_value t))).
+        set (m1' := upd_node m1 id f).
+        assert (Hidlt : id < length (m_nodes m1)) by (rewrite G1; apply Hr; left; reflexivity).
+        assert (Hg1' : forall k, k <> id -> gn m1' k = gn m k).
+        { intros k Hk. unfold m1'. rewrite gn_upd_other by congruence. apply Hg1. }
+        assert (Hgid : gn m1' id = dropnode (gn m id) (th_value t)).
+        { unfold m1'. rewrite gn_upd_same by exact Hidlt. unfold f, dropnode. rewrite Hg1. reflexivity. }
+        destruct (IH m1' Hnd') as (I1 & I2 & I3 & I4).
+        { intros x Hx. unfold m1'. msimpl. rewrite upd_nth_length. apply Hr1. exact Hx. }
+        destruct (filter_with_cache st_eqb inp m1' l) as [m2 r0]. cbn [fst snd] in *.
+        split; [|split; [|split]].
+        * intros x Hx. rewrite I1 by (intros H; apply Hx; right; exact H). apply Hg1'. intros ->. apply Hx. left; reflexivity.
+        * intros x Hx. destruct (I2 x Hx) as [a b]. split; [right; exact a|]. rewrite b. apply Hg1'. intros ->. contradiction.
+        * intros x [<-|Hx] Hn.
+          -- exists t. split; [exact Huse|]. split; [exact Hcg|]. split; [exact Ev|]. rewrite I1 by exact Hnin. exact Hgid.
+          -- assert (Hxid : x <> id) by (intros ->; contradiction).
+             destruct (I3 x Hx Hn) as (th0 & T1 & T2 & T3 & T4).
+             exists th0. rewrite !(Hg1' x Hxid) in T2, T3, T4. change (m_cache m1') with (m_cache m1) in T2. rewrite G2 in T2. auto.
+        * exact I4.
+      + apply (Hkeepcase I).
+  Qed.
+
+  (* theta and the cache flag of the existing nodes are left alone *)
+  Definition thc (m m' : mdd) : Prop :=
+    forall x, x < length (m_nodes m) ->
+      f_cache (n_flags (gn m' x)) = f_cache (n_flags (gn m x)) /\ n_theta (gn m' x) = n_theta (gn m x).
+  Lemma thc_refl m : thc m m. Proof. intros x _. split; reflexivity. Qed.
+  Lemma thc_trans a b c : length (m_nodes a) <= length (m_nodes b) -> thc a b -> thc b c -> thc a c.
+  Proof. intros Hl H1 H2 x Hx. destruct (H1 x Hx) as [a1 a2]. destruct (H2 x ltac:(lia)) as [b1 b2]. split; congruence. Qed.
+  Lemma thc_nodes (m m' : mdd) : m_nodes m' = m_nodes m -> thc m m'.
+  Proof. intros H x _. rewrite (gn_nodes_eq inp m m' x H). split; reflexivity. Qed.
+  Lemma thc_upd (m : mdd) id f :
+    (forall n, f_cache (n_flags (f n)) = f_cache (n_flags n) /\ n_theta (f n) = n_theta n) -> thc m (upd_node m id f).
+  Proof.
+    intros Hf x _. split.
+    - apply (get_node_upd_node_proj inp (fun n => f_cache (n_flags n))). intros n. apply Hf.
+    - apply (get_node_upd_node_proj inp (fun n => n_theta n)). intros n. apply Hf.
+  Qed.
+  Lemma thc_append (m : mdd) e : thc m (append_edge inp m e).
+  Proof.
+    intros x Hx. destruct (Nat.eq_dec x (e_to e)) as [->|Hne].
+    - rewrite gn_append_same by exact Hx. cbv zeta. nsimpl. split; reflexivity.
+    - rewrite gn_append_other by exact Hne. split; reflexivity.
+  Qed.
+  Lemma thc_snoc (m : mdd) n : thc m (with_nodes m (m_nodes m ++ [n])).
+  Proof. intros x Hx. rewrite gn_snoc_old by exact Hx. split; reflexivity. Qed.
+
+  Lemma thc_drop_step merged mid (a : mdd) did :
+    thc a (drop_step inp merged mid a did) /\ length (m_nodes (drop_step inp merged mid a did)) = length (m_nodes a).
+  Proof.
+    split; [|apply drop_step_nodes_length].
+    unfold drop_step. rewrite redirect_edges_fold.
+    set (a1 := upd_node a did (fun n => set_flags n (fl_set_deleted (n_flags n) true))).
+    assert (H1 : thc a a1) by (apply thc_upd; intros n; split; reflexivity).
+    assert (L1 : length (m_nodes a1) = length (m_nodes a)) by (unfold a1; msimpl; apply upd_nth_length).
+    assert (G : forall L (b : mdd), length (m_nodes b) = length (m_nodes a) -> thc a b ->
+              thc a (fold_left (redirect_step inp merged mid) L b)).
+    { induction L as [|eid L IH]; intros b Lb Hb; simpl; [exact Hb|].
+      apply IH.
+      - unfold redirect_step. cbv zeta. msimpl. rewrite upd_nth_length. exact Lb.
+      - apply (thc_trans a b); [lia|exact Hb|]. unfold redirect_step. cbv zeta.
+        match goal with |- thc b (append_edge inp ?mm ?ee) =>
+          apply (thc_trans b mm); [apply Nat.le_refl|apply thc_nodes; reflexivity|apply thc_append] end. }
+    apply G; assumption.
+  Qed.
+
+  Lemma squash_thc (m : mdd) l : thc m (fst (squash_if_needed st_eqb inp m l)).
+  Proof.
+    unfold squash_if_needed. rewrite Hrel.
+    destruct (Nat.ltb (ci_width inp) (length l) && Nat.ltb 1 (length (m_layers m))) eqn:Eg; [|apply thc_refl]. cbn [fst].
+    assert (Hex : exists w1, ci_width inp = S w1) by (exists (ci_width inp - 1); lia).
+    destruct Hex as [w1 Ew]. rewrite (relax_layer_unfold st_eqb inp m l w1 Ew). cbv zeta.
+    destruct (note_squash_fields inp Hclean m) as (F1 & _).
+    set (m0 := note_squash inp m) in *.
+    match goal with |- context [add_log m0 ?ev] => set (m1 := add_log m0 ev) end.
+    assert (O1 : thc m m1) by (apply thc_nodes; exact F1).
+    assert (L1 : length (m_nodes m1) = length (m_nodes m)) by (unfold m1; msimpl; rewrite F1; reflexivity).
+    assert (GF : forall mg mid L (b : mdd), length (m_nodes m) <= length (m_nodes b) -> thc m b ->
+               thc m (fold_left (drop_step inp mg mid) L b) /\
+               length (m_nodes (fold_left (drop_step inp mg mid) L b)) = length (m_nodes b)).
+    { intros mg mid L. induction L as [|y L IH]; intros b Lb Hb; simpl; [split; [exact Hb|reflexivity]|].
+      destruct (thc_drop_step mg mid b y) as [T1 T2].
+      destruct (IH (drop_step inp mg mid b y)) as [I1 I2]; [rewrite T2; exact Lb|apply (thc_trans m b); [exact Lb|exact Hb|exact T1]|].
+      split; [exact I1|]. rewrite I2. exact T2. }
+    match goal with |- context [find ?f ?k] => destruct (find f k) as [rid|] end; cbn [fst].
+    - set (m2 := upd_node m1 rid set_relaxed_flag).
+      assert (H2 : thc m m2).
+      { apply (thc_trans m m1); [lia|exact O1|]. apply thc_upd. intros n. split; reflexivity. }
+      assert (L2 : length (m_nodes m2) = length (m_nodes m)) by (unfold m2; msimpl; rewrite upd_nth_length; exact L1).
+      match goal with |- thc m (upd_node (fold_left (drop_step inp ?mg ?mid) ?L m2) ?sv ?g) => destruct (GF mg mid L m2) as [G1 G2]; [lia|exact H2|] end.
+      match goal with |- thc m (upd_node ?m3 ?sv ?g) =>
+        apply (thc_trans m m3); [rewrite G2; lia|exact G1|apply thc_upd; intros n; split; reflexivity] end.
+    - match goal with |- thc m (fold_left ?f ?L ?m2') => set (m2 := m2') end.
+      assert (H2 : thc m m2).
+      { unfold m2. match goal with |- thc m (upd_node ?m1' _ _) =>
+          apply (thc_trans m m1'); [msimpl; rewrite app_length; lia| |apply thc_upd; intros n; split; reflexivity] end.
+        apply (thc_trans m m1); [lia|exact O1|apply thc_snoc]. }
+      assert (L2 : length (m_nodes m) <= length (m_nodes m2)).
+      { unfold m2. msimpl. rewrite upd_nth_length, app_length. lia. }
+      match goal with |- thc m (fold_left (drop_step inp ?mg ?mid) ?L m2) => apply (GF mg mid L m2 L2 H2) end.
+  Qed.
+
+  (* ---------------------------------------------------------------- _move_to_next_layer, simulation part (MddSim.move_sim with the cache) *)
+  Notation Cinv := (MddSim.Cinv inp).
+  Notation Einv := (MddSim.Einv inp).
+  Notation gr := (MddSim.gr inp).
+  Notation enabled := (MddSim.enabled inp).
+
+  Definition kept (m : mdd) : list nat := snd (prefilter st_eqb inp (with_next m []) (m_next m)).
+
+  Lemma move_simC (m : mdd) d :
+    Cinv d m -> m_next m <> [] ->
+    exists m3 l ids, move_to_next_layer_clean st_eqb inp m = (m3, Some l) /\
+      Cinv (S d) m3 /\ m_next m3 = [] /\
+      (forall id, In id l -> id < m_layer_end m3 /\ n_depth (gn m3 id) = d) /\
+      m_curr_depth m3 = m_curr_depth m /\ m_layers m3 = m_layers m ++ [ids] /\
+      (forall id, In id l -> In id ids) /\
+      (enabled m3 -> enabled m) /\
+      (forall i0 c0 sc0 u ds s', In u (kept m) -> (1 < length (m_layers m) -> ds <> []) -> enabled m3 ->
+        dpath m i0 c0 sc0 ds u s' -> exists u', In u' l /\ dpath m3 i0 c0 sc0 ds u' s') /\
+      MddSim.srcs m m3 /\
+      (forall x, x < m_layer_end m -> core_eq (gn m x) (gn m3 x)) /\
+      (forall x, MddSim.Src m3 x -> ~ In x ids) /\
+      (forall x, In x ids -> m_layer_end m <= x) /\
+      m_layer_end m <= m_layer_end m3 /\
+      (forall i u s ds t s', dpath m i u s ds t s' -> dpath m3 i u s ds t s').
+  Proof.
+    intros (HD & HX & Hnd & HE) Hne. unfold kept.
+    rewrite move_clean_unfold.
+    destruct (m_next m) as [|c0 cs] eqn:En; [congruence|].
+    set (curr := c0 :: cs) in *.
+    set (ma := with_next m []).
+    assert (Hpa : peq inp m ma) by (apply peq_same_nodes; reflexivity).
+    assert (HDa : Dinv inp ma).
+    { eapply (Dg_peq inp Hclean); [exact Hpa|exact HD|apply Nat.le_refl|apply (D_le _ _ _ HD)|]. intros id []. }
+    assert (HXa : Xinv inp ma) by (eapply Xg_peq; [exact Hpa|reflexivity|reflexivity|reflexivity|exact HX]).
+    assert (HEa : Einv ma).
+    { eapply (MddSim.Einv_frame inp Hnocut Hwidth Hrd); [| | | |exact HE]; try reflexivity. apply (MddSim.E_le _ _ HE). }
+    assert (Hla : layer_ok inp ma curr d).
+    { intros id Hid. rewrite <- En in Hid. split; [apply (D_next _ _ _ HD id Hid)|apply Hnd; exact Hid]. }
+    (* cache filter *)
+    assert (Hb : ceq inp ma (fst (prefilter st_eqb inp ma curr)) /\ incl (snd (prefilter st_eqb inp ma curr)) curr).
+    { unfold prefilter. destruct (Nat.ltb 0 (length (m_layers ma))).
+      - apply (filter_with_cache_ceq st_eqb inp Hclean curr ma).
+      - split; [apply ceq_refl|apply incl_refl]. }
+    destruct (prefilter st_eqb inp ma curr) as [mb lb0]. cbn [fst snd] in Hb. destruct Hb as [Hcb Hib].
+    (* dominance filter *)
+    pose proof (filter_with_dominance_ceq inp mb lb0) as [Hcc _].
+    pose proof (MddSim.filter_with_dominance_nodom inp Hnodom mb lb0) as Hlc.
+    destruct (filter_with_dominance inp mb lb0) as [mc lc]. cbn [fst snd] in Hcc, Hlc.
+    assert (Hac : ceq inp ma mc) by (eapply ceq_trans; eauto).
+    assert (HDc : Dinv inp mc) by (eapply (Dg_ceq inp Hclean); eauto).
+    assert (HXc : Xinv inp mc) by (eapply Xinv_ceq; eauto).
+    assert (HEc : Einv mc) by (eapply (MddSim.Einv_ceq inp Hnocut Hwidth Hrd); eauto).
+    assert (Hlcl : layer_ok inp mc lc d).
+    { eapply layer_ok_stable; [apply ceq_stable; exact Hac|exact Hla|]. intros x Hx. apply Hib. apply Hlc. exact Hx. }
+    assert (Hnc : m_next mc = []) by (destruct Hac as (_ & Hn & _); rewrite Hn; reflexivity).
+    (* squash *)
+    destruct (squash_if_needed_inv st_eqb inp Hclean mc lc d HDc HXc Hlcl) as (Q1 & Q2 & Q3 & Q4 & Q5).
+    destruct (MddSim.squash_sim st_eqb st_eqb_spec inp Hclean Hnocut Hwidth Hrd cov merge_cov relax_ge mc lc d HDc HXc HEc Hlcl)
+      as (S1 & S2 & S2s & S3 & S4).
+    destruct (squash_if_needed st_eqb inp mc lc) as [md ld]. cbn [fst snd] in *.
+    set (from := m_layer_end md). set (to := length (m_nodes md)).
+    assert (Hft : from <= to) by apply (D_le _ _ _ Q1).
+    set (m3 := push_layer md (seq from (to - from)) to).
+    assert (Hp : peq inp md m3) by (apply peq_same_nodes; reflexivity).
+    exists m3, ld, (seq from (to - from)).
+    split; [reflexivity|].
+    assert (Hlay3 : m_layers m3 = m_layers m ++ [seq from (to - from)]).
+    { unfold m3. msimpl. f_equal. rewrite (MddSim.gr_layers inp _ _ S2).
+      destruct Hac as (_ & _ & _ & Hl & _). rewrite Hl. reflexivity. }
+    assert (Hle_mc : m_layer_end mc = m_layer_end m).
+    { destruct Hac as (_ & _ & Hl & _). rewrite Hl. reflexivity. }
+    assert (Hle_md : m_layer_end md = m_layer_end m).
+    { destruct Q3 as (q1 & _). rewrite q1. exact Hle_mc. }
+    assert (Htrack : forall i0 cc0 sc0 u ds s', In u lb0 -> (1 < length (m_layers m) -> ds <> []) -> enabled m3 ->
+              dpath m i0 cc0 sc0 ds u s' -> exists u', In u' ld /\ dpath m3 i0 cc0 sc0 ds u' s').
+    { intros i0 cc0 sc0 u ds s' Hu Hds Hen Hpth.
+      assert (Hpc : dpath mc i0 cc0 sc0 ds u s').
+      { eapply (MddSim.dpath_ceq inp Hnocut Hwidth Hrd); [exact Hac|].
+        eapply (MddSim.dpath_peq inp Hnocut Hwidth Hrd); [exact Hpa| |exact Hpth]. auto. }
+      destruct (S4 i0 cc0 sc0 u ds s') as (u' & Hu' & Hp').
+      + apply Hlc. exact Hu.
+      + intros H1. apply Hds. destruct Hac as (_ & _ & _ & Hl & _). rewrite Hl in H1. exact H1.
+      + exact Hen.
+      + exact Hpc.
+      + exists u'. split; [exact Hu'|]. eapply (MddSim.dpath_peq inp Hnocut Hwidth Hrd); [exact Hp| |exact Hp'].
+        intros k x. unfold m3. msimpl. apply MddSim.nth_layers_app. }
+    split; [|split; [|split; [|split; [|split; [|split; [|split; [|split; [|split; [|split; [|split; [|split; [|split]]]]]]]]]]]].
+    - split; [|split; [|split]].
+      + eapply (Dg_peq inp Hclean); [exact Hp|exact Q1|exact Hft|apply Nat.le_refl|].
+        intros id Hid. unfold m3 in Hid. msimpl_in Hid. rewrite Q4, Hnc in Hid. destruct Hid.
+      + apply Xg_push_layer.
+        * eapply Xg_weaken; [|exact Q2]. exact Hft.
+        * apply Nat.le_refl.
+        * intros id Hid. apply in_seq in Hid. unfold m3. msimpl. unfold from, to in *. lia.
+      + intros id Hid. unfold m3 in Hid. msimpl_in Hid. rewrite Q4, Hnc in Hid. destruct Hid.
+      + apply (MddSim.Einv_frame inp Hnocut Hwidth Hrd md m3); [reflexivity|reflexivity|exact Hft|apply Nat.le_refl|exact S1].
+    - unfold m3. msimpl. rewrite Q4. exact Hnc.
+    - intros id Hid. destruct (Q5 id Hid) as [Hr Hdp]. unfold m3. msimpl. split; [unfold to; lia|exact Hdp].
+    - unfold m3. msimpl. destruct Q3 as (_ & _ & _ & _ & q5). rewrite q5.
+      destruct Hac as (_ & _ & _ & _ & _ & _ & a7). rewrite a7. reflexivity.
+    - exact Hlay3.
+    - intros id Hid. destruct (Q5 id Hid) as [Hr _]. apply in_seq. unfold from, to. lia.
+    - intros Hen. assert (Hmc : enabled mc) by (apply S3; exact Hen).
+      intros Ht. specialize (Hmc Ht). destruct Hac as (_ & _ & _ & _ & Hlel & _). rewrite Hlel in Hmc. exact Hmc.
+    - exact Htrack.
+    - eapply MddSim.srcs_trans; [|eapply MddSim.srcs_trans; [exact S2s|apply MddSim.srcs_edges_eq; reflexivity]].
+      apply MddSim.srcs_edges_eq. destruct Hac as ((Hce & _) & _). rewrite Hce. reflexivity.
+    - intros x Hx.
+      destruct Hpa as (_ & _ & _ & A4a). destruct Hac as ((_ & _ & _ & A4c) & _).
+      destruct Q3 as (_ & _ & q3 & _). destruct Hp as (_ & _ & _ & A4p).
+      eapply (core_eq_trans inp Hclean); [apply A4a|]. eapply (core_eq_trans inp Hclean); [apply A4c|].
+      eapply (core_eq_trans inp Hclean); [apply q3; rewrite Hle_mc; exact Hx|apply A4p].
+    - intros x (eid & He1 & He2) Hin. apply in_seq in Hin.
+      change (m_edges m3) with (m_edges md) in He1. change (get_edge m3 eid) with (get_edge md eid) in He2.
+      pose proof (MddSim.E_from _ _ S1 eid He1) as Hf. rewrite He2 in Hf. unfold from in Hin. lia.
+    - intros x Hin. apply in_seq in Hin. unfold from in Hin. lia.
+    - unfold m3. msimpl. unfold to, from in *. lia.
+    - intros i u s ds t s' Hpth.
+      assert (Hpc : dpath mc i u s ds t s').
+      { eapply (MddSim.dpath_ceq inp Hnocut Hwidth Hrd); [exact Hac|].
+        eapply (MddSim.dpath_peq inp Hnocut Hwidth Hrd); [exact Hpa| |exact Hpth]. auto. }
+      eapply (MddSim.dpath_peq inp Hnocut Hwidth Hrd); [exact Hp| |eapply (MddSim.dpath_gr inp Hnocut Hwidth Hrd); [exact S2|exact Hpc]].
+      intros k x. unfold m3. msimpl. apply MddSim.nth_layers_app.
+  Qed.
+
+  Lemma squash_ld_sub (m : mdd) l : forall x, In x (snd (squash_if_needed st_eqb inp m l)) -> In x l \/ x = length (m_nodes m).
+  Proof.
+    intros x. unfold squash_if_needed. rewrite Hrel.
+    destruct (Nat.ltb (ci_width inp) (length l) && Nat.ltb 1 (length (m_layers m))) eqn:Eg; [|cbn [snd]; auto].
+    assert (Hex : exists w1, ci_width inp = S w1) by (exists (ci_width inp - 1); lia).
+    destruct Hex as [w1 Ew]. rewrite (relax_layer_unfold st_eqb inp m l w1 Ew). cbv zeta.
+    destruct (note_squash_fields inp Hclean m) as (F1 & _).
+    set (m0 := note_squash inp m) in *.
+    set (sorted := sort_by (rank_order inp m0) l).
+    assert (Hsorted : forall y, In y sorted -> In y l) by (intros y Hy; apply sort_by_In in Hy; exact Hy).
+    match goal with |- context [find ?f ?k] => destruct (find f k) as [rid|] end; cbn [snd]; intros Hx.
+    - left. apply Hsorted. rewrite <- (firstn_skipn (S w1) sorted). apply in_or_app. left; exact Hx.
+    - apply in_app_or in Hx. destruct Hx as [Hx|[<-|[]]].
+      + left. apply Hsorted. rewrite <- (firstn_skipn w1 sorted). apply in_or_app. left; exact Hx.
+      + right. msimpl. rewrite F1. reflexivity.
+  Qed.
+
+  Lemma squash_new_node (m : mdd) l :
+    length (m_nodes m) < length (m_nodes (fst (squash_if_needed st_eqb inp m l))) ->
+    f_cache (n_flags (gn (fst (squash_if_needed st_eqb inp m l)) (length (m_nodes m)))) = false.
+  Proof.
+    unfold squash_if_needed. rewrite Hrel.
+    destruct (Nat.ltb (ci_width inp) (length l) && Nat.ltb 1 (length (m_layers m))) eqn:Eg; [|cbn [fst]; lia].
+    assert (Hex : exists w1, ci_width inp = S w1) by (exists (ci_width inp - 1); lia).
+    destruct Hex as [w1 Ew]. rewrite (relax_layer_unfold st_eqb inp m l w1 Ew). cbv zeta.
+    destruct (note_squash_fields inp Hclean m) as (F1 & _).
+    set (m0 := note_squash inp m) in *.
+    match goal with |- context [add_log m0 ?ev] => set (m1 := add_log m0 ev) end.
+    assert (L1 : length (m_nodes m1) = length (m_nodes m)) by (unfold m1; msimpl; rewrite F1; reflexivity).
+    assert (GF : forall mg mid L (b : mdd),
+               thc b (fold_left (drop_step inp mg mid) L b) /\
+               length (m_nodes (fold_left (drop_step inp mg mid) L b)) = length (m_nodes b)).
+    { intros mg mid L. induction L as [|y L IH]; intros b; simpl; [split; [apply thc_refl|reflexivity]|].
+      destruct (thc_drop_step mg mid b y) as [T1 T2].
+      destruct (IH (drop_step inp mg mid b y)) as [I1 I2].
+      split; [apply (thc_trans b (drop_step inp mg mid b y)); [lia|exact T1|exact I1]|]. rewrite I2. exact T2. }
+    match goal with |- context [find ?f ?k] => destruct (find f k) as [rid|] end; cbn [fst].
+    - intros Hlt. exfalso. revert Hlt. msimpl. rewrite upd_nth_length.
+      match goal with |- context [fold_left (drop_step inp ?mg ?mid) ?L ?b] => destruct (GF mg mid L b) as [_ G2] end.
+      rewrite G2. msimpl. rewrite upd_nth_length. fold (m_nodes m1). rewrite L1. lia.
+    - intros _.
+      match goal with |- context [fold_left (drop_step inp ?mg ?mid) ?L ?b] => set (m2 := b); destruct (GF mg mid L b) as [G1 _] end.
+      fold m2 in G1.
+      assert (Hlt2 : length (m_nodes m) < length (m_nodes m2)).
+      { unfold m2. msimpl. rewrite upd_nth_length, app_length. fold (m_nodes m1). rewrite L1. simpl. lia. }
+      destruct (G1 (length (m_nodes m)) Hlt2) as [G1a _]. rewrite G1a.
+      unfold m2. rewrite <- L1. rewrite gn_upd_same by (msimpl; rewrite app_length; simpl; lia).
+      rewrite gn_snoc_new. reflexivity.
+  Qed.
+
+  (* ---------------------------------------------------------------- _move_to_next_layer, frames and flags (Thresholds.move_extra with the cache) *)
+  Notation tr := (Thresholds.tr inp).
+  Let tr_transC := Thresholds.tr_trans inp Hnocut Hwidth Hrd.
+  Let tr_sameC := Thresholds.tr_same inp Hnocut Hwidth Hrd.
+  Definition fcache (m : mdd) (x : nat) : bool := f_cache (n_flags (gn m x)).
+
+  Lemma move_extraC (m : mdd) :
+    m_next m <> [] -> m_layer_end m <= length (m_nodes m) ->
+    (forall x, In x (m_next m) <-> m_layer_end m <= x < length (m_nodes m)) -> NoDup (m_next m) ->
+    (forall x, In x (m_next m) -> del m x = false) ->
+    (forall x, In x (m_next m) -> fcache m x = false) ->
+    exists m3 l, move_to_next_layer_clean st_eqb inp m = (m3, Some l) /\
+      m_layer_end m3 = length (m_nodes m3) /\
+      m_layers m3 = m_layers m ++ [seq (m_layer_end m) (length (m_nodes m3) - m_layer_end m)] /\
+      same_below (m_layer_end m) m m3 /\ tr m m3 /\
+      (forall x, In x l -> del m3 x = false /\ m_layer_end m <= x < length (m_nodes m3)) /\
+      (forall x, m_layer_end m <= x < length (m_nodes m3) -> del m3 x = false -> fcache m3 x = false -> In x l) /\
+      (m_lel m3 = m_lel m \/ (m_lel m = None /\ m_lel m3 = Some (length (m_layers m) - 1) /\ 1 < length (m_layers m))) /\
+      (forall x, In x l -> fcache m3 x = false) /\
+      incl (kept m) (m_next m) /\
+      (forall x, In x (m_next m) -> ~ In x (kept m) ->
+         del m3 x = false /\
+         exists th, ci_use_cache inp = true /\
+           cget st_eqb (m_cache m) (n_state (gn m x)) (n_depth (gn m x)) = Some th /\
+           (n_vtop (gn m x) <= th_value th)%Z /\ gn m3 x = dropnode (gn m x) (th_value th)) /\
+      (forall x, In x (kept m) -> fcache m3 x = false) /\
+      (forall x, m_layer_end m <= x < length (m_nodes m3) -> In x (m_next m) \/ In x l).
+  Proof.
+    intros Hne Hle Hopen Hnd Hdel Hfc. unfold kept.
+    rewrite move_clean_unfold. destruct (m_next m) as [|c0 cs] eqn:En; [congruence|].
+    set (curr := c0 :: cs) in *.
+    set (ma := with_next m []).
+    assert (Hga : forall k, gn ma k = gn m k) by reflexivity.
+    (* cache filter *)
+    assert (Hb : ceq inp ma (fst (prefilter st_eqb inp ma curr)) /\ incl (snd (prefilter st_eqb inp ma curr)) curr /\
+                 m_nodes (fst (prefilter st_eqb inp ma curr)) = m_nodes ma \/ True).
+    { right. exact I. }
+    clear Hb.
+    assert (Hpre : let r := prefilter st_eqb inp ma curr in
+              ceq inp ma (fst r) /\ length (m_nodes (fst r)) = length (m_nodes m) /\ NoDup (snd r) /\
+              (forall x, ~ In x curr -> gn (fst r) x = gn m x) /\
+              (forall x, In x (snd r) -> In x curr /\ gn (fst r) x = gn m x) /\
+              (forall x, In x curr -> ~ In x (snd r) ->
+                 exists th, ci_use_cache inp = true /\
+                   cget st_eqb (m_cache m) (n_state (gn m x)) (n_depth (gn m x)) = Some th /\
+                   (n_vtop (gn m x) <= th_value th)%Z /\ gn (fst r) x = dropnode (gn m x) (th_value th))).
+    { cbv zeta. unfold prefilter. destruct (Nat.ltb 0 (length (m_layers ma))).
+      - destruct (filter_with_cache_ceq st_eqb inp Hclean curr ma) as [C1 C2].
+        destruct (fwc_nodes curr ma Hnd) as (W1 & W2 & W3 & W4).
+        { intros x Hx. apply Hopen. exact Hx. }
+        split; [exact C1|]. split; [destruct C1 as ((_ & _ & c & _) & _); exact c|]. split; [exact W4|].
+        split; [exact W1|]. split; [exact W2|exact W3].
+      - cbn [fst snd]. split; [apply ceq_refl|]. split; [reflexivity|]. split; [exact Hnd|].
+        split; [reflexivity|]. split; [intros x Hx; split; [exact Hx|reflexivity]|]. intros x Hx Hn. contradiction. }
+    cbv zeta in Hpre.
+    destruct (prefilter st_eqb inp ma curr) as [mb lb0]. cbn [fst snd] in Hpre.
+    destruct Hpre as (Hcb & Hlenb & Hndb & Wout & Wkept & Wdrop).
+    (* dominance filter *)
+    pose proof (filter_with_dominance_ceq inp mb lb0) as [Hcc _].
+    pose proof (MddSim.filter_with_dominance_nodom inp Hnodom mb lb0) as Hlc.
+    assert (Hncc : m_nodes (fst (filter_with_dominance inp mb lb0)) = m_nodes mb).
+    { unfold filter_with_dominance. apply (MddSim.dom_retain_nodes inp Hnodom). }
+    assert (Hndc : NoDup (snd (filter_with_dominance inp mb lb0))).
+    { unfold filter_with_dominance. rewrite (MddSim.dom_retain_nodom inp Hnodom).
+      apply (proj2 (sub_sort_by _ lb0)). exact Hndb. }
+    destruct (filter_with_dominance inp mb lb0) as [mc lc]. cbn [fst snd] in Hcc, Hlc, Hncc, Hndc.
+    assert (Hac : ceq inp ma mc) by (eapply ceq_trans; eauto).
+    assert (Hgc : forall k, gn mc k = gn mb k) by (intros k; apply gn_nodes_eq; exact Hncc).
+    assert (Hlenc : length (m_nodes mc) = length (m_nodes m)) by (rewrite Hncc; exact Hlenb).
+    destruct Hac as ((Hec & _) & _ & Hlec & Hlyc & Hlelc & _).
+    change (m_layer_end ma) with (m_layer_end m) in Hlec. change (m_layers ma) with (m_layers m) in Hlyc.
+    change (m_lel ma) with (m_lel m) in Hlelc. change (m_edges ma) with (m_edges m) in Hec.
+    assert (Hlcin : forall x, In x lc -> In x curr /\ gn mc x = gn m x).
+    { intros x Hx. apply Hlc in Hx. rewrite Hgc. apply Wkept. exact Hx. }
+    assert (Hdc : forall x, del mc x = del m x).
+    { intros x. unfold Thresholds.del. rewrite Hgc.
+      destruct (classic_in x curr) as [Hin|Hnin]; [|rewrite (Wout x Hnin); reflexivity].
+      destruct (classic_in x lb0) as [Hk|Hk]; [rewrite (proj2 (Wkept x Hk)); reflexivity|].
+      destruct (Wdrop x Hin Hk) as (th & _ & _ & _ & E). rewrite E. reflexivity. }
+    (* squash *)
+    destruct (Thresholds.squash_extra st_eqb inp Hclean Hnocut Hwidth Hrel Hrd mc lc) as (S1 & S2 & S3 & S4 & S5 & S6).
+    { rewrite Hlec, Hlenc. exact Hle. }
+    { intros x Hx. rewrite Hlec, Hlenc. apply Hopen. apply (Hlcin x Hx). }
+    { exact Hndc. }
+    { intros x Hx. rewrite Hdc. apply Hdel. apply (Hlcin x Hx). }
+    cbv zeta in S1, S2, S3, S4, S5, S6.
+    pose proof (Thresholds.squash_gr st_eqb inp Hclean Hnocut Hwidth Hrel Hrd mc lc) as Gcd.
+    pose proof (squash_outside mc lc) as Oout.
+    pose proof (squash_thc mc lc) as Othc.
+    destruct (squash_if_needed st_eqb inp mc lc) as [md ld] eqn:Esq. cbn [fst snd] in *.
+    rewrite Hlec in S1, S2. rewrite Hlenc in S4, S5. rewrite Hlelc, Hlyc in S6.
+    pose proof (MddSim.gr_layers inp _ _ Gcd) as Hlyd. rewrite Hlyc in Hlyd.
+    assert (Hled : m_layer_end md = m_layer_end m).
+    { destruct Gcd as [E _]. rewrite (ext_lend _ _ _ E). exact Hlec. }
+    set (m3 := push_layer md (seq (m_layer_end md) (length (m_nodes md) - m_layer_end md)) (length (m_nodes md))).
+    exists m3, ld. split; [reflexivity|].
+    assert (Hd3 : forall x, del m3 x = del md x) by (intros x; apply Thresholds.del_same_nodes; reflexivity).
+    assert (Hg3 : forall x, gn m3 x = gn md x) by (intros x; apply gn_nodes_eq; reflexivity).
+    change (length (m_nodes m3)) with (length (m_nodes md)).
+    split; [reflexivity|]. split; [unfold m3; msimpl; rewrite Hled, Hlyd; reflexivity|].
+    assert (Hbm : same_below (m_layer_end m) m md).
+    { apply (Thresholds.same_below_trans inp _ m mc); [|exact S1].
+      intros x Hx. rewrite Hgc. apply Wout. intros Hin. apply Hopen in Hin. lia. }
+    split; [intros x Hx; rewrite Hg3; apply Hbm; exact Hx|].
+    split.
+    { apply (tr_transC m md m3); [|apply tr_sameC; reflexivity].
+      apply (tr_transC m mc md); [|apply Thresholds.tr_gr; exact Gcd].
+      (* m -> mc: same states, same inbound lists, same edges *)
+      split; [rewrite Hlenc; apply Nat.le_refl|]. split; [|split; [|exists []; rewrite app_nil_r; exact Hec]].
+      - intros x Hx. rewrite Hgc. destruct (classic_in x curr) as [Hin|Hnin]; [|rewrite (Wout x Hnin); reflexivity].
+        destruct (classic_in x lb0) as [Hk|Hk]; [rewrite (proj2 (Wkept x Hk)); reflexivity|].
+        destruct (Wdrop x Hin Hk) as (th & _ & _ & _ & E). rewrite E. reflexivity.
+      - intros x. rewrite Hgc. destruct (classic_in x curr) as [Hin|Hnin]; [|rewrite (Wout x Hnin); apply incl_refl].
+        destruct (classic_in x lb0) as [Hk|Hk]; [rewrite (proj2 (Wkept x Hk)); apply incl_refl|].
+        destruct (Wdrop x Hin Hk) as (th & _ & _ & _ & E). rewrite E. apply incl_refl. }
+    assert (Hfcd : forall x, x < length (m_nodes m) -> fcache md x = fcache mc x).
+    { intros x Hx. unfold fcache. apply Othc. rewrite Hlenc. exact Hx. }
+    assert (Hfc_kept : forall x, In x lb0 -> fcache mc x = false).
+    { intros x Hx. unfold fcache. rewrite Hgc, (proj2 (Wkept x Hx)). apply Hfc. apply (Wkept x Hx). }
+    assert (Hfc_ld : forall x, In x ld -> fcache md x = false).
+    { intros x Hx. destruct (Nat.lt_ge_cases x (length (m_nodes m))) as [Hlt|Hge].
+      - rewrite (Hfcd x Hlt).
+        destruct (classic_in x lc) as [Hin|Hnin]; [apply Hfc_kept; apply Hlc; exact Hin|].
+        (* x < length nodes, in ld but not in lc: impossible (ld is a sublist of lc plus the new node) *)
+        exfalso. destruct (S2 x Hx) as [_ Hr].
+        assert (Hxc : In x curr) by (apply Hopen; lia).
+        destruct (classic_in x lb0) as [Hk|Hk]; [apply Hnin; apply Hlc; exact Hk|].
+        (* a dropped node is outside lc: untouched by the squash, hence not in ld unless ld ⊆ lc ∪ {new} *)
+        pose proof (squash_ld_sub mc lc) as Hsub. rewrite Esq in Hsub. cbn [snd] in Hsub.
+        destruct (Hsub x Hx) as [H1|H1]; [contradiction|]. rewrite Hlenc in H1. lia.
+      - (* the new merged node *)
+        destruct (S2 x Hx) as [_ Hr]. assert (x = length (m_nodes m)) by lia. subst x.
+        pose proof (squash_new_node mc lc) as Hnew. rewrite Esq in Hnew. cbn [fst] in Hnew.
+        rewrite Hlenc in Hnew. apply Hnew. lia. }
+    split; [intros x Hx; rewrite Hd3; apply S2; exact Hx|]. split.
+    { intros x Hx Hdx Hfx. rewrite Hd3 in Hdx. unfold fcache in Hfx. rewrite Hg3 in Hfx. fold (fcache md x) in Hfx.
+      destruct (classic_in x ld) as [Hin|Hnin]; [exact Hin|]. exfalso.
+      destruct (Nat.lt_ge_cases x (length (m_nodes m))) as [Hlt|Hge].
+      - assert (Hxc : In x curr) by (apply Hopen; lia).
+        destruct (classic_in x lb0) as [Hk|Hk].
+        + assert (Hxl : In x lc) by (apply Hlc; exact Hk). rewrite (S3 x Hxl Hnin) in Hdx. discriminate.
+        + rewrite (Hfcd x Hlt) in Hfx. unfold fcache in Hfx. rewrite Hgc in Hfx.
+          destruct (Wdrop x Hxc Hk) as (th & _ & _ & _ & E). rewrite E in Hfx. unfold dropnode in Hfx. nsimpl_in Hfx. discriminate.
+      - assert (x = length (m_nodes m)) by lia. subst x. apply Hnin. apply S5. lia. }
+    split; [exact S6|].
+    split; [intros x Hx; unfold fcache; rewrite Hg3; apply Hfc_ld; exact Hx|].
+    split; [intros x Hx; apply (Wkept x Hx)|].
+    split.
+    { intros x Hx Hk.
+      assert (Hxr : m_layer_end m <= x < length (m_nodes m)) by (apply Hopen; exact Hx).
+      assert (Hnlc : ~ In x lc) by (intros H; apply Hk; apply Hlc; exact H).
+      assert (Hgd : gn md x = gn mc x).
+      { apply Oout. intros [H|H]; [contradiction|]. rewrite Hlenc in H. lia. }
+      destruct (Wdrop x Hx Hk) as (th & T1 & T2 & T3 & T4).
+      split.
+      - rewrite Hd3. unfold Thresholds.del. rewrite Hgd, Hgc, T4. unfold dropnode. nsimpl. apply Hdel. exact Hx.
+      - exists th. split; [exact T1|]. split; [exact T2|]. split; [exact T3|]. rewrite Hg3, Hgd, Hgc. exact T4. }
+    split.
+    { intros x Hx. unfold fcache. rewrite Hg3. fold (fcache md x).
+      assert (Hxr : x < length (m_nodes m)) by (apply Hopen; apply (Wkept x Hx)).
+      rewrite (Hfcd x Hxr). apply Hfc_kept. exact Hx. }
+    intros x Hx. destruct (Nat.lt_ge_cases x (length (m_nodes m))) as [Hlt|Hge].
+    - left. apply Hopen. lia.
+    - right. assert (x = length (m_nodes m)) by lia. subst x. apply S5. lia.
+  Qed.
+
+  (* ---------------------------------------------------------------- node-local invariant: no threshold unless dropped by the cache, no above flag *)
+  Definition PnC (n : node) : Prop :=
+    f_above (n_flags n) = false /\ (f_cache (n_flags n) = false -> n_theta n = None).
+  Definition NinvC (m : mdd) : Prop := Forall PnC (m_nodes m).
+
+  Lemma NinvC_same (m m' : mdd) : m_nodes m' = m_nodes m -> NinvC m -> NinvC m'.
+  Proof. unfold NinvC. intros ->. auto. Qed.
+  Lemma NinvC_upd (m : mdd) id f : (forall n, PnC n -> PnC (f n)) -> NinvC m -> NinvC (upd_node m id f).
+  Proof. intros Hf H. unfold NinvC. msimpl. apply Forall_upd_nth; auto. Qed.
+  Lemma NinvC_append_edge (m : mdd) e : NinvC m -> NinvC (append_edge inp m e).
+  Proof.
+    intros H. unfold NinvC. msimpl. apply Forall_upd_nth; [|exact H].
+    intros n (P1 & P2). split; nsimpl; auto.
+  Qed.
+  Lemma NinvC_snoc (m : mdd) n : PnC n -> NinvC m -> NinvC (with_nodes m (m_nodes m ++ [n])).
+  Proof. intros Hn H. unfold NinvC. msimpl. apply Forall_app. split; [exact H|constructor; auto]. Qed.
+  Lemma NinvC_fold {X} (f : mdd -> X -> mdd) l m : (forall a x, NinvC a -> NinvC (f a x)) -> NinvC m -> NinvC (fold_left f l m).
+  Proof. intros Hf. revert m. induction l as [|x l IH]; intros m Hm; simpl; auto. Qed.
+  Lemma PnC_set_flag (n : node) fl :
+    f_cache fl = f_cache (n_flags n) -> f_above fl = f_above (n_flags n) -> PnC n -> PnC (set_flags n fl).
+  Proof. intros Hf Hg (P1 & P2). split; nsimpl; [congruence|]. intros E. apply P2. congruence. Qed.
+
+  Lemma NinvC_gn (m : mdd) x : NinvC m -> PnC (gn m x).
+  Proof.
+    intros H. destruct (Nat.lt_ge_cases x (length (m_nodes m))) as [Hlt|Hge].
+    - unfold NinvC in H. rewrite Forall_forall in H. apply H. apply nth_In. exact Hlt.
+    - rewrite (gn_out_of_range inp m x Hge). split; [reflexivity|intros _; reflexivity].
+  Qed.
+
+  Lemma NinvC_branch_on (m : mdd) id d : NinvC m -> NinvC (branch_on st_eqb inp m id d).
+  Proof.
+    intros H. unfold branch_on. cbv zeta.
+    match goal with |- context [find_next ?a ?b ?c ?d] => destruct (find_next a b c d) end.
+    - apply NinvC_append_edge. eapply NinvC_same; [|exact H]. reflexivity.
+    - eapply NinvC_same; [reflexivity|]. apply NinvC_append_edge. apply NinvC_snoc.
+      + split; [reflexivity|intros _; reflexivity].
+      + eapply NinvC_same; [|exact H]. reflexivity.
+  Qed.
+
+  Lemma NinvC_expand_node var (m : mdd) id : NinvC m -> NinvC (expand_node st_eqb inp var m id).
+  Proof.
+    intros H. unfold expand_node. cbv zeta.
+    set (m1 := upd_node m id (fun n => set_rub n (fast_upper_bound (ci_relax inp) (n_state (gn m id))))).
+    assert (H1 : NinvC m1).
+    { unfold m1. apply NinvC_upd; [|exact H]. intros n (P1 & P2). split; nsimpl; auto. }
+    destruct (_ >? _)%Z; [|exact H1].
+    apply NinvC_fold; [intros; apply NinvC_branch_on; assumption|].
+    eapply NinvC_same; [|exact H1]. reflexivity.
+  Qed.
+
+  Lemma NinvC_drop_step merged mid (a : mdd) did : NinvC a -> NinvC (drop_step inp merged mid a did).
+  Proof.
+    intros H. unfold drop_step. rewrite redirect_edges_fold.
+    apply NinvC_fold.
+    - intros b x Hb. unfold redirect_step. cbv zeta. apply NinvC_append_edge. eapply NinvC_same; [|exact Hb]. reflexivity.
+    - apply NinvC_upd; [|exact H]. intros n Hn. apply PnC_set_flag; [reflexivity|reflexivity|exact Hn].
+  Qed.
+
+  Lemma NinvC_squash (m : mdd) l : NinvC m -> NinvC (fst (squash_if_needed st_eqb inp m l)).
+  Proof.
+    intros H. unfold squash_if_needed. rewrite Hrel.
+    destruct (_ && _); [|exact H].
+    assert (Hex : exists w1, ci_width inp = S w1) by (exists (ci_width inp - 1); lia).
+    destruct Hex as [w1 Ew]. rewrite (relax_layer_unfold st_eqb inp m l w1 Ew). cbv zeta.
+    assert (H0 : NinvC (note_squash inp m)) by (eapply NinvC_same; [apply (note_squash_fields inp Hclean m)|exact H]).
+    set (m0 := note_squash inp m) in *.
+    match goal with |- context [add_log m0 ?ev] => set (m1 := add_log m0 ev) end.
+    assert (H1 : NinvC m1) by (eapply NinvC_same; [|exact H0]; reflexivity).
+    match goal with |- context [find ?f ?k] => destruct (find f k) as [rid|] end; cbn [fst].
+    + apply NinvC_upd; [intros n Hn; apply PnC_set_flag; [reflexivity|reflexivity|exact Hn]|].
+      apply NinvC_fold; [intros; apply NinvC_drop_step; assumption|].
+      apply NinvC_upd; [intros n Hn; apply PnC_set_flag; [reflexivity|reflexivity|exact Hn]|exact H1].
+    + apply NinvC_fold; [intros; apply NinvC_drop_step; assumption|].
+      apply NinvC_upd; [intros n Hn; apply PnC_set_flag; [reflexivity|reflexivity|exact Hn]|].
+      apply NinvC_snoc; [|exact H1]. split; [reflexivity|intros _; reflexivity].
+  Qed.
+
+  Lemma NinvC_cache_get (m : mdd) s d : NinvC m -> NinvC (fst (cache_get st_eqb inp m s d)).
+  Proof.
+    intros H. eapply NinvC_same; [|exact H].
+    apply (cache_get_facts st_eqb inp Hnocut Hwidth Hrd m s d).
+  Qed.
+
+  Lemma NinvC_fwc l : forall (m : mdd), NinvC m -> NinvC (fst (filter_with_cache st_eqb inp m l)).
+  Proof.
+    induction l as [|id l IH]; intros m H; cbn [filter_with_cache]; [exact H|]. cbv zeta.
+    pose proof (NinvC_cache_get m (n_state (gn m id)) (n_depth (gn m id)) H) as H1.
+    destruct (cache_get st_eqb inp m (n_state (gn m id)) (n_depth (gn m id))) as [m1 th]. cbn [fst] in H1.
+    destruct th as [t|].
+    - destruct (_ >? _)%Z.
+      + specialize (IH m1 H1). destruct (filter_with_cache st_eqb inp m1 l) as [m2 r]. exact IH.
+      + apply IH. apply NinvC_upd; [|exact H1]. intros n (P1 & P2). split; nsimpl; [exact P1|discriminate].
+    - specialize (IH m1 H1). destruct (filter_with_cache st_eqb inp m1 l) as [m2 r]. exact IH.
+  Qed.
+
+  Lemma NinvC_move (m : mdd) : NinvC m -> NinvC (fst (move_to_next_layer_clean st_eqb inp m)).
+  Proof.
+    intros H. rewrite move_clean_unfold. destruct (m_next m) as [|c0 cs]; [exact H|].
+    set (curr := c0 :: cs).
+    assert (Hb : NinvC (fst (prefilter st_eqb inp (with_next m []) curr))).
+    { unfold prefilter. destruct (Nat.ltb 0 _); [|exact H]. apply NinvC_fwc. exact H. }
+    destruct (prefilter st_eqb inp (with_next m []) curr) as [mb lb0]. cbn [fst] in Hb.
+    assert (Hcc : NinvC (fst (filter_with_dominance inp mb lb0))).
+    { unfold filter_with_dominance. eapply NinvC_same; [apply (MddSim.dom_retain_nodes inp Hnodom)|exact Hb]. }
+    destruct (filter_with_dominance inp mb lb0) as [mc lc]. cbn [fst] in Hcc.
+    pose proof (NinvC_squash mc lc Hcc) as Hd.
+    destruct (squash_if_needed st_eqb inp mc lc) as [md ld]. cbn [fst] in *. exact Hd.
+  Qed.
+
+  Lemma NinvC_initialize c ds polls : NinvC (initialize inp c ds polls).
+  Proof. constructor; [|constructor]. split; [reflexivity|intros _; reflexivity]. Qed.
+
+  (* ---------------------------------------------------------------- the cache flag of the nodes created by an expansion *)
+  Definition fcQ (b : nat) (a : mdd) : Prop := forall x, b <= x -> fcache a x = false.
+
+  Lemma fcache_append (a : mdd) e x : fcache (append_edge inp a e) x = fcache a x.
+  Proof.
+    unfold fcache. destruct (Nat.eq_dec x (e_to e)) as [->|Hne].
+    - destruct (Nat.lt_ge_cases (e_to e) (length (m_nodes a))) as [Hlt|Hge].
+      + rewrite gn_append_same by exact Hlt. cbv zeta. nsimpl. reflexivity.
+      + unfold get_node. msimpl. rewrite upd_nth_out by exact Hge. reflexivity.
+    - rewrite gn_append_other by exact Hne. reflexivity.
+  Qed.
+
+  Lemma fcache_with_next (a : mdd) nx x : fcache (with_next a nx) x = fcache a x.
+  Proof. reflexivity. Qed.
+  Lemma fcache_snoc (a : mdd) n x : f_cache (n_flags n) = false ->
+    fcache (with_nodes a (m_nodes a ++ [n])) x = if Nat.ltb x (length (m_nodes a)) then fcache a x else false.
+  Proof.
+    intros Hn. unfold fcache. destruct (Nat.ltb_spec x (length (m_nodes a))) as [Hlt|Hge].
+    - rewrite gn_snoc_old by exact Hlt. reflexivity.
+    - destruct (Nat.eq_dec x (length (m_nodes a))) as [->|Hne].
+      + rewrite gn_snoc_new. exact Hn.
+      + rewrite gn_out_of_range; [reflexivity|]. msimpl. rewrite app_length. simpl. lia.
+  Qed.
+
+  Lemma fcQ_branch_on b (a : mdd) id d : fcQ b a -> fcQ b (branch_on st_eqb inp a id d).
+  Proof.
+    intros HQ x Hx. unfold branch_on. cbv zeta.
+    match goal with |- context [find_next ?a0 ?b0 ?c0 ?d0] => destruct (find_next a0 b0 c0 d0) end.
+    - rewrite fcache_append. apply (HQ x Hx).
+    - rewrite fcache_with_next, fcache_append, fcache_snoc by reflexivity.
+      destruct (Nat.ltb _ _); [apply (HQ x Hx)|reflexivity].
+  Qed.
+
+  Lemma fcQ_expand_node b var (a : mdd) id : fcQ b a -> fcQ b (expand_node st_eqb inp var a id).
+  Proof.
+    intros HQ. unfold expand_node. cbv zeta.
+    set (m1 := upd_node a id (fun n => set_rub n (fast_upper_bound (ci_relax inp) (n_state (gn a id))))).
+    assert (H1 : fcQ b m1).
+    { intros x Hx. unfold fcache, m1. rewrite (get_node_upd_node_proj inp (fun n => f_cache (n_flags n))) by (intros n; reflexivity).
+      apply (HQ x Hx). }
+    destruct (_ >? _)%Z; [|exact H1].
+    apply (MddExact.fold_left_inv (fcQ b)); [exact H1|]. intros a0 v _ Ha. apply fcQ_branch_on. exact Ha.
+  Qed.
+
+  Lemma fcQ_expand_layer b var l : forall (a : mdd), fcQ b a -> fcQ b (fold_left (expand_node st_eqb inp var) l a).
+  Proof. induction l as [|id l IH]; intros a Ha; simpl; [exact Ha|]. apply IH. apply fcQ_expand_node. exact Ha. Qed.
+
+  (* ---------------------------------------------------------------- the invariant of the layer loop, with the cache *)
+  Notation lyr m j := (nth j (m_layers m) []).
+  Notation SCn := (Thresholds.SCn inp cov).
+  Notation OI := (Thresholds.OI inp).
+  Notation mkd := Thresholds.mkd.
+
+  Record TIc (c : @cache St) (m : mdd) : Prop := {
+    Tc_C : Cinv (m_curr_depth m) m;
+    Tc_d1 : rd <= m_curr_depth m;
+    Tc_d2 : m_curr_depth m <= N;
+    Tc_len : length (m_layers m) = m_curr_depth m - rd;
+    Tc_wf : wf inp m;
+    Tc_oi : OI m;
+    Tc_ord1 : forall j j' x y, j < j' -> In x (lyr m j) -> In y (lyr m j') -> x < y;
+    Tc_ord2 : forall j, NoDup (lyr m j);
+    Tc_ord3 : forall j x eid y, In x (lyr m j) -> In eid (n_inb (gn m x)) -> In y (lyr m j) ->
+               e_from (get_edge m eid) < y;
+    Tc_dep : forall j x, In x (lyr m j) -> del m x = false -> n_depth (gn m x) = rd + j;
+    Tc_expC : forall j x, S j < length (m_layers m) -> In x (lyr m j) -> del m x = false -> fcache m x = false ->
+               SCn m j x (fun t' => In t' (lyr m (S j)) /\ del m t' = false);
+    Tc_expO : forall j x, S j = length (m_layers m) -> In x (lyr m j) -> del m x = false -> fcache m x = false ->
+               SCn m j x (fun t' => In t' (m_next m));
+    Tc_lel : forall k, m_lel m = Some k -> forall j x, j <= k -> In x (lyr m j) -> is_ex inp m x = true;
+    Tc_nc : NinvC m;
+    Tc_open : forall x, In x (m_next m) -> fcache m x = false;
+    Tc_cached : forall j x, In x (lyr m j) -> del m x = false -> fcache m x = true ->
+       exists th, ci_use_cache inp = true /\ cget st_eqb c (n_state (gn m x)) (n_depth (gn m x)) = Some th /\
+         (n_vtop (gn m x) <= th_value th)%Z /\ n_theta (gn m x) = Some (th_value th);
+    Tc_mc : m_cache m = c;
+    Tc_src : forall x, MddSim.Src m x -> fcache m x = false;
+    Tc_srcl : forall x, MddSim.Src m x -> del m x = false /\ exists j, In x (lyr m j);
+    Tc_root : del m 0 = false /\ fcache m 0 = false /\ ((m_layers m = [] /\ m_next m = [0]) \/ In 0 (lyr m 0)) }.
+
+  Lemma nth_app_casesC {A} (l : list (list A)) (x : list A) j y :
+    In y (nth j (l ++ [x]) []) -> (j < length l /\ In y (nth j l [])) \/ (j = length l /\ In y x).
+  Proof.
+    intros H. destruct (Nat.lt_ge_cases j (length l)) as [Hlt|Hge].
+    - left. split; [exact Hlt|]. rewrite app_nth1 in H by exact Hlt. exact H.
+    - right. rewrite app_nth2 in H by exact Hge. destruct (j - length l) as [|k] eqn:E.
+      + split; [lia|exact H].
+      + destruct k; simpl in H; destruct H.
+  Qed.
+  Lemma nth_app_newC {A} (l : list (list A)) (x : list A) : nth (length l) (l ++ [x]) [] = x.
+  Proof. rewrite app_nth2 by lia. rewrite Nat.sub_diag. reflexivity. Qed.
+
+  Lemma TIc_layer_below c (m : mdd) j x : TIc c m -> In x (lyr m j) -> x < m_layer_end m.
+  Proof.
+    intros HT Hx. destruct (Tc_C _ _ HT) as (_ & HX & _).
+    apply (X_layers _ _ _ HX (lyr m j) x); [apply nth_In; eapply Thresholds.nth_in_len; eauto|exact Hx].
+  Qed.
+
+  (* the first layer is neither filtered by the cache nor squashed *)
+  Lemma move_firstC (m : mdd) m3 ol : m_layers m = [] ->
+    move_to_next_layer_clean st_eqb inp m = (m3, ol) -> m_nodes m3 = m_nodes m.
+  Proof.
+    intros Hl. rewrite move_clean_unfold. destruct (m_next m) as [|c0 cs] eqn:En.
+    - intros E. inversion E. reflexivity.
+    - unfold prefilter. change (m_layers (with_next m [])) with (m_layers m). rewrite Hl. cbn [length Nat.ltb Nat.leb].
+      destruct (filter_with_dominance inp (with_next m []) (c0 :: cs)) as [mc lc] eqn:Ef.
+      assert (Hn : m_nodes mc = m_nodes m).
+      { pose proof (MddSim.dom_retain_nodes inp Hnodom (sort_by (dom_order inp (with_next m [])) (c0 :: cs)) (with_next m [])) as Hd.
+        unfold filter_with_dominance in Ef. rewrite Ef in Hd. exact Hd. }
+      assert (Hlc : m_layers mc = []).
+      { rewrite (ext_layers inp _ _ (ext_filter_with_dominance inp _ _ _ _ Ef)). exact Hl. }
+      unfold squash_if_needed. rewrite Hrel, Hlc. cbn [length Nat.ltb Nat.leb]. rewrite andb_false_r.
+      intros E. inversion E. exact Hn.
+  Qed.
+
+  Lemma iter_TIc c (m : mdd) var ev p :
+    TIc c m -> m_curr_depth m < N -> next_variable pb (m_curr_depth m) [] = Some var -> m_next m <> [] ->
+    let m2 := with_polls (add_log m ev) p in
+    exists m3 l, move_to_next_layer_clean st_eqb inp m2 = (m3, Some l) /\
+      let m4 := fold_left (expand_node st_eqb inp var) l m3 in
+      TIc c (with_depth m4 (S (m_curr_depth m4))).
+  Proof.
+    intros HT HdN Hvar Hne. cbv zeta.
+    set (d := m_curr_depth m) in *.
+    set (m2 := with_polls (add_log m ev) p).
+    pose proof (Tc_C _ _ HT) as HC. pose proof (Tc_len _ _ HT) as Hlen. pose proof (Tc_d1 _ _ HT) as Hd1.
+    assert (Hc2 : ceq inp m m2) by (eapply ceq_trans; [apply ceq_add_log|apply ceq_with_polls]).
+    assert (HC2 : Cinv d m2).
+    { destruct HC as (HD & HX & Hnd & HE).
+      split; [eapply (Dg_ceq inp Hclean); eauto|]. split; [eapply Xinv_ceq; eauto|]. split; [exact Hnd|].
+      eapply (MddSim.Einv_ceq inp Hnocut Hwidth Hrd); eauto. }
+    assert (Hg2 : forall x, gn m2 x = gn m x) by reflexivity.
+    assert (Hne2 : m_next m2 <> []) by exact Hne.
+    destruct (move_simC m2 d HC2 Hne2)
+      as (m3 & l & ids & Emv & C3 & N3 & L3 & D3 & Ly3 & Lids & En3 & T3 & Sr3 & Cl3 & Ns3 & Ge3 & Le3 & Tp3).
+    pose proof (Tc_oi _ _ HT) as (O1 & O2 & O3).
+    destruct (move_extraC m2) as (m3' & l' & Emv' & X1 & X2 & X3 & X4 & X5 & X6 & X7 & X8 & X9 & X10 & X11 & X12).
+    { exact Hne. } { exact O1. } { exact O2. } { apply (wf_next_nodup _ _ (Tc_wf _ _ HT)). } { exact O3. }
+    { exact (Tc_open _ _ HT). }
+    rewrite Emv in Emv'. inversion Emv'; subst m3' l'. clear Emv'.
+    change (m_layer_end m2) with (m_layer_end m) in *. change (m_layers m2) with (m_layers m) in *.
+    change (m_lel m2) with (m_lel m) in *. change (m_next m2) with (m_next m) in *.
+    change (m_cache m2) with (m_cache m) in *.
+    set (b := m_layer_end m) in *.
+    assert (Eids : ids = seq b (length (m_nodes m3) - b)).
+    { rewrite Ly3 in X2. apply app_inv_head in X2. inversion X2. reflexivity. }
+    exists m3, l. split; [exact Emv|].
+    assert (Hvar' : exists states : list St, next_variable pb d states = Some var) by (exists []; exact Hvar).
+    destruct (MddSim.expand_layer_Cinv st_eqb st_eqb_spec inp Hclean Hnocut Hwidth Hrd var l d m3 C3 L3 Hvar') as (C4 & S4 & G4).
+    assert (HO3 : OI m3).
+    { split; [rewrite X1; lia|]. split; [|intros x Hx; rewrite N3 in Hx; destruct Hx].
+      intros x. rewrite N3, X1. simpl. lia. }
+    assert (Hl3 : forall id, In id l -> id < m_layer_end m3) by (intros id Hid; apply (L3 id Hid)).
+    destruct (Thresholds.expand_layer_OI st_eqb inp Hnocut Hwidth Hrd var l m3 HO3 Hl3) as (I1 & I2 & I3 & I4).
+    cbv zeta in I1, I2, I3, I4.
+    set (m4 := fold_left (expand_node st_eqb inp var) l m3) in *.
+    set (m5 := with_depth m4 (S (m_curr_depth m4))).
+    assert (Hcd4 : m_curr_depth m4 = d).
+    { destruct S4 as (_ & _ & _ & _ & s5). rewrite s5, D3. reflexivity. }
+    assert (Hly4 : m_layers m4 = m_layers m ++ [ids]) by (rewrite (MddSim.gr_layers inp _ _ G4); exact Ly3).
+    assert (Hg5 : forall x, gn m5 x = gn m4 x) by reflexivity.
+    set (nl := length (m_layers m)) in *.
+    assert (Hdnl : d = rd + nl) by (unfold nl; lia).
+    (* old closed nodes are untouched *)
+    assert (Hb3 : b <= length (m_nodes m3)) by (destruct X4 as (T1 & _); lia).
+    assert (Hold : forall x, x < b -> gn m4 x = gn m x).
+    { intros x Hx. rewrite I3; [apply X3; exact Hx|rewrite X1; lia|].
+      intros Hin. destruct (X5 x Hin) as [_ Hr]. lia. }
+    assert (Holdl : forall j x, In x (lyr m j) -> x < b) by (intros j x Hx; eapply TIc_layer_below; eauto).
+    assert (Hidsb : forall x, In x ids -> b <= x < length (m_nodes m3)).
+    { intros x Hx. rewrite Eids in Hx. apply in_seq in Hx. lia. }
+    assert (Hinids : forall x, b <= x < length (m_nodes m3) -> In x ids).
+    { intros x Hx. rewrite Eids. apply in_seq. lia. }
+    assert (Hnl4 : forall x, x < length (m_nodes m3) -> ~ In x l -> gn m4 x = gn m3 x).
+    { intros x Hx Hn. apply I3; [rewrite X1; exact Hx|exact Hn]. }
+    assert (Hlids : forall x, In x l -> del m4 x = false).
+    { intros x Hx. unfold Thresholds.del. rewrite (I4 x Hx). nsimpl. apply (X5 x Hx). }
+    assert (Hlfc : forall x, In x l -> fcache m4 x = false).
+    { intros x Hx. unfold fcache. rewrite (I4 x Hx). nsimpl. apply (X8 x Hx). }
+    assert (Hlive_l : forall x, In x ids -> del m4 x = false -> fcache m4 x = false -> In x l).
+    { intros x Hx Hd Hf. destruct (classic_in x l) as [Hin|Hnin]; [exact Hin|].
+      apply X6; [apply Hidsb; exact Hx| |].
+      - unfold Thresholds.del in *. rewrite <- (Hnl4 x (proj2 (Hidsb x Hx)) Hnin). exact Hd.
+      - unfold fcache in *. rewrite <- (Hnl4 x (proj2 (Hidsb x Hx)) Hnin). exact Hf. }
+    (* a live node of the new layer that is not expanded was dropped by the cache filter *)
+    assert (Hdropped : forall x, In x ids -> ~ In x l -> del m4 x = false ->
+              In x (m_next m) /\ ~ In x (kept m2) /\
+              exists th, ci_use_cache inp = true /\
+                cget st_eqb (m_cache m) (n_state (gn m x)) (n_depth (gn m x)) = Some th /\
+                (n_vtop (gn m x) <= th_value th)%Z /\ gn m4 x = dropnode (gn m x) (th_value th)).
+    { intros x Hx Hnin Hd.
+      destruct (X12 x (Hidsb x Hx)) as [Hxn|Hxl]; [|contradiction].
+      assert (Hnk : ~ In x (kept m2)).
+      { intros Hk. apply Hnin. apply X6; [apply Hidsb; exact Hx| |apply X11; exact Hk].
+        unfold Thresholds.del in *. rewrite <- (Hnl4 x (proj2 (Hidsb x Hx)) Hnin). exact Hd. }
+      split; [exact Hxn|]. split; [exact Hnk|].
+      destruct (X10 x Hxn Hnk) as (_ & th & U1 & U2 & U3 & U4).
+      exists th. rewrite !Hg2 in U2, U3, U4. rewrite (Hnl4 x (proj2 (Hidsb x Hx)) Hnin). auto. }
+    (* transport of paths among old closed layers *)
+    assert (Htr24 : tr m m4).
+    { apply (tr_transC m m3 m4); [exact X4|apply Thresholds.tr_gr; exact G4]. }
+    assert (Hlay24 : forall k x, In x (nth k (m_layers m) []) -> In x (nth k (m_layers m4) [])).
+    { intros k x Hx. rewrite Hly4. apply MddSim.nth_layers_app. exact Hx. }
+    assert (Hp24 : forall i u s ds t s', dpath m i u s ds t s' -> dpath m4 i u s ds t s').
+    { intros i u s ds t s' Hp. eapply (Thresholds.dpath_tr inp Hnocut Hwidth Hrd); eauto. }
+    assert (Hp5 : forall i u s ds t s', dpath m4 i u s ds t s' -> dpath m5 i u s ds t s').
+    { intros i u s ds t s' Hp. eapply (MddSim.dpath_frame inp Hnocut Hwidth Hrd); try exact Hp; try reflexivity; assumption. }
+    assert (HE : Einv m) by apply HC.
+    split.
+    - (* Cinv *)
+      change (m_curr_depth m5) with (S (m_curr_depth m4)). rewrite Hcd4.
+      assert (Hp45 : peq inp m4 m5) by (apply peq_same_nodes; reflexivity).
+      destruct C4 as (D4 & X4' & Nd4 & E4).
+      split; [|split; [|split]].
+      + eapply (Dg_peq inp Hclean); [exact Hp45|exact D4|apply Nat.le_refl|apply (D_le _ _ _ D4)|apply (D_next _ _ _ D4)].
+      + eapply Xg_peq; [exact Hp45|reflexivity|reflexivity|reflexivity|exact X4'].
+      + exact Nd4.
+      + eapply (MddSim.Einv_frame inp Hnocut Hwidth Hrd); try exact E4; try reflexivity; try assumption. apply (MddSim.E_le _ _ E4).
+    - change (m_curr_depth m5) with (S (m_curr_depth m4)). lia.
+    - change (m_curr_depth m5) with (S (m_curr_depth m4)). lia.
+    - change (m_curr_depth m5) with (S (m_curr_depth m4)). change (m_layers m5) with (m_layers m4).
+      rewrite Hly4, app_length, Hcd4. cbn [length]. fold nl. lia.
+    - (* wf *)
+      apply wf_with_depth. apply wf_fold_expand.
+      + apply (proj1 (wf_move_clean st_eqb inp m2 m3 (Some l) Emv (wf_with_polls inp _ _ (wf_add_log inp _ _ (Tc_wf _ _ HT))))).
+      + apply (proj1 (proj2 (wf_move_clean st_eqb inp m2 m3 (Some l) Emv (wf_with_polls inp _ _ (wf_add_log inp _ _ (Tc_wf _ _ HT)))) l eq_refl)).
+    - apply (Thresholds.OI_same inp m4 m5); auto.
+    - (* ord1 *)
+      change (m_layers m5) with (m_layers m4). rewrite Hly4. intros j j' x y Hjj Hx Hy.
+      apply nth_app_casesC in Hx. apply nth_app_casesC in Hy. fold nl in Hx, Hy.
+      destruct Hx as [[Hj Hx]|[Hj Hx]]; destruct Hy as [[Hj' Hy]|[Hj' Hy]]; try lia.
+      + apply (Tc_ord1 _ _ HT j j' x y Hjj Hx Hy).
+      + pose proof (Holdl j x Hx). pose proof (Hidsb y Hy). lia.
+    - (* ord2 *)
+      change (m_layers m5) with (m_layers m4). rewrite Hly4. intros j.
+      destruct (Nat.lt_ge_cases j nl) as [Hj|Hj].
+      + rewrite Thresholds.nth_app_old by exact Hj. apply (Tc_ord2 _ _ HT).
+      + destruct (Nat.eq_dec j nl) as [->|Hjn].
+        * unfold nl. rewrite nth_app_newC. rewrite Eids. apply seq_NoDup.
+        * rewrite nth_overflow by (rewrite app_length; simpl; fold nl; lia). constructor.
+    - (* ord3 *)
+      change (m_layers m5) with (m_layers m4). rewrite Hly4. intros j x eid y Hx Hin Hy. rewrite Hg5 in Hin.
+      apply nth_app_casesC in Hx. apply nth_app_casesC in Hy. fold nl in Hx, Hy.
+      destruct Hx as [[Hj Hx]|[Hj Hx]]; destruct Hy as [[Hj' Hy]|[Hj' Hy]]; try lia.
+      + pose proof (Holdl j x Hx) as Hxb. rewrite (Hold x Hxb) in Hin.
+        assert (Hxl : x < length (m_nodes m)) by (pose proof (MddSim.E_le _ _ HE); unfold b in Hxb; lia).
+        destruct (MddSim.E_inb _ _ HE x eid Hxl Hin) as (He & _).
+        change (get_edge m5 eid) with (get_edge m4 eid). rewrite (Thresholds.tr_edge inp m m4 eid Htr24 He).
+        apply (Tc_ord3 _ _ HT j x eid y Hx Hin Hy).
+      + pose proof (Hidsb x Hx) as Hxr.
+        assert (Hin3 : In eid (n_inb (gn m3 x))).
+        { destruct (classic_in x l) as [Hxl|Hxl]; [rewrite (I4 x Hxl) in Hin; exact Hin|].
+          rewrite I3 in Hin; [exact Hin|rewrite X1; lia|exact Hxl]. }
+        destruct C3 as (_ & _ & _ & E3).
+        destruct (MddSim.E_inb _ _ E3 x eid ltac:(lia) Hin3) as (He3 & _).
+        change (get_edge m5 eid) with (get_edge m4 eid). rewrite (MddSim.gr_edge inp m3 m4 eid G4 He3).
+        assert (HSrc : MddSim.Src m3 (e_from (get_edge m3 eid))) by (exists eid; auto).
+        apply Sr3 in HSrc. destruct HSrc as (eid2 & He2 & Hf2).
+        assert (HE2 : Einv m2) by apply HC2.
+        pose proof (MddSim.E_from _ _ HE2 eid2 He2) as Hlt. rewrite Hf2 in Hlt.
+        change (m_layer_end m2) with b in Hlt. pose proof (Hidsb y Hy). lia.
+    - (* depth *)
+      change (m_layers m5) with (m_layers m4). rewrite Hly4. intros j x Hx Hd. rewrite Hg5.
+      change (del m5 x) with (del m4 x) in Hd.
+      apply nth_app_casesC in Hx. fold nl in Hx. destruct Hx as [[Hj Hx]|[Hj Hx]].
+      + pose proof (Holdl j x Hx) as Hxb. rewrite (Hold x Hxb). apply (Tc_dep _ _ HT j x Hx).
+        unfold Thresholds.del in *. rewrite <- (Hold x Hxb). exact Hd.
+      + destruct (classic_in x l) as [Hxl|Hxl].
+        * rewrite (I4 x Hxl). nsimpl. destruct (L3 x Hxl) as [_ Hdp]. lia.
+        * destruct (Hdropped x Hx Hxl Hd) as (Hxn & _ & th & _ & _ & _ & E). rewrite E. unfold dropnode. nsimpl.
+          destruct HC as (_ & _ & Hnd & _). rewrite (Hnd x Hxn). lia.
+    - (* closed targets *)
+      change (m_layers m5) with (m_layers m4). rewrite Hly4, app_length. cbn [length]. fold nl.
+      intros j x Hj Hx Hd Hf. change (del m5 x) with (del m4 x) in Hd. change (fcache m5 x) with (fcache m4 x) in Hf.
+      rewrite Thresholds.nth_app_old in Hx by (fold nl; lia).
+      pose proof (Holdl j x Hx) as Hxb.
+      assert (Hdm : del m x = false) by (unfold Thresholds.del in *; rewrite <- (Hold x Hxb); exact Hd).
+      assert (Hfm : fcache m x = false) by (unfold fcache in *; rewrite <- (Hold x Hxb); exact Hf).
+      intros Hbr s var0 val Hcov Hv0 Hval.
+      unfold Thresholds.brd in Hbr. rewrite Hg5, (Hold x Hxb) in Hbr. rewrite Hg5, (Hold x Hxb) in Hcov.
+      destruct (Nat.lt_ge_cases (S j) nl) as [Hjn|Hjn].
+      + destruct (Tc_expC _ _ HT j x Hjn Hx Hdm Hfm Hbr s var0 val Hcov Hv0 Hval) as (t' & [Ht' Hdt'] & Hp).
+        exists t'. split.
+        * rewrite Thresholds.nth_app_old by (fold nl; lia). split; [exact Ht'|].
+          pose proof (Holdl (S j) t' Ht') as Htb. change (del m5 t') with (del m4 t'). unfold Thresholds.del in *.
+          rewrite (Hold t' Htb). exact Hdt'.
+        * apply Hp5, Hp24. exact Hp.
+      + assert (Ej : S j = nl) by lia.
+        destruct (Tc_expO _ _ HT j x Ej Hx Hdm Hfm Hbr s var0 val Hcov Hv0 Hval) as (t' & Ht' & Hp).
+        destruct (classic_in t' (kept m2)) as [Hk|Hk].
+        * destruct (T3 j x s t' [mkd var0 val] (transition pb s (mkd var0 val))) as (u' & Hu' & Hp3).
+          -- exact Hk.
+          -- intros _. discriminate.
+          -- intros E. rewrite Hrel in E. discriminate.
+          -- eapply (MddSim.dpath_ceq inp Hnocut Hwidth Hrd); eauto.
+          -- exists u'. split.
+             ++ rewrite Ej. unfold nl. rewrite nth_app_newC. split; [apply Lids; exact Hu'|].
+                change (del m5 u') with (del m4 u'). apply Hlids. exact Hu'.
+             ++ apply Hp5. eapply (MddSim.dpath_gr inp Hnocut Hwidth Hrd); eauto.
+        * (* the successor was dropped by the cache filter: it stays in the layer, not expanded *)
+          destruct (X10 t' Ht' Hk) as (Hdel3 & _).
+          assert (Ht'r : b <= t' < length (m_nodes m3)).
+          { pose proof (proj1 (O2 t') Ht') as Hr0. destruct X4 as (T1 & _). change (m_nodes m2) with (m_nodes m) in T1. unfold b. lia. }
+          assert (Hnl : ~ In t' l).
+          { intros Hin. pose proof (X8 t' Hin) as Hf8.
+            destruct (X10 t' Ht' Hk) as (_ & th & _ & _ & _ & E). unfold fcache in Hf8. rewrite E in Hf8.
+            unfold dropnode in Hf8. nsimpl_in Hf8. discriminate. }
+          exists t'. split.
+          -- rewrite Ej. unfold nl. rewrite nth_app_newC. split; [apply Hinids; exact Ht'r|].
+             change (del m5 t') with (del m4 t'). unfold Thresholds.del in *. rewrite (Hnl4 t' (proj2 Ht'r) Hnl). exact Hdel3.
+          -- apply Hp5. eapply (MddSim.dpath_gr inp Hnocut Hwidth Hrd); [exact G4|]. apply Tp3.
+             eapply (MddSim.dpath_ceq inp Hnocut Hwidth Hrd); eauto.
+    - (* open targets: the layer just expanded *)
+      change (m_layers m5) with (m_layers m4). rewrite Hly4, app_length. cbn [length]. fold nl.
+      intros j x Hj Hx Hd Hf. assert (j = nl) by lia. subst j. change (del m5 x) with (del m4 x) in Hd.
+      change (fcache m5 x) with (fcache m4 x) in Hf.
+      unfold nl in Hx. rewrite nth_app_newC in Hx.
+      pose proof (Hlive_l x Hx Hd Hf) as Hxl.
+      intros Hbr s var0 val Hcov Hv0 Hval.
+      assert (var0 = var).
+      { assert (Hv0' : next_variable pb d [] = Some var0) by (rewrite Hdnl; exact Hv0).
+        rewrite Hvar in Hv0'. inversion Hv0'; reflexivity. }
+      subst var0.
+      unfold Thresholds.brd in Hbr. rewrite Hg5, (I4 x Hxl) in Hbr. nsimpl_in Hbr. rewrite Hg5, (I4 x Hxl) in Hcov. nsimpl_in Hcov.
+      change (m_next m5) with (m_next m4).
+      (* split the expansion fold at x *)
+      assert (G : forall l0 (a : mdd), (forall y, In y l0 -> y < m_layer_end a) -> OI a -> gr m3 a ->
+                (forall y, In y l0 -> n_state (gn a y) = n_state (gn m3 y) /\ n_vtop (gn a y) = n_vtop (gn m3 y)) ->
+                In x l0 ->
+                exists t', In t' (m_next (fold_left (expand_node st_eqb inp var) l0 a)) /\
+                  dpath (fold_left (expand_node st_eqb inp var) l0 a) nl x s [mkd var val] t' (transition pb s (mkd var val))).
+      { induction l0 as [|y l0 IH]; intros a Hla Ha Ga Hsa Hin; [destruct Hin|]. simpl.
+        destruct (Thresholds.expand_node_OI st_eqb inp Hnocut Hwidth Hrd var a y Ha (Hla y (or_introl eq_refl))) as (E1 & E2 & E3 & E4).
+        cbv zeta in E1, E2, E3, E4.
+        pose proof (MddSim.gr_expand_node st_eqb inp var a y) as Gay.
+        destruct (Nat.eq_dec y x) as [->|Hne'].
+        - destruct (Thresholds.expand_node_succ st_eqb st_eqb_spec inp Hnocut Hwidth Hrd cov cov_sim var a x nl s val Ha) as (t' & Ht' & Hp).
+          + pose proof (Hla x (or_introl eq_refl)). destruct Ha as (A1 & _). lia.
+          + rewrite (MddSim.gr_layers inp _ _ Ga). rewrite Ly3. unfold nl. rewrite nth_app_newC. exact Hx.
+          + destruct (Hsa x (or_introl eq_refl)) as [Es Ev]. rewrite Es, Ev. apply Z.gtb_lt. fold rlx in Hbr. exact Hbr.
+          + destruct (Hsa x (or_introl eq_refl)) as [Es _]. rewrite Es. exact Hcov.
+          + exact Hval.
+          + cbv zeta in Ht', Hp.
+            assert (Grest : gr (expand_node st_eqb inp var a x) (fold_left (expand_node st_eqb inp var) l0 (expand_node st_eqb inp var a x))).
+            { apply MddSim.gr_fold. intros; apply MddSim.gr_expand_node. }
+            exists t'. split; [eapply MddSim.gr_next; eauto|eapply (MddSim.dpath_gr inp Hnocut Hwidth Hrd); eauto].
+        - destruct Hin as [E|Hin]; [congruence|].
+          apply IH.
+          + intros z Hz. rewrite E2. apply Hla. right; exact Hz.
+          + exact E1.
+          + eapply MddSim.gr_trans; eauto.
+          + intros z Hz. destruct (Hsa z (or_intror Hz)) as [Es Ev].
+            destruct (Nat.eq_dec z y) as [->|Hzy].
+            * rewrite E4. nsimpl. auto.
+            * rewrite (E3 z (Hla z (or_intror Hz)) Hzy). auto.
+          + exact Hin. }
+      destruct (G l m3 Hl3 HO3 (MddSim.gr_refl inp m3) (fun y _ => conj eq_refl eq_refl) Hxl) as (t' & Ht' & Hp).
+      exists t'. split; [exact Ht'|]. apply Hp5. exact Hp.
+    - (* last exact layer *)
+      change (m_lel m5) with (m_lel m4). change (m_layers m5) with (m_layers m4).
+      unfold m4. rewrite MddSim.expand_layer_lel. fold m4. rewrite Hly4.
+      intros k Hk j x Hjk Hx. unfold is_ex. rewrite Hg5.
+      assert (Hkl : k < nl).
+      { destruct X7 as [E|(E1 & E2 & E3)]; [|rewrite E2 in Hk; inversion Hk; subst k; fold nl; fold nl in E3; lia].
+        rewrite E in Hk. destruct HC as (_ & HX & _). apply (X_lel_lt _ _ _ HX Hrel k Hk). }
+      rewrite Thresholds.nth_app_old in Hx by (fold nl; lia).
+      pose proof (Holdl j x Hx) as Hxb. rewrite (Hold x Hxb).
+      destruct X7 as [E|(E1 & E2 & _)].
+      + rewrite E in Hk. apply (Tc_lel _ _ HT k Hk j x Hjk Hx).
+      + destruct HC as (_ & HX & _). apply (X_lel_none _ _ _ HX E1).
+        pose proof (MddSim.E_le _ _ HE). unfold b in Hxb. lia.
+    - (* NinvC *)
+      eapply NinvC_same; [reflexivity|].
+      apply NinvC_fold; [intros; apply NinvC_expand_node; assumption|].
+      pose proof (NinvC_move m2) as Hmv. rewrite Emv in Hmv. cbn [fst] in Hmv. apply Hmv.
+      eapply NinvC_same; [|exact (Tc_nc _ _ HT)]. reflexivity.
+    - (* open nodes carry no cache flag *)
+      intros x Hx. change (m_next m5) with (m_next m4) in Hx. change (fcache m5 x) with (fcache m4 x).
+      destruct I1 as (_ & I1b & _). apply I1b in Hx.
+      assert (HQ : fcQ (length (m_nodes m3)) m4).
+      { unfold m4. apply fcQ_expand_layer. intros y Hy. unfold fcache. rewrite gn_out_of_range by exact Hy. reflexivity. }
+      apply HQ. rewrite I2, X1 in Hx. lia.
+    - (* nodes dropped by the cache *)
+      change (m_layers m5) with (m_layers m4). rewrite Hly4. intros j x Hx Hd Hf. rewrite !Hg5.
+      change (del m5 x) with (del m4 x) in Hd. change (fcache m5 x) with (fcache m4 x) in Hf.
+      apply nth_app_casesC in Hx. fold nl in Hx. destruct Hx as [[Hj Hx]|[Hj Hx]].
+      + pose proof (Holdl j x Hx) as Hxb. rewrite (Hold x Hxb). apply (Tc_cached _ _ HT j x Hx).
+        * unfold Thresholds.del in *. rewrite <- (Hold x Hxb). exact Hd.
+        * unfold fcache in *. rewrite <- (Hold x Hxb). exact Hf.
+      + assert (Hxl : ~ In x l) by (intros Hin; rewrite (Hlfc x Hin) in Hf; discriminate).
+        destruct (Hdropped x Hx Hxl Hd) as (_ & _ & th & U1 & U2 & U3 & U4).
+        exists th. rewrite U4. unfold dropnode. nsimpl. rewrite (Tc_mc _ _ HT) in U2. auto.
+    - (* the cache itself *)
+      change (m_cache m5) with (m_cache m4). unfold m4. rewrite (mc_expand_layer st_eqb inp).
+      pose proof (mc_move st_eqb inp m2) as Hmc. rewrite Emv in Hmc. cbn [fst] in Hmc. rewrite Hmc.
+      exact (Tc_mc _ _ HT).
+    - (* only expanded nodes are the source of an arc *)
+      intros x Hs. change (fcache m5 x) with (fcache m4 x).
+      assert (Hs4 : MddSim.Src m4 x) by exact Hs.
+      destruct (MddSim.Src_expand_layer st_eqb inp Hnocut Hwidth Hrd var l m3 x Hs4) as [Hs3|Hxl]; [|apply Hlfc; exact Hxl].
+      apply Sr3 in Hs3. assert (Hsm : MddSim.Src m x) by exact Hs3.
+      pose proof (Tc_src _ _ HT x Hsm) as Hfm.
+      destruct Hsm as (eid & He & Hf). pose proof (MddSim.E_from _ _ HE eid He) as Hlt. rewrite Hf in Hlt.
+      unfold fcache in *. rewrite (Hold x Hlt). exact Hfm.
+    - (* the source of an arc is a live node of a layer *)
+      intros x Hs. change (del m5 x) with (del m4 x). change (m_layers m5) with (m_layers m4).
+      assert (Hs4 : MddSim.Src m4 x) by exact Hs.
+      destruct (MddSim.Src_expand_layer st_eqb inp Hnocut Hwidth Hrd var l m3 x Hs4) as [Hs3|Hxl].
+      + apply Sr3 in Hs3. assert (Hsm : MddSim.Src m x) by exact Hs3.
+        destruct (Tc_srcl _ _ HT x Hsm) as (Hdm & j & Hj).
+        destruct Hsm as (eid & He & Hf). pose proof (MddSim.E_from _ _ HE eid He) as Hlt. rewrite Hf in Hlt.
+        split; [unfold Thresholds.del in *; rewrite (Hold x Hlt); exact Hdm|].
+        exists j. apply Hlay24. exact Hj.
+      + split; [apply Hlids; exact Hxl|]. exists nl. rewrite Hly4. unfold nl. rewrite nth_app_newC.
+        apply Hinids. destruct (X5 x Hxl) as [_ Hr]. exact Hr.
+    - (* the root *)
+      change (del m5 0) with (del m4 0). change (fcache m5 0) with (fcache m4 0).
+      change (m_layers m5) with (m_layers m4). change (m_next m5) with (m_next m4).
+      destruct (Tc_root _ _ HT) as (R1 & R2 & [[R3 R4]|R3]).
+      + (* first iteration *)
+        assert (Hn3 : m_nodes m3 = m_nodes m).
+        { apply (move_firstC m2 m3 (Some l)); [exact R3|exact Emv]. }
+        assert (Hg3 : forall x, gn m3 x = gn m x) by (intros x; apply gn_nodes_eq; exact Hn3).
+        assert (H0n : In 0 (m_next m)) by (rewrite R4; left; reflexivity).
+        pose proof (proj1 (O2 0) H0n) as Hb0.
+        assert (Hfl : del m4 0 = false /\ fcache m4 0 = false).
+        { destruct (classic_in 0 l) as [Hin|Hnin].
+          - split; [apply Hlids; exact Hin|apply Hlfc; exact Hin].
+          - assert (E : gn m4 0 = gn m 0).
+            { rewrite (Hnl4 0); [apply Hg3| |exact Hnin]. rewrite Hn3. lia. }
+            unfold Thresholds.del, fcache in *. rewrite E. auto. }
+        split; [apply Hfl|]. split; [apply Hfl|]. right.
+        rewrite Hly4, R3. simpl. apply Hinids. rewrite Hn3. unfold b. lia.
+      + pose proof (Holdl 0 0 R3) as Hxb.
+        split; [unfold Thresholds.del in *; rewrite (Hold 0 Hxb); exact R1|].
+        split; [unfold fcache in *; rewrite (Hold 0 Hxb); exact R2|]. right. apply Hlay24. exact R3.
+  Qed.
+
+  (* ---------------------------------------------------------------- what the loop leaves behind *)
+  Notation SCr := (Thresholds.SCr inp cov).
+
+  Record FSc (c : @cache St) (ml : mdd) (lay : nat -> list nat) : Prop := {
+    Fc_einv : forall id eid, id < length (m_nodes ml) -> In eid (n_inb (gn ml id)) ->
+      eid < length (m_edges ml) /\
+      (sat_add (n_vtop (gn ml (e_from (get_edge ml eid)))) (e_cost (get_edge ml eid)) <= n_vtop (gn ml id))%Z /\
+      (is_ex inp ml id = true ->
+         is_ex inp ml (e_from (get_edge ml eid)) = true /\
+         n_state (gn ml id) = transition pb (n_state (gn ml (e_from (get_edge ml eid)))) (e_dec (get_edge ml eid)));
+    Fc_range : forall j x, In x (lay j) -> x < length (m_nodes ml);
+    Fc_ord1 : forall j j' x y, j < j' -> In x (lay j) -> In y (lay j') -> x < y;
+    Fc_ord2 : forall j, NoDup (lay j);
+    Fc_ord3 : forall j x eid y, In x (lay j) -> In eid (n_inb (gn ml x)) -> In y (lay j) -> e_from (get_edge ml eid) < y;
+    Fc_dep : forall j x, In x (lay j) -> del ml x = false -> n_depth (gn ml x) = rd + j;
+    Fc_exp : forall j x, In x (lay j) -> del ml x = false -> fcache ml x = false -> SCr ml lay j x;
+    Fc_lel : forall k, m_lel ml = Some k -> forall j x, j <= k -> In x (lay j) -> is_ex inp ml x = true;
+    Fc_last : forall j x, In x (lay j) -> rd + j = N ->
+      In x (m_next ml) /\ m_layer_end ml <= x < length (m_nodes ml) /\ length (m_layers ml) = j /\ fcache ml x = false;
+    Fc_nc : NinvC ml;
+    Fc_cached : forall j x, In x (lay j) -> del ml x = false -> fcache ml x = true ->
+       exists th, ci_use_cache inp = true /\ cget st_eqb c (n_state (gn ml x)) (n_depth (gn ml x)) = Some th /\
+         (n_vtop (gn ml x) <= th_value th)%Z /\ n_theta (gn ml x) = Some (th_value th);
+    Fc_mc : m_cache ml = c;
+    Fc_src : forall x, MddSim.Src ml x -> fcache ml x = false;
+    Fc_srcl : forall x, MddSim.Src ml x -> del ml x = false /\ exists j, In x (lay j);
+    Fc_root : In 0 (lay 0) /\ del ml 0 = false /\ fcache ml 0 = false;
+    Fc_open : forall x, In x (m_next ml) -> fcache ml x = false }.
+
+  Lemma FS_of_TIc c (m ml : mdd) lastl :
+    TIc c m -> m_nodes ml = m_nodes m -> m_edges ml = m_edges m -> m_lel ml = m_lel m -> m_cache ml = m_cache m ->
+    (forall x, In x (m_next ml) -> In x (m_next m)) ->
+    (forall x, In x lastl <-> In x (m_next m)) -> NoDup lastl ->
+    ((m_curr_depth m = N /\ m_next ml = m_next m /\ m_layer_end ml = m_layer_end m /\ m_layers ml = m_layers m) \/
+     (m_curr_depth m < N /\ m_next m = [])) ->
+    FSc c ml (fun j => nth j (m_layers m ++ [lastl]) []).
+  Proof.
+    intros HT Hn He Hlel Hmc Hnxt Hlast Hnd Hexit.
+    assert (Hg : forall x, gn ml x = gn m x) by (intros x; apply gn_nodes_eq; exact Hn).
+    assert (Hge : forall k, get_edge ml k = get_edge m k) by (intros k; apply ge_edges_eq; exact He).
+    assert (Hdl : forall x, del ml x = del m x) by (intros x; apply Thresholds.del_same_nodes; exact Hn).
+    assert (Hfl : forall x, fcache ml x = fcache m x) by (intros x; unfold fcache; rewrite Hg; reflexivity).
+    pose proof (Tc_C _ _ HT) as (HD & HX & Hnd' & HE).
+    pose proof (Tc_oi _ _ HT) as (O1 & O2 & O3). pose proof (Tc_len _ _ HT) as Hlen.
+    set (nl := length (m_layers m)) in *.
+    assert (Holdl : forall j x, In x (lyr m j) -> x < m_layer_end m) by (intros j x Hx; eapply TIc_layer_below; eauto).
+    assert (Hlastr : forall x, In x lastl -> m_layer_end m <= x < length (m_nodes m)).
+    { intros x Hx. apply O2. apply Hlast. exact Hx. }
+    split.
+    - intros id eid Hid Hin. rewrite Hn in Hid. rewrite Hg in Hin. unfold is_ex. rewrite He, !Hge, !Hg.
+      destruct (MddSim.E_inb _ _ HE id eid Hid Hin) as (G1 & G2 & G3). split; [exact G1|]. split; [exact G2|].
+      intros Hx. destruct (G3 Hx) as (Y1 & Y2 & _). auto.
+    - intros j x Hx. rewrite Hn. apply nth_app_casesC in Hx. destruct Hx as [[_ Hx]|[_ Hx]].
+      + pose proof (Holdl j x Hx). lia.
+      + apply Hlastr. exact Hx.
+    - intros j j' x y Hjj Hx Hy. apply nth_app_casesC in Hx. apply nth_app_casesC in Hy. fold nl in Hx, Hy.
+      destruct Hx as [[Hj Hx]|[Hj Hx]]; destruct Hy as [[Hj' Hy]|[Hj' Hy]]; try lia.
+      + apply (Tc_ord1 _ _ HT j j' x y Hjj Hx Hy).
+      + pose proof (Holdl j x Hx). pose proof (Hlastr y Hy). lia.
+    - intros j. destruct (Nat.lt_ge_cases j nl) as [Hj|Hj].
+      + rewrite Thresholds.nth_app_old by exact Hj. apply (Tc_ord2 _ _ HT).
+      + destruct (Nat.eq_dec j nl) as [->|Hjn].
+        * unfold nl. rewrite nth_app_newC. exact Hnd.
+        * rewrite nth_overflow by (rewrite app_length; simpl; fold nl; lia). constructor.
+    - intros j x eid y Hx Hin Hy. rewrite Hg in Hin. rewrite Hge.
+      apply nth_app_casesC in Hx. apply nth_app_casesC in Hy. fold nl in Hx, Hy.
+      destruct Hx as [[Hj Hx]|[Hj Hx]]; destruct Hy as [[Hj' Hy]|[Hj' Hy]]; try lia.
+      + apply (Tc_ord3 _ _ HT j x eid y Hx Hin Hy).
+      + pose proof (Hlastr x Hx) as Hxr. destruct (MddSim.E_inb _ _ HE x eid ltac:(lia) Hin) as (G1 & _).
+        pose proof (MddSim.E_from _ _ HE eid G1). pose proof (Hlastr y Hy). lia.
+    - intros j x Hx Hd. rewrite Hdl in Hd. rewrite Hg. apply nth_app_casesC in Hx. fold nl in Hx.
+      destruct Hx as [[Hj Hx]|[Hj Hx]]; [apply (Tc_dep _ _ HT j x Hx Hd)|].
+      subst j. rewrite (Hnd' x (proj1 (Hlast x) Hx)). pose proof (Tc_d1 _ _ HT). lia.
+    - intros j x Hx Hd Hf. rewrite Hdl in Hd. rewrite Hfl in Hf. apply nth_app_casesC in Hx. fold nl in Hx.
+      intros Hbr s var val Hcov Hv Hval. unfold Thresholds.brd in Hbr. rewrite Hg in Hbr, Hcov. cbv zeta.
+      destruct Hx as [[Hj Hx]|[Hj Hx]].
+      + destruct (Nat.lt_ge_cases (S j) nl) as [Hjn|Hjn].
+        * destruct (Tc_expC _ _ HT j x Hjn Hx Hd Hf Hbr s var val Hcov Hv Hval) as (t' & [Ht' Hdt'] & Hp).
+          destruct (Thresholds.dpath1_inv _ _ _ _ _ _ _ _ _ Hp) as (_ & P2 & eid & Q1 & Q2 & Q3 & Q4 & Q5 & Q6).
+          exists t', eid. rewrite Thresholds.nth_app_old by (fold nl; lia). rewrite Hdl, Hn, He, Hge, !Hg. auto 12.
+        * assert (Ej : S j = nl) by lia.
+          destruct (Tc_expO _ _ HT j x Ej Hx Hd Hf Hbr s var val Hcov Hv Hval) as (t' & Ht' & Hp).
+          destruct (Thresholds.dpath1_inv _ _ _ _ _ _ _ _ _ Hp) as (_ & P2 & eid & Q1 & Q2 & Q3 & Q4 & Q5 & Q6).
+          exists t', eid. rewrite Ej. unfold nl. rewrite nth_app_newC. rewrite Hdl, Hn, He, Hge, !Hg.
+          split; [apply Hlast; exact Ht'|]. split; [apply O3; exact Ht'|]. auto 12.
+      + (* the last layer: no variable left, or no node *)
+        exfalso. subst j. destruct Hexit as [(HdN & _)|(HdN & Hnx)].
+        * change (next_variable pb (rd + nl) [] = Some var) in Hv.
+          rewrite nv_none in Hv by (pose proof (Tc_d1 _ _ HT); lia). discriminate.
+        * apply Hlast in Hx. rewrite Hnx in Hx. destruct Hx.
+    - intros k Hk j x Hjk Hx. rewrite Hlel in Hk. unfold is_ex. rewrite Hg.
+      pose proof (X_lel_lt _ _ _ HX Hrel k Hk) as Hkl. fold nl in Hkl.
+      rewrite Thresholds.nth_app_old in Hx by (fold nl; lia). apply (Tc_lel _ _ HT k Hk j x Hjk Hx).
+    - intros j x Hx HjN. apply nth_app_casesC in Hx. fold nl in Hx.
+      pose proof (Tc_d1 _ _ HT) as Hd1. pose proof (Tc_d2 _ _ HT) as Hd2.
+      destruct Hexit as [(HdN & E1 & E2 & E3)|(HdN & Hnx)].
+      + destruct Hx as [[Hj Hx]|[Hj Hx]]; [lia|]. subst j.
+        rewrite E1, E2, E3, Hn. split; [apply Hlast; exact Hx|]. split; [apply Hlastr; exact Hx|]. split; [reflexivity|].
+        rewrite Hfl. apply (Tc_open _ _ HT). apply Hlast. exact Hx.
+      + destruct Hx as [[Hj Hx]|[Hj Hx]]; [lia|]. apply Hlast in Hx. rewrite Hnx in Hx. destruct Hx.
+    - eapply NinvC_same; [exact Hn|exact (Tc_nc _ _ HT)].
+    - intros j x Hx Hd Hf. rewrite Hdl in Hd. rewrite Hfl in Hf. rewrite !Hg. apply nth_app_casesC in Hx. fold nl in Hx.
+      destruct Hx as [[Hj Hx]|[Hj Hx]]; [apply (Tc_cached _ _ HT j x Hx Hd Hf)|].
+      exfalso. rewrite (Tc_open _ _ HT x (proj1 (Hlast x) Hx)) in Hf. discriminate.
+    - rewrite Hmc. exact (Tc_mc _ _ HT).
+    - intros x (eid & He1 & He2). rewrite Hfl. apply (Tc_src _ _ HT). exists eid. rewrite He in He1. rewrite Hge in He2. auto.
+    - intros x (eid & He1 & He2). rewrite Hdl.
+      destruct (Tc_srcl _ _ HT x) as (Hd & j & Hj); [exists eid; rewrite He in He1; rewrite Hge in He2; auto|].
+      split; [exact Hd|]. exists j. apply MddSim.nth_layers_app. exact Hj.
+    - rewrite Hdl, Hfl. destruct (Tc_root _ _ HT) as (R1 & R2 & [[R3 R4]|R3]).
+      + split; [|split; assumption]. rewrite R3. simpl. apply Hlast. rewrite R4. left; reflexivity.
+      + split; [|split; assumption]. apply MddSim.nth_layers_app. exact R3.
+    - intros x Hx. rewrite Hfl. apply (Tc_open _ _ HT). apply Hnxt. exact Hx.
+  Qed.
+
+  Lemma FSc_ext c (ml : mdd) (lay lay' : nat -> list nat) : (forall j, lay j = lay' j) -> FSc c ml lay -> FSc c ml lay'.
+  Proof.
+    intros Hext [G1 G2 G3 G4 G5 G6 G7 G8 G9 G10 G11 G12 G13 G14 G15 G16].
+    split.
+    - exact G1.
+    - intros j x Hx. rewrite <- Hext in Hx. eauto.
+    - intros j j' x y Hjj Hx Hy. rewrite <- Hext in Hx, Hy. eauto.
+    - intros j. rewrite <- Hext. apply G4.
+    - intros j x eid y Hx Hin Hy. rewrite <- Hext in Hx, Hy. eauto.
+    - intros j x Hx. rewrite <- Hext in Hx. eauto.
+    - intros j x Hx Hd Hf. rewrite <- Hext in Hx. intros Hbr s var val Hc Hv Hval. cbv zeta.
+      destruct (G7 j x Hx Hd Hf Hbr s var val Hc Hv Hval) as (t' & eid & Q). exists t', eid. rewrite <- Hext. exact Q.
+    - intros k Hk j x Hjk Hx. rewrite <- Hext in Hx. eauto.
+    - intros j x Hx. rewrite <- Hext in Hx. eauto.
+    - exact G10.
+    - intros j x Hx. rewrite <- Hext in Hx. eauto.
+    - exact G12.
+    - exact G13.
+    - intros x Hx. destruct (G14 x Hx) as (Hd & j & Hj). split; [exact Hd|]. exists j. rewrite <- Hext. exact Hj.
+    - rewrite <- Hext. exact G15.
+    - exact G16.
+  Qed.
+
+  Lemma TIc_initialize c ds polls : TIc c (initialize inp c ds polls).
+  Proof.
+    assert (Hnil : forall j (x : nat), In x (nth j (@nil (list nat)) []) -> False).
+    { intros j x H. destruct j; simpl in H; destruct H. }
+    split.
+    - apply (MddSim.Linv_initialize inp Hnocut Hwidth Hrd cov cov_refl c ds polls).
+    - simpl. apply Nat.le_refl.
+    - simpl. exact Hrd.
+    - simpl. fold root. fold rd. lia.
+    - apply wf_initialize.
+    - split; [simpl; lia|]. split; [intros x; simpl; lia|]. intros x [<-|[]]. reflexivity.
+    - intros j j' x y _ Hx. exfalso. exact (Hnil _ _ Hx).
+    - intros j. simpl. destruct j; constructor.
+    - intros j x eid y Hx. exfalso. exact (Hnil _ _ Hx).
+    - intros j x Hx. exfalso. exact (Hnil _ _ Hx).
+    - intros j x _ Hx. exfalso. exact (Hnil _ _ Hx).
+    - intros j x _ Hx. exfalso. exact (Hnil _ _ Hx).
+    - intros k Hk. discriminate.
+    - apply NinvC_initialize.
+    - intros x [<-|[]]. reflexivity.
+    - intros j x Hx. exfalso. exact (Hnil _ _ Hx).
+    - reflexivity.
+    - intros x (eid & He & _). simpl in He. lia.
+    - intros x (eid & He & _). simpl in He. lia.
+    - split; [reflexivity|]. split; [reflexivity|]. left. split; reflexivity.
+  Qed.
+
+  Notation LF := (Thresholds.LF inp).
+
+  Lemma layer_loop_TIc c : forall fuel (m m' : mdd),
+    TIc c m -> layer_loop st_eqb inp fuel m = (m', LoopDone) -> FSc c m' (fun j => nth j (LF m') []).
+  Proof.
+    induction fuel as [|fuel IH]; intros m m' HT Hloop; [simpl in Hloop; inversion Hloop|].
+    set (d := m_curr_depth m) in *.
+    cbn [layer_loop] in Hloop. cbv zeta in Hloop.
+    set (states := map (fun id => n_state (gn m id)) (m_next m)) in *.
+    fold pb in Hloop.
+    pose proof (Tc_d1 _ _ HT) as Hd1. pose proof (Tc_d2 _ _ HT) as Hd2. pose proof (Tc_oi _ _ HT) as (O1 & O2 & O3).
+    destruct (next_variable pb (m_curr_depth m) states) as [var|] eqn:Eov.
+    2:{ (* the variables are exhausted *)
+      inversion Hloop; subst m'. clear Hloop.
+      assert (HdN : d = N).
+      { destruct (Nat.lt_ge_cases d N) as [Hlt|Hge]; [|fold d in Hd2; lia].
+        destruct (nv_some d states Hlt) as [x Hx]. unfold d in Hx. rewrite Hx in Eov. discriminate. }
+      set (ml := add_log m (EvNextVar (m_curr_depth m) states None)).
+      unfold Thresholds.LF. destruct (MddSim.finalize_layers_fields inp Hclean ml) as (_ & _ & _ & _ & F5). rewrite F5.
+      change (m_next ml) with (m_next m). change (m_layers ml) with (m_layers m).
+      change (m_layer_end ml) with (m_layer_end m). change (length (m_nodes ml)) with (length (m_nodes m)).
+      set (lastl := seq (m_layer_end m) (length (m_nodes m) - m_layer_end m)).
+      assert (Hlast : forall x, In x lastl <-> In x (m_next m)).
+      { intros x. unfold lastl. rewrite in_seq, O2. lia. }
+      pose proof (FS_of_TIc c m ml lastl HT eq_refl eq_refl eq_refl eq_refl (fun x Hx => Hx) Hlast (seq_NoDup _ _)
+                    (or_introl (conj HdN (conj eq_refl (conj eq_refl eq_refl))))) as HF.
+      destruct (m_next m) as [|c0 cs] eqn:En; [|exact HF].
+      (* empty last layer: the same layers, as functions *)
+      assert (Elast : lastl = []).
+      { destruct lastl as [|z zs] eqn:E; [reflexivity|]. exfalso. apply (proj1 (Hlast z)). left; reflexivity. }
+      rewrite Elast in HF.
+      assert (Heq : forall j, nth j (m_layers m) [] = nth j (m_layers m ++ [[]]) []).
+      { intros j. destruct (Nat.lt_ge_cases j (length (m_layers m))) as [Hlt|Hge].
+        - rewrite app_nth1 by exact Hlt. reflexivity.
+        - rewrite nth_overflow by exact Hge. rewrite app_nth2 by exact Hge.
+          destruct (j - length (m_layers m)) as [|k]; [reflexivity|destruct k; reflexivity]. }
+      apply (FSc_ext c ml (fun j => nth j (m_layers m ++ [[]]) []) (fun j => nth j (m_layers m) [])); [|exact HF].
+      intros j. symmetry. apply Heq. }
+    set (m1 := add_log m (EvNextVar (m_curr_depth m) states (Some var))) in *.
+    set (m2 := with_polls m1 (S (m_polls m1))) in *.
+    rewrite Hnocut in Hloop. cbn [Nat.ltb Nat.leb andb] in Hloop.
+    rewrite (not_pooled inp Hclean) in Hloop.
+    assert (HdN : d < N).
+    { destruct (Nat.lt_ge_cases d N) as [Hlt|Hge]; [exact Hlt|].
+      pose proof (nv_none d states Hge) as Hn. unfold d in Hn. rewrite Hn in Eov. discriminate. }
+    assert (Hvar : next_variable pb (m_curr_depth m) [] = Some var) by (rewrite (nv_static _ [] states); exact Eov).
+    destruct (m_next m) as [|c0 cs] eqn:En.
+    - (* the next layer is empty: the loop stops *)
+      rewrite move_clean_unfold in Hloop. change (m_next m2) with (m_next m) in Hloop. rewrite En in Hloop.
+      inversion Hloop; subst m'. clear Hloop.
+      set (ml := push_layer (with_next m2 []) [] 0).
+      unfold Thresholds.LF. destruct (MddSim.finalize_layers_fields inp Hclean ml) as (_ & _ & _ & _ & F5). rewrite F5.
+      change (m_next ml) with (@nil nat). change (m_layers ml) with (m_layers m ++ [[]]).
+      apply (FS_of_TIc c m ml [] HT eq_refl eq_refl eq_refl eq_refl (fun x (Hx : In x []) => match Hx with end)).
+      + intros x. rewrite En. reflexivity.
+      + constructor.
+      + right. split; [exact HdN|exact En].
+    - destruct (iter_TIc c m var (EvNextVar (m_curr_depth m) states (Some var)) (S (m_polls m1)) HT HdN Hvar)
+        as (m3 & l & Emv & HT5).
+      { rewrite En. discriminate. }
+      cbv zeta in HT5. fold m1 in Emv. fold m2 in Emv. rewrite Emv in Hloop.
+      apply (IH _ m' HT5). exact Hloop.
+  Qed.
+End LoopC.
+
+Local Open Scope Z_scope.
+
+(* ================================================================== 7. runs against the static diagram, with nodes dropped by the cache *)
+Section RunCov.
+  Context {St : Type}.
+  Variable pb : problem St.
+  Let N := nb_vars pb.
+  Hypothesis nv_static : forall k l1 l2, next_variable pb k l1 = next_variable pb k l2.
+  Hypothesis nv_some : forall k l, (k < N)%nat -> exists x, next_variable pb k l = Some x.
+  Hypothesis nv_none : forall k l, (N <= k)%nat -> next_variable pb k l = None.
+  Variable cov : St -> St -> Prop.
+  Hypothesis cov_sim : forall s s' x v, cov s s' -> In v (domain pb x s') ->
+    let d := {| d_var := x; d_val := v |} in
+    In v (domain pb x s) /\ cov (transition pb s d) (transition pb s' d) /\
+    transition_cost pb s' (transition pb s' d) d <= transition_cost pb s (transition pb s d) d.
+
+  Lemma frun_cov ds : forall k s s' v v' s1' v1', cov s s' -> v' <= v ->
+    frun pb k s' v' ds = Some (s1', v1') ->
+    exists s1 v1, frun pb k s v ds = Some (s1, v1) /\ cov s1 s1' /\ v1' <= v1.
+  Proof.
+    induction ds as [|d ds IH]; intros k s s' v v' s1' v1' Hc Hv Hr; simpl in *.
+    - inversion Hr; subst. exists s, v. auto.
+    - destruct (var_ok pb k d) eqn:Ev; simpl in Hr; [|discriminate].
+      destruct (in_domain pb s' d) eqn:Ed; [|discriminate].
+      apply in_domain_In in Ed.
+      destruct (cov_sim s s' (d_var d) (d_val d) Hc Ed) as (D1 & D2 & D3). cbv zeta in D2, D3.
+      assert (Ed' : {| d_var := d_var d; d_val := d_val d |} = d) by (destruct d; reflexivity).
+      rewrite Ed' in D2, D3. simpl. rewrite (In_in_domain pb s d D1). simpl.
+      apply (IH (S k) _ _ (v + transition_cost pb s (transition pb s d) d) (v' + transition_cost pb s' (transition pb s' d) d) s1' v1' D2); [lia|exact Hr].
+  Qed.
+
+  Lemma H_cov k s s' h' : (k <= N)%nat -> cov s s' -> H pb k s' = Some h' -> exists h, H pb k s = Some h /\ h' <= h.
+  Proof.
+    intros Hk Hc Hh.
+    destruct (H_attained pb nv_static nv_some nv_none (N - k) k s' 0 h' eq_refl Hk Hh) as (ds & s1' & Hr & Hl).
+    destruct (frun_cov ds k s s' 0 0 s1' (0 + h') Hc (Z.le_refl _) Hr) as (s1 & v1 & Hr1 & _ & Hv).
+    destruct (frun_le_H pb nv_static nv_none ds k s 0 s1 v1 Hl Hr1) as (h & Hh1 & Hle).
+    exists h. split; [exact Hh1|lia].
+  Qed.
+End RunCov.
+
+Section StaticC.
+  Context {St : Type}.
+  Variable st_eqb : St -> St -> bool.
+  Hypothesis st_eqb_spec : forall a b, st_eqb a b = true <-> a = b.
+  Variable inp : @cinput St.
+  Let pb := ci_problem inp.
+  Let rlx := ci_relax inp.
+  Let lb := ci_best_lb inp.
+  Let N := nb_vars pb.
+  Let rd := sp_depth (ci_root inp).
+  Let rs := sp_state (ci_root inp).
+  Let rv := sp_value (ci_root inp).
+  Hypothesis Hrd : (rd <= N)%nat.
+  Hypothesis nv_static : forall k l1 l2, next_variable pb k l1 = next_variable pb k l2.
+  Hypothesis nv_some : forall k l, (k < N)%nat -> exists x, next_variable pb k l = Some x.
+  Hypothesis nv_none : forall k l, (N <= k)%nat -> next_variable pb k l = None.
+  Variable cov : St -> St -> Prop.
+  Hypothesis cov_refl : forall s, cov s s.
+  Hypothesis cov_sim : forall s s' x v, cov s s' -> In v (domain pb x s') ->
+    let d := {| d_var := x; d_val := v |} in
+    In v (domain pb x s) /\ cov (transition pb s d) (transition pb s' d) /\
+    transition_cost pb s' (transition pb s' d) d <= transition_cost pb s (transition pb s d) d.
+  Hypothesis rub_adm : forall k s s' h, cov s s' -> H pb k s' = Some h -> h <= fast_upper_bound rlx s.
+  Variable B : Z.
+  Hypothesis HB : 2 * B <= IMAX.
+  Hypothesis Hguard : forall ds s' v', frun pb rd rs rv ds = Some (s', v') -> - B <= v' <= B.
+
+  Notation mdd := (@mdd St).
+  Notation node := (@node St).
+  Notation gn := (get_node inp).
+  Notation th_own := (Thresholds.th_own st_eqb inp).
+  Notation th_step := (Thresholds.th_step st_eqb inp).
+  Notation th_prop := (Thresholds.th_prop inp).
+  Notation theta_of := (Thresholds.theta_of inp).
+  Notation own_theta := (@Thresholds.own_theta St).
+
+  Variable m0 : mdd.
+  Variable bk : Z.
+  Hypothesis Hbk : lb <= bk.
+  Variable Drained : nat -> Prop.
+  Variable Old : nat -> St -> Z -> Prop.      (* (depth, state, threshold) recorded in the cache the compilation started from *)
+  Variable c0 : @cache St.
+
+  Notation lay := (Thresholds.lay m0).
+  Notation live := (Thresholds.live inp m0).
+  Notation isex := (Thresholds.isex inp m0).
+  Notation above := (Thresholds.above inp m0).
+  Notation cuts := (Thresholds.cuts inp m0).
+  Notation st := (Thresholds.st inp m0).
+  Notation vt := (Thresholds.vt inp m0).
+  Notation vb := (Thresholds.vb inp m0).
+  Notation rb := (Thresholds.rb inp m0).
+  Notation branched := (Thresholds.branched inp m0).
+  Notation Adm := (Thresholds.Adm inp cov m0).
+  Notation rcost := (Thresholds.rcost inp).
+  Notation Start := (Thresholds.Start inp).
+  Notation complete := (Thresholds.complete inp).
+  Notation lpath := (Thresholds.lpath inp cov m0).
+  Notation Capt := (Thresholds.Capt inp m0 Drained).
+  Notation nd := (Thresholds.nd inp m0).
+
+  Definition cached (x : nat) : Prop := f_cache (n_flags (gn m0 x)) = true.
+  Definition thc0 (x : nat) : option Z := n_theta (gn m0 x).
+
+  Hypothesis H_range : forall j x, lay j x -> (x < length (m_nodes m0))%nat.
+  Hypothesis H_uniq : forall j j' x, lay j x -> lay j' x -> j = j'.
+  Hypothesis H_ord : forall done x rest, bottom_up m0 = done ++ x :: rest ->
+    ~ In x done /\
+    (forall eid, In eid (n_inb (gn m0 x)) -> ~ In (e_from (get_edge m0 eid)) (done ++ [x])) /\
+    (forall j c, lay j x -> lay (S j) c -> In c done).
+  Hypothesis H_efrom : forall j x eid, lay j x -> In eid (n_inb (gn m0 x)) ->
+    (e_from (get_edge m0 eid) < length (m_nodes m0))%nat.
+  Hypothesis H_depth : forall j x, lay j x -> live x -> n_depth (gn m0 x) = (rd + j)%nat.
+  Hypothesis H_SC : forall j x s var val, lay j x -> live x -> ~ cached x -> Adm x s -> (rd + j < N)%nat -> branched x ->
+    next_variable pb (rd + j) [] = Some var -> In val (domain pb var s) ->
+    let d := {| d_var := var; d_val := val |} in
+    exists c eid, lay (S j) c /\ live c /\ Adm c (transition pb s d) /\
+      In eid (n_inb (gn m0 c)) /\ e_from (get_edge m0 eid) = x /\ e_dec (get_edge m0 eid) = d /\
+      rcost s d <= e_cost (get_edge m0 eid).
+  Hypothesis H_rub : forall j x, lay j x -> rb x = IMAX \/ rb x = fast_upper_bound rlx (st x).
+  Hypothesis H_cached : forall j x, lay j x -> live x -> cached x ->
+    exists tc, thc0 x = Some tc /\ vt x <= tc /\ Old (rd + j) (st x) tc.
+  Hypothesis H_cut_ex : forall j x, lay j x -> cuts x -> isex x.
+  Hypothesis H_kid : forall j x c eid, lay j x -> live x -> isex x -> above x -> ~ cuts x ->
+    lay (S j) c -> live c -> In eid (n_inb (gn m0 c)) -> e_from (get_edge m0 eid) = x -> isex c /\ above c.
+  Hypothesis H_real : forall j x, lay j x -> live x -> isex x -> Start j (st x) (vt x).
+  Hypothesis H_vtop : forall j x ds1 y s1 v1, lay j x -> live x -> isex x ->
+    lpath j x (st x) ds1 y s1 -> frun pb (rd + j) (st x) (vt x) ds1 = Some (s1, v1) -> v1 <= vt y.
+  Hypothesis H_locb : forall j x ds T s' w0 w1, lay j x -> live x -> cuts x ->
+    lpath j x (st x) ds T s' -> complete j ds -> frun pb (rd + j) (st x) w0 ds = Some (s', w1) ->
+    (forall ds1 ds2 s1 v1, ds = ds1 ++ ds2 -> frun pb (rd + j) (st x) w0 ds1 = Some (s1, v1) -> in_isize (w1 - v1)) ->
+    w1 - w0 <= vb x.
+  Hypothesis H_drain : forall j x ds T s' w0 w1, lay j x -> live x -> cuts x ->
+    lpath j x (st x) ds T s' -> complete j ds -> frun pb (rd + j) (st x) w0 ds = Some (s', w1) ->
+    (forall ds1 ds2 s1 v1, ds = ds1 ++ ds2 -> frun pb (rd + j) (st x) w0 ds1 = Some (s1, v1) -> in_isize (w1 - v1)) ->
+    Drained x.
+  Hypothesis H_above_ex : forall j x, lay j x -> live x -> above x -> isex x.
+
+  (* ---------------------------------------------------------------- a run is lost to the cache at layer >= jm *)
+  Definition LostAt (jm : nat) (val : Z) : Prop :=
+    exists j' y tc h, (jm <= j')%nat /\ lay j' y /\ live y /\ cached y /\ Old (rd + j') (st y) tc /\
+      H pb (rd + j') (st y) = Some h /\ val <= tc + h.
+
+  Lemma LostAt_mono jm jm' val val' : (jm' <= jm)%nat -> val' <= val -> LostAt jm val -> LostAt jm' val'.
+  Proof.
+    intros Hj Hv (j' & y & tc & h & L1 & L2 & L3 & L4 & L5 & L6 & L7).
+    exists j', y, tc, h. repeat split; auto; lia.
+  Qed.
+
+  Lemma complete_eq j ds : complete j ds <-> (rd + j + length ds = N)%nat.
+  Proof. reflexivity. Qed.
+
+  Lemma cached_dec x : {cached x} + {~ cached x}.
+  Proof. unfold cached. destruct (f_cache (n_flags (gn m0 x))); [left; reflexivity|right; discriminate]. Qed.
+
+  Definition cj (x j : nat) : nat := if f_cache (n_flags (gn m0 x)) then j else S j.
+
+  (* ---------------------------------------------------------------- real runs *)
+  Lemma Start_guard j s r : Start j s r -> - B <= r <= B.
+  Proof. intros (pre & Hp & _). eapply Hguard; eauto. Qed.
+
+  Lemma Start_ext j s r ds s' r' : Start j s r -> frun pb (rd + j) s r ds = Some (s', r') ->
+    Start (j + length ds) s' r'.
+  Proof.
+    intros (pre & Hp & Hl) Hr. exists (pre ++ ds). split; [|rewrite app_length; lia].
+    change (frun pb rd rs rv pre = Some (s, r)) in Hp.
+    change (frun pb rd rs rv (pre ++ ds) = Some (s', r')).
+    rewrite frun_app, Hp, Hl. exact Hr.
+  Qed.
+
+  Lemma Start_step j s r d : Start j s r -> var_ok pb (rd + j) d = true -> in_domain pb s d = true ->
+    Start (S j) (transition pb s d) (r + rcost s d).
+  Proof.
+    intros HS V1 V2. replace (S j) with (j + length [d])%nat by (simpl; lia).
+    apply (Start_ext j s r [d]); [exact HS|]. rewrite (Thresholds.frun_cons inp). fold pb. rewrite V1, V2. reflexivity.
+  Qed.
+
+  Lemma cost_le_rub jy y s1 r1 ds2 s' r' : lay jy y -> cov (st y) s1 -> Start jy s1 r1 ->
+    frun pb (rd + jy) s1 r1 ds2 = Some (s', r') -> complete jy ds2 -> r' - r1 <= rb y.
+  Proof.
+    intros Hl Hc HS Hr Hcomp.
+    destruct (H_rub jy y Hl) as [E|E]; rewrite E.
+    - pose proof (Start_guard _ _ _ HS). pose proof (Start_guard _ _ _ (Start_ext _ _ _ _ _ _ HS Hr)). unfold IMAX in *. lia.
+    - destruct (frun_le_H pb nv_static nv_none ds2 (rd + jy) s1 r1 s' r' Hcomp Hr) as (h & Hh & Hle).
+      pose proof (rub_adm _ _ _ _ Hc Hh). lia.
+  Qed.
+
+  Lemma rub_case_sound j x s r ds s' r' : lay j x -> cov (st x) s -> Start j s r ->
+    frun pb (rd + j) s r ds = Some (s', r') -> complete j ds ->
+    forall dl, IMIN + B < dl -> r + dl <= sat_sub bk (rb x) -> r' + dl <= bk.
+  Proof.
+    intros Hl Hc HS Hr Hcomp dl Hdl Hle.
+    pose proof (Start_guard _ _ _ HS) as Hg.
+    pose proof (cost_le_rub j x s r ds s' r' Hl Hc HS Hr Hcomp) as Hcr.
+    pose proof (sat_sub_sound bk (rb x) (r + dl) ltac:(lia) Hle). lia.
+  Qed.
+
+  (* a run that reaches a node dropped by the cache with an arrival value below the recorded threshold is lost there *)
+  Lemma cached_lost j x s r ds s' r' tc : lay j x -> live x -> cached x -> Old (rd + j) (st x) tc ->
+    cov (st x) s -> frun pb (rd + j) s r ds = Some (s', r') -> complete j ds ->
+    forall val, val <= tc + (r' - r) -> LostAt j val.
+  Proof.
+    intros Hl Hv Hc Ho Hcov Hr Hcomp val Hval.
+    destruct (frun_le_H pb nv_static nv_none ds (rd + j) s r s' r' Hcomp Hr) as (hs & Hhs & Hle).
+    assert (HjN : (rd + j <= N)%nat).
+    { pose proof (proj1 (complete_eq j ds) Hcomp) as Hcq. lia. }
+    destruct (H_cov pb nv_static nv_some nv_none cov cov_sim (rd + j) (st x) s hs HjN Hcov Hhs) as (h & Hh & Hhh).
+    exists j, x, tc, h. repeat split; auto; lia.
+  Qed.
+
+  (* ---------------------------------------------------------------- live paths and where a run leaves the diagram *)
+  Definition Fall (j x : nat) (s : St) (ds : list decision) : Prop :=
+    exists ds1 ds2 y s1, ds = ds1 ++ ds2 /\ lpath j x s ds1 y s1 /\ (rd + j + length ds1 < N)%nat /\
+      (~ branched y \/ cached y).
+
+  Lemma branched_dec x : {branched x} + {~ branched x}.
+  Proof. unfold Thresholds.branched. destruct (Z_lt_dec (ci_best_lb inp) (sat_add (rb x) (vt x))); [left|right]; assumption. Qed.
+
+  Lemma path_dich ds : forall j x s r s' r', lay j x -> live x -> Adm x s ->
+    frun pb (rd + j) s r ds = Some (s', r') -> complete j ds ->
+    (exists T, lpath j x s ds T s') \/ Fall j x s ds.
+  Proof.
+    induction ds as [|d ds IH]; intros j x s r s' r' Hl Hv Ha Hr Hc.
+    - simpl in Hr. inversion Hr; subst. left. exists x. apply Thresholds.lp_nil; assumption.
+    - rewrite (Thresholds.frun_cons inp) in Hr. fold pb in Hr.
+      destruct (var_ok pb (rd + j) d) eqn:Ev; [|discriminate]. destruct (in_domain pb s d) eqn:Ed; [|discriminate].
+      simpl in Hr. apply (proj1 (complete_eq _ _)) in Hc. simpl in Hc.
+      destruct (cached_dec x) as [Hcx|Hcx].
+      { right. exists [], (d :: ds), x, s. split; [reflexivity|]. split; [apply Thresholds.lp_nil; assumption|].
+        split; [simpl; lia|right; exact Hcx]. }
+      destruct (branched_dec x) as [Hb|Hb].
+      + apply (var_ok_spec pb nv_static (rd + j) d []) in Ev. apply in_domain_In in Ed.
+        destruct (H_SC j x s (d_var d) (d_val d) Hl Hv Hcx Ha ltac:(lia) Hb Ev Ed) as (c & eid & C1 & C2 & C3 & C4 & C5 & C6 & C7).
+        cbv zeta in C3, C6, C7. rewrite Thresholds.mkdec_eta in C3, C6, C7.
+        replace (S (rd + j)) with (rd + S j)%nat in Hr by lia.
+        destruct (IH (S j) c _ _ _ _ C1 C2 C3 Hr) as [[T HT]|HF].
+        * apply (proj2 (complete_eq _ _)). lia.
+        * left. exists T. eapply Thresholds.lp_cons; eauto.
+        * right. destruct HF as (ds1 & ds2 & y & s1 & E & Hp & Hlt & Hnb).
+          exists (d :: ds1), ds2, y, s1. split; [simpl; rewrite E; reflexivity|]. split; [eapply Thresholds.lp_cons; eauto|].
+          split; [simpl; lia|exact Hnb].
+      + right. exists [], (d :: ds), x, s. split; [reflexivity|]. split; [apply Thresholds.lp_nil; assumption|].
+        split; [simpl; lia|left; exact Hb].
+  Qed.
+
+  (* ---------------------------------------------------------------- leaving the diagram from a cut-set node whose threshold is its value *)
+  Lemma cut_vtop_fall j x r ds1 ds2 y s1 s' r' : lay j x -> live x -> isex x ->
+    Start j (st x) r -> frun pb (rd + j) (st x) r (ds1 ++ ds2) = Some (s', r') -> complete j (ds1 ++ ds2) ->
+    lpath j x (st x) ds1 y s1 -> (rd + j + length ds1 < N)%nat -> (~ branched y \/ cached y) ->
+    forall dl, r + dl <= vt x -> r' + dl <= bk \/ LostAt (j + length ds1) (r' + dl).
+  Proof.
+    intros Hl Hv Hx HS Hr Hcomp Hp Hlt Hnb dl Hdl.
+    pose proof (H_real j x Hl Hv Hx) as HSx.
+    set (a := vt x - r).
+    pose proof (frun_shift pb _ _ _ _ a _ _ Hr) as Hr2. replace (r + a) with (vt x) in Hr2 by (unfold a; lia).
+    rewrite frun_app in Hr2.
+    destruct (frun pb (rd + j) (st x) (vt x) ds1) as [[s1' v1]|] eqn:E1; [|discriminate].
+    destruct (Thresholds.lpath_end _ _ _ _ _ _ _ _ _ Hp) as (L1 & L2 & L3 & L4).
+    assert (s1' = s1) by (rewrite L4; apply (frun_state pb _ _ _ _ _ _ E1)). subst s1'.
+    pose proof (H_vtop j x ds1 y s1 v1 Hl Hv Hx Hp E1) as Hv1.
+    pose proof (Start_ext _ _ _ _ _ _ HSx E1) as HS1.
+    replace (rd + j + length ds1)%nat with (rd + (j + length ds1))%nat in Hr2 by lia.
+    assert (Hc2 : complete (j + length ds1) ds2).
+    { apply (proj2 (complete_eq _ _)). apply (proj1 (complete_eq _ _)) in Hcomp. rewrite app_length in Hcomp. lia. }
+    destruct Hnb as [Hnb|Hcy].
+    - left.
+      pose proof (cost_le_rub _ y s1 v1 ds2 s' (r' + a) L1 (proj1 L3) HS1 Hr2 Hc2) as Hcr.
+      pose proof (Start_guard _ _ _ (Start_ext _ _ _ _ _ _ HS1 Hr2)) as HgV.
+      assert (HV : r' + a <= sat_add (rb y) (vt y)).
+      { apply sat_add_ge; [unfold in_isize, IMIN, IMAX in *; lia|lia]. }
+      unfold Thresholds.branched in Hnb. fold lb in Hnb. unfold a in *. lia.
+    - right. destruct (H_cached _ y L1 L2 Hcy) as (tc & _ & Htc & Hold).
+      apply (cached_lost (j + length ds1) y s1 v1 ds2 s' (r' + a) tc L1 L2 Hcy Hold (proj1 L3) Hr2 Hc2).
+      unfold a. lia.
+  Qed.
+
+  (* capture by a drained cut-set node; with e = true the node is met strictly deeper than the starting point *)
+  Definition CaptD (e : bool) (j : nat) (s : St) (w : Z) (ds : list decision) : Prop :=
+    exists ds1 ds2 y s1 w1, ds = ds1 ++ ds2 /\ frun pb (rd + j) s w ds1 = Some (s1, w1) /\
+      Drained y /\ st y = s1 /\ n_depth (gn m0 y) = (rd + j + length ds1)%nat /\ w1 <= vt y /\ (e = true -> ds1 <> []).
+
+  Lemma CaptD_weaken e j s w ds : CaptD e j s w ds -> CaptD false j s w ds.
+  Proof.
+    intros (ds1 & ds2 & y & s1 & w1 & A1 & A2 & A3 & A4 & A5 & A6 & _).
+    exists ds1, ds2, y, s1, w1. repeat split; auto. discriminate.
+  Qed.
+
+  Definition cutb (x : nat) : bool := f_cutset (n_flags (gn m0 x)).
+
+  (* ---------------------------------------------------------------- the two semantic invariants *)
+  Definition GB (x : nat) (th : option Z) : Prop :=
+    forall j s r ds s' r', lay j x -> Adm x s -> Start j s r ->
+      frun pb (rd + j) s r ds = Some (s', r') -> complete j ds -> Fall j x s ds ->
+      exists t, th = Some t /\ forall dl, IMIN + B < dl -> r + dl <= t -> r' + dl <= bk \/ LostAt (cj x j) (r' + dl).
+
+  Definition GA (x : nat) (th : option Z) : Prop :=
+    isex x -> above x ->
+    forall j r ds s' r' T, lay j x -> Start j (st x) r ->
+      frun pb (rd + j) (st x) r ds = Some (s', r') -> complete j ds -> lpath j x (st x) ds T s' ->
+      exists t, th = Some t /\
+        forall dl, IMIN + B < dl -> r + dl <= t ->
+          r' + dl <= bk \/ CaptD (negb (cutb x)) j (st x) (r + dl) ds \/ LostAt (cj x j) (r' + dl).
+
+  Lemma cj_ge x j : (j <= cj x j)%nat.
+  Proof. unfold cj. destruct (f_cache _); lia. Qed.
+  Lemma cj_nc x j : ~ cached x -> cj x j = S j.
+  Proof. unfold cj, cached. destruct (f_cache _); [intros H; exfalso; apply H; reflexivity|reflexivity]. Qed.
+  Lemma cj_c x j : cached x -> cj x j = j.
+  Proof. unfold cj, cached. intros ->. reflexivity. Qed.
+
+  Section Core.
+    Variables (x j : nat) (pre : option Z) (thk : nat -> option Z).
+    Hypothesis Hl : lay j x.
+    Hypothesis Hv : live x.
+    Hypothesis KB : forall c, lay (S j) c -> live c -> GB c (thk c).
+    Hypothesis KA : forall c, lay (S j) c -> live c -> GA c (thk c).
+    Hypothesis KQ : forall c eid tc, lay (S j) c -> live c -> thk c = Some tc ->
+      In eid (n_inb (gn m0 c)) -> e_from (get_edge m0 eid) = x ->
+      exists tp, pre = Some tp /\ tp <= sat_sub tc (e_cost (get_edge m0 eid)).
+    Hypothesis KT : isex x -> above x -> (rd + j = N)%nat -> exists t, pre = Some t /\ t <= bk.
+    Hypothesis KM : cached x -> tle pre (thc0 x).
+
+    Lemma own_theta_nd :
+      own_theta bk (nd x pre) =
+        if negb (f_cache (n_flags (gn m0 x))) then
+          if sat_add (vt x) (rb x) <=? bk then Some (sat_sub bk (rb x))
+          else if f_cutset (n_flags (gn m0 x)) then
+            if sat_add (vt x) (vb x) <=? bk then Some (Z.min (opt_default IMAX pre) (sat_sub bk (vb x)))
+            else Some (vt x)
+          else if fl_is_exact (n_flags (gn m0 x)) && match pre with None => true | Some _ => false end
+            then Some IMAX else pre
+        else pre.
+    Proof. unfold Thresholds.own_theta, Thresholds.nd. cbn [n_flags n_vtop n_rub n_vbot n_theta set_theta]. reflexivity. Qed.
+
+    Lemma not_rub_branched : (sat_add (vt x) (rb x) <=? bk) = false -> branched x.
+    Proof.
+      intros E. apply Z.leb_gt in E. unfold Thresholds.branched. fold lb. rewrite sat_add_comm.
+      destruct (Z_lt_dec lb (sat_add (vt x) (rb x))); [assumption|lia].
+    Qed.
+
+    (* a node dropped by the cache: its threshold is (at most) the recorded one *)
+    Lemma cached_case : cached x ->
+      exists t tc, pre = Some t /\ t <= tc /\ Old (rd + j) (st x) tc /\
+        own_theta bk (nd x pre) = Some t.
+    Proof.
+      intros Hc. destruct (H_cached j x Hl Hv Hc) as (tc & E0 & _ & Hold).
+      pose proof (KM Hc) as Ht. rewrite E0 in Ht. simpl in Ht. destruct Ht as (t & Et & Hle).
+      exists t, tc. split; [exact Et|]. split; [exact Hle|]. split; [exact Hold|].
+      rewrite own_theta_nd. unfold cached in Hc. rewrite Hc. simpl. exact Et.
+    Qed.
+
+    Lemma core_GB : GB x (own_theta bk (nd x pre)).
+    Proof.
+      intros j' s r ds s' r' Hl' Ha HS Hr Hcomp HF.
+      assert (j' = j) by (eapply H_uniq; eauto). subst j'.
+      destruct (cached_dec x) as [Hcx|Hcx].
+      { destruct (cached_case Hcx) as (t & tc & Et & Hle & Hold & Eo). rewrite Eo.
+        exists t. split; [reflexivity|]. intros dl Hdl Hrt. right. rewrite (cj_c x j Hcx).
+        apply (cached_lost j x s r ds s' r' tc Hl Hv Hcx Hold (proj1 Ha) Hr Hcomp). lia. }
+      rewrite (cj_nc x j Hcx).
+      rewrite own_theta_nd. assert (Efc : f_cache (n_flags (gn m0 x)) = false).
+      { unfold cached in Hcx. destruct (f_cache (n_flags (gn m0 x))); [exfalso; apply Hcx; reflexivity|reflexivity]. }
+      rewrite Efc. cbn [negb].
+      destruct (sat_add (vt x) (rb x) <=? bk) eqn:E1.
+      { eexists. split; [reflexivity|]. intros dl Hdl Hle. left.
+        exact (rub_case_sound j x s r ds s' r' Hl (proj1 Ha) HS Hr Hcomp dl Hdl Hle). }
+      pose proof (not_rub_branched E1) as Hbr.
+      destruct HF as (ds1 & ds2 & y & s1 & E & Hp & Hlt & Hnb). subst ds.
+      destruct ds1 as [|d ds1].
+      { destruct (Thresholds.lpath_nil_inv _ _ _ _ _ _ _ _ Hp) as [-> _]. destruct Hnb; contradiction. }
+      destruct (Thresholds.lpath_cons_inv _ _ _ _ _ _ _ _ _ _ Hp) as (c & eid & A4 & A5 & A6 & A7 & Hp').
+      destruct (Thresholds.lpath_start _ _ _ _ _ _ _ _ _ Hp') as (C1 & C2 & C3).
+      change ((d :: ds1) ++ ds2) with (d :: (ds1 ++ ds2)) in Hr, Hcomp.
+      destruct (Thresholds.frun_cons_inv inp _ _ _ _ _ _ _ Hr) as (V1 & V2 & Hr').
+      fold pb in V1, V2, Hr'.
+      replace (S (rd + j)) with (rd + S j)%nat in Hr' by lia.
+      pose proof (Start_step j s r _ HS V1 V2) as HSc.
+      assert (Hcc : complete (S j) (ds1 ++ ds2)).
+      { apply (proj2 (complete_eq _ _)). apply (proj1 (complete_eq _ _)) in Hcomp. simpl in Hcomp. lia. }
+      assert (HFc : Fall (S j) c (transition pb s d) (ds1 ++ ds2)).
+      { exists ds1, ds2, y, s1. split; [reflexivity|]. split; [exact Hp'|]. split; [simpl in Hlt; lia|exact Hnb]. }
+      destruct (KB c C1 C2 (S j) _ _ _ _ _ C1 C3 HSc Hr' Hcc HFc) as (tc & Etc & Hsc).
+      destruct (KQ c eid tc C1 C2 Etc A4 A5) as (tp & -> & Htp).
+      pose proof (Start_guard _ _ _ HS) as Hg.
+      assert (Hs : forall dl, IMIN + B < dl -> r + dl <= tp -> r' + dl <= bk \/ LostAt (S j) (r' + dl)).
+      { apply (Thresholds.via_child inp B (fun dl => r' + dl <= bk \/ LostAt (S j) (r' + dl)) r (rcost s d)
+                 (e_cost (get_edge m0 eid)) tp tc A7 (proj1 Hg) Htp).
+        intros dl Hdl Hle. destruct (Hsc dl Hdl ltac:(lia)) as [H1|H1]; [left; exact H1|right].
+        eapply LostAt_mono; [apply cj_ge|apply Z.le_refl|exact H1]. }
+      destruct (f_cutset (n_flags (gn m0 x))) eqn:E2.
+      - destruct (sat_add (vt x) (vb x) <=? bk) eqn:E3.
+        + eexists. split; [reflexivity|]. intros dl Hdl Hle. apply Hs; [exact Hdl|]. simpl in Hle. lia.
+        + eexists. split; [reflexivity|]. intros dl Hdl Hle.
+          pose proof (H_cut_ex j x Hl E2) as Hex. pose proof (proj2 Ha Hex) as Es. subst s.
+          destruct (cut_vtop_fall j x r (d :: ds1) ds2 y s1 s' r' Hl Hv Hex HS Hr Hcomp Hp Hlt Hnb dl Hle) as [H1|H1];
+            [left; exact H1|right].
+          eapply LostAt_mono; [|apply Z.le_refl|exact H1]. simpl. lia.
+      - rewrite andb_false_r. eexists. split; [reflexivity|]. exact Hs.
+    Qed.
+
+    Lemma core_GA : GA x (own_theta bk (nd x pre)).
+    Proof.
+      intros Hex Hab j' r ds s' r' T Hl' HS Hr Hcomp Hp.
+      assert (j' = j) by (eapply H_uniq; eauto). subst j'.
+      destruct (Thresholds.lpath_start _ _ _ _ _ _ _ _ _ Hp) as (_ & _ & Ha).
+      destruct (cached_dec x) as [Hcx|Hcx].
+      { destruct (cached_case Hcx) as (t & tc & Et & Hle & Hold & Eo). rewrite Eo.
+        exists t. split; [reflexivity|]. intros dl Hdl Hrt. right; right. rewrite (cj_c x j Hcx).
+        apply (cached_lost j x (st x) r ds s' r' tc Hl Hv Hcx Hold (proj1 Ha) Hr Hcomp). lia. }
+      rewrite (cj_nc x j Hcx).
+      rewrite own_theta_nd. assert (Efc : f_cache (n_flags (gn m0 x)) = false).
+      { unfold cached in Hcx. destruct (f_cache (n_flags (gn m0 x))); [exfalso; apply Hcx; reflexivity|reflexivity]. }
+      rewrite Efc. cbn [negb].
+      pose proof (Start_guard _ _ _ HS) as Hg.
+      destruct (sat_add (vt x) (rb x) <=? bk) eqn:E1.
+      { eexists. split; [reflexivity|]. intros dl Hdl Hle. left.
+        exact (rub_case_sound j x (st x) r ds s' r' Hl (proj1 Ha) HS Hr Hcomp dl Hdl Hle). }
+      destruct (f_cutset (n_flags (gn m0 x))) eqn:E2.
+      - destruct (sat_add (vt x) (vb x) <=? bk) eqn:E3.
+        + eexists. split; [reflexivity|]. intros dl Hdl Hle. left.
+          assert (Hlb : r' - r <= vb x).
+          { apply (H_locb j x ds T s' r r' Hl Hv E2 Hp Hcomp Hr).
+            intros da db s1 v1 Ed Hr1. apply (Thresholds.isize_diff inp B HB).
+            - apply (Start_guard _ _ _ (Start_ext _ _ _ _ _ _ HS Hr)).
+            - apply (Start_guard _ _ _ (Start_ext _ _ _ _ _ _ HS Hr1)). }
+          assert (Hle2 : r + dl <= sat_sub bk (vb x)) by lia.
+          pose proof (sat_sub_sound bk (vb x) (r + dl) ltac:(lia) Hle2). lia.
+        + eexists. split; [reflexivity|]. intros dl Hdl Hle. right; left.
+          assert (Hd : Drained x).
+          { apply (H_drain j x ds T s' r r' Hl Hv E2 Hp Hcomp Hr).
+            intros da db s1 v1 Ed Hr1. apply (Thresholds.isize_diff inp B HB).
+            - apply (Start_guard _ _ _ (Start_ext _ _ _ _ _ _ HS Hr)).
+            - apply (Start_guard _ _ _ (Start_ext _ _ _ _ _ _ HS Hr1)). }
+          exists [], ds, x, (st x), (r + dl). split; [reflexivity|]. split; [reflexivity|].
+          split; [exact Hd|]. split; [reflexivity|]. split; [|split; [exact Hle|]].
+          { rewrite (H_depth j x Hl Hv). simpl. fold rd. lia. }
+          unfold cutb. rewrite E2. discriminate.
+      - destruct ds as [|d ds].
+        + destruct (KT Hex Hab) as (t0 & -> & Ht0).
+          { apply (proj1 (complete_eq _ _)) in Hcomp. simpl in Hcomp. lia. }
+          rewrite andb_false_r. eexists. split; [reflexivity|]. intros dl Hdl Hle. left.
+          simpl in Hr. inversion Hr; subst. lia.
+        + destruct (Thresholds.lpath_cons_inv _ _ _ _ _ _ _ _ _ _ Hp) as (c & eid & A4 & A5 & A6 & A7 & Hp').
+          destruct (Thresholds.lpath_start _ _ _ _ _ _ _ _ _ Hp') as (C1 & C2 & C3).
+          assert (Hnc : ~ cuts x) by (unfold Thresholds.cuts; rewrite E2; discriminate).
+          destruct (H_kid j x c eid Hl Hv Hex Hab Hnc C1 C2 A4 A5) as [Hexc Habc].
+          assert (Etr : transition pb (st x) d = st c) by exact (proj2 C3 Hexc).
+          change (lpath (S j) c (transition pb (st x) d) ds T s') in Hp'.
+          destruct (Thresholds.frun_cons_inv inp _ _ _ _ _ _ _ Hr) as (V1 & V2 & Hr').
+          fold pb in V1, V2, Hr'.
+          replace (S (rd + j)) with (rd + S j)%nat in Hr' by lia.
+          pose proof (Start_step j (st x) r _ HS V1 V2) as HSc.
+          assert (Hcc : complete (S j) ds).
+          { apply (proj2 (complete_eq _ _)). apply (proj1 (complete_eq _ _)) in Hcomp. simpl in Hcomp. lia. }
+          rewrite Etr in Hr', HSc, Hp'.
+          destruct (KA c C1 C2 Hexc Habc (S j) _ _ _ _ T C1 HSc Hr' Hcc Hp') as (tc & Etc & Hsc).
+          destruct (KQ c eid tc C1 C2 Etc A4 A5) as (tp & -> & Htp).
+          rewrite andb_false_r. eexists. split; [reflexivity|].
+          apply (Thresholds.via_child inp B
+                   (fun dl => r' + dl <= bk \/ CaptD (negb (cutb x)) j (st x) (r + dl) (d :: ds) \/ LostAt (S j) (r' + dl)) r (rcost (st x) d)
+                   (e_cost (get_edge m0 eid)) tp tc A7 (proj1 Hg) Htp).
+          intros dl Hdl Hle. destruct (Hsc dl Hdl Hle) as [H1|[H1|H1]]; [left; exact H1|right; left|right; right].
+          * destruct H1 as (ds1 & ds2 & y & s1 & w1 & E & Hf & Hd & Hs & Hdep & Hw & _).
+            exists (d :: ds1), ds2, y, s1, w1. split; [simpl; rewrite E; reflexivity|]. split.
+            { change (frun pb (rd + j) (st x) (r + dl) (d :: ds1) = Some (s1, w1)). cbn [frun]. rewrite V1, V2. cbn [andb].
+              replace (S (rd + j)) with (rd + S j)%nat by lia.
+              replace (r + dl + transition_cost pb (st x) (transition pb (st x) d) d) with (r + rcost (st x) d + dl)
+                by (unfold Thresholds.rcost; fold pb; lia).
+              rewrite Etr. exact Hf. }
+            split; [exact Hd|]. split; [exact Hs|]. split; [rewrite Hdep; simpl; lia|]. split; [exact Hw|discriminate].
+          * eapply LostAt_mono; [apply cj_ge|apply Z.le_refl|exact H1].
+    Qed.
+  End Core.
+
+  (* ---------------------------------------------------------------- what a sound threshold of a node above the cut-set means *)
+  Definition SafeAt (j : nat) (s : St) (t : Z) (e : bool) : Prop :=
+    (exists r, Start j s r) /\
+    forall v ds s' v', IMIN + 2 * B < v -> v <= t ->
+      frun pb (rd + j) s v ds = Some (s', v') -> complete j ds ->
+      v' <= bk \/ CaptD e j s v ds \/ LostAt (S j) v'.
+
+  Lemma node_safe x j t : lay j x -> live x -> above x -> ~ cached x -> GA x (Some t) -> GB x (Some t) ->
+    SafeAt j (st x) t (negb (cutb x)).
+  Proof.
+    intros Hl Hv Hab Hnc HA HG.
+    pose proof (H_above_ex j x Hl Hv Hab) as Hex.
+    pose proof (H_real j x Hl Hv Hex) as HS. pose proof (Start_guard _ _ _ HS) as Hg.
+    split; [exists (vt x); exact HS|].
+    intros v ds s' v' Hv1 Hv2 Hr Hcomp.
+    set (dl := v - vt x).
+    pose proof (frun_shift pb _ _ _ _ (- dl) _ _ Hr) as Hr2. replace (v + - dl) with (vt x) in Hr2 by (unfold dl; lia).
+    assert (Ha : Adm x (st x)) by (split; [apply cov_refl|reflexivity]).
+    assert (Hdl : IMIN + B < dl) by (unfold dl; lia).
+    assert (Hle : vt x + dl <= t) by (unfold dl; lia).
+    destruct (path_dich ds j x (st x) (vt x) s' (v' + - dl) Hl Hv Ha Hr2 Hcomp) as [[T HT]|HF].
+    - destruct (HA Hex Hab j (vt x) ds s' (v' + - dl) T Hl HS Hr2 Hcomp HT) as (t' & Et & Hs).
+      inversion Et; subst t'. destruct (Hs dl Hdl Hle) as [H1|[H1|H1]].
+      + left. lia.
+      + right; left. replace (vt x + dl) with v in H1 by (unfold dl; lia). exact H1.
+      + right; right. rewrite (cj_nc x j Hnc) in H1. eapply LostAt_mono; [apply Nat.le_refl| |exact H1]. lia.
+    - destruct (HG j (st x) (vt x) ds s' (v' + - dl) Hl Ha HS Hr2 Hcomp HF) as (t' & Et & Hs).
+      inversion Et; subst t'. destruct (Hs dl Hdl Hle) as [H1|H1].
+      + left. lia.
+      + right; right. rewrite (cj_nc x j Hnc) in H1. eapply LostAt_mono; [apply Nat.le_refl| |exact H1]. lia.
+  Qed.
+
+  (* ---------------------------------------------------------------- the cache: every entry is an initial one, or sound *)
+  Definition CacheOKg (c : @cache St) : Prop :=
+    forall d s th, cget st_eqb c s d = Some th ->
+      cget st_eqb c0 s d = Some th \/ exists j, d = (rd + j)%nat /\ SafeAt j s (th_value th) (th_explored th).
+
+  Lemma CacheOKg_update c s d v e c' j :
+    update_threshold st_eqb c s d v e = Some c' -> CacheOKg c -> d = (rd + j)%nat -> SafeAt j s v e -> CacheOKg c'.
+  Proof.
+    intros Hu HC Hd HS d' s' th Hg.
+    assert (Hlen : length c' = length c) by (apply (cstep_length st_eqb c (OpUpdate s d v e) c'); exact Hu).
+    assert (Hd' : (d' < length c)%nat).
+    { unfold cget in Hg. destruct (nth_error c' d') eqn:E; [|discriminate].
+      rewrite <- Hlen. apply nth_error_Some. congruence. }
+    rewrite (cget_step st_eqb st_eqb_spec c (OpUpdate s d v e) c' s' d' Hu Hd') in Hg.
+    destruct (Nat.eqb d d' && st_eqb s s') eqn:Ek; [|apply HC; exact Hg].
+    apply andb_true_iff in Ek. destruct Ek as [E1 E2]. apply Nat.eqb_eq in E1. apply st_eqb_spec in E2. subst d' s'.
+    unfold omax_th in Hg. destruct (cget st_eqb c s d) as [t0|] eqn:E0.
+    - inversion Hg; subst th. unfold th_max. destruct (is_gt _).
+      + right. exists j. split; [exact Hd|exact HS].
+      + apply HC. exact E0.
+    - inversion Hg; subst th. right. exists j. split; [exact Hd|exact HS].
+  Qed.
+
+  (* ---------------------------------------------------------------- the invariant of the fold *)
+  Notation sk := (@Thresholds.sk St).
+  Definition Fr (a : mdd) : Prop :=
+    length (m_nodes a) = length (m_nodes m0) /\ (forall x, sk (gn a x) = sk (gn m0 x)) /\ m_edges a = m_edges m0.
+  Definition PA (a : mdd) (done : list nat) : Prop :=
+    forall x, In x done -> live x -> GA x (theta_of a x) /\ GB x (theta_of a x).
+  Definition PQ (a : mdd) (done : list nat) : Prop :=
+    forall c eid tc, In c done -> live c -> theta_of a c = Some tc -> In eid (n_inb (gn m0 c)) ->
+      ~ In (e_from (get_edge m0 eid)) done ->
+      exists tp, theta_of a (e_from (get_edge m0 eid)) = Some tp /\ tp <= sat_sub tc (e_cost (get_edge m0 eid)).
+  Definition PT (a : mdd) (done : list nat) : Prop :=
+    forall x j, ~ In x done -> lay j x -> live x -> isex x -> above x -> (rd + j = N)%nat ->
+      exists t, theta_of a x = Some t /\ t <= bk.
+  Definition PM (a : mdd) : Prop := forall x, cached x -> tle (theta_of a x) (thc0 x).
+  Definition FI (a : mdd) (done : list nat) : Prop :=
+    Fr a /\ PA a done /\ PQ a done /\ PT a done /\ PM a /\ CacheOKg (m_cache a).
+
+  Lemma bu_lay x : In x (bottom_up m0) -> exists j, lay j x.
+  Proof.
+    unfold bottom_up. intros H. apply in_concat in H. destruct H as (l & Hl & Hx).
+    apply in_rev in Hl. apply (In_nth _ _ []) in Hl. destruct Hl as (j & _ & Ej).
+    exists j. unfold Thresholds.lay. rewrite Ej. exact Hx.
+  Qed.
+
+  Lemma lay_bu j x : lay j x -> In x (bottom_up m0).
+  Proof.
+    unfold Thresholds.lay, bottom_up. intros H. apply in_concat. exists (nth j (m_layers m0) []). split; [|exact H].
+    apply in_rev. rewrite rev_involutive.
+    destruct (Nat.lt_ge_cases j (length (m_layers m0))) as [Hlt|Hge]; [apply nth_In; exact Hlt|].
+    rewrite nth_overflow in H by exact Hge. destruct H.
+  Qed.
+
+  Lemma Fr_node (a : mdd) x : Fr a -> gn a x = nd x (theta_of a x).
+  Proof.
+    intros (_ & F2 & _). unfold Thresholds.nd, Thresholds.theta_of. rewrite (Thresholds.node_of_sk (gn a x)) at 1.
+    rewrite F2. apply Thresholds.set_theta_sk.
+  Qed.
+
+  Lemma th_own_cached bk0 (a : mdd) x : f_cache (n_flags (gn a x)) = true -> th_own bk0 a x = a.
+  Proof. intros H. unfold Thresholds.th_own. cbv zeta. rewrite H. reflexivity. Qed.
+
+  Lemma th_step_FI (a : mdd) done x rest :
+    bottom_up m0 = done ++ x :: rest -> FI a done -> FI (th_step bk a x) (done ++ [x]).
+  Proof.
+    intros HBU (HF & HPA & HPQ & HPT & HPM & HC).
+    destruct (H_ord _ _ _ HBU) as (O1 & O2 & O3).
+    assert (Hxin : In x (bottom_up m0)) by (rewrite HBU; apply in_or_app; right; left; reflexivity).
+    destruct (bu_lay x Hxin) as [j Hl].
+    pose proof (H_range j x Hl) as Hxlt.
+    pose proof HF as (F1 & F2 & F3).
+    pose proof (Fr_node a x HF) as Hgx.
+    unfold Thresholds.th_step. rewrite Hgx. unfold Thresholds.nd at 1. cbn [n_flags set_theta].
+    destruct (f_deleted (n_flags (gn m0 x))) eqn:Edel.
+    { (* deleted: skipped *)
+      split; [exact HF|]. split; [|split; [|split; [|split]]].
+      - intros y Hy Hvy. apply in_app_or in Hy. destruct Hy as [Hy|[<-|[]]]; [apply HPA; assumption|].
+        unfold Thresholds.live in Hvy. congruence.
+      - intros c eid tc Hc Hvc Et Hin Hnp. apply in_app_or in Hc. destruct Hc as [Hc|[<-|[]]].
+        + apply (HPQ c eid tc Hc Hvc Et Hin). intros Hp. apply Hnp. apply in_or_app. left; exact Hp.
+        + unfold Thresholds.live in Hvc. congruence.
+      - intros y jy Hny. apply HPT. intros Hy. apply Hny. apply in_or_app. left; exact Hy.
+      - exact HPM.
+      - exact HC. }
+    assert (Hv : live x) by exact Edel.
+    set (pre := theta_of a x) in *.
+    set (th1 := own_theta bk (nd x pre)).
+    set (a1 := th_own bk a x).
+    assert (Hlta : (x < length (m_nodes a))%nat) by (rewrite F1; exact Hxlt).
+    assert (G1 : forall y, gn a1 y = if Nat.eqb y x then set_theta (gn a x) th1 else gn a y).
+    { intros y. unfold a1. rewrite (Thresholds.th_own_gn st_eqb inp bk a x y Hlta). rewrite Hgx. reflexivity. }
+    assert (G1x : gn a1 x = nd x th1).
+    { rewrite G1, Nat.eqb_refl, Hgx. unfold Thresholds.nd. destruct (gn m0 x); reflexivity. }
+    assert (G1o : forall y, y <> x -> gn a1 y = gn a y).
+    { intros y Hne. rewrite G1. apply Nat.eqb_neq in Hne. rewrite Hne. reflexivity. }
+    assert (E1 : m_edges a1 = m_edges m0) by (unfold a1; rewrite Thresholds.th_own_edges; exact F3).
+    assert (L1 : length (m_nodes a1) = length (m_nodes m0)).
+    { unfold a1. rewrite Thresholds.th_own_nodes. unfold Thresholds.own_upd. simpl. rewrite upd_nth_length. exact F1. }
+    assert (S1 : forall y, sk (gn a1 y) = sk (gn m0 y)).
+    { intros y. rewrite G1. destruct (Nat.eqb y x) eqn:E.
+      - apply Nat.eqb_eq in E. subst y. rewrite Thresholds.sk_set_theta. apply F2.
+      - apply F2. }
+    (* the propagation to the parents *)
+    set (a2 := th_prop a1 x).
+    assert (HP : m_edges a2 = m_edges m0 /\ length (m_nodes a2) = length (m_nodes m0) /\ m_cache a2 = m_cache a1 /\
+                 (forall y, sk (gn a2 y) = sk (gn m0 y)) /\
+                 (forall y, tle (theta_of a2 y) (theta_of a1 y)) /\
+                 (forall y, (forall eid, In eid (n_inb (gn m0 x)) -> e_from (get_edge m0 eid) <> y) -> gn a2 y = gn a1 y) /\
+                 (forall my, th1 = Some my -> forall eid, In eid (n_inb (gn m0 x)) ->
+                    exists t', theta_of a2 (e_from (get_edge m0 eid)) = Some t' /\ t' <= sat_sub my (e_cost (get_edge m0 eid)))).
+    { assert (Hinb : n_inb (gn a1 x) = n_inb (gn m0 x)) by (rewrite G1x; reflexivity).
+      assert (Hth : n_theta (gn a1 x) = th1) by (rewrite G1x; reflexivity).
+      unfold a2, Thresholds.th_prop. rewrite Hinb, Hth.
+      assert (Hge : forall k, get_edge a1 k = get_edge m0 k) by (intros k; apply ge_edges_eq; exact E1).
+      destruct th1 as [my|] eqn:Eth.
+      - destruct (Thresholds.prop_fold_spec inp my (n_inb (gn m0 x)) a1) as (Q1 & Q2 & Q2c & Q3 & Q4 & Q5 & Q6).
+        cbv zeta in Q1, Q2, Q2c, Q3, Q4, Q5, Q6.
+        split; [congruence|]. split; [congruence|]. split; [exact Q2c|]. split; [intros y; rewrite Q3; apply S1|].
+        split; [exact Q4|]. split.
+        + intros y Hy. apply Q5. intros eid Hin. rewrite Hge. apply Hy. exact Hin.
+        + intros my' Emy eid Hin. inversion Emy; subst my'. rewrite <- (Hge eid). apply Q6; [exact Hin|].
+          rewrite Hge, L1. eapply H_efrom; eauto.
+      - split; [exact E1|]. split; [exact L1|]. split; [reflexivity|]. split; [exact S1|].
+        split; [intros y; apply tle_refl|]. split; [reflexivity|]. intros my Emy. discriminate. }
+    destruct HP as (P1 & P1l & P5 & P1s & P2 & P3 & P4).
+    assert (Hfroz : forall y, In y (done ++ [x]) -> gn a2 y = gn a1 y).
+    { intros y Hy. apply P3. intros eid Hin E. apply (O2 eid Hin). rewrite E. exact Hy. }
+    assert (Hold : forall y, In y done -> theta_of a2 y = theta_of a y).
+    { intros y Hy. unfold Thresholds.theta_of. rewrite Hfroz by (apply in_or_app; left; exact Hy).
+      rewrite G1o; [reflexivity|]. intros ->. contradiction. }
+    assert (Hthx : theta_of a2 x = th1).
+    { unfold Thresholds.theta_of. rewrite Hfroz by (apply in_or_app; right; left; reflexivity). rewrite G1x. reflexivity. }
+    (* the semantic core *)
+    assert (Hcore : GA x th1 /\ GB x th1).
+    { assert (KB : forall c, lay (S j) c -> live c -> GB c (theta_of a c)).
+      { intros c Hc Hvc. apply HPA; [apply (O3 j c Hl Hc)|exact Hvc]. }
+      assert (KA : forall c, lay (S j) c -> live c -> GA c (theta_of a c)).
+      { intros c Hc Hvc. apply HPA; [apply (O3 j c Hl Hc)|exact Hvc]. }
+      assert (KQ : forall c eid tc, lay (S j) c -> live c -> theta_of a c = Some tc ->
+                In eid (n_inb (gn m0 c)) -> e_from (get_edge m0 eid) = x ->
+                exists tp, pre = Some tp /\ tp <= sat_sub tc (e_cost (get_edge m0 eid))).
+      { intros c eid tc Hc Hvc Et Hin Ef.
+        destruct (HPQ c eid tc (O3 j c Hl Hc) Hvc Et Hin) as (tp & Etp & Hle); [rewrite Ef; exact O1|].
+        rewrite Ef in Etp. exists tp. auto. }
+      assert (KT : isex x -> above x -> (rd + j = N)%nat -> exists t, pre = Some t /\ t <= bk).
+      { intros Hex Hab HN. apply (HPT x j O1 Hl Hv Hex Hab HN). }
+      assert (KM : cached x -> tle pre (thc0 x)) by (intros Hc; apply HPM; exact Hc).
+      split; [exact (core_GA x j pre (theta_of a) Hl Hv KA KQ KT KM)|exact (core_GB x j pre (theta_of a) Hl Hv KB KQ KT KM)]. }
+    split; [|split; [|split; [|split; [|split]]]].
+    - split; [exact P1l|]. split; [exact P1s|exact P1].
+    - intros y Hy Hvy. apply in_app_or in Hy. destruct Hy as [Hy|[<-|[]]].
+      + rewrite (Hold y Hy). apply HPA; assumption.
+      + rewrite Hthx. exact Hcore.
+    - intros c eid tc Hc Hvc Et Hin Hnp.
+      assert (Hpne : e_from (get_edge m0 eid) <> x).
+      { intros E. apply Hnp. rewrite E. apply in_or_app. right; left; reflexivity. }
+      apply in_app_or in Hc. destruct Hc as [Hc|[<-|[]]].
+      + rewrite (Hold c Hc) in Et.
+        destruct (HPQ c eid tc Hc Hvc Et Hin) as (tp & Etp & Hle).
+        { intros Hp. apply Hnp. apply in_or_app. left; exact Hp. }
+        pose proof (P2 (e_from (get_edge m0 eid))) as Ht. unfold Thresholds.theta_of at 2 in Ht. rewrite (G1o _ Hpne) in Ht.
+        fold (theta_of a (e_from (get_edge m0 eid))) in Ht. rewrite Etp in Ht. simpl in Ht.
+        destruct Ht as (t2 & E2 & Hle2). exists t2. split; [exact E2|lia].
+      + rewrite Hthx in Et. apply (P4 tc Et eid Hin).
+    - intros y jy Hny Hly Hvy Hexy Haby HN.
+      assert (Hyne : y <> x) by (intros ->; apply Hny; apply in_or_app; right; left; reflexivity).
+      destruct (HPT y jy) as (t & Et & Hle); auto.
+      { intros Hy. apply Hny. apply in_or_app. left; exact Hy. }
+      pose proof (P2 y) as Ht. unfold Thresholds.theta_of at 2 in Ht. rewrite (G1o _ Hyne) in Ht. fold (theta_of a y) in Ht.
+      rewrite Et in Ht. simpl in Ht. destruct Ht as (t2 & E2 & Hle2). exists t2. split; [exact E2|lia].
+    - (* thresholds of the dropped nodes only decrease *)
+      intros y Hcy. eapply tle_trans; [apply P2|].
+      destruct (Nat.eq_dec y x) as [->|Hne].
+      + unfold Thresholds.theta_of. rewrite G1x. unfold Thresholds.nd. cbn [n_theta set_theta]. unfold th1.
+        unfold Thresholds.own_theta, Thresholds.nd. cbn [n_flags set_theta n_theta]. unfold cached in Hcy. rewrite Hcy. simpl.
+        apply HPM. exact Hcy.
+      + unfold Thresholds.theta_of. rewrite (G1o y Hne). apply HPM. exact Hcy.
+    - rewrite P5. unfold a1.
+      destruct (cached_dec x) as [Hcx|Hcx].
+      { rewrite th_own_cached; [exact HC|]. rewrite Hgx. unfold Thresholds.nd. cbn [n_flags set_theta]. exact Hcx. }
+      destruct (Thresholds.th_own_cache st_eqb inp bk a x) as [Ec|(t & c' & T1 & T2 & T3 & T4)]; [rewrite Ec; exact HC|].
+      rewrite T4.
+      assert (Gu : gn (Thresholds.own_upd bk a x) x = nd x th1).
+      { unfold Thresholds.own_upd. rewrite gn_upd_same by exact Hlta. rewrite Hgx. unfold th1, Thresholds.nd. destruct (gn m0 x); reflexivity. }
+      rewrite Gu in T1, T2, T3. unfold Thresholds.nd in T1, T2, T3. cbn [n_theta n_flags n_state n_depth set_theta] in T1, T2, T3.
+      apply (CacheOKg_update _ _ _ _ _ _ j T3 HC (H_depth j x Hl Hv)).
+      change (n_state (gn m0 x)) with (st x). change (negb (f_cutset (n_flags (gn m0 x)))) with (negb (cutb x)).
+      destruct Hcore as [HA HG]. fold th1 in T1. rewrite T1 in HA, HG.
+      apply (node_safe x j t Hl Hv T2 Hcx HA HG).
+  Qed.
+
+  Lemma th_fold_FI rest : forall done (a : mdd),
+    bottom_up m0 = done ++ rest -> FI a done -> FI (fold_left (th_step bk) rest a) (bottom_up m0).
+  Proof.
+    induction rest as [|x rest IH]; intros done a HBU HI; simpl.
+    - rewrite HBU, app_nil_r. exact HI.
+    - apply (IH (done ++ [x])).
+      + rewrite HBU, <- app_assoc. reflexivity.
+      + eapply th_step_FI; eauto.
+  Qed.
+
+  Theorem theta_fold_soundC :
+    PT m0 [] -> CacheOKg (m_cache m0) ->
+    let af := fold_left (th_step bk) (bottom_up m0) m0 in
+    Fr af /\ CacheOKg (m_cache af).
+  Proof.
+    intros HT HC af.
+    assert (HI : FI af (bottom_up m0)).
+    { apply (th_fold_FI (bottom_up m0) [] m0); [reflexivity|].
+      split; [repeat split; auto|]. split; [intros x []|]. split; [intros c eid tc []|]. split; [exact HT|].
+      split; [intros x _; apply tle_refl|exact HC]. }
+    destruct HI as (HF & _ & _ & _ & _ & HC'). split; [exact HF|exact HC'].
+  Qed.
+
+  (* ---------------------------------------------------------------- (A) every run from an exact node above the cut-set *)
+  Hypothesis H_term : forall j x, lay j x -> live x -> isex x -> above x -> (rd + j = N)%nat -> vt x <= bk.
+
+  Lemma Capt_cons j x d ds c r e :
+    var_ok pb (rd + j) d = true -> in_domain pb (st x) d = true -> transition pb (st x) d = st c ->
+    CaptD e (S j) (st c) (r + rcost (st x) d) ds -> CaptD false j (st x) r (d :: ds).
+  Proof.
+    intros V1 V2 Etr (ds1 & ds2 & y & s1 & w1 & E & Hf & Hd & Hs & Hdep & Hw & _).
+    exists (d :: ds1), ds2, y, s1, w1. split; [simpl; rewrite E; reflexivity|]. split.
+    { change (frun pb (rd + j) (st x) r (d :: ds1) = Some (s1, w1)). cbn [frun]. rewrite V1, V2. cbn [andb].
+      replace (S (rd + j)) with (rd + S j)%nat by lia.
+      change (transition_cost pb (st x) (transition pb (st x) d) d) with (rcost (st x) d).
+      rewrite Etr. exact Hf. }
+    split; [exact Hd|]. split; [exact Hs|]. split; [rewrite Hdep; simpl; lia|]. split; [exact Hw|discriminate].
+  Qed.
+
+  Lemma lpath_cases ds : forall j x r s' r' T, lay j x -> live x -> isex x -> above x ->
+    Start j (st x) r -> r <= vt x ->
+    frun pb (rd + j) (st x) r ds = Some (s', r') -> complete j ds -> lpath j x (st x) ds T s' ->
+    r' <= bk \/ CaptD false j (st x) r ds.
+  Proof.
+    induction ds as [|d ds IH]; intros j x r s' r' T Hl Hv Hex Hab HS Hrv Hr Hcomp Hp.
+    - destruct (f_cutset (n_flags (gn m0 x))) eqn:E2.
+      + right. assert (Hd : Drained x).
+        { apply (H_drain j x [] T s' r r' Hl Hv E2 Hp Hcomp Hr).
+          intros da db s1 v1 Ed Hr1. apply (Thresholds.isize_diff inp B HB).
+          - apply (Start_guard _ _ _ (Start_ext _ _ _ _ _ _ HS Hr)).
+          - apply (Start_guard _ _ _ (Start_ext _ _ _ _ _ _ HS Hr1)). }
+        exists [], [], x, (st x), r. split; [reflexivity|]. split; [reflexivity|].
+        split; [exact Hd|]. split; [reflexivity|]. split; [|split; [exact Hrv|discriminate]].
+        rewrite (H_depth j x Hl Hv). simpl. fold rd. lia.
+      + left. simpl in Hr. inversion Hr; subst.
+        pose proof (H_term j x Hl Hv Hex Hab ltac:(apply (proj1 (complete_eq _ _)) in Hcomp; simpl in Hcomp; lia)). lia.
+    - destruct (f_cutset (n_flags (gn m0 x))) eqn:E2.
+      + right. assert (Hd : Drained x).
+        { apply (H_drain j x (d :: ds) T s' r r' Hl Hv E2 Hp Hcomp Hr).
+          intros da db s1 v1 Ed Hr1. apply (Thresholds.isize_diff inp B HB).
+          - apply (Start_guard _ _ _ (Start_ext _ _ _ _ _ _ HS Hr)).
+          - apply (Start_guard _ _ _ (Start_ext _ _ _ _ _ _ HS Hr1)). }
+        exists [], (d :: ds), x, (st x), r. split; [reflexivity|]. split; [reflexivity|].
+        split; [exact Hd|]. split; [reflexivity|]. split; [|split; [exact Hrv|discriminate]].
+        rewrite (H_depth j x Hl Hv). simpl. fold rd. lia.
+      + destruct (Thresholds.lpath_cons_inv _ _ _ _ _ _ _ _ _ _ Hp) as (c & eid & A4 & A5 & A6 & A7 & Hp').
+        destruct (Thresholds.lpath_start _ _ _ _ _ _ _ _ _ Hp') as (C1 & C2 & C3).
+        assert (Hnc : ~ cuts x) by (unfold Thresholds.cuts; rewrite E2; discriminate).
+        destruct (H_kid j x c eid Hl Hv Hex Hab Hnc C1 C2 A4 A5) as [Hexc Habc].
+        assert (Etr : transition pb (st x) d = st c) by exact (proj2 C3 Hexc).
+        change (lpath (S j) c (transition pb (st x) d) ds T s') in Hp'.
+        destruct (Thresholds.frun_cons_inv inp _ _ _ _ _ _ _ Hr) as (V1 & V2 & Hr').
+        fold pb in V1, V2, Hr'.
+        replace (S (rd + j)) with (rd + S j)%nat in Hr' by lia.
+        pose proof (Start_step j (st x) r _ HS V1 V2) as HSc.
+        assert (Hcc : complete (S j) ds).
+        { apply (proj2 (complete_eq _ _)). apply (proj1 (complete_eq _ _)) in Hcomp. simpl in Hcomp. lia. }
+        rewrite Etr in Hr', HSc, Hp'.
+        (* the arrival value at the child stays below its value *)
+        assert (Hvc : r + rcost (st x) d <= vt c).
+        { assert (Hp1 : lpath j x (st x) [d] c (st c)).
+          { eapply (Thresholds.lp_cons inp cov m0 j x (st x) d [] c eid c (st c)); eauto.
+            - split; [apply cov_refl|reflexivity].
+            - fold pb. rewrite Etr. apply Thresholds.lp_nil; [exact C1|exact C2|split; [apply cov_refl|reflexivity]]. }
+          assert (Hr1 : frun pb (rd + j) (st x) (vt x) [d] = Some (st c, vt x + rcost (st x) d)).
+          { cbn [frun]. rewrite V1, V2. cbn [andb].
+            change (transition_cost pb (st x) (transition pb (st x) d) d) with (rcost (st x) d). rewrite Etr. reflexivity. }
+          pose proof (H_vtop j x [d] c (st c) _ Hl Hv Hex Hp1 Hr1). lia. }
+        destruct (IH (S j) c (r + rcost (st x) d) s' r' T C1 C2 Hexc Habc HSc Hvc Hr' Hcc Hp') as [H1|H1]; [left; exact H1|right].
+        apply (Capt_cons j x d ds c r false V1 V2 Etr H1).
+  Qed.
+
+  Lemma run_cases j x r ds s' r' : lay j x -> live x -> isex x -> above x -> ~ cached x ->
+    Start j (st x) r -> r <= vt x ->
+    frun pb (rd + j) (st x) r ds = Some (s', r') -> complete j ds ->
+    r' <= bk \/ CaptD false j (st x) r ds \/ LostAt (S j) r'.
+  Proof.
+    intros Hl Hv Hex Hab Hnc HS Hrv Hr Hcomp.
+    assert (Ha : Adm x (st x)) by (split; [apply cov_refl|reflexivity]).
+    destruct (path_dich ds j x (st x) r s' r' Hl Hv Ha Hr Hcomp) as [[T HT]|HF].
+    - destruct (lpath_cases ds j x r s' r' T Hl Hv Hex Hab HS Hrv Hr Hcomp HT) as [H1|H1]; [left; exact H1|right; left; exact H1].
+    - destruct HF as (ds1 & ds2 & y & s1 & E & Hp & Hlt & Hnb). subst ds.
+      destruct ds1 as [|d ds1].
+      + destruct (Thresholds.lpath_nil_inv _ _ _ _ _ _ _ _ Hp) as [-> _].
+        destruct Hnb as [Hnb|Hcy]; [|contradiction]. left.
+        pose proof (cost_le_rub j x (st x) r ds2 s' r' Hl (proj1 Ha) HS Hr Hcomp) as Hcr.
+        pose proof (Start_guard _ _ _ (Start_ext _ _ _ _ _ _ HS Hr)) as HgV.
+        assert (HV : r' <= sat_add (rb x) (vt x)).
+        { apply sat_add_ge; [unfold in_isize, IMIN, IMAX in *; lia|lia]. }
+        unfold Thresholds.branched in Hnb. fold lb in Hnb. lia.
+      + destruct (cut_vtop_fall j x r (d :: ds1) ds2 y s1 s' r' Hl Hv Hex HS Hr Hcomp Hp Hlt Hnb 0 ltac:(lia)) as [H1|H1].
+        * left. lia.
+        * right; right. eapply LostAt_mono; [| |exact H1]; [simpl; lia|lia].
+  Qed.
+
+  (* ---------------------------------------------------------------- (B) the three components of the upper bound of a cut-set node *)
+  Lemma ub_cases j x ds s' r' : lay j x -> live x -> cuts x -> ~ cached x ->
+    frun pb (rd + j) (st x) (vt x) ds = Some (s', r') -> complete j ds ->
+    r' <= lb \/ LostAt (S j) r' \/
+    (r' <= sat_add (vt x) (rb x) /\ r' <= sat_add (vt x) (vb x) /\
+     exists T, lay (j + length ds) T /\ live T /\ r' <= vt T).
+  Proof.
+    intros Hl Hv Hc Hnc Hr Hcomp.
+    pose proof (H_cut_ex j x Hl Hc) as Hex.
+    pose proof (H_real j x Hl Hv Hex) as HS.
+    assert (Ha : Adm x (st x)) by (split; [apply cov_refl|reflexivity]).
+    pose proof (Start_guard _ _ _ (Start_ext _ _ _ _ _ _ HS Hr)) as HgV.
+    pose proof (Start_guard _ _ _ HS) as Hg0.
+    destruct (path_dich ds j x (st x) (vt x) s' r' Hl Hv Ha Hr Hcomp) as [[T HT]|HF].
+    - right; right.
+      pose proof (cost_le_rub j x (st x) (vt x) ds s' r' Hl (proj1 Ha) HS Hr Hcomp) as Hcr.
+      assert (Hlb : r' - vt x <= vb x).
+      { apply (H_locb j x ds T s' (vt x) r' Hl Hv Hc HT Hcomp Hr).
+        intros da db s1 v1 Ed Hr1. apply (Thresholds.isize_diff inp B HB).
+        - exact HgV.
+        - apply (Start_guard _ _ _ (Start_ext _ _ _ _ _ _ HS Hr1)). }
+      split; [apply sat_add_ge; [unfold in_isize, IMIN, IMAX in *; lia|lia]|].
+      split; [apply sat_add_ge; [unfold in_isize, IMIN, IMAX in *; lia|lia]|].
+      destruct (Thresholds.lpath_end _ _ _ _ _ _ _ _ _ HT) as (T1 & T2 & _ & _).
+      exists T. split; [exact T1|]. split; [exact T2|]. apply (H_vtop j x ds T s' r' Hl Hv Hex HT Hr).
+    - destruct HF as (ds1 & ds2 & y & s1 & E & Hp & Hlt & Hnb). subst ds.
+      destruct ds1 as [|d ds1].
+      + destruct (Thresholds.lpath_nil_inv _ _ _ _ _ _ _ _ Hp) as [-> _].
+        destruct Hnb as [Hnb|Hcy]; [|contradiction]. left.
+        pose proof (cost_le_rub j x (st x) (vt x) ds2 s' r' Hl (proj1 Ha) HS Hr Hcomp) as Hcr.
+        assert (HV : r' <= sat_add (rb x) (vt x)).
+        { apply sat_add_ge; [unfold in_isize, IMIN, IMAX in *; lia|lia]. }
+        unfold Thresholds.branched in Hnb. fold lb in Hnb. lia.
+      + destruct Hnb as [Hnb|Hcy].
+        * left.
+          (* the run leaves the diagram at a node pruned by its rough upper bound *)
+          rewrite frun_app in Hr.
+          destruct (frun pb (rd + j) (st x) (vt x) (d :: ds1)) as [[s1' v1]|] eqn:E1; [|discriminate].
+          destruct (Thresholds.lpath_end _ _ _ _ _ _ _ _ _ Hp) as (L1 & L2 & L3 & L4).
+          assert (s1' = s1) by (rewrite L4; apply (frun_state pb _ _ _ _ _ _ E1)). subst s1'.
+          pose proof (H_vtop j x (d :: ds1) y s1 v1 Hl Hv Hex Hp E1) as Hv1.
+          pose proof (Start_ext _ _ _ _ _ _ HS E1) as HS1.
+          replace (rd + j + length (d :: ds1))%nat with (rd + (j + length (d :: ds1)))%nat in Hr by lia.
+          assert (Hc2 : complete (j + length (d :: ds1)) ds2).
+          { apply (proj2 (complete_eq _ _)). apply (proj1 (complete_eq _ _)) in Hcomp. rewrite app_length in Hcomp. lia. }
+          pose proof (cost_le_rub _ y s1 v1 ds2 s' r' L1 (proj1 L3) HS1 Hr Hc2) as Hcr.
+          assert (HV : r' <= sat_add (rb y) (vt y)).
+          { apply sat_add_ge; [unfold in_isize, IMIN, IMAX in *; lia|lia]. }
+          unfold Thresholds.branched in Hnb. fold lb in Hnb. lia.
+        * right; left.
+          destruct (cut_vtop_fall j x (vt x) (d :: ds1) ds2 y s1 s' r' Hl Hv Hex HS Hr Hcomp Hp Hlt (or_intror Hcy) 0 ltac:(lia)) as [H1|H1].
+          -- (* r' <= bk is not what we want here: redo the cached case directly *)
+             rewrite frun_app in Hr.
+             destruct (frun pb (rd + j) (st x) (vt x) (d :: ds1)) as [[s1' v1]|] eqn:E1; [|discriminate].
+             destruct (Thresholds.lpath_end _ _ _ _ _ _ _ _ _ Hp) as (L1 & L2 & L3 & L4).
+             assert (s1' = s1) by (rewrite L4; apply (frun_state pb _ _ _ _ _ _ E1)). subst s1'.
+             pose proof (H_vtop j x (d :: ds1) y s1 v1 Hl Hv Hex Hp E1) as Hv1.
+             replace (rd + j + length (d :: ds1))%nat with (rd + (j + length (d :: ds1)))%nat in Hr by lia.
+             assert (Hc2 : complete (j + length (d :: ds1)) ds2).
+             { apply (proj2 (complete_eq _ _)). apply (proj1 (complete_eq _ _)) in Hcomp. rewrite app_length in Hcomp. lia. }
+             destruct (H_cached _ y L1 L2 Hcy) as (tc & _ & Htc & Hold).
+             eapply LostAt_mono; [| |apply (cached_lost (j + length (d :: ds1)) y s1 v1 ds2 s' r' tc L1 L2 Hcy Hold (proj1 L3) Hr Hc2 r')];
+               [simpl; lia|lia|lia].
+          -- eapply LostAt_mono; [| |exact H1]; [simpl; lia|lia].
+  Qed.
+End StaticC.
+
+Local Open Scope nat_scope.
+
+
+(* ================================================================== 8. _finalize with the cache on: what _compute_thresholds leaves alone *)
+Section TechC.
+  Context {St : Type}.
+  Variable st_eqb : St -> St -> bool.
+  Variable inp : @cinput St.
+  Notation mdd := (@mdd St).
+  Notation node := (@node St).
+  Notation gn := (get_node inp).
+  Hypothesis Hclean : ci_flavour inp = CleanLEL \/ ci_flavour inp = CleanFC.
+
+  Section Proj.
+    Context {X : Type} (pr : mdd -> X).
+    Hypothesis pr_theta : forall (a : mdd) k (t : node -> option Z), pr (upd_node a k (fun n => set_theta n (t n))) = pr a.
+    Hypothesis pr_log : forall (a : mdd) e, pr (add_log a e) = pr a.
+    Hypothesis pr_cache : forall (a : mdd) c, pr (with_cache a c) = pr a.
+    Hypothesis pr_crash : forall (a : mdd), pr (set_crash a) = pr a.
+
+    Lemma proj_cache_updateC (m : mdd) s d v e : pr (cache_update st_eqb inp m s d v e) = pr m.
+    Proof.
+      unfold cache_update. destruct (ci_use_cache inp); [|apply pr_log].
+      destruct (update_threshold _ _ _ _ _ _); [rewrite pr_cache|rewrite pr_crash]; apply pr_log.
+    Qed.
+
+    Lemma proj_th_step bk (a : mdd) id : pr (Thresholds.th_step st_eqb inp bk a id) = pr a.
+    Proof.
+      unfold Thresholds.th_step. destruct (f_deleted _); [reflexivity|].
+      assert (H1 : pr (Thresholds.th_own st_eqb inp bk a id) = pr a).
+      { unfold Thresholds.th_own. cbv zeta. destruct (negb _); [|reflexivity].
+        match goal with |- pr (maybe_update_cache st_eqb inp ?mm id) = _ => set (m1 := mm) end.
+        assert (E1 : pr m1 = pr a).
+        { unfold m1. repeat match goal with |- context [if ?c then _ else _] => destruct c end; try reflexivity; apply pr_theta. }
+        unfold maybe_update_cache. destruct (n_theta (gn m1 id)); [|exact E1]. destruct (f_above (n_flags (gn m1 id))); [|exact E1].
+        rewrite proj_cache_updateC. exact E1. }
+      unfold Thresholds.th_prop. destruct (n_theta (gn (Thresholds.th_own st_eqb inp bk a id) id)); [|exact H1].
+      rewrite (fold_left_proj pr); [exact H1|]. intros b eid. unfold Thresholds.prop_step. cbv zeta. apply pr_theta.
+    Qed.
+
+    Lemma proj_compute_thresholdsC (m : mdd) : pr (compute_thresholds st_eqb inp m) = pr m.
+    Proof.
+      rewrite Thresholds.compute_thresholds_unfold. destruct (_ || _); [|reflexivity].
+      destruct (m_best_exact m) as [be|].
+      - cbv zeta. rewrite (fold_left_proj pr) by (intros; apply proj_th_step).
+        unfold Thresholds.th_preset. apply (fold_left_proj pr). intros a id.
+        match goal with |- context [if ?c then _ else _] => destruct c end; [apply pr_theta|reflexivity].
+      - apply (fold_left_proj pr). intros; apply proj_th_step.
+    Qed.
+  End Proj.
+
+  Lemma hdr_ctC (m : mdd) : MddSim.hdr (compute_thresholds st_eqb inp m) = MddSim.hdr m.
+  Proof. apply proj_compute_thresholdsC; intros; reflexivity. Qed.
+
+  Lemma node_ctC {Y} (g : node -> Y) (m : mdd) x :
+    (forall n t, g (set_theta n t) = g n) ->
+    g (gn (compute_thresholds st_eqb inp m) x) = g (gn m x).
+  Proof.
+    intros Hg. apply (proj_compute_thresholdsC (fun a : mdd => g (gn a x))); try (intros; reflexivity).
+    intros a k t. apply (get_node_upd_node_proj inp g). intros n. apply Hg.
+  Qed.
+
+  Lemma finalize_hdrC tb tb2 (ml : mdd) :
+    let m := finalize st_eqb inp tb tb2 ml in
+    let m1 := finalize_layers inp ml in
+    m_is_exact m = (match m_lel ml with None => true | Some _ => false end) /\
+    (m_has_ebp m = true -> ci_type inp = Relaxed) /\
+    m_best m = pick tb (argmax_candidates inp m1 (m_next ml)) /\
+    m_best_exact m =
+      (if m_has_ebp m then m_best m
+       else pick tb2 (argmax_candidates inp m1 (filter (fun id => fl_is_exact (n_flags (gn m1 id))) (m_next ml)))).
+  Proof.
+    cbv zeta. unfold finalize.
+    destruct (MddSim.finalize_layers_fields inp Hclean ml) as (F1 & F2 & F3 & F4 & F5).
+    set (m1 := finalize_layers inp ml) in *.
+    set (m2 := find_best_node inp tb tb2 m1).
+    set (m3 := finalize_exact inp m2).
+    assert (Hh : MddSim.hdr (compute_thresholds st_eqb inp (compute_local_bounds inp (finalize_cutset inp m3))) = MddSim.hdr m3).
+    { rewrite hdr_ctC, MddSim.hdr_compute_local_bounds, (MddSim.hdr_finalize_cutset inp Hclean). reflexivity. }
+    apply MddSim.hdr_eq in Hh. destruct Hh as (H1 & H2 & H3 & H4).
+    rewrite H1, H2, H3, H4. clear H1 H2 H3 H4.
+    set (ebp := is_relaxed_ct (ci_type inp) && has_exact_best_path inp (S (length (m_nodes m2))) m2 (m_best m2)).
+    assert (A1 : m_is_exact m3 = match m_lel m2 with None => true | Some _ => false end).
+    { unfold m3, finalize_exact. cbv zeta. cbn [m_is_exact]. rewrite (not_pooled inp Hclean). reflexivity. }
+    assert (A2 : m_has_ebp m3 = ebp) by reflexivity.
+    assert (A3 : m_best m3 = m_best m2) by reflexivity.
+    assert (A4 : m_best_exact m3 = if ebp then m_best m2 else m_best_exact m2) by reflexivity.
+    assert (B1 : m_best m2 = pick tb (argmax_candidates inp m1 (m_next m1))) by reflexivity.
+    assert (B2 : m_best_exact m2 = pick tb2 (argmax_candidates inp m1
+                   (filter (fun id => fl_is_exact (n_flags (gn m1 id))) (m_next m1)))) by reflexivity.
+    rewrite A1, A2, A3, A4, B1, B2, F2. change (m_lel m2) with (m_lel m1). rewrite F3.
+    split; [reflexivity|]. split; [|split; reflexivity].
+    intros Hb. unfold ebp in Hb. apply andb_true_iff in Hb. destruct Hb as [Hb _].
+    destruct (ci_type inp); simpl in Hb; try discriminate. reflexivity.
+  Qed.
+
+  Hypothesis Hnocut : ci_cutoff inp = 0.
+  Hypothesis Hwidth : 1 <= ci_width inp.
+  Hypothesis Hrd : sp_depth (ci_root inp) <= nb_vars (ci_problem inp).
+
+  Lemma best_geC tb tb2 (ml : mdd) u :
+    Sinv inp ml -> Xs inp ml -> In u (m_next ml) ->
+    exists b, m_best (finalize st_eqb inp tb tb2 ml) = Some b /\ In b (m_next ml) /\
+      (n_vtop (gn ml u) <= n_vtop (gn (finalize st_eqb inp tb tb2 ml) b))%Z.
+  Proof.
+    intros HS HX Hu. destruct (finalize_hdrC tb tb2 ml) as (_ & _ & Hb & _). cbv zeta in Hb.
+    destruct (MddSim.pick_argmax_some inp Hnocut Hwidth Hrd tb (finalize_layers inp ml) (m_next ml)) as [b Eb].
+    { intros E. rewrite E in Hu. destruct Hu. }
+    destruct (MddSim.pick_argmax_spec inp Hnocut Hwidth Hrd tb _ _ _ Eb) as [Hin Hmax].
+    exists b. split; [rewrite Hb; exact Eb|]. split; [exact Hin|].
+    specialize (Hmax u Hu). rewrite !(MddSim.gn_finalize_layers inp Hclean) in Hmax.
+    destruct (MddSim.finalize_core st_eqb inp Hclean tb tb2 ml b HS HX) as (_ & c2 & _). rewrite <- c2. exact Hmax.
+  Qed.
+
+  Lemma best_exact_geC tb tb2 (ml : mdd) u :
+    Sinv inp ml -> Xs inp ml -> In u (m_next ml) -> is_ex inp ml u = true ->
+    m_has_ebp (finalize st_eqb inp tb tb2 ml) = false ->
+    exists b, m_best_exact (finalize st_eqb inp tb tb2 ml) = Some b /\ In b (m_next ml) /\
+      (n_vtop (gn ml u) <= n_vtop (gn (finalize st_eqb inp tb tb2 ml) b))%Z.
+  Proof.
+    intros HS HX Hu Hex Hebp. destruct (finalize_hdrC tb tb2 ml) as (_ & _ & _ & Hb). cbv zeta in Hb.
+    rewrite Hebp in Hb.
+    set (m1 := finalize_layers inp ml) in *.
+    set (ids := filter (fun id => fl_is_exact (n_flags (gn m1 id))) (m_next ml)) in *.
+    assert (Huf : In u ids).
+    { apply filter_In. split; [exact Hu|]. unfold m1. rewrite (MddSim.gn_finalize_layers inp Hclean). exact Hex. }
+    destruct (MddSim.pick_argmax_some inp Hnocut Hwidth Hrd tb2 m1 ids) as [b Eb].
+    { intros E. rewrite E in Huf. destruct Huf. }
+    destruct (MddSim.pick_argmax_spec inp Hnocut Hwidth Hrd tb2 _ _ _ Eb) as [Hin Hmax].
+    exists b. split; [rewrite Hb; exact Eb|]. split; [apply filter_In in Hin; apply Hin|].
+    specialize (Hmax u Huf). unfold m1 in Hmax. rewrite !(MddSim.gn_finalize_layers inp Hclean) in Hmax.
+    destruct (MddSim.finalize_core st_eqb inp Hclean tb tb2 ml b HS HX) as (_ & c2 & _). rewrite <- c2. exact Hmax.
+  Qed.
+
+  Variable cov : St -> St -> Prop.
+
+  Lemma locb_from_pathC tb tb2 (ml : mdd) k i c sc vc ds2 u s' o :
+    ci_type inp = Relaxed -> Sinv inp ml -> Xs inp ml -> m_lel ml = Some k ->
+    length (m_layers ml) = i + length ds2 -> In u (m_next ml) ->
+    m_layer_end ml <= u < length (m_nodes ml) ->
+    MddSim.dpath inp cov ml i c sc ds2 u s' -> frun (ci_problem inp) (sp_depth (ci_root inp) + i) sc vc ds2 = Some (s', o) ->
+    (forall da db s1 v1, ds2 = da ++ db -> frun (ci_problem inp) (sp_depth (ci_root inp) + i) sc vc da = Some (s1, v1) -> in_isize (o - v1)) ->
+    f_marked (n_flags (gn (finalize st_eqb inp tb tb2 ml) c)) = true /\
+    (o - vc <= n_vbot (gn (finalize st_eqb inp tb tb2 ml) c))%Z.
+  Proof.
+    intros Ht HS HX Hlel Hlen Hu Hur P2 Hrun Hiso.
+    destruct (MddSim.pipe3 inp Hclean tb tb2 ml HS HX) as (G1 & G2 & G3 & G4 & G5 & S3 & X3 & Pl3). cbv zeta in G1, G2, G3, G4, G5, S3, X3, Pl3.
+    set (m := finalize st_eqb inp tb tb2 ml).
+    set (m3 := finalize_exact inp (find_best_node inp tb tb2 (finalize_layers inp ml))) in *.
+    set (m4 := finalize_cutset inp m3) in *.
+    set (m5 := compute_local_bounds inp m4).
+    assert (Em : m = compute_thresholds st_eqb inp m5) by reflexivity.
+    destruct (finalize_cutset_spec inp Hclean m3 S3 X3) as [B34 _]. fold m4 in B34.
+    destruct B34 as (P34 & _).
+    assert (Pl4 : peq inp ml m4) by (eapply peq_trans; eauto).
+    destruct (MddSim.finalize_layers_fields inp Hclean ml) as (_ & _ & _ & _ & F5).
+    assert (Hly4 : m_layers m4 = m_layers ml ++ [seq (m_layer_end ml) (length (m_nodes ml) - m_layer_end ml)]).
+    { unfold m4. rewrite finalize_cutset_layers, G3, F5. destruct (m_next ml); [destruct Hu|reflexivity]. }
+    assert (P2' : MddSim.dpath inp cov m4 i c sc ds2 u s').
+    { eapply (MddSim.dpath_peq inp Hnocut Hwidth Hrd); [exact Pl4| |exact P2]. intros j x. rewrite Hly4. apply MddSim.nth_layers_app. }
+    assert (Hgo4 : MddSim.lb_go inp m4 = true).
+    { unfold MddSim.lb_go. rewrite Ht. unfold m4. rewrite (MddSim.lel_finalize_cutset inp Hclean m3 k) by (rewrite G4; exact Hlel).
+      fold m4. rewrite Hly4, app_length. cbn [opt_default length is_relaxed_ct].
+      pose proof (X_lel_lt _ _ _ HX Ht k Hlel). rewrite andb_true_r. apply Nat.ltb_lt. lia. }
+    destruct (MddSim.local_bounds_path inp Hclean Hnocut Hwidth Hrd cov m4 i c sc ds2 u s' (sp_depth (ci_root inp) + i) vc o Hgo4 P2' Hrun) as [M1 M2].
+    { rewrite Hly4, app_length. simpl. lia. }
+    { rewrite Hly4, last_last. apply in_seq. lia. }
+    { exact Hiso. }
+    fold m5 in M1, M2. split.
+    - rewrite Em. rewrite (node_ctC (fun n => f_marked (n_flags n))) by reflexivity. exact M1.
+    - rewrite Em. rewrite (node_ctC (@n_vbot St)) by reflexivity. exact M2.
+  Qed.
+
+  (* ---------------------------------------------------------------- MddSim.Ninv through the loop, with the cache *)
+  Hypothesis Hnodom : ci_domrule inp = None.
+  Notation NinvM := (MddSim.Ninv inp).
+
+  Lemma NinvM_fwc l : forall (m : mdd), NinvM m -> NinvM (fst (filter_with_cache st_eqb inp m l)).
+  Proof.
+    induction l as [|id l IH]; intros m H; cbn [filter_with_cache]; [exact H|]. cbv zeta.
+    assert (H1 : NinvM (fst (cache_get st_eqb inp m (n_state (gn m id)) (n_depth (gn m id))))).
+    { eapply MddSim.Ninv_same; [|exact H]. apply (cache_get_facts st_eqb inp Hnocut Hwidth Hrd m). }
+    destruct (cache_get st_eqb inp m (n_state (gn m id)) (n_depth (gn m id))) as [m1 th]. cbn [fst] in H1.
+    destruct th as [t|].
+    - destruct (_ >? _)%Z.
+      + specialize (IH m1 H1). destruct (filter_with_cache st_eqb inp m1 l) as [m2 r]. exact IH.
+      + apply IH. apply MddSim.Ninv_upd; [|exact H1]. intros n (P1 & P2 & P3). split; [|split]; nsimpl; auto.
+    - specialize (IH m1 H1). destruct (filter_with_cache st_eqb inp m1 l) as [m2 r]. exact IH.
+  Qed.
+
+  Lemma NinvM_move (m : mdd) : NinvM m -> NinvM (fst (move_to_next_layer_clean st_eqb inp m)).
+  Proof.
+    intros H. rewrite move_clean_unfold. destruct (m_next m) as [|c0 cs]; [exact H|].
+    set (curr := c0 :: cs).
+    assert (Hb : NinvM (fst (prefilter st_eqb inp (with_next m []) curr))).
+    { unfold prefilter. destruct (Nat.ltb 0 _); [|exact H]. apply NinvM_fwc. exact H. }
+    destruct (prefilter st_eqb inp (with_next m []) curr) as [mb lb0]. cbn [fst] in Hb.
+    assert (Hcc : NinvM (fst (filter_with_dominance inp mb lb0))).
+    { unfold filter_with_dominance. eapply MddSim.Ninv_same; [apply (MddSim.dom_retain_nodes inp Hnodom)|exact Hb]. }
+    destruct (filter_with_dominance inp mb lb0) as [mc lc]. cbn [fst] in Hcc.
+    pose proof (MddSim.Ninv_squash st_eqb inp Hclean Hnocut Hwidth Hrd mc lc Hcc) as Hd.
+    destruct (squash_if_needed st_eqb inp mc lc) as [md ld]. cbn [fst] in *. exact Hd.
+  Qed.
+
+  Lemma layer_loop_NinvM : forall fuel (m : mdd), NinvM m -> NinvM (fst (layer_loop st_eqb inp fuel m)).
+  Proof.
+    induction fuel as [|fuel IH]; intros m H; [exact H|].
+    cbn [layer_loop]. cbv zeta.
+    destruct (next_variable _ _ _) as [var|]; [|exact H].
+    destruct (_ && _); [exact H|].
+    rewrite (not_pooled inp Hclean).
+    match goal with |- context [move_to_next_layer_clean st_eqb inp ?mm] =>
+      pose proof (NinvM_move mm) as Hmv; destruct (move_to_next_layer_clean st_eqb inp mm) as [m3 ol] end.
+    cbn [fst] in Hmv. specialize (Hmv H).
+    destruct ol as [l|]; [|exact Hmv].
+    apply IH. eapply MddSim.Ninv_same; [reflexivity|].
+    apply MddSim.Ninv_fold; [intros; apply (MddSim.Ninv_expand_node st_eqb inp Hnocut Hwidth Hrd); assumption|exact Hmv].
+  Qed.
+End TechC.
+
+(* ================================================================== 9. the diagram handed to _compute_thresholds, cache on *)
+Section FinalC.
+  Context {St : Type}.
+  Variable st_eqb : St -> St -> bool.
+  Hypothesis st_eqb_spec : forall a b, st_eqb a b = true <-> a = b.
+  Variable inp : @cinput St.
+  Let pb := ci_problem inp.
+  Let rlx := ci_relax inp.
+  Let root := ci_root inp.
+  Let lb := ci_best_lb inp.
+  Let N := nb_vars pb.
+  Let rd := sp_depth root.
+  Let rs := sp_state root.
+  Let rv := sp_value root.
+  Hypothesis Hclean : ci_flavour inp = CleanLEL \/ ci_flavour inp = CleanFC.
+  Hypothesis Hnodom : ci_domrule inp = None.
+  Hypothesis Hnocut : ci_cutoff inp = 0.
+  Hypothesis Hwidth : 1 <= ci_width inp.
+  Hypothesis Hrel : ci_type inp = Relaxed.
+  Hypothesis Hrd : rd <= N.
+  Hypothesis nv_static : forall k l1 l2, next_variable pb k l1 = next_variable pb k l2.
+  Hypothesis nv_some : forall k l, k < N -> exists x, next_variable pb k l = Some x.
+  Hypothesis nv_none : forall k l, N <= k -> next_variable pb k l = None.
+  Variable cov : St -> St -> Prop.
+  Hypothesis cov_refl : forall s, cov s s.
+  Hypothesis rub_adm : forall k s s' h, cov s s' -> H pb k s' = Some h -> (h <= fast_upper_bound rlx s)%Z.
+  Variable B : Z.
+  Hypothesis HB : (2 * B <= IMAX)%Z.
+  Hypothesis Hguard : forall ds s' v', frun pb rd rs rv ds = Some (s', v') -> (- B <= v' <= B)%Z.
+  Variable c0 : @cache St.
+
+  Notation mdd := (@mdd St).
+  Notation node := (@node St).
+  Notation gn := (get_node inp).
+  Notation dpath := (MddSim.dpath inp cov).
+  Notation del := (Thresholds.del inp).
+  Notation LF := (Thresholds.LF inp).
+  Notation FSc := (FSc st_eqb inp cov c0).
+  Notation fcache := (fcache inp).
+
+  Variables (tb tb2 : nat) (ml : mdd).
+  Hypothesis HFS : FSc ml (fun j => nth j (LF ml) []).
+  Hypothesis HS : Sinv inp ml.
+  Hypothesis HX : Xs inp ml.
+  Hypothesis HN : MddSim.Ninv inp ml.
+
+  Let m3' := finalize_exact inp (find_best_node inp tb tb2 (finalize_layers inp ml)).
+  Let m4 := finalize_cutset inp m3'.
+  Let m5 := compute_local_bounds inp m4.
+  Let mf := finalize st_eqb inp tb tb2 ml.
+  Notation m1c := (Thresholds.m1c inp tb tb2 ml).
+  Notation ke := (Thresholds.ke inp ml).
+  Notation lyf j := (nth j (LF ml) []).
+
+  Local Notation gn3 := (Thresholds.gn3 inp Hclean tb tb2 ml HS HX).
+  Local Notation m5_fields := (Thresholds.m5_fields inp Hclean tb tb2 ml HS HX).
+  Local Notation m5_flag := (Thresholds.m5_flag inp Hclean tb tb2 ml HS HX).
+  Local Notation m3_facts := (Thresholds.m3_facts inp Hclean tb tb2 ml HS HX).
+  Local Notation m4_eq := (Thresholds.m4_eq inp Hclean Hrel tb tb2 ml HS HX).
+  Local Notation gn1c := (Thresholds.gn1c inp Hclean tb tb2 ml HS HX).
+  Local Notation m1c_layers := (Thresholds.m1c_layers inp Hclean tb tb2 ml HS HX).
+  Local Notation m1c_len := (Thresholds.m1c_len inp Hclean tb tb2 ml HS HX).
+  Local Notation m1c_edge := (Thresholds.m1c_edge inp Hclean tb tb2 ml HS HX).
+  Local Notation m1c_cutset := (Thresholds.m1c_cutset inp Hclean tb tb2 ml HS HX).
+
+  Lemma mf_eqC : mf = compute_thresholds st_eqb inp m5.
+  Proof. reflexivity. Qed.
+
+  Lemma lay_uniqC j j' x : In x (lyf j) -> In x (lyf j') -> j = j'.
+  Proof.
+    intros H1 H2. destruct (Nat.lt_trichotomy j j') as [Hlt|[E|Hgt]]; [|exact E|].
+    - pose proof (Fc_ord1 _ _ _ _ _ _ HFS j j' x x Hlt H1 H2). lia.
+    - pose proof (Fc_ord1 _ _ _ _ _ _ HFS j' j x x Hgt H2 H1). lia.
+  Qed.
+
+  Lemma no_flagsC x : f_cutset (n_flags (gn ml x)) = false /\ f_above (n_flags (gn ml x)) = false.
+  Proof.
+    split.
+    - destruct (Nat.lt_ge_cases x (length (m_nodes ml))) as [Hlt|Hge].
+      + unfold MddSim.Ninv in HN. rewrite Forall_forall in HN. destruct (HN (gn ml x)) as (P1 & _); [apply nth_In; exact Hlt|exact P1].
+      + rewrite (gn_out_of_range inp ml x Hge). reflexivity.
+    - apply (NinvC_gn inp ml x (Fc_nc _ _ _ _ _ _ HFS)).
+  Qed.
+
+  Lemma cut_flagsC j x : In x (lyf j) ->
+    (f_cutset (n_flags (gn m4 x)) = true -> is_ex inp ml x = true /\ In x (m_cutset m4)) /\
+    (f_above (n_flags (gn m4 x)) = true -> is_ex inp ml x = true) /\
+    (forall c eid, is_ex inp ml x = true -> f_above (n_flags (gn m4 x)) = true -> f_cutset (n_flags (gn m4 x)) = false ->
+       In c (lyf (S j)) -> In eid (n_inb (gn ml c)) -> e_from (get_edge ml eid) = x ->
+       is_ex inp ml c = true /\ f_above (n_flags (gn m4 c)) = true) /\
+    (f_above (n_flags (gn m4 x)) = true -> rd + j = N -> ci_flavour inp = CleanLEL -> m_lel ml = None).
+  Proof.
+    intros Hx. pose proof (Fc_range _ _ _ _ _ _ HFS j x Hx) as Hxlt.
+    destruct (no_flagsC x) as (Nc & Na).
+    unfold m4, m3'. rewrite m4_eq. destruct Hclean as [Hf|Hf]; rewrite Hf.
+    - (* last exact layer *)
+      destruct (Thresholds.lel_cutset_flags inp Hnocut Hwidth Hrd m1c ke x) as (L1 & L2 & L3 & L4 & L5). cbv zeta in L1, L2, L3, L4, L5.
+      rewrite m1c_layers in L1, L2, L3, L5. rewrite gn1c in L1, L2. rewrite m1c_len in L3, L5.
+      assert (Hex_le : forall j' y, j' <= ke -> In y (lyf j') -> is_ex inp ml y = true).
+      { intros j' y Hj' Hy. unfold Thresholds.ke in Hj'. destruct (m_lel ml) as [k|] eqn:El.
+        - apply (Fc_lel _ _ _ _ _ _ HFS k El j' y Hj' Hy).
+        - apply (Thresholds.all_exact_no_lel inp ml HX); [exact El|apply (Fc_range _ _ _ _ _ _ HFS j' y Hy)]. }
+      split; [|split; [|split]].
+      + intros Hc. destruct (L1 Hc) as [H|H]; [congruence|]. split; [apply (Hex_le ke x (Nat.le_refl _) H)|].
+        destruct (lel_cutset_spec inp m1c ke) as [_ Ecs]. rewrite Ecs, m1c_cutset, m1c_layers. simpl.
+        assert (Hk : ke < length (LF ml)) by (eapply Thresholds.nth_in_len; eauto).
+        rewrite (nth_error_nth' (LF ml) [] Hk). exact H.
+      + intros Ha. destruct (L2 Ha) as [H|(j' & Hj' & H)]; [congruence|]. apply (Hex_le j' x Hj' H).
+      + intros c eid Hex Ha Hnc Hc Hin Hfrom.
+        destruct (L2 Ha) as [H|(j' & Hj' & H)]; [congruence|].
+        pose proof (lay_uniqC j j' x Hx H). subst j'.
+        assert (Hjk : j <> ke).
+        { intros ->. rewrite (L5 Hx Hxlt) in Hnc. discriminate. }
+        pose proof (Fc_range _ _ _ _ _ _ HFS (S j) c Hc) as Hclt.
+        split; [apply (Hex_le (S j) c ltac:(lia) Hc)|].
+        destruct (Thresholds.lel_cutset_flags inp Hnocut Hwidth Hrd m1c ke c) as (_ & _ & C3 & _). cbv zeta in C3.
+        rewrite m1c_layers, m1c_len in C3. apply (C3 (S j)); [lia|exact Hc|exact Hclt].
+      + intros Ha HjN _. destruct (L2 Ha) as [H|(j' & Hj' & H)]; [congruence|].
+        pose proof (lay_uniqC j j' x Hx H). subst j'.
+        destruct (m_lel ml) as [k|] eqn:El; [exfalso|reflexivity].
+        destruct (Fc_last _ _ _ _ _ _ HFS j x Hx HjN) as (_ & _ & Hlen & _).
+        pose proof (X_lel_lt _ _ _ HX Hrel k El). unfold Thresholds.ke in Hj'. rewrite El in Hj'. lia.
+    - (* frontier *)
+      destruct (Thresholds.frontier_flags inp Hnocut Hwidth Hrd m1c) as ((FI & Q2 & Q3 & _) & Fab & Fhit).
+      { intros y _ Hc. rewrite gn1c in Hc. destruct (no_flagsC y) as (E & _). congruence. }
+      assert (Hexeq : forall y, is_ex inp m1c y = is_ex inp ml y) by (intros y; unfold is_ex; rewrite gn1c; reflexivity).
+      split; [|split; [|split]].
+      + intros Hc. destruct (Q3 x Hc) as [H|H]; [rewrite gn1c in H; congruence|]. rewrite Hexeq in H. split; [exact H|].
+        destruct FI as (_ & F2 & _ & F4). apply F4; [rewrite F2, m1c_len; exact Hxlt|exact Hc].
+      + intros Ha. destruct (Q2 x Ha) as [H|H]; [rewrite gn1c in H; congruence|]. rewrite Hexeq in H. exact H.
+      + intros c eid Hex Ha Hnc Hc Hin Hfrom.
+        pose proof (Fc_range _ _ _ _ _ _ HFS (S j) c Hc) as Hclt.
+        assert (Hcbu : In c (bottom_up m1c)).
+        { unfold bottom_up. rewrite m1c_layers. apply in_concat. exists (lyf (S j)). split; [|exact Hc].
+          apply in_rev. rewrite rev_involutive. apply nth_In. eapply Thresholds.nth_in_len; eauto. }
+        destruct (is_ex inp ml c) eqn:Exc.
+        * split; [reflexivity|]. apply Fab; [exact Hcbu|rewrite m1c_len; exact Hclt|rewrite Hexeq; exact Exc].
+        * exfalso. rewrite (Fhit x c eid Hcbu) in Hnc; [discriminate| | | | |].
+          -- rewrite Hexeq. exact Exc.
+          -- rewrite gn1c. exact Hin.
+          -- rewrite m1c_edge. exact Hfrom.
+          -- rewrite Hexeq. exact Hex.
+          -- rewrite m1c_len. exact Hxlt.
+      + intros _ _ E. discriminate.
+  Qed.
+
+  (* ---------------------------------------------------------------- any diagram with the static data of m5 *)
+  Variable m0 : mdd.
+  Hypothesis S_lay : m_layers m0 = LF ml.
+  Hypothesis S_edg : m_edges m0 = m_edges ml.
+  Hypothesis S_len : length (m_nodes m0) = length (m_nodes ml).
+  Hypothesis S_sk : forall x, Thresholds.sk (gn m0 x) = Thresholds.sk (gn m5 x).
+  Hypothesis S_cached_theta : forall x, f_cache (n_flags (gn ml x)) = true -> n_theta (gn m0 x) = n_theta (gn ml x).
+
+  Local Notation lay := (Thresholds.lay m0).
+  Local Notation live := (Thresholds.live inp m0).
+  Local Notation isex := (Thresholds.isex inp m0).
+  Local Notation above := (Thresholds.above inp m0).
+  Local Notation cuts := (Thresholds.cuts inp m0).
+  Local Notation st := (Thresholds.st inp m0).
+  Local Notation vt := (Thresholds.vt inp m0).
+  Local Notation vb := (Thresholds.vb inp m0).
+  Local Notation rb := (Thresholds.rb inp m0).
+  Local Notation branched := (Thresholds.branched inp m0).
+  Local Notation Adm := (Thresholds.Adm inp cov m0).
+  Local Notation rcost := (Thresholds.rcost inp).
+  Local Notation Start := (Thresholds.Start inp).
+  Local Notation complete := (Thresholds.complete inp).
+  Local Notation lpath := (Thresholds.lpath inp cov m0).
+  Local Notation cached := (cached inp m0).
+
+  Local Notation m0_fields := (Thresholds.m0_fields inp Hclean tb tb2 ml HS HX m0 S_sk).
+  Local Notation ge0 := (Thresholds.ge0 ml m0 S_edg).
+  Local Notation lay_eq := (Thresholds.lay_eq inp ml m0 S_lay).
+  Local Notation live_eq := (Thresholds.live_eq inp Hclean tb tb2 ml HS HX m0 S_sk).
+  Local Notation isex_eq := (Thresholds.isex_eq inp Hclean tb tb2 ml HS HX m0 S_sk).
+  Local Notation above_eq := (Thresholds.above_eq inp Hclean tb tb2 ml HS HX m0 S_sk).
+  Local Notation cuts_eq := (Thresholds.cuts_eq inp Hclean tb tb2 ml HS HX m0 S_sk).
+  Local Notation st_eq := (Thresholds.st_eq inp Hclean tb tb2 ml HS HX m0 S_sk).
+  Local Notation vt_eq := (Thresholds.vt_eq inp Hclean tb tb2 ml HS HX m0 S_sk).
+  Local Notation rb_eq := (Thresholds.rb_eq inp Hclean tb tb2 ml HS HX m0 S_sk).
+  Local Notation inb_eq := (Thresholds.inb_eq inp Hclean tb tb2 ml HS HX m0 S_sk).
+
+  Lemma cached_eqC x : cached x <-> fcache ml x = true.
+  Proof.
+    unfold cached, fcache. destruct (m0_fields x) as (_ & _ & _ & _ & _ & Ef & _). rewrite Ef.
+    rewrite (m5_flag f_cache) by (intros; reflexivity). reflexivity.
+  Qed.
+
+  Lemma PC_range j x : lay j x -> x < length (m_nodes m0).
+  Proof. intros H. apply lay_eq in H. rewrite S_len. apply (Fc_range _ _ _ _ _ _ HFS j x H). Qed.
+
+  Lemma PC_uniq j j' x : lay j x -> lay j' x -> j = j'.
+  Proof. intros H1 H2. apply lay_eq in H1. apply lay_eq in H2. eapply lay_uniqC; eauto. Qed.
+
+  Lemma PC_ord done x rest : bottom_up m0 = done ++ x :: rest ->
+    ~ In x done /\
+    (forall eid, In eid (n_inb (gn m0 x)) -> ~ In (e_from (get_edge m0 eid)) (done ++ [x])) /\
+    (forall j c, lay j x -> lay (S j) c -> In c done).
+  Proof.
+    intros H. unfold bottom_up in H. rewrite S_lay in H.
+    destruct (Thresholds.bu_order (LF ml) (fun y p => exists eid, In eid (n_inb (gn ml y)) /\ p = e_from (get_edge ml eid))
+                (Fc_ord1 _ _ _ _ _ _ HFS) (Fc_ord2 _ _ _ _ _ _ HFS)) with (done := done) (x := x) (rest := rest) as (B1 & B2 & B3).
+    - intros j y p z Hy (eid & Hin & ->) Hz. apply (Fc_ord3 _ _ _ _ _ _ HFS j y eid z Hy Hin Hz).
+    - exact H.
+    - split; [exact B1|]. split.
+      + intros eid Hin. rewrite inb_eq in Hin. rewrite ge0. apply B2. exists eid. auto.
+      + intros j c Hx Hc. apply lay_eq in Hx. apply lay_eq in Hc. apply (B3 j c Hx Hc).
+  Qed.
+
+  Lemma PC_efrom j x eid : lay j x -> In eid (n_inb (gn m0 x)) -> e_from (get_edge m0 eid) < length (m_nodes m0).
+  Proof.
+    intros Hx Hin. apply lay_eq in Hx. rewrite inb_eq in Hin. rewrite ge0, S_len.
+    pose proof (Fc_ord3 _ _ _ _ _ _ HFS j x eid x Hx Hin Hx). pose proof (Fc_range _ _ _ _ _ _ HFS j x Hx). lia.
+  Qed.
+
+  Lemma PC_depth j x : lay j x -> live x -> n_depth (gn m0 x) = rd + j.
+  Proof.
+    intros Hx Hv. apply lay_eq in Hx. apply live_eq in Hv. destruct (m0_fields x) as (_ & _ & _ & _ & E & _).
+    rewrite E. apply (Fc_dep _ _ _ _ _ _ HFS j x Hx Hv).
+  Qed.
+
+  Lemma PC_SC j x s var val : lay j x -> live x -> ~ cached x -> Adm x s -> rd + j < N -> branched x ->
+    next_variable pb (rd + j) [] = Some var -> In val (domain pb var s) ->
+    let d := {| d_var := var; d_val := val |} in
+    exists c eid, lay (S j) c /\ live c /\ Adm c (transition pb s d) /\
+      In eid (n_inb (gn m0 c)) /\ e_from (get_edge m0 eid) = x /\ e_dec (get_edge m0 eid) = d /\
+      (rcost s d <= e_cost (get_edge m0 eid))%Z.
+  Proof.
+    intros Hx Hv Hnc [Hcov Hexs] HjN Hbr Hvar Hval. cbv zeta.
+    apply lay_eq in Hx. apply live_eq in Hv.
+    assert (Hfc : fcache ml x = false).
+    { destruct (fcache ml x) eqn:E; [exfalso; apply Hnc; apply cached_eqC; exact E|reflexivity]. }
+    unfold Thresholds.branched in Hbr. rewrite rb_eq, vt_eq in Hbr. rewrite st_eq in Hcov.
+    destruct (Fc_exp _ _ _ _ _ _ HFS j x Hx Hv Hfc Hbr s var val Hcov Hvar Hval) as (c & eid & Q1 & Q2 & Q3 & Q4 & Q5 & Q6 & Q7 & Q8 & Q9).
+    cbv zeta in Q7, Q8, Q9.
+    exists c, eid. split; [apply lay_eq; exact Q1|]. split; [apply live_eq; exact Q2|].
+    split.
+    - split; [rewrite st_eq; exact Q9|]. intros Hexc. apply isex_eq in Hexc.
+      destruct (Fc_einv _ _ _ _ _ _ HFS c eid Q3 Q5) as (_ & _ & G3). destruct (G3 Hexc) as (Hexx & Est).
+      rewrite Q6 in Hexx, Est. rewrite Q7 in Est. rewrite st_eq, Est.
+      rewrite (Hexs (proj2 (isex_eq x) Hexx)), st_eq. reflexivity.
+    - rewrite inb_eq, ge0. auto.
+  Qed.
+
+  Lemma PC_rub j x : lay j x -> rb x = IMAX \/ rb x = fast_upper_bound rlx (st x).
+  Proof.
+    intros Hx. apply lay_eq in Hx. pose proof (Fc_range _ _ _ _ _ _ HFS j x Hx) as Hlt. rewrite rb_eq, st_eq.
+    unfold MddSim.Ninv in HN. rewrite Forall_forall in HN. destruct (HN (gn ml x)) as (_ & _ & P); [apply nth_In; exact Hlt|exact P].
+  Qed.
+
+  Definition OldC (d : nat) (s : St) (t : Z) : Prop := exists th, cget st_eqb c0 s d = Some th /\ th_value th = t.
+
+  Lemma PC_cached j x : lay j x -> live x -> cached x ->
+    exists tc, thc0 inp m0 x = Some tc /\ (vt x <= tc)%Z /\ OldC (rd + j) (st x) tc.
+  Proof.
+    intros Hx Hv Hc. apply lay_eq in Hx. apply live_eq in Hv. apply cached_eqC in Hc.
+    destruct (Fc_cached _ _ _ _ _ _ HFS j x Hx Hv Hc) as (th & _ & T2 & T3 & T4).
+    exists (th_value th). unfold thc0. rewrite (S_cached_theta x Hc), T4. split; [reflexivity|].
+    rewrite vt_eq, st_eq. split; [exact T3|]. exists th. rewrite (Fc_dep _ _ _ _ _ _ HFS j x Hx Hv) in T2. auto.
+  Qed.
+
+  Lemma PC_cut_ex j x : lay j x -> cuts x -> isex x.
+  Proof.
+    intros Hx Hc. apply lay_eq in Hx. apply cuts_eq in Hc. apply isex_eq.
+    destruct (cut_flagsC j x Hx) as (C1 & _). apply C1. exact Hc.
+  Qed.
+
+  Lemma PC_kid j x c eid : lay j x -> live x -> isex x -> above x -> ~ cuts x ->
+    lay (S j) c -> live c -> In eid (n_inb (gn m0 c)) -> e_from (get_edge m0 eid) = x ->
+    isex c /\ above c.
+  Proof.
+    intros Hx _ Hex Hab Hnc Hc _ Hin Hfrom.
+    apply lay_eq in Hx. apply lay_eq in Hc. apply isex_eq in Hex. apply above_eq in Hab.
+    rewrite inb_eq in Hin. rewrite ge0 in Hfrom.
+    assert (Hnc' : f_cutset (n_flags (gn m4 x)) = false).
+    { destruct (f_cutset (n_flags (gn m4 x))) eqn:E; [|reflexivity]. exfalso. apply Hnc. apply cuts_eq. exact E. }
+    destruct (cut_flagsC j x Hx) as (_ & _ & C3 & _).
+    destruct (C3 c eid Hex Hab Hnc' Hc Hin Hfrom) as [K1 K2].
+    split; [apply isex_eq; exact K1|apply above_eq; exact K2].
+  Qed.
+
+  Lemma PC_above_ex j x : lay j x -> live x -> above x -> isex x.
+  Proof.
+    intros Hx _ Hab. apply lay_eq in Hx. apply above_eq in Hab. apply isex_eq.
+    destruct (cut_flagsC j x Hx) as (_ & C2 & _). apply C2. exact Hab.
+  Qed.
+
+  Lemma PC_real j x : lay j x -> live x -> isex x -> Start j (st x) (vt x).
+  Proof.
+    intros Hx Hv Hex. apply lay_eq in Hx. apply live_eq in Hv. apply isex_eq in Hex.
+    pose proof (Fc_range _ _ _ _ _ _ HFS j x Hx) as Hlt.
+    pose proof (Sinv_exact_flag_clean_chain inp ml HS x Hlt Hex) as Hcc.
+    destruct (MddSim.clean_chain_frun inp Hnocut Hwidth Hrd nv_static B HB Hguard ml x HS Hcc Hlt) as (ds & Hr & Hd).
+    rewrite (Fc_dep _ _ _ _ _ _ HFS j x Hx Hv) in Hd.
+    exists ds. rewrite st_eq, vt_eq. split; [exact Hr|]. fold root in Hd. fold rd in Hd. lia.
+  Qed.
+
+  Lemma lpath_vtopC j x s ds y s1 : lpath j x s ds y s1 ->
+    forall v v1, (v <= vt x)%Z ->
+      (forall ds1 s2 v2, frun pb (rd + j) s v ds1 = Some (s2, v2) -> in_isize v2) ->
+      frun pb (rd + j) s v ds = Some (s1, v1) -> (v1 <= vt y)%Z.
+  Proof.
+    intros Hp. induction Hp as [j x s H1 H2 H3|j x s d ds c eid t s' H1 H2 H3 H4 H5 H6 H7 Hp IH]; intros v v1 Hv Hiso Hr.
+    - simpl in Hr. inversion Hr; subst. exact Hv.
+    - cbn [frun] in Hr.
+      destruct (var_ok pb (rd + j) d && in_domain pb s d) eqn:Eg; [|discriminate].
+      assert (Hiso1 : in_isize (v + transition_cost pb s (transition pb s d) d)%Z).
+      { apply (Hiso [d] (transition pb s d)). cbn [frun]. rewrite Eg. reflexivity. }
+      destruct (Thresholds.lpath_start _ _ _ _ _ _ _ _ _ Hp) as (C1 & _ & _).
+      apply lay_eq in C1. pose proof (Fc_range _ _ _ _ _ _ HFS (S j) c C1) as Hclt.
+      rewrite inb_eq in H4. rewrite ge0 in H5, H7.
+      destruct (Fc_einv _ _ _ _ _ _ HFS c eid Hclt H4) as (_ & G2 & _). rewrite H5 in G2.
+      apply (IH (v + transition_cost pb s (transition pb s d) d)%Z v1).
+      + rewrite !vt_eq in *. eapply Z.le_trans; [|exact G2]. apply sat_add_ge; [exact Hiso1|].
+        unfold Thresholds.rcost in H7. fold pb in H7. lia.
+      + intros ds1 s2 v2 Hr2. apply (Hiso (d :: ds1) s2). cbn [frun]. rewrite Eg.
+        replace (S (rd + j)) with (rd + S j) by lia. exact Hr2.
+      + replace (rd + S j) with (S (rd + j)) by lia. exact Hr.
+  Qed.
+
+  Lemma PC_vtop j x ds1 y s1 v1 : lay j x -> live x -> isex x ->
+    lpath j x (st x) ds1 y s1 ->
+    frun pb (rd + j) (st x) (vt x) ds1 = Some (s1, v1) -> (v1 <= vt y)%Z.
+  Proof.
+    intros Hx Hv Hex Hp Hr.
+    destruct (PC_real j x Hx Hv Hex) as (pre & Hpre & Hl).
+    apply (lpath_vtopC j x _ ds1 y s1 Hp (vt x) v1 (Z.le_refl _)); [|exact Hr].
+    assert (Hpre' : frun pb rd rs rv pre = Some (st x, vt x)) by exact Hpre.
+    intros ds2 s2 v2 Hr2. destruct (Hguard (pre ++ ds2) s2 v2) as [G1 G2].
+    { rewrite frun_app, Hpre', Hl. exact Hr2. }
+    unfold in_isize, IMIN, IMAX in *. lia.
+  Qed.
+
+  Lemma lpath_dpathC j x s ds T s' : lpath j x s ds T s' ->
+    j + length ds <= length (m_layers ml) -> dpath ml j x s ds T s'.
+  Proof.
+    intros Hp. induction Hp as [j x s H1 H2 H3|j x s d ds c eid t s' H1 H2 H3 H4 H5 H6 H7 Hp IH]; intros Hlen.
+    - apply MddSim.dp_nil; [rewrite <- S_len; eapply PC_range; eauto|]. destruct H3 as [Hc _]. rewrite st_eq in Hc. exact Hc.
+    - simpl in Hlen.
+      destruct (Thresholds.lpath_start _ _ _ _ _ _ _ _ _ Hp) as (C1 & _ & [C3 _]).
+      pose proof (PC_range _ _ H1) as Hxlt. pose proof (PC_range _ _ C1) as Hclt. rewrite S_len in Hxlt, Hclt.
+      rewrite inb_eq in H4. rewrite ge0 in H5, H6, H7. rewrite st_eq in C3.
+      destruct (Fc_einv _ _ _ _ _ _ HFS c eid Hclt H4) as (He & _).
+      apply (Thresholds.dpath_cons inp Hnocut Hwidth Hrd cov ml j x s d c eid); auto.
+      + destruct H3 as [Hc _]. rewrite st_eq in Hc. exact Hc.
+      + apply lay_eq in H1. rewrite <- (Thresholds.LF_old inp Hclean ml) by lia. exact H1.
+      + apply IH. lia.
+  Qed.
+
+  Lemma mf_fieldC {Y} (g : node -> Y) x : (forall n t, g (set_theta n t) = g n) -> g (gn mf x) = g (gn m5 x).
+  Proof. intros Hg. exact (node_ctC st_eqb inp g m5 x Hg). Qed.
+
+  Lemma cuts_lelC x : f_cutset (n_flags (gn m4 x)) = true -> exists k, m_lel ml = Some k.
+  Proof.
+    intros Hc. destruct (m_lel ml) as [k|] eqn:El; [exists k; reflexivity|]. exfalso.
+    destruct (no_flagsC x) as (Nc & _).
+    unfold m4, m3' in Hc. rewrite m4_eq in Hc. destruct Hclean as [Hf|Hf]; rewrite Hf in Hc.
+    - destruct (Thresholds.lel_cutset_flags inp Hnocut Hwidth Hrd m1c ke x) as (L1 & _). cbv zeta in L1. rewrite m1c_layers, gn1c in L1.
+      destruct (L1 Hc) as [H|H]; [congruence|]. unfold Thresholds.ke in H. rewrite El in H.
+      rewrite nth_overflow in H by lia. destruct H.
+    - rewrite Thresholds.frontier_all_exact in Hc; [rewrite gn1c in Hc; congruence|].
+      intros y. unfold is_ex. rewrite gn1c.
+      destruct (Nat.lt_ge_cases y (length (m_nodes ml))) as [Hlt|Hge]; [apply (Thresholds.all_exact_no_lel inp ml HX y El Hlt)|].
+      rewrite (gn_out_of_range inp ml y Hge). reflexivity.
+  Qed.
+
+  Lemma locb_drainC j x ds T s' w0 w1 : lay j x -> live x -> cuts x ->
+    lpath j x (st x) ds T s' -> complete j ds ->
+    frun pb (rd + j) (st x) w0 ds = Some (s', w1) ->
+    (forall ds1 ds2 s1 v1, ds = ds1 ++ ds2 -> frun pb (rd + j) (st x) w0 ds1 = Some (s1, v1) -> in_isize (w1 - v1)) ->
+    f_marked (n_flags (gn mf x)) = true /\ (w1 - w0 <= n_vbot (gn mf x))%Z /\ In T (m_next ml).
+  Proof.
+    intros Hx Hv Hc Hp Hcomp Hr Hiso.
+    apply cuts_eq in Hc. destruct (cuts_lelC x Hc) as [k Hk].
+    destruct (Thresholds.lpath_end _ _ _ _ _ _ _ _ _ Hp) as (T1 & _ & _ & _). apply lay_eq in T1.
+    change (rd + j + length ds = N) in Hcomp.
+    assert (HjN : rd + (j + length ds) = N) by lia.
+    destruct (Fc_last _ _ _ _ _ _ HFS (j + length ds) T T1 HjN) as (T2 & T3 & T4 & _).
+    pose proof (lpath_dpathC j x _ ds T s' Hp ltac:(lia)) as Hdp.
+    destruct (locb_from_pathC st_eqb inp Hclean Hnocut Hwidth Hrd cov tb tb2 ml k j x _ w0 ds T s' w1
+                Hrel HS HX Hk T4 T2 T3 Hdp Hr Hiso) as [M1 M2].
+    split; [exact M1|]. split; [exact M2|exact T2].
+  Qed.
+
+  Lemma PC_locb j x ds T s' w0 w1 : lay j x -> live x -> cuts x ->
+    lpath j x (st x) ds T s' -> complete j ds ->
+    frun pb (rd + j) (st x) w0 ds = Some (s', w1) ->
+    (forall ds1 ds2 s1 v1, ds = ds1 ++ ds2 -> frun pb (rd + j) (st x) w0 ds1 = Some (s1, v1) -> in_isize (w1 - v1)) ->
+    (w1 - w0 <= vb x)%Z.
+  Proof.
+    intros Hx Hv Hc Hp Hcomp Hr Hiso.
+    destruct (locb_drainC j x ds T s' w0 w1 Hx Hv Hc Hp Hcomp Hr Hiso) as (_ & M2 & _).
+    unfold Thresholds.vb. destruct (m0_fields x) as (_ & _ & _ & _ & _ & _ & Eb). rewrite Eb.
+    eapply Z.le_trans; [exact M2|]. rewrite (mf_fieldC (@n_vbot St) x) by reflexivity. apply Z.le_refl.
+  Qed.
+
+  Notation Drn := (Thresholds.Drn st_eqb inp tb tb2 ml).
+
+  Lemma PC_drain j x ds T s' w0 w1 : lay j x -> live x -> cuts x ->
+    lpath j x (st x) ds T s' -> complete j ds ->
+    frun pb (rd + j) (st x) w0 ds = Some (s', w1) ->
+    (forall ds1 ds2 s1 v1, ds = ds1 ++ ds2 -> frun pb (rd + j) (st x) w0 ds1 = Some (s1, v1) -> in_isize (w1 - v1)) ->
+    Drn x.
+  Proof.
+    intros Hx Hv Hc Hp Hcomp Hr Hiso.
+    destruct (locb_drainC j x ds T s' w0 w1 Hx Hv Hc Hp Hcomp Hr Hiso) as (M1 & _ & HT).
+    apply cuts_eq in Hc. apply lay_eq in Hx.
+    destruct (cut_flagsC j x Hx) as (C1 & _). destruct (C1 Hc) as [_ Hin4].
+    assert (Hcs : m_cutset mf = m_cutset m4).
+    { destruct (compute_local_bounds_keq inp Hclean m4) as (_ & _ & _ & _ & K5). fold m5 in K5.
+      destruct (compute_thresholds_keq st_eqb inp m5) as (_ & _ & _ & _ & K6). change (m_cutset (compute_thresholds st_eqb inp m5) = m_cutset m4). congruence. }
+    destruct (best_geC st_eqb inp Hclean Hnocut Hwidth Hrd tb tb2 ml T HS HX HT) as (b & Hb & _).
+    fold mf in Hb.
+    unfold Thresholds.Drn, drain_cutset, dd_best_value. fold mf. rewrite Hb. cbn [option_map].
+    eexists. split.
+    - apply in_flat_map. exists x. split; [rewrite Hcs; exact Hin4|]. cbv zeta. rewrite M1. left. reflexivity.
+    - cbn [sp_state sp_value sp_depth].
+      rewrite (mf_fieldC (@n_state St) x), (mf_fieldC (@n_vtop St) x), (mf_fieldC (@n_depth St) x) by reflexivity.
+      destruct (m5_fields x) as (b1 & b2 & _ & _ & b5 & _). auto.
+  Qed.
+
+  (* ---------------------------------------------------------------- the terminal nodes *)
+  Lemma exact_terminal_bestC x : In x (m_next ml) -> is_ex inp ml x = true ->
+    exists be, m_best_exact mf = Some be /\ (n_vtop (gn ml x) <= n_vtop (gn mf be))%Z.
+  Proof.
+    intros Hx Hex. destruct (m_has_ebp mf) eqn:Eb.
+    - destruct (finalize_hdrC st_eqb inp Hclean tb tb2 ml) as (_ & _ & _ & H4). cbv zeta in H4. fold mf in H4.
+      rewrite Eb in H4. destruct (best_geC st_eqb inp Hclean Hnocut Hwidth Hrd tb tb2 ml x HS HX Hx) as (b & Hb & _ & Hle).
+      fold mf in Hb, Hle. exists b. rewrite H4. auto.
+    - destruct (best_exact_geC st_eqb inp Hclean Hnocut Hwidth Hrd tb tb2 ml x HS HX Hx Hex Eb) as (b & Hb & _ & Hle).
+      exists b. auto.
+  Qed.
+
+  Lemma terminal_aboveC j x : lay j x -> live x -> isex x -> above x -> rd + j = N ->
+    In x (m_next ml) /\ is_ex inp ml x = true /\ (ci_flavour inp = CleanLEL -> m_lel ml = None) /\
+    exists be, m_best_exact mf = Some be /\ (vt x <= n_vtop (gn mf be))%Z.
+  Proof.
+    intros Hx Hv Hex Hab HjN. apply lay_eq in Hx. apply isex_eq in Hex. apply above_eq in Hab.
+    destruct (Fc_last _ _ _ _ _ _ HFS j x Hx HjN) as (T2 & _ & _).
+    destruct (cut_flagsC j x Hx) as (_ & _ & _ & C4).
+    split; [exact T2|]. split; [exact Hex|]. split; [intros Hf; apply (C4 Hab HjN Hf)|].
+    rewrite vt_eq. apply (exact_terminal_bestC x T2 Hex).
+  Qed.
+
+  Lemma above_in_layerC x : f_above (n_flags (gn m4 x)) = true -> exists j, In x (lyf j).
+  Proof.
+    intros Ha. destruct (no_flagsC x) as (_ & Na).
+    unfold m4, m3' in Ha. rewrite m4_eq in Ha. destruct Hclean as [Hf|Hf]; rewrite Hf in Ha.
+    - destruct (Thresholds.lel_cutset_flags inp Hnocut Hwidth Hrd m1c ke x) as (_ & L2 & _). cbv zeta in L2. rewrite m1c_layers, gn1c in L2.
+      destruct (L2 Ha) as [H|(j & _ & H)]; [congruence|]. exists j. exact H.
+    - assert (G : f_above (n_flags (gn m1c x)) = true \/ In x (bottom_up m1c)).
+      { revert Ha. rewrite (MddSim.frontier_cutset_unfold inp).
+        apply (MddExact.fold_left_inv (fun a : mdd => f_above (n_flags (gn a x)) = true ->
+                 f_above (n_flags (gn m1c x)) = true \/ In x (bottom_up m1c))); [auto|].
+        intros a y Hy IHa. unfold MddSim.fc_step. cbv zeta. destruct (fl_is_exact (n_flags (gn a y))).
+        - destruct (Thresholds.upd_flag_cases inp a y (fun f => fl_set_above f true) x) as [E|(-> & _ & E)]; cbv beta in E; rewrite E; [exact IHa|].
+          intros _. right. exact Hy.
+        - rewrite (fold_left_proj (fun b : mdd => f_above (n_flags (gn b x)))); [exact IHa|].
+          intros b eid. unfold MddSim.fc_inner. cbv zeta. destruct (_ && _); [|reflexivity].
+          rewrite (get_node_upd_node_proj inp (fun n => f_above (n_flags n))) by (intros n; reflexivity). reflexivity. }
+      destruct G as [G|G]; [rewrite gn1c in G; congruence|].
+      unfold bottom_up in G. rewrite m1c_layers in G. apply in_concat in G. destruct G as (l0 & Hl0 & Hx).
+      apply in_rev in Hl0. apply (In_nth _ _ []) in Hl0. destruct Hl0 as (j & _ & Ej). exists j. rewrite Ej. exact Hx.
+  Qed.
+  (* ---------------------------------------------------------------- the cut-set flag of the frontier cut-set *)
+  Lemma frontier_cutset_flagC (m : mdd) :
+    Sinv inp m ->
+    (forall x, x < length (m_nodes m) -> f_cutset (n_flags (gn m x)) = true -> In x (m_cutset m)) ->
+    (forall c, In c (m_cutset m) -> f_cutset (n_flags (gn m c)) = true) ->
+    forall c, In c (m_cutset (frontier_cutset inp m true)) ->
+      f_cutset (n_flags (gn (frontier_cutset inp m true) c)) = true.
+  Proof.
+    intros HSm H0 H1. rewrite (MddSim.frontier_cutset_unfold inp).
+    set (Q := fun a : mdd => MddSim.FInv inp m a /\ forall c, In c (m_cutset a) -> f_cutset (n_flags (gn a c)) = true).
+    assert (HF0 : MddSim.FInv inp m m) by (repeat split; auto).
+    assert (G : Q (fold_left (MddSim.fc_step inp) (bottom_up m) m)).
+    { apply MddSim.fold_left_inv2; [split; [exact HF0|exact H1]|].
+      intros a id (Fa & Ca). unfold MddSim.fc_step. cbv zeta. destruct (fl_is_exact _).
+      - split; [apply MddSim.FInv_upd_above; exact Fa|].
+        intros c Hc. change (In c (m_cutset a)) in Hc.
+        destruct (Thresholds.upd_flag_cases inp a id (fun f => fl_set_above f true) c) as [E|(-> & _ & E)]; cbv beta in E; rewrite E.
+        + apply Ca; exact Hc.
+        + nsimpl. cbn [fl_set_above f_cutset]. apply Ca. exact Hc.
+      - pose proof Fa as (_ & _ & F3 & _). destruct (F3 id) as [Hi _].
+        assert (Hin : forall eid, In eid (n_inb (gn a id)) -> eid < length (m_edges m)).
+        { intros eid He. rewrite Hi in He.
+          destruct (Nat.lt_ge_cases id (length (m_nodes m))) as [Hlt|Hge].
+          - apply (S_nodes _ _ HSm id Hlt). exact He.
+          - rewrite (gn_out_of_range inp m id Hge) in He. destruct He. }
+        apply (MddExact.fold_left_inv Q).
+        + split; assumption.
+        + intros b eid He (Fb & Cb). split; [apply (MddSim.FInv_fc_inner inp m b eid Fb)|].
+          pose proof Fb as (G1 & G2 & _).
+          assert (Hp : e_from (get_edge b eid) < length (m_nodes b)).
+          { rewrite (ge_edges_eq m b eid G1), G2. apply (S_efrom _ _ HSm). apply Hin. exact He. }
+          intros c. unfold MddSim.fc_inner. cbv zeta.
+          destruct (fl_is_exact (n_flags (gn b (e_from (get_edge b eid)))) && negb (f_cutset (n_flags (gn b (e_from (get_edge b eid)))))).
+          2:{ apply Cb. }
+          intros Hc. msimpl_in Hc.
+          destruct (Nat.eq_dec (e_from (get_edge b eid)) c) as [<-|Hne].
+          * rewrite gn_upd_same by (msimpl; exact Hp). nsimpl. reflexivity.
+          * rewrite gn_upd_other by exact Hne.
+            apply in_app_or in Hc. destruct Hc as [Hc|[E|[]]]; [|congruence].
+            change (f_cutset (n_flags (gn b c)) = true). apply Cb; exact Hc. }
+    apply G.
+  Qed.
+
+  Lemma above_of_exC j x : In x (lyf j) -> is_ex inp ml x = true -> (ci_flavour inp = CleanLEL -> j <= ke) ->
+    f_above (n_flags (gn m4 x)) = true.
+  Proof.
+    intros Hx Hex Hj. pose proof (Fc_range _ _ _ _ _ _ HFS j x Hx) as Hxlt.
+    unfold m4, m3'. rewrite m4_eq. destruct Hclean as [Hf|Hf]; rewrite Hf.
+    - destruct (Thresholds.lel_cutset_flags inp Hnocut Hwidth Hrd m1c ke x) as (_ & _ & L3 & _). cbv zeta in L3.
+      rewrite m1c_layers, m1c_len in L3. apply (L3 j (Hj Hf) Hx Hxlt).
+    - destruct (Thresholds.frontier_flags inp Hnocut Hwidth Hrd m1c) as (_ & Fab & _).
+      { intros y _ Hc. rewrite gn1c in Hc. destruct (no_flagsC y) as (E & _). congruence. }
+      apply Fab.
+      + unfold bottom_up. rewrite m1c_layers. apply in_concat. exists (lyf j). split; [|exact Hx].
+        apply in_rev. rewrite rev_involutive. apply nth_In. eapply Thresholds.nth_in_len; eauto.
+      + rewrite m1c_len. exact Hxlt.
+      + unfold is_ex. rewrite gn1c. exact Hex.
+  Qed.
+
+  Lemma root_factsC : In 0 (lyf 0) /\ del ml 0 = false /\ fcache ml 0 = false /\ is_ex inp ml 0 = true /\
+    f_above (n_flags (gn m4 0)) = true.
+  Proof.
+    destruct (Fc_root _ _ _ _ _ _ HFS) as (R1 & R2 & R3).
+    assert (Hex : is_ex inp ml 0 = true).
+    { destruct (m_lel ml) as [k|] eqn:El.
+      - apply (Fc_lel _ _ _ _ _ _ HFS k El 0 0 (Nat.le_0_l _) R1).
+      - apply (Thresholds.all_exact_no_lel inp ml HX); [exact El|apply (Fc_range _ _ _ _ _ _ HFS 0 0 R1)]. }
+    split; [exact R1|]. split; [exact R2|]. split; [exact R3|]. split; [exact Hex|].
+    apply (above_of_exC 0 0 R1 Hex). intros _. lia.
+  Qed.
+
+  Lemma mcut_eqC : m_cutset mf = m_cutset m4.
+  Proof.
+    destruct (compute_local_bounds_keq inp Hclean m4) as (_ & _ & _ & _ & K5). fold m5 in K5.
+    destruct (compute_thresholds_keq st_eqb inp m5) as (_ & _ & _ & _ & K6).
+    change (m_cutset (compute_thresholds st_eqb inp m5) = m_cutset m4). congruence.
+  Qed.
+
+  (* a marked cut-set node is the source of an arc: a live node of a layer, not dropped by the cache *)
+  Lemma drained_nodeC id : m_next ml <> [] -> In id (m_cutset mf) -> f_marked (n_flags (gn mf id)) = true ->
+    exists j, In id (lyf j) /\ del ml id = false /\ fcache ml id = false /\ f_cutset (n_flags (gn m4 id)) = true.
+  Proof.
+    intros Hnn Hid Hmk. rewrite mcut_eqC in Hid.
+    rewrite (mf_fieldC (fun n => f_marked (n_flags n)) id) in Hmk by reflexivity.
+    destruct m3_facts as (G1 & G2 & G3 & G4 & G5).
+    destruct (MddSim.pipe3 inp Hclean tb tb2 ml HS HX) as (_ & _ & _ & _ & _ & S3 & X3 & _). cbv zeta in S3, X3.
+    change (Sinv inp m3') in S3. change (Xs inp m3') in X3.
+    assert (Ee : m_edges m1c = m_edges ml).
+    { unfold Thresholds.m1c. cbv zeta. destruct (m_lel _); exact G2. }
+    assert (HSF : MddSim.Src ml id /\ f_cutset (n_flags (gn m4 id)) = true).
+    { destruct Hclean as [Hf|Hf].
+      - (* last exact layer *)
+        unfold m4, m3' in Hid. rewrite m4_eq, Hf in Hid.
+        destruct (lel_cutset_spec inp m1c ke) as [_ Ecs]. rewrite Ecs, m1c_cutset, m1c_layers in Hid. simpl in Hid.
+        destruct (nth_error (LF ml) ke) as [ids|] eqn:Enk; [|destruct Hid].
+        assert (Hlk : In id (lyf ke)) by (rewrite (nth_error_nth (LF ml) ke [] Enk); exact Hid).
+        pose proof (Fc_range _ _ _ _ _ _ HFS ke id Hlk) as Hlt.
+        split.
+        + assert (S4' : Sinv inp m4).
+          { destruct (finalize_cutset_spec inp Hclean m3' S3 X3) as [(P34 & N34 & _) _]. fold m4 in P34, N34.
+            eapply (Sinv_peq inp Hclean); [exact P34| |exact S3].
+            intros y Hy. rewrite N34 in Hy. destruct P34 as (_ & _ & L34 & _). rewrite L34. apply (S_next _ _ S3). exact Hy. }
+          destruct (MddSim.marked_src inp Hclean m4 S4') with (x := id) as [Hl|Hs].
+          * intros x. unfold m4. rewrite (MddSim.flag_finalize_cutset inp Hclean f_marked) by (intros; reflexivity).
+            rewrite gn3.
+            destruct (Nat.lt_ge_cases x (length (m_nodes ml))) as [Hlt'|Hge].
+            -- unfold MddSim.Ninv in HN. rewrite Forall_forall in HN. apply (HN (gn ml x)). apply nth_In. exact Hlt'.
+            -- rewrite (gn_out_of_range inp ml x Hge). reflexivity.
+          * exact Hmk.
+          * exfalso. unfold m4, m3' in Hl. rewrite finalize_cutset_layers, G3 in Hl.
+            assert (ELF : LF ml = m_layers ml ++ [seq (m_layer_end ml) (length (m_nodes ml) - m_layer_end ml)]).
+            { unfold Thresholds.LF. destruct (MddSim.finalize_layers_fields inp Hclean ml) as (_ & _ & _ & _ & F5). rewrite F5.
+              destruct (m_next ml); [congruence|reflexivity]. }
+            assert (Hl2 : In id (lyf (length (m_layers ml)))).
+            { rewrite ELF. rewrite app_nth2 by lia. rewrite Nat.sub_diag. simpl. rewrite ELF, last_last in Hl. exact Hl. }
+            pose proof (lay_uniqC _ _ _ Hlk Hl2) as Ek.
+            unfold Thresholds.ke in Ek. destruct (m_lel ml) as [k|] eqn:El.
+            -- pose proof (X_lel_lt _ _ _ HX Hrel k El). lia.
+            -- rewrite ELF, app_length in Ek. simpl in Ek. lia.
+          * destruct Hs as (eid & E1 & E2).
+            destruct (finalize_cutset_spec inp Hclean m3' S3 X3) as [((Pe & _) & _) _]. fold m4 in Pe.
+            assert (G2' : m_edges m3' = m_edges ml) by exact G2.
+            exists eid. rewrite Pe, G2' in E1. split; [exact E1|].
+            rewrite (ge_edges_eq m3' m4 eid Pe) in E2. rewrite (ge_edges_eq ml m3' eid G2') in E2. exact E2.
+        + destruct (Thresholds.lel_cutset_flags inp Hnocut Hwidth Hrd m1c ke id) as (_ & _ & _ & _ & L5). cbv zeta in L5.
+          rewrite m1c_layers, m1c_len in L5. unfold m4, m3'. rewrite m4_eq, Hf. apply L5; assumption.
+      - (* frontier *)
+        unfold m4, m3' in Hid |- *. rewrite m4_eq, Hf in Hid |- *.
+        assert (S1c : Sinv inp m1c).
+        { unfold Thresholds.m1c. cbv zeta. destruct (m_lel _); [exact S3|]. destruct S3 as [A1 A2 A3 A4 A5]. split; assumption. }
+        assert (H0 : forall x, x < length (m_nodes m1c) -> f_cutset (n_flags (gn m1c x)) = true -> In x (m_cutset m1c)).
+        { intros y _ Hc. rewrite gn1c in Hc. destruct (no_flagsC y) as (E & _). congruence. }
+        split.
+        + destruct (MddSim.frontier_cutset_src inp m1c S1c H0 id Hid) as [Hc0|Hs].
+          * rewrite m1c_cutset in Hc0. destruct Hc0.
+          * destruct Hs as (eid & E1 & E2). exists eid. rewrite Ee in E1. split; [exact E1|].
+            rewrite (ge_edges_eq ml m1c eid Ee) in E2. exact E2.
+        + apply (frontier_cutset_flagC m1c S1c H0); [rewrite m1c_cutset; intros c []|exact Hid]. }
+    destruct HSF as [Hsrc Hfl].
+    destruct (Fc_srcl _ _ _ _ _ _ HFS id Hsrc) as (Hd & j & Hj).
+    exists j. split; [exact Hj|]. split; [exact Hd|]. split; [apply (Fc_src _ _ _ _ _ _ HFS id Hsrc)|exact Hfl].
+  Qed.
+End FinalC.
+
+Local Open Scope nat_scope.
+
+
+(* ================================================================== 8. _finalize with the cache on: what _compute_thresholds leaves alone *)
+
+(* ================================================================== 10. what a relaxed compilation started from ANY cache guarantees *)
+Section CompileLevel.
+  Context {St : Type}.
+  Variable st_eqb : St -> St -> bool.
+  Variable inp : @cinput St.
+  Let pb := ci_problem inp.
+  (* a complete run of final value [val] was lost to an entry of the cache [c] at depth >= dmin *)
+  Definition LostC (c : @cache St) (dmin : nat) (val : Z) : Prop :=
+    exists d s0 th h, dmin <= d /\ cget st_eqb c s0 d = Some th /\ H pb d s0 = Some h /\ (val <= th_value th + h)%Z.
+  (* the run (d, s, w) ds passes through a drained cut-set node, at a value no larger than the node's
+     (with e = true: strictly deeper than d) *)
+  Definition CaptC (m : @mdd St) (e : bool) (d : nat) (s : St) (w : Z) (ds : list decision) : Prop :=
+    exists sp ds1 ds2 s1 w1, In sp (drain_cutset inp m) /\ ds = ds1 ++ ds2 /\ frun pb d s w ds1 = Some (s1, w1) /\
+      sp_state sp = s1 /\ sp_depth sp = d + length ds1 /\ (w1 <= sp_value sp)%Z /\ (e = true -> ds1 <> []).
+
+  Lemma LostC_mono c d d' v v' : d' <= d -> (v' <= v)%Z -> LostC c d v -> LostC c d' v'.
+  Proof. intros H1 H2 (d0 & s0 & th & h & A & B0 & C & D). exists d0, s0, th, h. repeat split; auto; lia. Qed.
+End CompileLevel.
+
+Section UseC.
+  Context {St : Type}.
+  Variable st_eqb : St -> St -> bool.
+  Hypothesis st_eqb_spec : forall a b, st_eqb a b = true <-> a = b.
+  Variable inp : @cinput St.
+  Let pb := ci_problem inp.
+  Let rlx := ci_relax inp.
+  Let root := ci_root inp.
+  Let lb := ci_best_lb inp.
+  Let N := nb_vars pb.
+  Let rd := sp_depth root.
+  Let rs := sp_state root.
+  Let rv := sp_value root.
+  Hypothesis Hclean : ci_flavour inp = CleanLEL \/ ci_flavour inp = CleanFC.
+  Hypothesis Hnodom : ci_domrule inp = None.
+  Hypothesis Hnocut : ci_cutoff inp = 0.
+  Hypothesis Hwidth : 1 <= ci_width inp.
+  Hypothesis Hrel : ci_type inp = Relaxed.
+  Hypothesis Hrd : rd <= N.
+  Hypothesis nv_static : forall k l1 l2, next_variable pb k l1 = next_variable pb k l2.
+  Hypothesis nv_some : forall k l, k < N -> exists x, next_variable pb k l = Some x.
+  Hypothesis nv_none : forall k l, N <= k -> next_variable pb k l = None.
+  Variable cov : St -> St -> Prop.
+  Hypothesis cov_refl : forall s, cov s s.
+  Hypothesis cov_sim : forall s s' x v, cov s s' -> In v (domain pb x s') ->
+    let d := {| d_var := x; d_val := v |} in
+    In v (domain pb x s) /\ cov (transition pb s d) (transition pb s' d) /\
+    (transition_cost pb s' (transition pb s' d) d <= transition_cost pb s (transition pb s d) d)%Z.
+  Hypothesis rub_adm : forall k s s' h, cov s s' -> H pb k s' = Some h -> (h <= fast_upper_bound rlx s)%Z.
+  Variable B : Z.
+  Hypothesis HB : (2 * B <= IMAX)%Z.
+  Hypothesis Hguard : forall ds s' v', frun pb rd rs rv ds = Some (s', v') -> (- B <= v' <= B)%Z.
+
+  Notation mdd := (@mdd St).
+  Notation gn := (get_node inp).
+  Notation LF := (Thresholds.LF inp).
+
+  Variable c : @cache St.
+  Variables (tb tb2 : nat) (ml m0 : mdd) (bk : Z).
+  Let mf := finalize st_eqb inp tb tb2 ml.
+  Let m5 := compute_local_bounds inp (finalize_cutset inp (finalize_exact inp (find_best_node inp tb tb2 (finalize_layers inp ml)))).
+  Let Dr := Thresholds.Drn st_eqb inp tb tb2 ml.
+  Let Old := OldC st_eqb c.
+  Hypothesis HFS : FSc st_eqb inp cov c ml (fun j => nth j (LF ml) []).
+  Hypothesis HS : Sinv inp ml.
+  Hypothesis HX : Xs inp ml.
+  Hypothesis HN : MddSim.Ninv inp ml.
+  Hypothesis S_lay : m_layers m0 = LF ml.
+  Hypothesis S_edg : m_edges m0 = m_edges ml.
+  Hypothesis S_len : length (m_nodes m0) = length (m_nodes ml).
+  Hypothesis S_sk : forall x, Thresholds.sk (gn m0 x) = Thresholds.sk (gn m5 x).
+  Hypothesis S_ct : forall x, f_cache (n_flags (gn ml x)) = true -> n_theta (gn m0 x) = n_theta (gn ml x).
+  Hypothesis Hbk : (lb <= bk)%Z.
+  Hypothesis Ebk : bk = bk_of inp mf.
+  Hypothesis HCO : CacheOKg st_eqb inp B m0 bk Dr Old c (m_cache mf).
+
+  Local Notation lay := (Thresholds.lay m0).
+  Local Notation live := (Thresholds.live inp m0).
+  Local Notation isex := (Thresholds.isex inp m0).
+  Local Notation above := (Thresholds.above inp m0).
+  Local Notation cuts := (Thresholds.cuts inp m0).
+  Local Notation st := (Thresholds.st inp m0).
+  Local Notation vt := (Thresholds.vt inp m0).
+  Local Notation vb := (Thresholds.vb inp m0).
+  Local Notation rb := (Thresholds.rb inp m0).
+  Local Notation cached := (cached inp m0).
+  Local Notation m0_fields := (Thresholds.m0_fields inp Hclean tb tb2 ml HS HX m0 S_sk).
+  Local Notation m5_fields := (Thresholds.m5_fields inp Hclean tb tb2 ml HS HX).
+  Local Notation lay_eq := (Thresholds.lay_eq inp ml m0 S_lay).
+  Local Notation live_eq := (Thresholds.live_eq inp Hclean tb tb2 ml HS HX m0 S_sk).
+  Local Notation isex_eq := (Thresholds.isex_eq inp Hclean tb tb2 ml HS HX m0 S_sk).
+  Local Notation above_eq := (Thresholds.above_eq inp Hclean tb tb2 ml HS HX m0 S_sk).
+  Local Notation cuts_eq := (Thresholds.cuts_eq inp Hclean tb tb2 ml HS HX m0 S_sk).
+  Local Notation cached_eq := (cached_eqC inp Hclean tb tb2 ml HS HX m0 S_sk).
+
+  (* the pack of section 7, instantiated *)
+  Lemma Q_depth j x : lay j x -> live x -> n_depth (gn m0 x) = rd + j.
+  Proof. eapply PC_depth; eassumption. Qed.
+  Lemma Q_SC j x s var val : lay j x -> live x -> ~ cached x -> Thresholds.Adm inp cov m0 x s -> rd + j < N ->
+    Thresholds.branched inp m0 x -> next_variable pb (rd + j) [] = Some var -> In val (domain pb var s) ->
+    let d := {| d_var := var; d_val := val |} in
+    exists c' eid, lay (S j) c' /\ live c' /\ Thresholds.Adm inp cov m0 c' (transition pb s d) /\ In eid (n_inb (gn m0 c')) /\
+      e_from (get_edge m0 eid) = x /\ e_dec (get_edge m0 eid) = d /\ (Thresholds.rcost inp s d <= e_cost (get_edge m0 eid))%Z.
+  Proof. eapply PC_SC; eassumption. Qed.
+  Lemma Q_rub j x : lay j x -> rb x = IMAX \/ rb x = fast_upper_bound rlx (st x).
+  Proof. eapply PC_rub; eassumption. Qed.
+  Lemma Q_cached j x : lay j x -> live x -> cached x ->
+    exists tc, thc0 inp m0 x = Some tc /\ (vt x <= tc)%Z /\ Old (rd + j) (st x) tc.
+  Proof. eapply PC_cached; eassumption. Qed.
+  Lemma Q_cut_ex j x : lay j x -> cuts x -> isex x.
+  Proof. eapply PC_cut_ex; eassumption. Qed.
+  Lemma Q_kid j x c' eid : lay j x -> live x -> isex x -> above x -> ~ cuts x -> lay (S j) c' -> live c' ->
+    In eid (n_inb (gn m0 c')) -> e_from (get_edge m0 eid) = x -> isex c' /\ above c'.
+  Proof. eapply PC_kid; eassumption. Qed.
+  Lemma Q_real j x : lay j x -> live x -> isex x -> Thresholds.Start inp j (st x) (vt x).
+  Proof. eapply PC_real; eassumption. Qed.
+  Lemma Q_vtop j x ds1 y s1 v1 : lay j x -> live x -> isex x -> Thresholds.lpath inp cov m0 j x (st x) ds1 y s1 ->
+    frun pb (rd + j) (st x) (vt x) ds1 = Some (s1, v1) -> (v1 <= vt y)%Z.
+  Proof. eapply PC_vtop; eassumption. Qed.
+  Lemma Q_locb j x ds T s' w0 w1 : lay j x -> live x -> cuts x -> Thresholds.lpath inp cov m0 j x (st x) ds T s' ->
+    Thresholds.complete inp j ds -> frun pb (rd + j) (st x) w0 ds = Some (s', w1) ->
+    (forall ds1 ds2 s1 v1, ds = ds1 ++ ds2 -> frun pb (rd + j) (st x) w0 ds1 = Some (s1, v1) -> in_isize (w1 - v1)) ->
+    (w1 - w0 <= vb x)%Z.
+  Proof. eapply PC_locb; eassumption. Qed.
+  Lemma Q_drain j x ds T s' w0 w1 : lay j x -> live x -> cuts x -> Thresholds.lpath inp cov m0 j x (st x) ds T s' ->
+    Thresholds.complete inp j ds -> frun pb (rd + j) (st x) w0 ds = Some (s', w1) ->
+    (forall ds1 ds2 s1 v1, ds = ds1 ++ ds2 -> frun pb (rd + j) (st x) w0 ds1 = Some (s1, v1) -> in_isize (w1 - v1)) ->
+    Dr x.
+  Proof. eapply PC_drain; eassumption. Qed.
+
+  Lemma bk_best_exact be : m_best_exact mf = Some be -> (n_vtop (gn mf be) <= bk)%Z.
+  Proof. intros E. rewrite Ebk. unfold bk_of. rewrite E. lia. Qed.
+
+  Lemma Q_term j x : lay j x -> live x -> isex x -> above x -> rd + j = N -> (vt x <= bk)%Z.
+  Proof.
+    intros Hl Hv Hex Hab HjN.
+    destruct (terminal_aboveC st_eqb inp Hclean Hnocut Hwidth Hrel Hrd cov c tb tb2 ml HFS HS HX HN m0 S_lay S_sk
+                j x Hl Hv Hex Hab HjN) as (_ & _ & _ & be & T4 & T5).
+    eapply Z.le_trans; [exact T5|exact (bk_best_exact be T4)].
+  Qed.
+
+  Lemma mf_fields x :
+    n_state (gn mf x) = n_state (gn ml x) /\ n_vtop (gn mf x) = n_vtop (gn ml x) /\ n_depth (gn mf x) = n_depth (gn ml x) /\
+    n_rub (gn mf x) = n_rub (gn m0 x) /\ n_vbot (gn mf x) = n_vbot (gn m0 x).
+  Proof.
+    destruct (m5_fields x) as (a1 & a2 & _ & a4 & a5 & _). destruct (m0_fields x) as (_ & _ & _ & b4 & _ & _ & b7).
+    unfold mf. rewrite !(mf_fieldC st_eqb inp tb tb2 ml (@n_state St) x), (mf_fieldC st_eqb inp tb tb2 ml (@n_vtop St) x),
+      (mf_fieldC st_eqb inp tb tb2 ml (@n_depth St) x), (mf_fieldC st_eqb inp tb tb2 ml (@n_rub St) x),
+      (mf_fieldC st_eqb inp tb tb2 ml (@n_vbot St) x) by reflexivity.
+    split; [exact a1|]. split; [exact a2|]. split; [exact a5|]. split; [congruence|]. symmetry. exact b7.
+  Qed.
+
+  Lemma lost_conv jm val : LostAt inp m0 Old jm val -> LostC st_eqb inp c (rd + jm) val.
+  Proof.
+    intros (j' & y & tc & h & L1 & _ & _ & _ & (th & G1 & G2) & L6 & L7).
+    exists (rd + j'), (st y), th, h. split; [lia|]. split; [exact G1|]. split; [exact L6|]. rewrite G2. exact L7.
+  Qed.
+
+  Lemma capt_conv e j s w ds : CaptD inp m0 Dr e j s w ds -> CaptC inp mf e (rd + j) s w ds.
+  Proof.
+    intros (ds1 & ds2 & y & s1 & w1 & E & Hf & (sp & Hsp & P1 & P2 & P3) & Hs & Hdep & Hw & He).
+    destruct (m0_fields y) as (f1 & f2 & _ & _ & f5 & _).
+    exists sp, ds1, ds2, s1, w1. split; [exact Hsp|]. split; [exact E|]. split; [exact Hf|].
+    split; [rewrite P1, <- f1; exact Hs|]. split; [rewrite P3, <- f5; exact Hdep|]. split; [rewrite P2, <- f2; exact Hw|exact He].
+  Qed.
+
+  (* ---------------------------------------------------------------- (A) a complete run from the root *)
+  Theorem root_runC ds s' r' : frun pb rd rs rv ds = Some (s', r') -> rd + length ds = N ->
+    (r' <= bk_of inp mf)%Z \/ CaptC inp mf false rd rs rv ds \/ LostC st_eqb inp c (S rd) r'.
+  Proof.
+    intros Hr Hlen.
+    destruct (root_factsC st_eqb inp Hclean Hnocut Hwidth Hrel Hrd cov c tb tb2 ml HFS HS HX HN m0 S_len) as (R1 & R2 & R3 & R4 & R5).
+    assert (Hl : lay 0 0) by (apply lay_eq; exact R1).
+    assert (Hv : live 0) by (apply live_eq; exact R2).
+    assert (Hex : isex 0) by (apply isex_eq; exact R4).
+    assert (Hab : above 0) by (apply above_eq; exact R5).
+    assert (Hnc : ~ cached 0).
+    { intros Hc. apply cached_eq in Hc. rewrite R3 in Hc. discriminate. }
+    destruct (S_root _ _ HS) as (_ & r2 & r3 & _).
+    destruct (m0_fields 0) as (f1 & f2 & _).
+    assert (Est : st 0 = rs) by (unfold Thresholds.st; rewrite f1; exact r2).
+    assert (Evt : vt 0 = rv) by (unfold Thresholds.vt; rewrite f2; exact r3).
+    assert (HSt : Thresholds.Start inp 0 (st 0) rv).
+    { exists []. rewrite Est. split; reflexivity. }
+    destruct (run_cases inp Hrd nv_static nv_some nv_none cov cov_refl cov_sim rub_adm B HB Hguard m0 bk Hbk Dr Old
+                Q_depth Q_SC Q_rub Q_cached Q_kid Q_real Q_vtop Q_drain Q_term 0 0 rv ds s' r' Hl Hv Hex Hab Hnc HSt)
+      as [H1|[H1|H1]].
+    - rewrite Evt. apply Z.le_refl.
+    - rewrite Est. replace (sp_depth (ci_root inp) + 0) with rd by (unfold rd, root; lia). exact Hr.
+    - unfold Thresholds.complete. fold pb N. unfold rd, root in Hlen. lia.
+    - left. rewrite <- Ebk. exact H1.
+    - right; left. apply capt_conv in H1. rewrite Est in H1. replace (rd + 0) with rd in H1 by lia. exact H1.
+    - right; right. apply lost_conv in H1. replace (rd + 1) with (S rd) in H1 by lia. exact H1.
+  Qed.
+
+  (* ---------------------------------------------------------------- (B) a complete run from a drained cut-set node *)
+  Theorem ub_runC sp ds s' r' : In sp (drain_cutset inp mf) ->
+    frun pb (sp_depth sp) (sp_state sp) (sp_value sp) ds = Some (s', r') -> sp_depth sp + length ds = N ->
+    (r' <= lb)%Z \/ LostC st_eqb inp c (S (sp_depth sp)) r' \/ (r' <= sp_ub sp)%Z.
+  Proof.
+    intros Hsp Hr Hlen.
+    unfold drain_cutset in Hsp. destruct (dd_best_value inp mf) as [bv|] eqn:Ebv; [|destruct Hsp].
+    apply in_flat_map in Hsp. destruct Hsp as (id & Hid & Hsp). cbv zeta in Hsp.
+    destruct (f_marked (n_flags (gn mf id))) eqn:Emk; [|destruct Hsp].
+    destruct Hsp as [<-|[]]. cbn [sp_ub sp_state sp_value sp_depth] in *.
+    destruct (finalize_hdrC st_eqb inp Hclean tb tb2 ml) as (_ & _ & H3 & _). cbv zeta in H3. fold mf in H3.
+    unfold dd_best_value in Ebv. destruct (m_best mf) as [b|] eqn:Eb; [|discriminate]. cbn [option_map] in Ebv.
+    assert (Hnn : m_next ml <> []).
+    { symmetry in H3. apply pick_In in H3. apply (argmax_candidates_In inp Hclean) in H3.
+      intros E. rewrite E in H3. destruct H3. }
+    destruct (drained_nodeC st_eqb inp Hclean Hnocut Hwidth Hrel Hrd cov c tb tb2 ml HFS HS HX HN m0 S_len id Hnn Hid Emk)
+      as (j & Hj & Hd & Hfc & Hcf).
+    assert (Hl : lay j id) by (apply lay_eq; exact Hj).
+    assert (Hv : live id) by (apply live_eq; exact Hd).
+    assert (Hc : cuts id) by (apply cuts_eq; exact Hcf).
+    assert (Hnc : ~ cached id).
+    { intros Hc'. apply cached_eq in Hc'. rewrite Hfc in Hc'. discriminate. }
+    destruct (mf_fields id) as (g1 & g2 & g3 & g4 & g5).
+    destruct (m0_fields id) as (f1 & f2 & _).
+    pose proof (Fc_dep _ _ _ _ _ _ HFS j id Hj Hd) as Hdep.
+    rewrite g1, g2, g3 in Hr. rewrite g3 in Hlen.
+    destruct (ub_cases inp Hrd nv_static nv_some nv_none cov cov_refl cov_sim rub_adm B HB Hguard m0 bk Hbk Old
+                Q_SC Q_rub Q_cached Q_cut_ex Q_real Q_vtop Q_locb j id ds s' r' Hl Hv Hc Hnc) as [H1|[H1|(U1 & U2 & T & T1 & T2 & T3)]].
+    - unfold Thresholds.st, Thresholds.vt. rewrite f1, f2. rewrite <- Hdep. exact Hr.
+    - unfold Thresholds.complete. fold pb N. rewrite Hdep in Hlen. unfold rd, root in Hlen. lia.
+    - left. exact H1.
+    - right; left. apply lost_conv in H1. rewrite g3, Hdep. eapply LostC_mono; [|apply Z.le_refl|exact H1]. unfold rd, root. lia.
+    - right; right. unfold Thresholds.vt, Thresholds.rb, Thresholds.vb in U1, U2.
+      rewrite g2, g4, g5. rewrite f2 in U1, U2.
+      apply Z.min_glb; [apply Z.min_glb; assumption|].
+      apply lay_eq in T1.
+      destruct (Fc_last _ _ _ _ _ _ HFS (j + length ds) T T1) as (T4 & _).
+      { rewrite Hdep in Hlen. unfold N, pb in Hlen. lia. }
+      destruct (best_geC st_eqb inp Hclean Hnocut Hwidth Hrd tb tb2 ml T HS HX T4) as (b' & Hb' & _ & Hle).
+      fold mf in Hb', Hle. rewrite Eb in Hb'. inversion Hb'; subst b'. inversion Ebv; subst bv.
+      destruct (m0_fields T) as (_ & t2 & _). unfold Thresholds.vt in T3. rewrite t2 in T3. lia.
+  Qed.
+
+  (* ---------------------------------------------------------------- (C) the entries of the final cache *)
+  Theorem cache_runC d s th : cget st_eqb (m_cache mf) s d = Some th ->
+    cget st_eqb c s d = Some th \/
+    exists j, d = rd + j /\ (exists pre r, frun pb rd rs rv pre = Some (s, r) /\ length pre = j) /\
+      forall v ds s' v', (IMIN + 2 * B < v)%Z -> (v <= th_value th)%Z -> frun pb d s v ds = Some (s', v') -> d + length ds = N ->
+        (v' <= bk_of inp mf)%Z \/ CaptC inp mf (th_explored th) d s v ds \/ LostC st_eqb inp c (S d) v'.
+  Proof.
+    intros Hg. destruct (HCO d s th Hg) as [H1|(j & -> & (r & pre & P1 & P2) & HSA)]; [left; exact H1|right].
+    exists j. split; [reflexivity|]. split; [exists pre, r; auto|].
+    intros v ds s' v' Hv1 Hv2 Hr Hlen.
+    destruct (HSA v ds s' v' Hv1 Hv2 Hr) as [H1|[H1|H1]].
+    - unfold Thresholds.complete. exact Hlen.
+    - left. rewrite <- Ebk. exact H1.
+    - right; left. apply capt_conv. exact H1.
+    - right; right. apply lost_conv in H1. replace (rd + S j) with (S (rd + j)) in H1 by lia. exact H1.
+  Qed.
+End UseC.
+
+(* ================================================================== 11. the bridge: Mdd.compile (relaxed, any cache with a layer per depth) *)
+Section BridgeC.
+  Context {St : Type}.
+  Variable st_eqb : St -> St -> bool.
+  Hypothesis st_eqb_spec : forall a b, st_eqb a b = true <-> a = b.
+  Variable inp : @cinput St.
+  Let pb := ci_problem inp.
+  Let rlx := ci_relax inp.
+  Let root := ci_root inp.
+  Let lb := ci_best_lb inp.
+  Let N := nb_vars pb.
+  Let rd := sp_depth root.
+  Let rs := sp_state root.
+  Let rv := sp_value root.
+  Hypothesis Hclean : ci_flavour inp = CleanLEL \/ ci_flavour inp = CleanFC.
+  Hypothesis Hnodom : ci_domrule inp = None.
+  Hypothesis Hnocut : ci_cutoff inp = 0.
+  Hypothesis Hwidth : 1 <= ci_width inp.
+  Hypothesis Hrel : ci_type inp = Relaxed.
+  Hypothesis Hrd : rd <= N.
+  Hypothesis nv_static : forall k l1 l2, next_variable pb k l1 = next_variable pb k l2.
+  Hypothesis nv_some : forall k l, k < N -> exists x, next_variable pb k l = Some x.
+  Hypothesis nv_none : forall k l, N <= k -> next_variable pb k l = None.
+  Variable cov : St -> St -> Prop.
+  Hypothesis cov_refl : forall s, cov s s.
+  Hypothesis cov_sim : forall s s' x v, cov s s' -> In v (domain pb x s') ->
+    let d := {| d_var := x; d_val := v |} in
+    In v (domain pb x s) /\ cov (transition pb s d) (transition pb s' d) /\
+    (transition_cost pb s' (transition pb s' d) d <= transition_cost pb s (transition pb s d) d)%Z.
+  Hypothesis merge_cov : forall L s s', In s L -> cov s s' -> cov (merge rlx L) s'.
+  Hypothesis relax_ge : forall src dst mg d c, (c <= relax rlx src dst mg d c)%Z.
+  Hypothesis rub_adm : forall k s s' h, cov s s' -> H pb k s' = Some h -> (h <= fast_upper_bound rlx s)%Z.
+  Variable B : Z.
+  Hypothesis HB : (2 * B <= IMAX)%Z.
+  Hypothesis Hguard : forall ds s' v', frun pb rd rs rv ds = Some (s', v') -> (- B <= v' <= B)%Z.
+
+  Notation mdd := (@mdd St).
+  Notation gn := (get_node inp).
+  Notation LF := (Thresholds.LF inp).
+  Notation sk := (@Thresholds.sk St).
+
+  Lemma th_preset_other bk (m : mdd) x : ~ In x (m_next m) -> gn (th_preset inp bk m) x = gn m x.
+  Proof.
+    intros Hn. unfold th_preset.
+    apply (MddExact.fold_left_inv (fun a : mdd => gn a x = gn m x)); [reflexivity|].
+    intros a id Hid Ha. cbv zeta.
+    match goal with |- context [if ?c then _ else _] => destruct c end; [|exact Ha].
+    rewrite gn_upd_other; [exact Ha|]. intros ->. contradiction.
+  Qed.
+
+  Theorem bridgeC tb tb2 c ds polls (m : mdd) : N < length c ->
+    compile st_eqb inp tb tb2 c ds polls = (m, Compiled) ->
+    exists ml m0 bk,
+      m = finalize st_eqb inp tb tb2 ml /\
+      FSc st_eqb inp cov c ml (fun j => nth j (LF ml) []) /\ Sinv inp ml /\ Xs inp ml /\ MddSim.Ninv inp ml /\
+      m_layers m0 = LF ml /\ m_edges m0 = m_edges ml /\ length (m_nodes m0) = length (m_nodes ml) /\
+      (forall x, sk (gn m0 x) = sk (gn (compute_local_bounds inp (finalize_cutset inp (finalize_exact inp
+                                          (find_best_node inp tb tb2 (finalize_layers inp ml))))) x)) /\
+      (forall x, f_cache (n_flags (gn ml x)) = true -> n_theta (gn m0 x) = n_theta (gn ml x)) /\
+      (lb <= bk)%Z /\ bk = bk_of inp m /\
+      CacheOKg st_eqb inp B m0 bk (Thresholds.Drn st_eqb inp tb tb2 ml) (OldC st_eqb c) c (m_cache m).
+  Proof.
+    intros Hcl Hc.
+    destruct (compile_unfoldC st_eqb st_eqb_spec inp Hclean Hnodom Hnocut Hwidth nv_some nv_none Hrd tb tb2 c ds polls Hcl)
+      as (ml & El & _ & HS & HX & Hcml & Ecomp).
+    rewrite Ecomp in Hc. inversion Hc as [Em]. clear Hc.
+    pose proof (layer_loop_TIc st_eqb st_eqb_spec inp Hclean Hnodom Hnocut Hwidth Hrel Hrd nv_static nv_some nv_none
+                  cov cov_sim merge_cov relax_ge c _ _ ml (TIc_initialize st_eqb inp Hnocut Hwidth Hrd cov cov_refl c ds polls) El) as HFS.
+    pose proof (layer_loop_NinvM st_eqb inp Hclean Hnocut Hwidth Hrd Hnodom (S (S (nb_vars (ci_problem inp)))) _
+                  (MddSim.Ninv_initialize inp c ds polls)) as HN.
+    rewrite El in HN. cbn [fst] in HN.
+    set (m5 := compute_local_bounds inp (finalize_cutset inp (finalize_exact inp
+                 (find_best_node inp tb tb2 (finalize_layers inp ml))))).
+    set (M := compute_thresholds st_eqb inp m5).
+    assert (EM0 : finalize st_eqb inp tb tb2 ml = M) by reflexivity.
+    pose proof (Thresholds.m5_layers inp Hclean tb tb2 ml HS HX) as L5. fold m5 in L5.
+    pose proof (Thresholds.m5_edges inp Hclean tb tb2 ml HS HX) as E5. fold m5 in E5.
+    pose proof (Thresholds.m5_len inp Hclean tb tb2 ml HS HX) as N5. fold m5 in N5.
+    assert (Hins : MddProgress.insens (fun a : mdd => m_cache a)) by (repeat split).
+    assert (C5 : m_cache m5 = c).
+    { rewrite <- Hcml. unfold m5.
+      rewrite (MddProgress.ins_compute_local_bounds inp _ Hins).
+      rewrite (MddProgress.ins_finalize_cutset inp Hclean _ Hins) by (intros; reflexivity).
+      unfold finalize_exact, find_best_node, finalize_layers. cbv zeta. rewrite (not_pooled inp Hclean).
+      destruct (m_next ml); reflexivity. }
+    destruct (compute_thresholds_keq st_eqb inp m5) as ((KE & KP & KL & KC) & KN & KB & KBE & KCS).
+    fold M in KE, KP, KL, KC, KN, KB, KBE, KCS.
+    assert (Hnext5 : m_next m5 = m_next ml).
+    { assert (Hi : MddProgress.insens (fun a : mdd => m_next a)) by (repeat split). unfold m5.
+      rewrite (MddProgress.ins_compute_local_bounds inp _ Hi).
+      rewrite (MddProgress.ins_finalize_cutset inp Hclean _ Hi) by (intros; reflexivity).
+      change (m_next (finalize_layers inp ml) = m_next ml). apply (finalize_layers_fields inp Hclean ml). }
+    assert (Hex5 : m_is_exact m5 = match m_lel ml with None => true | Some _ => false end).
+    { destruct (finalize_hdrC st_eqb inp Hclean tb tb2 ml) as (H1 & _). cbv zeta in H1. rewrite <- H1. rewrite EM0. symmetry.
+      unfold M. apply (proj_compute_thresholdsC st_eqb inp (fun a : mdd => m_is_exact a)); intros; reflexivity. }
+    assert (Hbe' : m_best_exact M = m_best_exact m5).
+    { unfold M. apply (proj_compute_thresholdsC st_eqb inp (fun a : mdd => m_best_exact a)); intros; reflexivity. }
+    assert (Hopen : forall x, f_cache (n_flags (gn ml x)) = true -> ~ In x (m_next ml)).
+    { intros x Hf Hin. pose proof (Fc_open _ _ _ _ _ _ HFS x Hin) as Ho. unfold fcache in Ho. congruence. }
+    (* the fold *)
+    assert (Hfold : exists m0 bk, M = fold_left (th_step st_eqb inp bk) (bottom_up m0) m0 /\
+              m_layers m0 = LF ml /\ m_edges m0 = m_edges ml /\ length (m_nodes m0) = length (m_nodes ml) /\
+              (forall x, sk (gn m0 x) = sk (gn m5 x)) /\ m_cache m0 = c /\ (lb <= bk)%Z /\ bk = bk_of inp M /\
+              (forall x, In x (m_next ml) -> x < length (m_nodes ml) -> fl_is_exact (n_flags (gn m5 x)) = true ->
+                 (ci_flavour inp = CleanLEL -> m_lel ml = None) ->
+                 (exists be, m_best_exact m5 = Some be) -> theta_of inp m0 x = Some bk) /\
+              (forall x, f_cache (n_flags (gn ml x)) = true -> n_theta (gn m0 x) = n_theta (gn ml x))).
+    { unfold M at 1. rewrite Thresholds.compute_thresholds_unfold. rewrite Hrel. cbn [is_relaxed_ct orb].
+      destruct (m_best_exact m5) as [be|] eqn:Ebe.
+      - cbv zeta. set (bk := Z.max (ci_best_lb inp) (n_vtop (gn m5 be))).
+        destruct (Thresholds.th_preset_frame inp bk m5) as (F1 & F2 & F3 & F4 & F5 & F6). cbv zeta in F1, F2, F3, F4, F5, F6.
+        exists (th_preset inp bk m5), bk. split; [reflexivity|]. split; [congruence|]. split; [congruence|].
+        split; [congruence|]. split; [exact F5|]. split; [congruence|]. split; [unfold bk, lb; lia|]. split; [|split].
+        + unfold bk_of. rewrite KBE. rewrite ?Ebe. unfold bk. destruct (KC be) as (_ & Ev & _). rewrite Ev. reflexivity.
+        + intros x Hx Hlt Hexx Hlel _. apply (Thresholds.th_preset_theta inp Hclean Hnocut Hwidth Hrd).
+          * rewrite Hnext5. exact Hx.
+          * rewrite N5. exact Hlt.
+          * intros Hf. rewrite Hex5, (Hlel Hf). reflexivity.
+          * exact Hexx.
+        + intros x Hf. rewrite th_preset_other by (rewrite Hnext5; apply Hopen; exact Hf).
+          destruct (Thresholds.m5_fields inp Hclean tb tb2 ml HS HX x) as (_ & _ & _ & _ & _ & a6). exact a6.
+      - exists m5, (ci_best_lb inp). split; [reflexivity|]. split; [exact L5|]. split; [exact E5|]. split; [exact N5|].
+        split; [reflexivity|]. split; [exact C5|]. split; [unfold lb; lia|]. split; [|split].
+        + unfold bk_of. rewrite KBE. rewrite ?Ebe. reflexivity.
+        + intros x _ _ _ _ (be & Hbe). discriminate.
+        + intros x _. destruct (Thresholds.m5_fields inp Hclean tb tb2 ml HS HX x) as (_ & _ & _ & _ & _ & a6). exact a6. }
+    destruct Hfold as (m0 & bk & EM & S_lay & S_edg & S_len & S_sk & S_cache & Hbk & Ebk & Hpre & S_ct).
+    set (Dr := Thresholds.Drn st_eqb inp tb tb2 ml).
+    assert (HPT : PT inp m0 bk m0 []).
+    { intros x j _ Hl Hv Hex Hab HjN.
+      destruct (terminal_aboveC st_eqb inp Hclean Hnocut Hwidth Hrel Hrd cov c tb tb2 ml HFS HS HX HN m0 S_lay S_sk
+                  j x Hl Hv Hex Hab HjN) as (T1 & T2 & T3 & (be & T4 & _)).
+      exists bk. split; [|lia]. apply Hpre.
+      - exact T1.
+      - rewrite <- S_len. apply (PC_range st_eqb inp cov c ml HFS m0 S_lay S_len j x Hl).
+      - exact (eq_trans (Thresholds.m5_flag inp Hclean tb tb2 ml HS HX fl_is_exact x (fun _ _ => eq_refl) (fun _ _ => eq_refl) (fun _ _ => eq_refl)) T2).
+      - exact T3.
+      - exists be. rewrite <- Hbe'. rewrite <- EM0. exact T4. }
+    assert (HCO : CacheOKg st_eqb inp B m0 bk Dr (OldC st_eqb c) c (m_cache m0)).
+    { intros d s th Hg. left. rewrite S_cache in Hg. exact Hg. }
+    destruct (theta_fold_soundC st_eqb st_eqb_spec inp Hrd nv_static nv_some nv_none cov cov_refl cov_sim rub_adm B HB Hguard
+                m0 bk Hbk Dr (OldC st_eqb c) c) as (R1 & R2).
+    { intros; eapply PC_range; eassumption. }
+    { intros; eapply PC_uniq; eassumption. }
+    { intros; eapply PC_ord; eassumption. }
+    { intros; eapply PC_efrom; eassumption. }
+    { intros; eapply PC_depth; eassumption. }
+    { intros; eapply PC_SC; eassumption. }
+    { intros; eapply PC_rub; eassumption. }
+    { intros; eapply PC_cached; eassumption. }
+    { intros; eapply PC_cut_ex; eassumption. }
+    { intros j x c1 eid; eapply PC_kid; eassumption. }
+    { intros; eapply PC_real; eassumption. }
+    { intros; eapply PC_vtop; eassumption. }
+    { intros; eapply PC_locb; eassumption. }
+    { intros; eapply PC_drain; eassumption. }
+    { intros; eapply PC_above_ex; eassumption. }
+    { exact HPT. }
+    { exact HCO. }
+    cbv zeta in R1, R2. rewrite <- EM in R2.
+    exists ml, m0, bk.
+    split; [reflexivity|]. split; [exact HFS|]. split; [exact HS|]. split; [exact HX|]. split; [exact HN|].
+    split; [exact S_lay|]. split; [exact S_edg|]. split; [exact S_len|]. split; [exact S_sk|]. split; [exact S_ct|].
+    split; [exact Hbk|]. split; [rewrite EM0; exact Ebk|]. rewrite EM0. exact R2.
+  Qed.
+  (* ---------------------------------------------------------------- the three statements, for [compile] *)
+  Theorem C_root_run tb tb2 c ds polls (m : mdd) : N < length c ->
+    compile st_eqb inp tb tb2 c ds polls = (m, Compiled) ->
+    forall ds' s' r', frun pb rd rs rv ds' = Some (s', r') -> rd + length ds' = N ->
+      (r' <= bk_of inp m)%Z \/ CaptC inp m false rd rs rv ds' \/ LostC st_eqb inp c (S rd) r'.
+  Proof.
+    intros Hcl Hc ds' s' r' Hr Hlen.
+    destruct (bridgeC tb tb2 c ds polls m Hcl Hc)
+      as (ml & m0 & bk & -> & HFS & HS & HX & HN & S_lay & S_edg & S_len & S_sk & S_ct & Hbk & Ebk & HCO).
+    exact (root_runC st_eqb inp Hclean Hnocut Hwidth Hrel Hrd nv_static nv_some nv_none cov cov_refl cov_sim rub_adm B HB Hguard
+             c tb tb2 ml m0 bk HFS HS HX HN S_lay S_edg S_len S_sk S_ct Hbk Ebk ds' s' r' Hr Hlen).
+  Qed.
+
+  Theorem C_ub_run tb tb2 c ds polls (m : mdd) : N < length c ->
+    compile st_eqb inp tb tb2 c ds polls = (m, Compiled) ->
+    forall sp ds' s' r', In sp (drain_cutset inp m) ->
+      frun pb (sp_depth sp) (sp_state sp) (sp_value sp) ds' = Some (s', r') -> sp_depth sp + length ds' = N ->
+      (r' <= lb)%Z \/ LostC st_eqb inp c (S (sp_depth sp)) r' \/ (r' <= sp_ub sp)%Z.
+  Proof.
+    intros Hcl Hc sp ds' s' r' Hsp Hr Hlen.
+    destruct (bridgeC tb tb2 c ds polls m Hcl Hc)
+      as (ml & m0 & bk & -> & HFS & HS & HX & HN & S_lay & S_edg & S_len & S_sk & S_ct & Hbk & Ebk & HCO).
+    exact (ub_runC st_eqb inp Hclean Hnocut Hwidth Hrel Hrd nv_static nv_some nv_none cov cov_refl cov_sim rub_adm B HB Hguard
+             c tb tb2 ml m0 bk HFS HS HX HN S_lay S_edg S_len S_sk S_ct Hbk sp ds' s' r' Hsp Hr Hlen).
+  Qed.
+
+  Theorem C_cache_run tb tb2 c ds polls (m : mdd) : N < length c ->
+    compile st_eqb inp tb tb2 c ds polls = (m, Compiled) ->
+    forall d s th, cget st_eqb (m_cache m) s d = Some th ->
+      cget st_eqb c s d = Some th \/
+      exists j, d = rd + j /\ (exists pre r, frun pb rd rs rv pre = Some (s, r) /\ length pre = j) /\
+        forall v ds' s' v', (IMIN + 2 * B < v)%Z -> (v <= th_value th)%Z -> frun pb d s v ds' = Some (s', v') -> d + length ds' = N ->
+          (v' <= bk_of inp m)%Z \/ CaptC inp m (th_explored th) d s v ds' \/ LostC st_eqb inp c (S d) v'.
+  Proof.
+    intros Hcl Hc d s th Hg.
+    destruct (bridgeC tb tb2 c ds polls m Hcl Hc)
+      as (ml & m0 & bk & -> & HFS & HS & HX & HN & S_lay & S_edg & S_len & S_sk & S_ct & Hbk & Ebk & HCO).
+    exact (cache_runC st_eqb inp Hclean Hnocut Hwidth Hrd B c tb tb2 ml m0 bk HS HX S_len S_sk Ebk HCO d s th Hg).
+  Qed.
+
+  Lemma drain_ub_le_best (m : mdd) sp : In sp (drain_cutset inp m) ->
+    exists bv, dd_best_value inp m = Some bv /\ (sp_ub sp <= bv)%Z.
+  Proof.
+    unfold drain_cutset. destruct (dd_best_value inp m) as [bv|]; [|intros []].
+    intros Hsp. apply in_flat_map in Hsp. destruct Hsp as (id & _ & Hsp). cbv zeta in Hsp.
+    destruct (f_marked _); [|destruct Hsp]. destruct Hsp as [<-|[]]. exists bv. split; [reflexivity|].
+    cbn [sp_ub]. apply Z.le_min_r.
+  Qed.
+
+  (* an exact diagram: the best value is an exact one *)
+  Theorem C_exact_best tb tb2 c ds polls (m : mdd) : N < length c ->
+    compile st_eqb inp tb tb2 c ds polls = (m, Compiled) -> dd_is_exact m = true ->
+    forall bv, dd_best_value inp m = Some bv -> exists e, dd_best_exact_value inp m = Some e /\ (bv <= e)%Z.
+  Proof.
+    intros Hcl Hc Hex bv Hbv.
+    destruct (compile_unfoldC st_eqb st_eqb_spec inp Hclean Hnodom Hnocut Hwidth nv_some nv_none Hrd tb tb2 c ds polls Hcl)
+      as (ml & El & _ & HS & HX & Hcml & Ecomp).
+    rewrite Ecomp in Hc. inversion Hc as [Em]. clear Hc. subst m.
+    set (mf := finalize st_eqb inp tb tb2 ml) in *.
+    destruct (finalize_hdrC st_eqb inp Hclean tb tb2 ml) as (H1 & _ & H3 & H4). cbv zeta in H1, H3, H4. fold mf in H1, H3, H4.
+    unfold dd_best_value in Hbv. unfold dd_best_exact_value.
+    destruct (m_best mf) as [b|] eqn:Eb; [|cbn [option_map] in Hbv; discriminate Hbv]. cbn [option_map] in Hbv. inversion Hbv; subst bv.
+    destruct (m_has_ebp mf) eqn:Eebp.
+    - rewrite H4. exists (n_vtop (gn mf b)). split; [reflexivity|apply Z.le_refl].
+    - unfold dd_is_exact in Hex. rewrite Eebp, orb_false_r in Hex. rewrite Hex in H1.
+      destruct (m_lel ml) as [k|] eqn:Elel; [discriminate|].
+      assert (Hb : In b (m_next ml)).
+      { symmetry in H3. apply pick_In in H3. apply (argmax_candidates_In inp Hclean) in H3. exact H3. }
+      assert (Hxb : is_ex inp ml b = true).
+      { apply (Thresholds.all_exact_no_lel inp ml HX b Elel). apply (S_next _ _ HS). exact Hb. }
+      destruct (best_exact_geC st_eqb inp Hclean Hnocut Hwidth Hrd tb tb2 ml b HS HX Hb Hxb Eebp) as (be & Hbe & _ & Hle).
+      fold mf in Hbe, Hle. rewrite Hbe. exists (n_vtop (gn mf be)). split; [reflexivity|].
+      destruct (Thresholds.m5_fields inp Hclean tb tb2 ml HS HX b) as (_ & a2 & _).
+      unfold mf at 1. rewrite (mf_fieldC st_eqb inp tb tb2 ml (@n_vtop St) b) by reflexivity. rewrite a2. exact Hle.
+  Qed.
+End BridgeC.
+
+Local Open Scope nat_scope.
+
+
+(* ================================================================== 8. _finalize with the cache on: what _compute_thresholds leaves alone *)
+
+(* ================================================================== 12. a restricted compilation that never restricts is the relaxed one *)
+Definition rx {St} (i : @cinput St) : @cinput St :=
+  {| ci_flavour := ci_flavour i; ci_type := Relaxed; ci_problem := ci_problem i; ci_relax := ci_relax i;
+     ci_ranking := ci_ranking i; ci_domcmp := ci_domcmp i; ci_width := ci_width i; ci_root := ci_root i;
+     ci_best_lb := ci_best_lb i; ci_use_cache := ci_use_cache i; ci_domrule := ci_domrule i; ci_cutoff := ci_cutoff i |}.
+
+Definition with_ebp {St} (m : @mdd St) (b : bool) : @mdd St :=
+  {| m_nodes := m_nodes m; m_edges := m_edges m; m_layers := m_layers m; m_layer_end := m_layer_end m; m_next := m_next m;
+     m_curr_depth := m_curr_depth m; m_path := m_path m; m_lel := m_lel m; m_cutset := m_cutset m; m_best := m_best m;
+     m_best_exact := m_best_exact m; m_is_exact := m_is_exact m; m_has_ebp := b;
+     m_cache := m_cache m; m_dom := m_dom m; m_log := m_log m; m_polls := m_polls m; m_crash := m_crash m |}.
+
+Lemma filter_all {A} (f : A -> bool) (l : list A) : (forall x, In x l -> f x = true) -> filter f l = l.
+Proof.
+  induction l as [|x l IH]; intros H; [reflexivity|]. cbn [filter]. rewrite (H x (or_introl eq_refl)). f_equal.
+  apply IH. intros y Hy. apply H. right; exact Hy.
+Qed.
+
+Section TypeTwin.
+  Context {St : Type}.
+  Variable st_eqb : St -> St -> bool.
+  Hypothesis st_eqb_spec : forall a b, st_eqb a b = true <-> a = b.
+  Variable inp : @cinput St.
+  Hypothesis Hclean : ci_flavour inp = CleanLEL \/ ci_flavour inp = CleanFC.
+  Hypothesis Hres : ci_type inp = Restricted.
+  Notation inpR := (rx inp).
+  Notation mdd := (@mdd St).
+  Notation gn := (get_node inp).
+
+  Lemma HcleanR : ci_flavour inpR = CleanLEL \/ ci_flavour inpR = CleanFC.
+  Proof. exact Hclean. Qed.
+
+  (* ---------------------------------------------------------------- the loop *)
+  Lemma tw_prefilter (m : mdd) l : prefilter st_eqb inpR m l = prefilter st_eqb inp m l.
+  Proof. reflexivity. Qed.
+  Lemma tw_fwd (m : mdd) l : filter_with_dominance inpR m l = filter_with_dominance inp m l.
+  Proof. reflexivity. Qed.
+  Lemma tw_expand var (m : mdd) id : expand_node st_eqb inpR var m id = expand_node st_eqb inp var m id.
+  Proof. reflexivity. Qed.
+
+  Lemma mark_deleted_lel (m : mdd) l : m_lel (mark_deleted m l) = m_lel m.
+  Proof. unfold mark_deleted. apply (fold_left_proj (fun a : mdd => m_lel a)). intros; reflexivity. Qed.
+
+  Lemma note_squash_some (m : mdd) : m_lel (note_squash inp m) <> None.
+  Proof.
+    unfold note_squash. rewrite (not_pooled inp Hclean). destruct (m_lel m) eqn:E; [rewrite E; discriminate|].
+    cbn [m_lel with_lel_exact]. discriminate.
+  Qed.
+
+  Lemma restrict_some (m : mdd) l : m_lel (fst (restrict_layer inp m l)) <> None.
+  Proof. unfold restrict_layer. cbv zeta. cbn [fst]. rewrite mark_deleted_lel. apply note_squash_some. Qed.
+
+  Lemma squash_res (m : mdd) l :
+    squash_if_needed st_eqb inp m l = if Nat.ltb (ci_width inp) (length l) then restrict_layer inp m l else (m, l).
+  Proof. unfold squash_if_needed. rewrite Hres. reflexivity. Qed.
+
+  Lemma squash_lel_some (m : mdd) l : m_lel m <> None -> m_lel (fst (squash_if_needed st_eqb inp m l)) <> None.
+  Proof. intros H. rewrite squash_res. destruct (Nat.ltb _ _); [apply restrict_some|exact H]. Qed.
+
+  Lemma squash_twin (m : mdd) l : m_lel (fst (squash_if_needed st_eqb inp m l)) = None ->
+    squash_if_needed st_eqb inpR m l = squash_if_needed st_eqb inp m l.
+  Proof.
+    intros H. rewrite squash_res in H |- *. unfold squash_if_needed. cbn [rx ci_type ci_width].
+    destruct (Nat.ltb (ci_width inp) (length l)) eqn:E.
+    - exfalso. apply (restrict_some m l). exact H.
+    - reflexivity.
+  Qed.
+
+  Lemma prefilter_lel (m : mdd) l : m_lel (fst (prefilter st_eqb inp m l)) = m_lel m.
+  Proof.
+    unfold prefilter. destruct (Nat.ltb _ _); [|reflexivity].
+    destruct (filter_with_cache_ceq st_eqb inp Hclean l m) as [(_ & _ & _ & _ & E & _) _]. exact E.
+  Qed.
+  Lemma fwd_lel (m : mdd) l : m_lel (fst (filter_with_dominance inp m l)) = m_lel m.
+  Proof. destruct (filter_with_dominance_ceq inp m l) as [(_ & _ & _ & _ & E & _) _]. exact E. Qed.
+
+  Lemma move_lel_some (m : mdd) : m_lel m <> None -> m_lel (fst (move_to_next_layer_clean st_eqb inp m)) <> None.
+  Proof.
+    intros H. rewrite move_clean_unfold. destruct (m_next m) as [|c0 cs]; [exact H|].
+    pose proof (prefilter_lel (with_next m []) (c0 :: cs)) as H1.
+    destruct (prefilter st_eqb inp (with_next m []) (c0 :: cs)) as [m1 l1]. cbn [fst] in H1.
+    pose proof (fwd_lel m1 l1) as H2. destruct (filter_with_dominance inp m1 l1) as [m2 l2]. cbn [fst] in H2.
+    pose proof (squash_lel_some m2 l2) as H3. destruct (squash_if_needed st_eqb inp m2 l2) as [m3 l3]. cbn [fst] in *.
+    cbn [m_lel push_layer]. apply H3. rewrite H2, H1. exact H.
+  Qed.
+
+  Lemma move_twin (m : mdd) : m_lel (fst (move_to_next_layer_clean st_eqb inp m)) = None ->
+    move_to_next_layer_clean st_eqb inpR m = move_to_next_layer_clean st_eqb inp m.
+  Proof.
+    intros H. rewrite (move_clean_unfold st_eqb inpR). rewrite (move_clean_unfold st_eqb inp) in H |- *.
+    destruct (m_next m) as [|c0 cs]; [reflexivity|].
+    rewrite tw_prefilter. destruct (prefilter st_eqb inp (with_next m []) (c0 :: cs)) as [m1 l1].
+    rewrite tw_fwd. destruct (filter_with_dominance inp m1 l1) as [m2 l2].
+    rewrite (squash_twin m2 l2); [reflexivity|].
+    destruct (squash_if_needed st_eqb inp m2 l2) as [m3 l3]. cbn [fst] in H |- *. exact H.
+  Qed.
+
+  Lemma expand_lel var l (m : mdd) : m_lel (fold_left (expand_node st_eqb inp var) l m) = m_lel m.
+  Proof.
+    apply (fold_left_proj (fun a : mdd => m_lel a)). intros a x. unfold expand_node. cbv zeta.
+    destruct (_ >? _)%Z; [|reflexivity].
+    rewrite (fold_left_proj (fun a : mdd => m_lel a)); [reflexivity|].
+    intros a' d. unfold branch_on. cbv zeta.
+    match goal with |- context [find_next ?a ?b ?c ?d] => destruct (find_next a b c d) end; reflexivity.
+  Qed.
+
+  Lemma loop_lel_some : forall fuel (m : mdd), m_lel m <> None -> m_lel (fst (layer_loop st_eqb inp fuel m)) <> None.
+  Proof.
+    induction fuel as [|fuel IH]; intros m H; [exact H|].
+    rewrite layer_loop_iteration. cbv zeta.
+    destruct (next_variable _ _ _) as [var|]; [|exact H].
+    destruct (_ && _); [exact H|].
+    unfold loop_move. rewrite (not_pooled inp Hclean).
+    match goal with |- context [move_to_next_layer_clean st_eqb inp ?mm] =>
+      pose proof (move_lel_some mm H) as Hmv; destruct (move_to_next_layer_clean st_eqb inp mm) as [m2 ol] end.
+    cbn [fst] in Hmv. destruct ol as [l|]; [|exact Hmv].
+    apply IH. cbn [m_lel with_depth]. rewrite expand_lel. exact Hmv.
+  Qed.
+
+  Lemma loop_twin : forall fuel (m : mdd), m_lel (fst (layer_loop st_eqb inp fuel m)) = None ->
+    layer_loop st_eqb inpR fuel m = layer_loop st_eqb inp fuel m.
+  Proof.
+    induction fuel as [|fuel IH]; intros m H; [reflexivity|].
+    rewrite (layer_loop_iteration st_eqb inpR). rewrite (layer_loop_iteration st_eqb inp) in H |- *. cbv zeta in H |- *.
+    unfold loop_move in H |- *. rewrite (not_pooled inp Hclean) in H |- *. rewrite (not_pooled inpR HcleanR).
+    change (ci_problem inpR) with (ci_problem inp). change (ci_cutoff inpR) with (ci_cutoff inp).
+    change (get_node inpR) with (get_node inp).
+    match goal with |- context [next_variable ?p ?d ?s] => destruct (next_variable p d s) as [var|] end; [|reflexivity].
+    match goal with |- context [if ?c then _ else _] => destruct c end; [reflexivity|].
+    match goal with |- context [move_to_next_layer_clean st_eqb inp ?mm] => set (m1 := mm) in * end.
+    assert (Hm : m_lel (fst (move_to_next_layer_clean st_eqb inp m1)) = None).
+    { destruct (move_to_next_layer_clean st_eqb inp m1) as [m2 [l|]]; cbn [fst] in H |- *; [|exact H].
+      destruct (m_lel m2) as [k|] eqn:E2; [exfalso|reflexivity].
+      apply (loop_lel_some fuel (with_depth (fold_left (expand_node st_eqb inp var) l m2)
+                                   (S (m_curr_depth (fold_left (expand_node st_eqb inp var) l m2))))); [|exact H].
+      cbn [m_lel with_depth]. rewrite expand_lel, E2. discriminate. }
+    rewrite (move_twin m1 Hm). destruct (move_to_next_layer_clean st_eqb inp m1) as [m2 [l|]]; [|reflexivity].
+    change (expand_node st_eqb inpR var) with (expand_node st_eqb inp var). apply IH. exact H.
+  Qed.
+  (* ---------------------------------------------------------------- _finalize: the only difference is the has_exact_best_path flag *)
+  Lemma fold_ebp {A} (f : mdd -> A -> mdd) b : (forall a x, f (with_ebp a b) x = with_ebp (f a x) b) ->
+    forall l (m : mdd), fold_left f l (with_ebp m b) = with_ebp (fold_left f l m) b.
+  Proof. intros Hf l. induction l as [|x l IH]; intros m; [reflexivity|]. cbn [fold_left]. rewrite Hf. apply IH. Qed.
+
+  Lemma gn_ebp (m : mdd) b x : gn (with_ebp m b) x = gn m x.
+  Proof. reflexivity. Qed.
+  Lemma ge_ebp (m : mdd) b k : get_edge (with_ebp m b) k = get_edge m k.
+  Proof. reflexivity. Qed.
+  Lemma upd_ebp (m : mdd) b id f : upd_node (with_ebp m b) id f = with_ebp (upd_node m id f) b.
+  Proof. reflexivity. Qed.
+  Lemma wle_ebp (m : mdd) b l e : with_lel_exact (with_ebp m b) l e = with_ebp (with_lel_exact m l e) b.
+  Proof. reflexivity. Qed.
+  Lemma wcs_ebp (m : mdd) b cs : with_cutset (with_ebp m b) cs = with_ebp (with_cutset m cs) b.
+  Proof. reflexivity. Qed.
+
+  Lemma lel_cutset_ebp (m : mdd) k b : lel_cutset (with_ebp m b) k = with_ebp (lel_cutset m k) b.
+  Proof.
+    unfold lel_cutset. cbv zeta. change (m_layers (with_ebp m b)) with (m_layers m).
+    destruct (nth_error (m_layers m) k) as [ids|].
+    - rewrite (fold_ebp _ b) by (intros; apply upd_ebp).
+      match goal with |- context [with_cutset (with_ebp ?X b) ?cs] =>
+        change (with_cutset (with_ebp X b) cs) with (with_ebp (with_cutset X (m_cutset X ++ ids)) b) end.
+      match goal with |- fold_left ?f (concat (rev (firstn k (m_layers (with_ebp ?X b))))) _ = _ =>
+        change (m_layers (with_ebp X b)) with (m_layers X) end.
+      apply fold_ebp. intros; apply upd_ebp.
+    - change (m_layers (with_ebp m b)) with (m_layers m). apply fold_ebp. intros; apply upd_ebp.
+  Qed.
+
+  Lemma frontier_cutset_ebp (m : mdd) b : frontier_cutset inp (with_ebp m b) true = with_ebp (frontier_cutset inp m true) b.
+  Proof.
+    unfold frontier_cutset. change (bottom_up (with_ebp m b)) with (bottom_up m).
+    apply fold_ebp. intros a id. cbv zeta. rewrite gn_ebp.
+    destruct (fl_is_exact (n_flags (gn a id))); [apply upd_ebp|].
+    apply fold_ebp. intros a' eid. cbv zeta. rewrite ge_ebp, gn_ebp.
+    destruct (_ && _); reflexivity.
+  Qed.
+
+  Lemma lel_cutset_keeps (m : mdd) k :
+    m_lel (lel_cutset m k) = m_lel m /\ m_layers (lel_cutset m k) = m_layers m /\ m_is_exact (lel_cutset m k) = m_is_exact m.
+  Proof.
+    unfold lel_cutset. cbv zeta.
+    rewrite !(fold_left_proj (fun a : mdd => m_lel a)), !(fold_left_proj (fun a : mdd => m_layers a)),
+      !(fold_left_proj (fun a : mdd => m_is_exact a)) by (intros; reflexivity).
+    destruct (nth_error (m_layers m) k); [|repeat split].
+    cbn [m_lel m_layers m_is_exact with_cutset].
+    rewrite !(fold_left_proj (fun a : mdd => m_lel a)), !(fold_left_proj (fun a : mdd => m_layers a)),
+      !(fold_left_proj (fun a : mdd => m_is_exact a)) by (intros; reflexivity).
+    repeat split.
+  Qed.
+
+  Lemma frontier_cutset_keeps (m : mdd) :
+    m_lel (frontier_cutset inp m true) = m_lel m /\ m_layers (frontier_cutset inp m true) = m_layers m /\
+    m_is_exact (frontier_cutset inp m true) = m_is_exact m.
+  Proof.
+    assert (G : forall (X : Type) (g : mdd -> X), (forall a k f, g (upd_node a k f) = g a) -> (forall a cs, g (with_cutset a cs) = g a) ->
+                g (frontier_cutset inp m true) = g m).
+    { intros X g G1 G2. unfold frontier_cutset. apply (fold_left_proj g). intros a id. cbv zeta.
+      destruct (fl_is_exact _); [apply G1|].
+      apply (fold_left_proj g). intros a' eid. cbv zeta. destruct (_ && _); [|reflexivity]. rewrite G1, G2. reflexivity. }
+    split; [|split]; apply G; intros; reflexivity.
+  Qed.
+
+  Lemma fc_twin (m : mdd) b : m_is_exact m = true -> m_lel m = None ->
+    finalize_cutset inpR (with_ebp m b) = with_ebp (finalize_cutset inp m) b /\
+    m_lel (finalize_cutset inp m) = Some (length (m_layers m)) /\ m_layers (finalize_cutset inp m) = m_layers m /\
+    m_is_exact (finalize_cutset inp m) = true.
+  Proof.
+    intros Hex Hlel. unfold finalize_cutset. cbv zeta.
+    change (ci_flavour inpR) with (ci_flavour inp). change (ci_type inpR) with Relaxed.
+    change (m_is_exact (with_ebp m b)) with (m_is_exact m). change (m_lel (with_ebp m b)) with (m_lel m).
+    change (m_layers (with_ebp m b)) with (m_layers m).
+    rewrite Hres, Hex, Hlel. cbn [is_relaxed_ct orb]. rewrite wle_ebp.
+    destruct Hclean as [Hf|Hf]; rewrite Hf.
+    - change (m_lel (with_ebp (with_lel_exact m (Some (length (m_layers m))) true) b))
+        with (m_lel (with_lel_exact m (Some (length (m_layers m))) true)).
+      split; [apply lel_cutset_ebp|].
+      destruct (lel_cutset_keeps (with_lel_exact m (Some (length (m_layers m))) true)
+                  (opt_default 0 (m_lel (with_lel_exact m (Some (length (m_layers m))) true)))) as (K1 & K2 & K3).
+      rewrite K1, K2, K3. repeat split.
+    - split; [apply frontier_cutset_ebp|].
+      destruct (frontier_cutset_keeps (with_lel_exact m (Some (length (m_layers m))) true)) as (K1 & K2 & K3).
+      rewrite K1, K2, K3. repeat split.
+  Qed.
+
+  Lemma clb_inp (m : mdd) : compute_local_bounds inp m = m.
+  Proof. unfold compute_local_bounds. cbv zeta. rewrite Hres. cbn [is_relaxed_ct]. rewrite andb_false_r. reflexivity. Qed.
+
+  Lemma clb_inpR (m : mdd) : Nat.ltb (opt_default 0 (m_lel m)) (length (m_layers m)) = false -> compute_local_bounds inpR m = m.
+  Proof.
+    intros H. unfold compute_local_bounds. cbv zeta. change (ci_flavour inpR) with (ci_flavour inp).
+    rewrite (not_pooled inp Hclean), H. reflexivity.
+  Qed.
+
+  Lemma th_preset_ebp bk (m : mdd) b : th_preset inp bk (with_ebp m b) = with_ebp (th_preset inp bk m) b.
+  Proof.
+    unfold th_preset. change (m_next (with_ebp m b)) with (m_next m). apply fold_ebp. intros a id. cbv zeta.
+    change (m_is_exact (with_ebp a b)) with (m_is_exact a). rewrite gn_ebp.
+    match goal with |- context [if ?c then _ else _] => destruct c end; reflexivity.
+  Qed.
+
+  Lemma cache_update_ebp (m : mdd) b s d v e : cache_update st_eqb inp (with_ebp m b) s d v e = with_ebp (cache_update st_eqb inp m s d v e) b.
+  Proof.
+    unfold cache_update. cbv zeta. destruct (ci_use_cache inp); [|reflexivity].
+    change (m_cache (add_log (with_ebp m b) (EvCacheUpd s d v e))) with (m_cache (add_log m (EvCacheUpd s d v e))).
+    destruct (update_threshold _ _ _ _ _ _); reflexivity.
+  Qed.
+
+  Lemma muc_ebp (m : mdd) b id : maybe_update_cache st_eqb inp (with_ebp m b) id = with_ebp (maybe_update_cache st_eqb inp m id) b.
+  Proof.
+    unfold maybe_update_cache. cbv zeta. rewrite gn_ebp. destruct (n_theta (gn m id)); [|reflexivity].
+    destruct (f_above _); [apply cache_update_ebp|reflexivity].
+  Qed.
+
+  Lemma th_own_ebp bk (a : mdd) b id : th_own st_eqb inp bk (with_ebp a b) id = with_ebp (th_own st_eqb inp bk a id) b.
+  Proof.
+    unfold th_own. cbv zeta. rewrite gn_ebp. destruct (negb _); [|reflexivity].
+    repeat match goal with |- context [if ?c then _ else _] => destruct c end; rewrite ?upd_ebp; apply muc_ebp.
+  Qed.
+
+  Lemma th_prop_ebp (a : mdd) b id : th_prop inp (with_ebp a b) id = with_ebp (th_prop inp a id) b.
+  Proof.
+    unfold th_prop. rewrite gn_ebp. destruct (n_theta (gn a id)); [|reflexivity].
+    apply fold_ebp. intros a' eid. unfold prop_step. cbv zeta. rewrite ge_ebp. reflexivity.
+  Qed.
+
+  Lemma th_step_ebp bk (a : mdd) b id : th_step st_eqb inp bk (with_ebp a b) id = with_ebp (th_step st_eqb inp bk a id) b.
+  Proof.
+    unfold th_step. rewrite gn_ebp. destruct (f_deleted _); [reflexivity|]. rewrite th_own_ebp. apply th_prop_ebp.
+  Qed.
+
+  Lemma ct_twin (m : mdd) b : m_is_exact m = true ->
+    compute_thresholds st_eqb inpR (with_ebp m b) = with_ebp (compute_thresholds st_eqb inp m) b.
+  Proof.
+    intros Hex. rewrite (Thresholds.compute_thresholds_unfold st_eqb inpR), (Thresholds.compute_thresholds_unfold st_eqb inp).
+    change (ci_type inpR) with Relaxed. change (m_is_exact (with_ebp m b)) with (m_is_exact m).
+    change (m_best_exact (with_ebp m b)) with (m_best_exact m).
+    rewrite Hres, Hex. cbn [is_relaxed_ct orb].
+    change (ci_best_lb inpR) with (ci_best_lb inp). change (th_step st_eqb inpR) with (th_step st_eqb inp).
+    change (th_preset inpR) with (th_preset inp). change (get_node inpR) with (get_node inp).
+    destruct (m_best_exact m) as [be|].
+    - cbv zeta. rewrite gn_ebp. rewrite th_preset_ebp.
+      match goal with |- context [bottom_up (with_ebp ?X b)] => change (bottom_up (with_ebp X b)) with (bottom_up X) end.
+      apply fold_ebp. intros; apply th_step_ebp.
+    - change (bottom_up (with_ebp m b)) with (bottom_up m). apply fold_ebp. intros; apply th_step_ebp.
+  Qed.
+
+  Lemma finalize_twin tb (ml : mdd) : Sinv inp ml -> Xs inp ml -> m_lel ml = None ->
+    exists e, finalize st_eqb inpR tb tb ml = with_ebp (finalize st_eqb inp tb tb ml) e.
+  Proof.
+    intros HS HX Hlel. unfold finalize.
+    change (finalize_layers inpR ml) with (finalize_layers inp ml).
+    change (find_best_node inpR tb tb (finalize_layers inp ml)) with (find_best_node inp tb tb (finalize_layers inp ml)).
+    set (m1 := finalize_layers inp ml).
+    set (m2 := find_best_node inp tb tb m1).
+    destruct (finalize_layers_fields inp Hclean ml) as (F1 & F2 & F3 & F4 & F5). fold m1 in F1, F2, F3, F4, F5.
+    (* the best node and the best exact node coincide *)
+    assert (Hbest : m_best m2 = m_best_exact m2).
+    { unfold m2, find_best_node. cbv zeta. cbn [m_best m_best_exact with_best]. f_equal. f_equal.
+      symmetry. apply filter_all. intros x Hx. rewrite F2 in Hx.
+      assert (Hlt : x < length (m_nodes ml)) by (apply (S_next _ _ HS); exact Hx).
+      pose proof (X_lel_none _ _ _ HX Hlel x Hlt) as Hxx. unfold is_ex in Hxx.
+      rewrite (gn_nodes_eq inp ml m1 x F1). exact Hxx. }
+    set (e := has_exact_best_path inp (S (length (m_nodes m2))) m2 (m_best m2)).
+    assert (E3 : finalize_exact inpR m2 = with_ebp (finalize_exact inp m2) e).
+    { unfold finalize_exact. change (ci_flavour inpR) with (ci_flavour inp). change (ci_type inpR) with Relaxed.
+      change (has_exact_best_path inpR) with (has_exact_best_path inp).
+      rewrite Hres. cbn [is_relaxed_ct andb]. fold e. unfold with_ebp.
+      cbn [m_nodes m_edges m_layers m_layer_end m_next m_curr_depth m_path m_lel m_cutset m_best m_best_exact m_is_exact
+           m_has_ebp m_cache m_dom m_log m_polls m_crash].
+      destruct e; [rewrite Hbest|]; reflexivity. }
+    rewrite E3. set (m3 := finalize_exact inp m2).
+    assert (Hlel3 : m_lel m3 = None).
+    { unfold m3, finalize_exact. cbn [m_lel]. unfold m2, find_best_node. cbn [m_lel with_best]. rewrite F3. exact Hlel. }
+    assert (Hex3 : m_is_exact m3 = true).
+    { unfold m3, finalize_exact. cbv zeta. cbn [m_is_exact]. rewrite (not_pooled inp Hclean).
+      change (m_lel m2) with (m_lel m1). rewrite F3, Hlel. reflexivity. }
+    destruct (fc_twin m3 e Hex3 Hlel3) as (T1 & T2 & T3 & T4). rewrite T1.
+    rewrite clb_inp. rewrite clb_inpR.
+    - exists e. apply ct_twin. exact T4.
+    - change (m_lel (with_ebp (finalize_cutset inp m3) e)) with (m_lel (finalize_cutset inp m3)).
+      change (m_layers (with_ebp (finalize_cutset inp m3) e)) with (m_layers (finalize_cutset inp m3)).
+      rewrite T2, T3. cbn [opt_default]. apply Nat.ltb_irrefl.
+  Qed.
+
+  (* ---------------------------------------------------------------- compile *)
+  Theorem restricted_exact_twin tb c ds polls (m : mdd) :
+    compile st_eqb inp tb tb c ds polls = (m, Compiled) -> m_is_exact m = true ->
+    exists e, compile st_eqb inpR tb tb c ds polls = (with_ebp m e, Compiled).
+  Proof.
+    intros Hc Hex. unfold compile in Hc |- *. cbv zeta in Hc |- *.
+    change (initialize inpR c ds polls) with (initialize inp c ds polls).
+    change (ci_problem inpR) with (ci_problem inp).
+    set (fuel := S (S (nb_vars (ci_problem inp)))) in *.
+    destruct (layer_loop_Sinv st_eqb st_eqb_spec inp Hclean fuel c ds polls) as [HS HX].
+    destruct (layer_loop st_eqb inp fuel (initialize inp c ds polls)) as [ml e] eqn:El.
+    destruct e; [|discriminate|discriminate]. inversion Hc; subst m. clear Hc. cbn [fst] in HS, HX.
+    destruct (finalize_hdrC st_eqb inp Hclean tb tb ml) as (H1 & _). cbv zeta in H1. rewrite Hex in H1.
+    destruct (m_lel ml) as [k|] eqn:Elel; [discriminate|].
+    rewrite loop_twin by (rewrite El; exact Elel). rewrite El.
+    destruct (finalize_twin tb ml HS HX Elel) as [e He]. exists e. rewrite He. reflexivity.
+  Qed.
+End TypeTwin.
+
+Section RestrictedInexact.
+  Context {St : Type}.
+  Variable st_eqb : St -> St -> bool.
+  Hypothesis st_eqb_spec : forall a b, st_eqb a b = true <-> a = b.
+  Variable inp : @cinput St.
+  Let pb := ci_problem inp.
+  Let N := nb_vars pb.
+  Hypothesis Hclean : ci_flavour inp = CleanLEL \/ ci_flavour inp = CleanFC.
+  Hypothesis Hnodom : ci_domrule inp = None.
+  Hypothesis Hnocut : ci_cutoff inp = 0.
+  Hypothesis Hwidth : 1 <= ci_width inp.
+  Hypothesis Hres : ci_type inp = Restricted.
+  Hypothesis Hrd : sp_depth (ci_root inp) <= N.
+  Hypothesis nv_some : forall k l, k < N -> exists x, next_variable pb k l = Some x.
+  Hypothesis nv_none : forall k l, N <= k -> next_variable pb k l = None.
+  Notation mdd := (@mdd St).
+
+  (* a restricted compilation that did restrict leaves the cache alone; it never claims an exact best path *)
+  Theorem restricted_facts tb tb2 c ds polls (m : mdd) : N < length c ->
+    compile st_eqb inp tb tb2 c ds polls = (m, Compiled) ->
+    m_has_ebp m = false /\ (m_is_exact m = false -> m_cache m = c).
+  Proof.
+    intros Hcl Hc.
+    destruct (compile_unfoldC st_eqb st_eqb_spec inp Hclean Hnodom Hnocut Hwidth nv_some nv_none Hrd tb tb2 c ds polls Hcl)
+      as (ml & El & _ & HS & HX & Hcml & Ecomp).
+    rewrite Ecomp in Hc. inversion Hc as [Em]. clear Hc.
+    destruct (finalize_hdrC st_eqb inp Hclean tb tb2 ml) as (_ & H2 & _). cbv zeta in H2.
+    split.
+    - destruct (m_has_ebp (finalize st_eqb inp tb tb2 ml)) eqn:E; [|reflexivity].
+      rewrite (H2 eq_refl) in Hres. discriminate.
+    - intros Hne.
+      set (m5 := compute_local_bounds inp (finalize_cutset inp (finalize_exact inp
+                   (find_best_node inp tb tb2 (finalize_layers inp ml))))).
+      assert (EM0 : finalize st_eqb inp tb tb2 ml = compute_thresholds st_eqb inp m5) by reflexivity.
+      assert (Hex5 : m_is_exact m5 = false).
+      { rewrite <- Hne, EM0. symmetry.
+        apply (proj_compute_thresholdsC st_eqb inp (fun a : mdd => m_is_exact a)); intros; reflexivity. }
+      rewrite EM0, Thresholds.compute_thresholds_unfold, Hres, Hex5. cbn [is_relaxed_ct orb].
+      assert (Hins : MddProgress.insens (fun a : mdd => m_cache a)) by (repeat split).
+      rewrite <- Hcml. unfold m5.
+      rewrite (MddProgress.ins_compute_local_bounds inp _ Hins).
+      rewrite (MddProgress.ins_finalize_cutset inp Hclean _ Hins) by (intros; reflexivity).
+      unfold finalize_exact, find_best_node, finalize_layers. cbv zeta. rewrite (not_pooled inp Hclean).
+      destruct (m_next ml); reflexivity.
+  Qed.
+End RestrictedInexact.
+
+Local Open Scope Z_scope.
+
+(* ================================================================== 13. the semantic contract, for one relaxed compilation *)
+Section KRel.
+  Context {St : Type}.
+  Variable st_eqb : St -> St -> bool.
+  Hypothesis st_eqb_spec : forall a b, st_eqb a b = true <-> a = b.
+  Variable inp : @cinput St.
+  Let pb := ci_problem inp.
+  Let rlx := ci_relax inp.
+  Let root := ci_root inp.
+  Let lb := ci_best_lb inp.
+  Let N := nb_vars pb.
+  Let rd := sp_depth root.
+  Let rs := sp_state root.
+  Let rv := sp_value root.
+  Hypothesis Hclean : ci_flavour inp = CleanLEL \/ ci_flavour inp = CleanFC.
+  Hypothesis Hnodom : ci_domrule inp = None.
+  Hypothesis Hnocut : ci_cutoff inp = 0%nat.
+  Hypothesis Hwidth : (1 <= ci_width inp)%nat.
+  Hypothesis Hrel : ci_type inp = Relaxed.
+  Hypothesis Hrd : (rd <= N)%nat.
+  Hypothesis nv_static : forall k l1 l2, next_variable pb k l1 = next_variable pb k l2.
+  Hypothesis nv_some : forall k l, (k < N)%nat -> exists x, next_variable pb k l = Some x.
+  Hypothesis nv_none : forall k l, (N <= k)%nat -> next_variable pb k l = None.
+  Variable cov : St -> St -> Prop.
+  Hypothesis cov_refl : forall s, cov s s.
+  Hypothesis cov_sim : forall s s' x v, cov s s' -> In v (domain pb x s') ->
+    let d := {| d_var := x; d_val := v |} in
+    In v (domain pb x s) /\ cov (transition pb s d) (transition pb s' d) /\
+    (transition_cost pb s' (transition pb s' d) d <= transition_cost pb s (transition pb s d) d)%Z.
+  Hypothesis merge_cov : forall L s s', In s L -> cov s s' -> cov (merge rlx L) s'.
+  Hypothesis relax_ge : forall src dst mg d c, (c <= relax rlx src dst mg d c)%Z.
+  Hypothesis rub_adm : forall k s s' h, cov s s' -> H pb k s' = Some h -> (h <= fast_upper_bound rlx s)%Z.
+  Variable B : Z.
+  Hypothesis HB3 : 3 * B <= IMAX.
+  Hypothesis HB0 : 0 <= B.
+  Hypothesis Hguard : forall ds s' v', frun pb rd rs rv ds = Some (s', v') -> - B <= v' <= B.
+
+  Variables (tb tb2 : nat) (c : @cache St) (ds : @dstore St Z) (polls : nat) (m : @mdd St).
+  Hypothesis Hcl : (N < length c)%nat.
+  Hypothesis Hc : compile st_eqb inp tb tb2 c ds polls = (m, Compiled).
+
+  (* o bounds every complete run through the root of this compilation (it is the global optimum) *)
+  Variable o : Z.
+  Hypothesis Hopt : forall ds' s' v', frun pb rd rs rv ds' = Some (s', v') -> (rd + length ds' = N)%nat -> v' <= o.
+  Hypothesis Hlb : lb < o.
+  Variable P : nat -> Prop.
+  Hypothesis Hanti : forall d d', (d' <= d)%nat -> P d -> P d'.
+  Hypothesis HCS : forall d s0 th, (rd < d)%nat -> cget st_eqb c s0 d = Some th ->
+    (exists h, H pb d s0 = Some h /\ o <= th_value th + h) -> P d.
+
+  Definition bestv (sp : @subproblem St) : option Z := oadd (sp_value sp) (H pb (sp_depth sp) (sp_state sp)).
+
+  Lemma HB2 : 2 * B <= IMAX.
+  Proof. lia. Qed.
+
+  Lemma lost_P dmin v : (rd < dmin)%nat -> o <= v -> LostC st_eqb inp c dmin v -> P dmin.
+  Proof.
+    intros Hd Hv (d & s0 & th & h & L1 & L2 & L3 & L4). apply (Hanti d dmin L1).
+    apply (HCS d s0 th); [lia|exact L2|]. exists h. split; [exact L3|lia].
+  Qed.
+
+  Lemma capt_best e d s w ds' s' v' : CaptC inp m e d s w ds' -> frun pb d s w ds' = Some (s', v') -> (d + length ds' = N)%nat ->
+    exists sp ox (ds1 : list decision), In sp (drain_cutset inp m) /\ bestv sp = Some ox /\ v' <= ox /\ sp_depth sp = (d + length ds1)%nat /\
+      (ds1 = [] -> sp_state sp = s /\ w <= sp_value sp) /\ (e = true -> ds1 <> []).
+  Proof.
+    intros (sp & ds1 & ds2 & s1 & w1 & C1 & -> & C3 & C4 & C5 & C6 & C7) Hr Hlen.
+    fold pb in C3. rewrite frun_app, C3 in Hr. rewrite app_length in Hlen.
+    destruct (frun_le_H pb nv_static nv_none ds2 (d + length ds1) s1 w1 s' v' ltac:(lia) Hr) as (h & Hh & Hle).
+    exists sp, (sp_value sp + h), ds1. split; [exact C1|].
+    split; [unfold bestv; rewrite C5, C4, Hh; reflexivity|]. split; [lia|]. split; [exact C5|]. split; [|exact C7].
+    intros ->. cbn [frun] in C3. inversion C3; subst. split; [reflexivity|lia].
+  Qed.
+
+  Lemma bk_ge_lb : lb <= bk_of inp m.
+  Proof. unfold bk_of, lb. destruct (m_best_exact m); lia. Qed.
+
+  Lemma bk_bev e : dd_best_exact_value inp m = Some e -> e <= bk_of inp m.
+  Proof. unfold dd_best_exact_value, bk_of. destruct (m_best_exact m); [|discriminate]. cbn [option_map]. intros E; inversion E. lia. Qed.
+
+  Lemma le_bk_bev : o <= bk_of inp m -> exists e, dd_best_exact_value inp m = Some e /\ o <= e.
+  Proof.
+    unfold dd_best_exact_value, bk_of. fold lb. destruct (m_best_exact m) as [be|]; [|lia].
+    intros Hle. exists (n_vtop (get_node inp m be)). split; [reflexivity|lia].
+  Qed.
+
+  Lemma drain_depth x : In x (drain_cutset inp m) -> (rd < sp_depth x <= N)%nat.
+  Proof.
+    intros Hx. exact (cutset_depthC st_eqb st_eqb_spec inp Hclean Hnodom Hnocut Hwidth nv_some nv_none Hrd
+                        tb tb2 c ds polls m Compiled x Hcl Hrel Hc Hx).
+  Qed.
+
+  (* (c) a sub-problem that holds o *)
+  Theorem R4 : oadd rv (H pb rd rs) = Some o ->
+    (exists e, dd_best_exact_value inp m = Some e /\ o <= e) \/
+    (exists x ox, In x (drain_cutset inp m) /\ bestv x = Some ox /\ o <= ox) \/ P (S rd).
+  Proof.
+    intros Hb. destruct (H pb rd rs) as [h|] eqn:Eh; [|discriminate]. cbn [oadd option_map] in Hb. assert (Eo : rv + h = o) by congruence.
+    destruct (H_attained pb nv_static nv_some nv_none (N - rd) rd rs rv h eq_refl Hrd Eh) as (ds' & s' & Hr & Hl).
+    destruct (C_root_run st_eqb st_eqb_spec inp Hclean Hnodom Hnocut Hwidth Hrel Hrd nv_static nv_some nv_none
+                cov cov_refl cov_sim merge_cov relax_ge rub_adm B HB2 Hguard tb tb2 c ds polls m Hcl Hc ds' s' (rv + h) Hr Hl)
+      as [H1|[H1|H1]].
+    - left. apply le_bk_bev. lia.
+    - right; left. destruct (capt_best false rd rs rv ds' s' (rv + h) H1 Hr Hl) as (sp & ox & ds1 & A1 & A2 & A3 & _).
+      exists sp, ox. split; [exact A1|]. split; [exact A2|lia].
+    - right; right. apply (lost_P (S rd) (rv + h)); [lia|lia|exact H1].
+  Qed.
+
+  (* (b) the upper bound of a cut-set node that holds at least o *)
+  Theorem R3 x ox : In x (drain_cutset inp m) -> bestv x = Some ox -> o <= ox -> ox <= sp_ub x \/ P (S (sp_depth x)).
+  Proof.
+    intros Hx Hb Hle. destruct (drain_depth x Hx) as [D1 D2].
+    unfold bestv in Hb. destruct (H pb (sp_depth x) (sp_state x)) as [h|] eqn:Eh; [|discriminate].
+    cbn [oadd option_map] in Hb. assert (Eo : sp_value x + h = ox) by congruence.
+    destruct (H_attained pb nv_static nv_some nv_none (N - sp_depth x) (sp_depth x) (sp_state x) (sp_value x) h eq_refl D2 Eh)
+      as (ds' & s' & Hr & Hl).
+    destruct (C_ub_run st_eqb st_eqb_spec inp Hclean Hnodom Hnocut Hwidth Hrel Hrd nv_static nv_some nv_none
+                cov cov_refl cov_sim merge_cov relax_ge rub_adm B HB2 Hguard tb tb2 c ds polls m Hcl Hc x ds' s' _ Hx Hr Hl)
+      as [H1|[H1|H1]].
+    - exfalso. fold lb in H1. lia.
+    - right. apply (lost_P (S (sp_depth x)) (sp_value x + h)); [lia|lia|exact H1].
+    - left. lia.
+  Qed.
+
+  Lemma exact_ub x : dd_is_exact m = true -> In x (drain_cutset inp m) ->
+    exists e, dd_best_exact_value inp m = Some e /\ sp_ub x <= e.
+  Proof.
+    intros Hex Hx. destruct (drain_ub_le_best inp m x Hx) as (bv & Hbv & Hle).
+    destruct (C_exact_best st_eqb st_eqb_spec inp Hclean Hnodom Hnocut Hwidth Hrd nv_some nv_none tb tb2 c ds polls m Hcl Hc Hex bv Hbv)
+      as (e & He & Hle2).
+    exists e. split; [exact He|lia].
+  Qed.
+
+  (* (a) an exact diagram *)
+  Theorem R2 : dd_is_exact m = true -> oadd rv (H pb rd rs) = Some o ->
+    (exists e, dd_best_exact_value inp m = Some e /\ o <= e) \/ P (S rd).
+  Proof.
+    intros Hex Hb. destruct (R4 Hb) as [H1|[(x & ox & X1 & X2 & X3)|H1]]; [left; exact H1| |right; exact H1].
+    destruct (R3 x ox X1 X2 X3) as [H2|H2].
+    - left. destruct (exact_ub x Hex X1) as (e & He & Hle). exists e. split; [exact He|lia].
+    - right. destruct (drain_depth x X1) as [D1 _]. apply (Hanti (S (sp_depth x))); [lia|exact H2].
+  Qed.
+
+  (* (d) the entries of the final cache *)
+  Theorem RW d s0 th : cget st_eqb (m_cache m) s0 d = Some th ->
+    (exists h, H pb d s0 = Some h /\ o <= th_value th + h) ->
+    cget st_eqb c s0 d = Some th \/ o <= bk_of inp m \/ P (S d) \/
+    (dd_is_exact m = false /\
+     exists x ox, In x (drain_cutset inp m) /\ bestv x = Some ox /\ o <= ox /\
+       ((d < sp_depth x)%nat \/ (sp_depth x = d /\ sp_state x = s0 /\ must_explore_th (Some th) (sp_value x) = true))).
+  Proof.
+    intros Hg (h & Hh & Hle).
+    destruct (C_cache_run st_eqb st_eqb_spec inp Hclean Hnodom Hnocut Hwidth Hrel Hrd nv_static nv_some nv_none
+                cov cov_refl cov_sim merge_cov relax_ge rub_adm B HB2 Hguard tb tb2 c ds polls m Hcl Hc d s0 th Hg)
+      as [H1|(j & Ed & (pre & r & Hpre & Hlen) & Hall)]; [left; exact H1|right].
+    assert (Ed' : d = (rd + j)%nat) by exact Ed. clear Ed.
+    assert (Hpre' : frun pb rd rs rv pre = Some (s0, r)) by exact Hpre. clear Hpre.
+    assert (Hall' : forall v ds' s' v', IMIN + 2 * B < v -> v <= th_value th -> frun pb d s0 v ds' = Some (s', v') ->
+              (d + length ds' = N)%nat ->
+              v' <= bk_of inp m \/ CaptC inp m (th_explored th) d s0 v ds' \/ LostC st_eqb inp c (S d) v') by exact Hall.
+    clear Hall. rename Ed' into Ed. rename Hpre' into Hpre. rename Hall' into Hall.
+    assert (HdN : (d <= N)%nat).
+    { assert (Hl : (rd + length pre <= N)%nat) by exact (MddSim.frun_len_le inp Hnocut Hwidth Hrd nv_none pre rd rs rv _ Hpre Hrd). lia. }
+    (* the state of the entry is reachable: its best completion is a run through the root *)
+    destruct (H_attained pb nv_static nv_some nv_none (N - d) d s0 r h eq_refl HdN Hh) as (ds1 & s1 & Hr1 & Hl1).
+    assert (Hfull : frun pb rd rs rv (pre ++ ds1) = Some (s1, r + h)).
+    { rewrite frun_app, Hpre, Hlen, <- Ed. exact Hr1. }
+    pose proof (Hopt _ _ _ Hfull ltac:(rewrite app_length; lia)) as Ho.
+    destruct (Hguard _ _ _ Hpre) as [Gr _].
+    set (t := th_value th) in *.
+    assert (Ht : IMIN + 2 * B < t) by (unfold IMIN, IMAX in *; lia).
+    destruct (H_attained pb nv_static nv_some nv_none (N - d) d s0 t h eq_refl HdN Hh) as (ds2 & s2 & Hr2 & Hl2).
+    destruct (Hall t ds2 s2 (t + h) Ht (Z.le_refl _) Hr2 Hl2) as [H1|[H1|H1]].
+    - left. lia.
+    - destruct (capt_best (th_explored th) d s0 t ds2 s2 (t + h) H1 Hr2 Hl2) as (sp & ox & dsa & A1 & A2 & A3 & A4 & A5 & A6).
+      destruct (dd_is_exact m) eqn:Eex.
+      + destruct (R3 sp ox A1 A2 ltac:(lia)) as [H2|H2].
+        * left. destruct (exact_ub sp Eex A1) as (e & He & Hle2). pose proof (bk_bev e He). lia.
+        * right; left. apply (Hanti (S (sp_depth sp))); [lia|exact H2].
+      + right; right. split; [reflexivity|]. exists sp, ox. split; [exact A1|]. split; [exact A2|]. split; [lia|].
+        destruct dsa as [|da dsa].
+        * right. destruct (A5 eq_refl) as [E1 E2]. split; [rewrite A4; simpl; lia|]. split; [exact E1|].
+          unfold must_explore_th. fold t.
+          destruct (th_explored th) eqn:Ee; [exfalso; apply (A6 eq_refl); reflexivity|].
+          destruct (Z.gtb_spec (sp_value sp) t) as [Hgt|Hng]; [reflexivity|].
+          assert (E : sp_value sp = t) by lia. rewrite E, Z.eqb_refl. reflexivity.
+        * left. rewrite A4. simpl. lia.
+    - right; left. apply (lost_P (S d) (t + h)); [lia|lia|exact H1].
+  Qed.
+End KRel.
+
+(* ================================================================== 14. KC_cache holds for Mdd.compile *)
+Section CacheHolds.
+  Context {St : Type}.
+  Variable st_eqb : St -> St -> bool.
+  Hypothesis st_eqb_spec : forall a b, st_eqb a b = true <-> a = b.
+  Variable cfg : @sconfig St.
+  Local Notation pb := (sc_problem cfg).
+  Local Notation rlx := (sc_relax cfg).
+  Local Notation N := (nb_vars (sc_problem cfg)).
+  Hypothesis cfg_clean : sc_flavour cfg = CleanLEL \/ sc_flavour cfg = CleanFC.
+  Hypothesis cfg_nodom : sc_domrule cfg = None.
+  Hypothesis cfg_nocut : sc_cutoff cfg = 0%nat.
+  Hypothesis cfg_width : (1 <= sc_width cfg)%nat.
+  Hypothesis nv_static : forall k l1 l2, next_variable pb k l1 = next_variable pb k l2.
+  Hypothesis nv_some : forall k l, (k < N)%nat -> exists x, next_variable pb k l = Some x.
+  Hypothesis nv_none : forall k l, (N <= k)%nat -> next_variable pb k l = None.
+  Variable cov : St -> St -> Prop.
+  Hypothesis cov_refl : forall s, cov s s.
+  Hypothesis cov_sim : forall s s' x v, cov s s' -> In v (domain pb x s') ->
+    let d := {| d_var := x; d_val := v |} in
+    In v (domain pb x s) /\ cov (transition pb s d) (transition pb s' d) /\
+    (transition_cost pb s' (transition pb s' d) d <= transition_cost pb s (transition pb s d) d)%Z.
+  Hypothesis merge_cov : forall L s s', In s L -> cov s s' -> cov (merge rlx L) s'.
+  Hypothesis relax_ge : forall src dst mg d c, (c <= relax rlx src dst mg d c)%Z.
+  Hypothesis rub_adm : forall k s s' h, cov s s' -> H pb k s' = Some h -> (h <= fast_upper_bound rlx s)%Z.
+  Variable B : Z.
+  Hypothesis HB3 : 3 * B <= IMAX.
+  Hypothesis guard0 : forall ds s' v', frun pb 0 (init_state pb) (init_value pb) ds = Some (s', v') -> - B <= v' <= B.
+
+  Local Notation good := (sgood (sc_problem cfg)).
+  Local Notation bst := (MddSim.best cfg).
+
+  Lemma B_nonneg : 0 <= B.
+  Proof. pose proof (guard0 [] (init_state pb) (init_value pb) eq_refl). lia. Qed.
+
+  Lemma gguard3 n : good n -> forall ds s' v',
+    frun pb (sp_depth n) (sp_state n) (sp_value n) ds = Some (s', v') -> - B <= v' <= B.
+  Proof. apply sgood_guard. exact guard0. Qed.
+
+  Lemma good_opt n o : good n -> opt_enum pb = Some o -> forall ds' s' v',
+    frun pb (sp_depth n) (sp_state n) (sp_value n) ds' = Some (s', v') -> (sp_depth n + length ds' = N)%nat -> v' <= o.
+  Proof.
+    intros (Hd & ds0 & G1 & _ & G3) Ho ds' s' v' Hr Hl.
+    assert (Hfull : frun pb 0 (init_state pb) (init_value pb) (ds0 ++ ds') = Some (s', v')).
+    { rewrite frun_app, G3, G1. exact Hr. }
+    destruct (frun_le_H pb nv_static nv_none (ds0 ++ ds') 0%nat _ _ s' v' ltac:(rewrite app_length; lia) Hfull) as (h & Hh & Hle).
+    unfold opt_enum in Ho. rewrite opt_enum_from_H, Hh in Ho. cbn [oadd option_map] in Ho. inversion Ho. lia.
+  Qed.
+
+  Lemma lenC (c : @cache St) : length c = S N -> (N < length c)%nat.
+  Proof. intros E. rewrite E. lia. Qed.
+
+  Lemma compiled ct n lb c ds polls m out : (sp_depth n <= N)%nat -> length c = S N ->
+    compile st_eqb (mk_input cfg ct n lb) 0 0 c ds polls = (m, out) -> out = Compiled.
+  Proof.
+    intros Hd Hl Hc.
+    exact (proj1 (compile_completesC st_eqb st_eqb_spec (mk_input cfg ct n lb) cfg_clean cfg_nodom cfg_nocut cfg_width
+                    nv_some nv_none Hd 0%nat 0%nat c ds polls m out (lenC c Hl) Hc)).
+  Qed.
+
+  (* ---------------------------------------------------------------- relaxed compilations *)
+  Section Rel.
+    Variables (n : @subproblem St) (lb : Z) (c : @cache St) (ds : @dstore St Z) (polls : nat) (m : @mdd St).
+    Hypothesis Hg : good n.
+    Hypothesis Hd : (sp_depth n <= N)%nat.
+    Hypothesis Hl : length c = S N.
+    Hypothesis Hc : compile st_eqb (mk_input cfg Relaxed n lb) 0 0 c ds polls = (m, Compiled).
+    Variables (o : Z) (P : nat -> Prop).
+    Hypothesis Ho : opt_enum pb = Some o.
+    Hypothesis Hanti : antitone P.
+    Hypothesis HCS : CS st_eqb cfg (sp_depth n) c o P.
+    Local Notation inp := (mk_input cfg Relaxed n lb).
+
+    Lemma HCS' : forall d s0 th, (sp_depth n < d)%nat -> cget st_eqb c s0 d = Some th ->
+      (exists h, H pb d s0 = Some h /\ o <= th_value th + h) -> P d.
+    Proof. intros d s0 th H1 H2 H3. exact (HCS d s0 th H1 H2 H3). Qed.
+
+    Lemma rel4 : lb < o -> bst n = Some o ->
+      (exists e, dd_best_exact_value inp m = Some e /\ o <= e) \/
+      (exists x ox, In x (drain_cutset inp m) /\ bst x = Some ox /\ o <= ox) \/ P (S (sp_depth n)).
+    Proof.
+      intros Hlb Hb.
+      exact (R4 st_eqb st_eqb_spec inp cfg_clean cfg_nodom cfg_nocut cfg_width eq_refl Hd nv_static nv_some nv_none
+               cov cov_refl cov_sim merge_cov relax_ge rub_adm B HB3 B_nonneg (gguard3 n Hg) 0%nat 0%nat c ds polls m (lenC c Hl) Hc
+               o Hlb P Hanti HCS' Hb).
+    Qed.
+
+    Lemma rel3 x ox : lb < o -> In x (drain_cutset inp m) -> bst x = Some ox -> o <= ox -> ox <= sp_ub x \/ P (S (sp_depth x)).
+    Proof.
+      intros Hlb Hx Hb Hle.
+      exact (R3 st_eqb st_eqb_spec inp cfg_clean cfg_nodom cfg_nocut cfg_width eq_refl Hd nv_static nv_some nv_none
+               cov cov_refl cov_sim merge_cov relax_ge rub_adm B HB3 B_nonneg (gguard3 n Hg) 0%nat 0%nat c ds polls m (lenC c Hl) Hc
+               o Hlb P Hanti HCS' x ox Hx Hb Hle).
+    Qed.
+
+    Lemma rel2 : lb < o -> dd_is_exact m = true -> bst n = Some o ->
+      (exists e, dd_best_exact_value inp m = Some e /\ o <= e) \/ P (S (sp_depth n)).
+    Proof.
+      intros Hlb Hex Hb.
+      exact (R2 st_eqb st_eqb_spec inp cfg_clean cfg_nodom cfg_nocut cfg_width eq_refl Hd nv_static nv_some nv_none
+               cov cov_refl cov_sim merge_cov relax_ge rub_adm B HB3 B_nonneg (gguard3 n Hg) 0%nat 0%nat c ds polls m (lenC c Hl) Hc
+               o Hlb P Hanti HCS' Hex Hb).
+    Qed.
+
+    Lemma relW d s0 th : entry st_eqb (m_cache m) d s0 th -> crit cfg o d s0 (th_value th) ->
+      entry st_eqb c d s0 th \/ o <= bk_of inp m \/ P (S d) \/
+      (dd_is_exact m = false /\
+       exists x ox, In x (drain_cutset inp m) /\ bst x = Some ox /\ o <= ox /\
+         ((d < sp_depth x)%nat \/ (sp_depth x = d /\ sp_state x = s0 /\ must_explore_th (Some th) (sp_value x) = true))).
+    Proof.
+      intros He Hcr.
+      destruct (Z_lt_le_dec lb o) as [Hlb|Hge].
+      - exact (RW st_eqb st_eqb_spec inp cfg_clean cfg_nodom cfg_nocut cfg_width eq_refl Hd nv_static nv_some nv_none
+                 cov cov_refl cov_sim merge_cov relax_ge rub_adm B HB3 B_nonneg (gguard3 n Hg) 0%nat 0%nat c ds polls m (lenC c Hl) Hc
+                 o (good_opt n o Hg Ho) Hlb P Hanti HCS' d s0 th He Hcr).
+      - right; left. unfold bk_of. cbn [mk_input ci_best_lb]. destruct (m_best_exact m); lia.
+    Qed.
+  End Rel.
+  Lemma rx_mk n lb : rx (mk_input cfg Restricted n lb) = mk_input cfg Relaxed n lb.
+  Proof. reflexivity. Qed.
+
+  Theorem KC_cache_strong : KC_cache st_eqb cfg.
+  Proof.
+    split; [|split; [|split]].
+    - (* exact diagrams *)
+      intros ct n lb c ds polls m out Hct Hg Hd Hl Hc Hex o P Ho Hanti Hb Hlb HCS.
+      pose proof (compiled ct n lb c ds polls m out Hd Hl Hc) as ->.
+      destruct Hct as [->| ->].
+      + destruct (restricted_facts st_eqb st_eqb_spec (mk_input cfg Restricted n lb) cfg_clean cfg_nodom cfg_nocut cfg_width
+                    eq_refl Hd nv_some nv_none 0%nat 0%nat c ds polls m (lenC c Hl) Hc) as [Hebp _].
+        assert (Hme : m_is_exact m = true).
+        { unfold dd_is_exact in Hex. rewrite Hebp, orb_false_r in Hex. exact Hex. }
+        destruct (restricted_exact_twin st_eqb st_eqb_spec (mk_input cfg Restricted n lb) cfg_clean eq_refl 0%nat c ds polls m Hc Hme)
+          as [e Ht].
+        rewrite rx_mk in Ht.
+        assert (Hex' : dd_is_exact (with_ebp m e) = true).
+        { unfold dd_is_exact. cbn [with_ebp m_is_exact m_has_ebp]. rewrite Hme. reflexivity. }
+        pose proof (rel2 n lb c ds polls (with_ebp m e) Hg Hd Hl Ht o P) as R.
+        assert (R' : (exists e0, dd_best_exact_value (mk_input cfg Relaxed n lb) (with_ebp m e) = Some e0 /\ o <= e0) \/ P (S (sp_depth n)))
+          by (apply R; auto; lia).
+        destruct R' as [H1|H1]; [left; exact H1|right; exact H1].
+      + pose proof (rel2 n lb c ds polls m Hg Hd Hl Hc o P) as R. apply R; auto. lia.
+    - (* upper bounds of the cut-set *)
+      intros n lb c ds polls m out Hg Hd Hl Hc Hex x Hx o P Ho Hanti Hb Hlb HCS.
+      pose proof (compiled Relaxed n lb c ds polls m out Hd Hl Hc) as ->.
+      pose proof (rel3 n lb c ds polls m Hg Hd Hl Hc o P) as R.
+      apply (R Hanti HCS x o); auto; lia.
+    - (* inexact relaxed diagrams *)
+      intros n lb c ds polls m out Hg Hd Hl Hc Hex o P Ho Hanti Hb Hlb HCS.
+      pose proof (compiled Relaxed n lb c ds polls m out Hd Hl Hc) as ->.
+      pose proof (rel4 n lb c ds polls m Hg Hd Hl Hc o P) as R. apply R; auto. lia.
+    - (* the cache *)
+      intros ct n lb c ds polls m out Hct Hg Hd Hl Hc o P Ho Hanti HCS d s0 th He Hcr.
+      pose proof (compiled ct n lb c ds polls m out Hd Hl Hc) as ->.
+      destruct Hct as [->| ->].
+      + destruct (restricted_facts st_eqb st_eqb_spec (mk_input cfg Restricted n lb) cfg_clean cfg_nodom cfg_nocut cfg_width
+                    eq_refl Hd nv_some nv_none 0%nat 0%nat c ds polls m (lenC c Hl) Hc) as [Hebp Hcache].
+        destruct (m_is_exact m) eqn:Eme.
+        * destruct (restricted_exact_twin st_eqb st_eqb_spec (mk_input cfg Restricted n lb) cfg_clean eq_refl 0%nat c ds polls m Hc Eme)
+            as [e Ht].
+          rewrite rx_mk in Ht.
+          pose proof (relW n lb c ds polls (with_ebp m e) Hg Hd Hl Ht o P Ho Hanti HCS d s0 th He Hcr) as R.
+          destruct R as [H1|[H1|[H1|(Hnex & _)]]].
+          -- left. exact H1.
+          -- right; left. exact H1.
+          -- right; right; left. exact H1.
+          -- exfalso. unfold dd_is_exact in Hnex. cbn [with_ebp m_is_exact m_has_ebp] in Hnex. rewrite Eme in Hnex. discriminate.
+        * left. unfold entry in He |- *. rewrite (Hcache eq_refl) in He. exact He.
+      + pose proof (relW n lb c ds polls m Hg Hd Hl Hc o P Ho Hanti HCS d s0 th He Hcr) as R.
+        destruct R as [H1|[H1|[H1|(Hnex & Hx)]]]; auto.
+        right; right; right. split; [reflexivity|]. split; [exact Hnex|exact Hx].
+  Qed.
+End CacheHolds.
+
+(* ================================================================== 15. the theorems *)
+Definition cache_off {St} (cfg : @sconfig St) : @sconfig St :=
+  {| sc_flavour := sc_flavour cfg; sc_problem := sc_problem cfg; sc_relax := sc_relax cfg;
+     sc_ranking := sc_ranking cfg; sc_domcmp := sc_domcmp cfg; sc_domrule := sc_domrule cfg; sc_width := sc_width cfg;
+     sc_use_cache := false; sc_nodup := sc_nodup cfg; sc_cutoff := sc_cutoff cfg |}.
+
+Section C09.
+  Context {St : Type}.
+  Variable st_eqb : St -> St -> bool.
+  Hypothesis st_eqb_spec : forall a b, st_eqb a b = true <-> a = b.
+  Variable cfg : @sconfig St.
+  Local Notation pb := (sc_problem cfg).
+  Local Notation rlx := (sc_relax cfg).
+  Local Notation N := (nb_vars (sc_problem cfg)).
+  (* ---- configuration: clean flavour, THE CACHE ON, no dominance rule, SimpleFringe, width >= 1, no cutoff *)
+  Hypothesis cfg_clean : sc_flavour cfg = CleanLEL \/ sc_flavour cfg = CleanFC.
+  Hypothesis cfg_cache : sc_use_cache cfg = true.
+  Hypothesis cfg_nodom : sc_domrule cfg = None.
+  Hypothesis cfg_nodup : sc_nodup cfg = false.
+  Hypothesis cfg_width : (1 <= sc_width cfg)%nat.
+  Hypothesis cfg_nocut : sc_cutoff cfg = 0%nat.
+  (* ---- the user's model *)
+  Hypothesis nv_static : forall k l1 l2, next_variable pb k l1 = next_variable pb k l2.
+  Hypothesis nv_some : forall k l, (k < N)%nat -> exists x, next_variable pb k l = Some x.
+  Hypothesis nv_none : forall k l, (N <= k)%nat -> next_variable pb k l = None.
+  Hypothesis Hwf : wf_relaxation cfg.
+  Variable D : nat.
+  Hypothesis dom_bound : forall x s, (length (domain pb x s) <= D)%nat.
+  Variable B : Z.
+  Hypothesis HB3 : 3 * B <= IMAX.
+  Hypothesis guard0 : forall ds s' v', frun pb 0 (init_state pb) (init_value pb) ds = Some (s', v') -> - B <= v' <= B.
+
+  Lemma B_nonneg0 : 0 <= B.
+  Proof. pose proof (guard0 [] (init_state pb) (init_value pb) eq_refl). lia. Qed.
+  Lemma HB2' : 2 * B <= IMAX.
+  Proof. pose proof B_nonneg0. lia. Qed.
+
+  (* the semantic contract, for a relaxation whose relax returns machine integers, through the clipped relaxation *)
+  Lemma KC_cache_clip :
+    (forall s d, in_isize (transition_cost pb s (transition pb s d) d)) ->
+    (forall src dst mg d c, in_isize c -> in_isize (relax rlx src dst mg d c)) ->
+    KC_cache st_eqb (clip_cfg cfg) -> KC_cache st_eqb cfg.
+  Proof.
+    intros cost_isize relax_isize (C2 & C3 & C4 & CW).
+    pose proof (clip_compile_cfg st_eqb cfg cfg_clean cost_isize relax_isize) as Hclip.
+    split; [|split; [|split]].
+    - intros ct n lb c ds polls m out Hct Hg Hd Hl Hc. rewrite <- Hclip in Hc.
+      exact (C2 ct n lb c ds polls m out Hct Hg Hd Hl Hc).
+    - intros n lb c ds polls m out Hg Hd Hl Hc. rewrite <- Hclip in Hc.
+      exact (C3 n lb c ds polls m out Hg Hd Hl Hc).
+    - intros n lb c ds polls m out Hg Hd Hl Hc. rewrite <- Hclip in Hc.
+      exact (C4 n lb c ds polls m out Hg Hd Hl Hc).
+    - intros ct n lb c ds polls m out Hct Hg Hd Hl Hc. rewrite <- Hclip in Hc.
+      exact (CW ct n lb c ds polls m out Hct Hg Hd Hl Hc).
+  Qed.
+
+  Theorem KC_cache_holds : KC_cache st_eqb cfg.
+  Proof.
+    destruct Hwf as (cov & [((W1 & W2 & W3 & W4) & W5) | ((W1 & W2 & W3 & W4) & W5 & W6 & W7)]).
+    - exact (KC_cache_strong st_eqb st_eqb_spec cfg cfg_clean cfg_nodom cfg_nocut cfg_width nv_static nv_some nv_none
+               cov W1 W2 W3 W5 W4 B HB3 guard0).
+    - apply (KC_cache_clip W5 W6).
+      exact (KC_cache_strong st_eqb st_eqb_spec (clip_cfg cfg) cfg_clean cfg_nodom cfg_nocut cfg_width nv_static nv_some nv_none
+               cov W1 W2 W3 (clip_relax_ge cfg cfg_width W7) W4 B HB3 guard0).
+  Qed.
+
+  (* C09 at search level: the sequential solver with the threshold cache returns the optimum, with a feasible solution *)
+  Theorem C09_sequential_cache_optimal :
+    exists f0, forall fuel, (f0 <= fuel)%nat ->
+      let r := maximize st_eqb cfg fuel None in
+      r_crash r = false /\ r_outoffuel r = false /\ r_exact r = true /\ r_value r = opt_enum pb /\
+      (forall v, opt_enum pb = Some v ->
+         r_lb r = v /\ r_ub r = v /\
+         exists sol, r_sol r = Some (sort_by dec_var_cmp sol) /\ MddProgress.feasible pb sol v) /\
+      (opt_enum pb = None -> r_sol r = None /\ r_lb r = IMIN).
+  Proof.
+    exact (C09_from_contracts st_eqb cfg cfg_cache cfg_nodup nv_static nv_some nv_none B HB2' guard0 (Kbound cfg D)
+             (KC_struct_holds st_eqb st_eqb_spec cfg cfg_clean cfg_nodom cfg_nocut cfg_width nv_static nv_some nv_none
+                D dom_bound B HB2' guard0)
+             KC_cache_holds).
+  Qed.
+
+  (* ... hence the cache does not change the answer *)
+  Theorem C09_cache_does_not_change_the_answer :
+    exists f0, forall fuel, (f0 <= fuel)%nat ->
+      r_value (maximize st_eqb cfg fuel None) = r_value (maximize st_eqb (cache_off cfg) fuel None) /\
+      r_lb (maximize st_eqb cfg fuel None) = r_lb (maximize st_eqb (cache_off cfg) fuel None) /\
+      r_exact (maximize st_eqb cfg fuel None) = true /\ r_exact (maximize st_eqb (cache_off cfg) fuel None) = true.
+  Proof.
+    destruct C09_sequential_cache_optimal as [f1 H1].
+    destruct (C01_sequential_optimal st_eqb st_eqb_spec (cache_off cfg) cfg_clean eq_refl cfg_nodom cfg_nodup cfg_width
+                nv_static nv_some nv_none Hwf D dom_bound B HB2' guard0 cfg_nocut) as [f2 H2].
+    exists (Nat.max f1 f2). intros fuel Hf.
+    destruct (H1 fuel ltac:(lia)) as (_ & _ & A3 & A4 & A5 & A6).
+    destruct (H2 fuel ltac:(lia)) as (_ & _ & B3 & B4 & B5 & B6).
+    cbv zeta in *. cbn [cache_off sc_problem] in B4, B5, B6.
+    split; [rewrite A4, B4; reflexivity|]. split; [|split; assumption].
+    destruct (opt_enum pb) as [v|] eqn:Ev.
+    - destruct (A5 v eq_refl) as (-> & _). destruct (B5 v eq_refl) as (-> & _). reflexivity.
+    - destruct (A6 eq_refl) as (_ & ->). destruct (B6 eq_refl) as (_ & ->). reflexivity.
+  Qed.
+End C09.
+
+Local Open Scope Z_scope.
+
+(* ================================================================== 16. non-vacuity: the table family of TableWf.v, cache on *)
+Section TableC09.
+  Variable ti : tinst.
+  Variable C : Z.
+  Hypothesis Hwf : t_wf ti C.
+  Variable flv : flavour.
+  Hypothesis Hflv : flv = CleanLEL \/ flv = CleanFC.
+  Variable width : nat.
+  Hypothesis Hwidth : (1 <= width)%nat.
+  Hypothesis HB3 : 3 * tB ti C <= IMAX.
+
+  (* tb_sconfig ti flv (cache := TRUE) (nodup := false) (dominance := false) width 0 *)
+  Theorem C09_table_instances :
+    exists f0, forall fuel, (f0 <= fuel)%nat ->
+      let r := maximize tstate_eqb (tb_sconfig ti flv true false false width 0) fuel None in
+      r_crash r = false /\ r_outoffuel r = false /\ r_exact r = true /\ r_value r = opt_enum (t_problem ti) /\
+      (forall v, opt_enum (t_problem ti) = Some v ->
+         r_lb r = v /\ r_ub r = v /\
+         exists sol, r_sol r = Some (sort_by dec_var_cmp sol) /\ MddProgress.feasible (t_problem ti) sol v) /\
+      (opt_enum (t_problem ti) = None -> r_sol r = None /\ r_lb r = IMIN).
+  Proof.
+    destruct (table_premises ti C Hwf flv Hflv width Hwidth 0%nat)
+      as (P1 & P2 & P3 & P4 & P5 & P6 & P7 & P8 & P9 & P10 & P11 & P12 & P13).
+    exact (C09_sequential_cache_optimal tstate_eqb P1 (tb_sconfig ti flv true false false width 0) P2 eq_refl P4 P5 P6 eq_refl
+             P7 P8 P9 P10 (length (t_trans ti)) P11 (tB ti C) HB3 P13).
+  Qed.
+
+  Theorem C09_table_cache_does_not_change_the_answer :
+    exists f0, forall fuel, (f0 <= fuel)%nat ->
+      r_value (maximize tstate_eqb (tb_sconfig ti flv true false false width 0) fuel None) =
+      r_value (maximize tstate_eqb (tb_sconfig ti flv false false false width 0) fuel None).
+  Proof.
+    destruct (table_premises ti C Hwf flv Hflv width Hwidth 0%nat)
+      as (P1 & P2 & P3 & P4 & P5 & P6 & P7 & P8 & P9 & P10 & P11 & P12 & P13).
+    destruct (C09_cache_does_not_change_the_answer tstate_eqb P1 (tb_sconfig ti flv true false false width 0) P2 eq_refl P4 P5 P6 eq_refl
+                P7 P8 P9 P10 (length (t_trans ti)) P11 (tB ti C) HB3 P13) as [f0 Hf].
+    exists f0. intros fuel Hfuel. exact (proj1 (Hf fuel Hfuel)).
+  Qed.
+End TableC09.
+
+(* an instance on which the cache does prune: 5 variables, 2 base states, width 1, last-exact-layer cut-sets *)
+Definition c9_ti : tinst := {|
+  t_nvars := 5; t_nbase := 2; t_init := 0; t_initval := 1; t_slack := 0; t_rubkind := 0; t_domkind := 0;
+  t_usevalue := false; t_ncoord := 0; t_order := [0; 1; 2; 3; 4]%nat;
+  t_trans := [ (0%nat,0,0,1,2); (0%nat,0,1,0,7); (0%nat,1,0,1,-4); (1%nat,0,1,0,-3); (1%nat,1,1,1,8);
+               (2%nat,0,0,1,-2); (2%nat,0,0,0,0); (2%nat,0,1,1,1); (2%nat,1,0,1,4);
+               (3%nat,0,0,1,0); (3%nat,0,0,0,-2); (4%nat,0,0,1,-1); (4%nat,0,0,0,-3); (4%nat,1,1,1,7) ];
+  t_notimp := []; t_rub := []; t_key := []; t_coords := []; t_mergekind := 0; t_pos := []; t_up := [] |}.
+
+Example c9_wf : t_wf c9_ti 8.
+Proof. apply t_wfb_spec. vm_compute. reflexivity. Qed.
+
+Example c9_opt : opt_enum (t_problem c9_ti) = Some 12.
+Proof. vm_compute. reflexivity. Qed.
+
+Example c9_guard : 3 * tB c9_ti 8 <= IMAX.
+Proof. vm_compute. intros H. discriminate H. Qed.
+
+(* by the theorem ... *)
+Example c9_C09 :
+  exists f0, forall fuel, (f0 <= fuel)%nat ->
+    let r := maximize tstate_eqb (tb_sconfig c9_ti CleanLEL true false false 1 0) fuel None in
+    r_crash r = false /\ r_outoffuel r = false /\ r_exact r = true /\
+    r_value r = Some 12 /\ r_lb r = 12 /\ r_ub r = 12 /\
+    r_value r = r_value (maximize tstate_eqb (tb_sconfig c9_ti CleanLEL false false false 1 0) fuel None).
+Proof.
+  destruct (C09_table_instances c9_ti 8 c9_wf CleanLEL (or_introl eq_refl) 1 (le_n 1) c9_guard) as [f1 H1].
+  destruct (C09_table_cache_does_not_change_the_answer c9_ti 8 c9_wf CleanLEL (or_introl eq_refl) 1 (le_n 1) c9_guard) as [f2 H2].
+  exists (Nat.max f1 f2). intros fuel Hfuel.
+  destruct (H1 fuel ltac:(lia)) as (A1 & A2 & A3 & A4 & A5 & _).
+  rewrite c9_opt in A4. destruct (A5 12 c9_opt) as (B1 & B2 & _). cbv zeta.
+  split; [exact A1|]. split; [exact A2|]. split; [exact A3|]. split; [exact A4|]. split; [exact B1|]. split; [exact B2|].
+  exact (H2 fuel ltac:(lia)).
+Qed.
+
+(* ... and by running the executable model: the same optimum, the cache prunes (3 sub-problems explored instead of 4),
+   and the executable audit of section 3 (invariant of the search + conclusions of the contracts on the 4 compilations) passes *)
+Example c9_run :
+  (let r := maximize tstate_eqb (tb_sconfig c9_ti CleanLEL true false false 1 0) 60 None in
+   (r_crash r, r_outoffuel r, r_exact r, r_value r, r_lb r, r_ub r, r_explored r),
+   let r := maximize tstate_eqb (tb_sconfig c9_ti CleanLEL false false false 1 0) 60 None in
+   (r_crash r, r_outoffuel r, r_exact r, r_value r, r_lb r, r_ub r, r_explored r),
+   audit tstate_eqb (tb_sconfig c9_ti CleanLEL true false false 1 0) 60)
+  = ((false, false, true, Some 12, 12, 12, 3%nat), (false, false, true, Some 12, 12, 12, 4%nat), Some (true, 4%nat, 3%nat)).
+Proof. vm_compute. reflexivity. Qed.
+
+Example c9_cache_prunes :
+  (r_explored (maximize tstate_eqb (tb_sconfig c9_ti CleanLEL true false false 1 0) 60 None) <
+   r_explored (maximize tstate_eqb (tb_sconfig c9_ti CleanLEL false false false 1 0) 60 None))%nat.
+Proof. apply Nat.ltb_lt. vm_compute. reflexivity. Qed.
+
+(* ================================================================== the results *)
+Check @seq_cache_solver_correct.
+Check @C09_from_contracts.
+Check @KC_struct_holds.
+Check @KC_cache_holds.
+Check @C09_sequential_cache_optimal.
+Check @C09_cache_does_not_change_the_answer.
+Check @C09_table_instances.
+Print Assumptions C09_from_contracts.
+Print Assumptions KC_struct_holds.
+Print Assumptions KC_cache_holds.
+Print Assumptions C09_sequential_cache_optimal.
+Print Assumptions C09_cache_does_not_change_the_answer.
+Print Assumptions C09_table_instances.
+Print Assumptions c9_C09.
